@@ -1,266 +1,266 @@
 pub fn case_0(vars: &Vars) -> InferredGoal<DU, DE, Goal<DU, DE>> {
     let qa = vars.v[0].clone();
     let qb = vars.v[1].clone();
-    let coll0: Vec<LT> = vec![lterm!(2), lterm!([2]), lterm!([1])];
-    proto_vulcan!([qa != [_, 1, 3], for e in &coll0 { |x| { e == [2 | 2], false, qb == true } }])
+    let coll0: LT = LT::from_vec(vec![lterm!(2), lterm!([2]), lterm!([1])]);
+    proto_vulcan!([for e in &coll0 { |x| { 2 == qb, qb == [[], qb], [true, _] != qb } }])
 }
 pub fn case_1(vars: &Vars) -> InferredGoal<DU, DE, Goal<DU, DE>> {
     let qa = vars.v[0].clone();
     let qb = vars.v[1].clone();
     let coll0: Vec<LT> = vec![lterm!([2]), lterm!(2)];
-    proto_vulcan!([|t| { true, [t] == 1, qa == [true, [qb, 2, 'a' | 2], [t, t | qb] | qb] }, for e in &coll0 { append(qb, qa, [3, 3]) }])
+    proto_vulcan!([|t| { true, [t, []] == qb, qb == _ }, for e in &coll0 { append(qb, qa, [3, 3]) }])
 }
 pub fn case_2(vars: &Vars) -> InferredGoal<DU, DE, Goal<DU, DE>> {
     let qa = vars.v[0].clone();
     let qb = vars.v[1].clone();
     let coll0: Vec<LT> = vec![lterm!(3), lterm!(2)];
-    proto_vulcan!([qa != [qb], for e in &coll0 { member(qa, [1]), |h| { e == [[], qb | qb], _ == h, qa == [[], 2, 2] } }])
+    proto_vulcan!([[[], qa, 1] == qb, for e in &coll0 { member(qa, [1]), |h| { [1] == qa, |tz| { tz == [3, 3], [1 | tz] != [1, 3, 3] }, qa == [[], 2, 2] } }])
 }
 pub fn case_3(vars: &Vars) -> InferredGoal<DU, DE, Goal<DU, DE>> {
     let qa = vars.v[0].clone();
     let qb = vars.v[1].clone();
-    let coll0: Vec<LT> = vec![lterm!(1)];
-    proto_vulcan!([[3 | _] == qb, for e in &coll0 { [[] | e] != e }])
+    let coll0: LT = LT::from_vec(vec![lterm!(1)]);
+    proto_vulcan!([for e in &coll0 { 3 != [[1], 1, [[], [], 3 | e] | _] }])
 }
 pub fn case_4(vars: &Vars) -> InferredGoal<DU, DE, Goal<DU, DE>> {
     let qa = vars.v[0].clone();
     let qb = vars.v[1].clone();
     let coll0: Vec<LT> = vec![];
-    proto_vulcan!([[member(qa, [2, 1, 3]), true], for e in &coll0 { |z| { [z, [[], "a"] | qb] != e, [] == z, [[_, qb, 2], [z] | 2] == qb } }])
+    proto_vulcan!([for e in &coll0 { |z| { |tz| { tz == [2, 1], [2, 2, 1] != [2 | tz] }, qa == [[qb, z, false], [], [1, 1, 1]], false } }])
 }
 pub fn case_5(vars: &Vars) -> InferredGoal<DU, DE, Goal<DU, DE>> {
     let qa = vars.v[0].clone();
     let qb = vars.v[1].clone();
-    let coll0: Vec<LT> = vec![lterm!(3)];
-    proto_vulcan!([for e in &coll0 { |z, x| { [[1, _, [] | qb]] == 3, [[3, _], [2, z]] == qa }, qb == [2, 2] }])
+    let coll0: LT = LT::from_vec(vec![lterm!(3)]);
+    proto_vulcan!([qa != [1, qb], for e in &coll0 { |z, x| { ["a", 1, _] == x, 3 == x }, e == [e, e] }])
 }
 pub fn case_6(vars: &Vars) -> InferredGoal<DU, DE, Goal<DU, DE>> {
     let qa = vars.v[0].clone();
     let qb = vars.v[1].clone();
     let coll0: Vec<LT> = vec![];
-    proto_vulcan!([["bc", []] == qb, for e in &coll0 { qa == [1], conde { member(e, [1]), [true, member(e, [2, 2, 2])], 3 == qb } }])
+    proto_vulcan!([|tz| { [2, 2, 2] != [2, 2 | tz], tz == [2] }, for e in &coll0 { qb == [1, 3], _ == [[qb, _, qb], qb, e] }])
 }
 pub fn case_7(vars: &Vars) -> InferredGoal<DU, DE, Goal<DU, DE>> {
     let qa = vars.v[0].clone();
     let qb = vars.v[1].clone();
-    let coll0: Vec<LT> = vec![lterm!(3)];
-    proto_vulcan!([[_, 2, 2] != qa, for e in &coll0 { [e, e] == qb }])
+    let coll0: LT = LT::from_vec(vec![lterm!(3)]);
+    proto_vulcan!([for e in &coll0 { ["a", e | qa] == [2, [e, [], []]] }])
 }
 pub fn case_8(vars: &Vars) -> InferredGoal<DU, DE, Goal<DU, DE>> {
     let qa = vars.v[0].clone();
     let qb = vars.v[1].clone();
-    let coll0: Vec<LT> = vec![lterm!(3), lterm!(3), qa.clone()];
-    proto_vulcan!([qb == qa, for e in &coll0 { member(qa, [3, 1, 1]), [[[], 1] | e] == 2 }])
+    let coll0: LT = LT::from_vec(vec![lterm!(3), lterm!(3), qa.clone()]);
+    proto_vulcan!([for e in &coll0 { member(qa, [3, 1, 1]), [3, false | _] == e }])
 }
 pub fn case_9(vars: &Vars) -> InferredGoal<DU, DE, Goal<DU, DE>> {
     let qa = vars.v[0].clone();
     let qb = vars.v[1].clone();
-    let coll0: Vec<LT> = vec![qb.clone(), lterm!(3), lterm!(1)];
-    proto_vulcan!([for e in &coll0 { qb != [qa | _], e == 2 }])
+    let coll0: LT = LT::from_vec(vec![qb.clone(), lterm!(3), lterm!(1)]);
+    proto_vulcan!([[false, member(qa, [1, 1])], for e in &coll0 { 'b' == [["bc" | _], [e, e] | qb], |t| { [[2, false]] == "bc", e != [_, [], []] } }])
 }
 pub fn case_10(vars: &Vars) -> InferredGoal<DU, DE, Goal<DU, DE>> {
     let qa = vars.v[0].clone();
     let qb = vars.v[1].clone();
     let coll0: Vec<LT> = vec![lterm!(3), lterm!(3)];
-    proto_vulcan!([append(qa, qa, [3, 3]), for e in &coll0 { conde { qb == [qa], _ == e, [qb == qa, qb == e] } }])
+    proto_vulcan!([conde { qb == qa, [qb == 1, append(qb, qb, [1])], [false, qa != [2, [qb, 2, 3]]] }, for e in &coll0 { conde { [[2, _, []], [3]] == e, [qa != qb, qb == [1]], qb == [[[], qb] | qa] } }])
 }
 pub fn case_11(vars: &Vars) -> InferredGoal<DU, DE, Goal<DU, DE>> {
     let qa = vars.v[0].clone();
     let qb = vars.v[1].clone();
-    let coll0: Vec<LT> = vec![lterm!(2)];
-    proto_vulcan!([for e in &coll0 { [] != qb }])
+    let coll0: LT = LT::from_vec(vec![lterm!(2)]);
+    proto_vulcan!([for e in &coll0 { e == [2, 1, [] | 1] }])
 }
 pub fn case_12(vars: &Vars) -> InferredGoal<DU, DE, Goal<DU, DE>> {
     let qa = vars.v[0].clone();
     let qb = vars.v[1].clone();
     let coll0: Vec<LT> = vec![lterm!([1]), qb.clone()];
-    proto_vulcan!([for e in &coll0 { |t| { [] == e } }])
+    proto_vulcan!([for e in &coll0 { |t| { e == [[t, []], [qa, 1, 2], [e, 1, 3] | e] } }])
 }
 pub fn case_13(vars: &Vars) -> InferredGoal<DU, DE, Goal<DU, DE>> {
     let qa = vars.v[0].clone();
     let qb = vars.v[1].clone();
     let coll0: Vec<LT> = vec![lterm!(2), lterm!(1)];
-    proto_vulcan!([qb == qb, for e in &coll0 { [2, qb] == e }])
+    proto_vulcan!([|y| { qa == 1, y != 2, y == 1 }, for e in &coll0 { qb == qb }])
 }
 pub fn case_14(vars: &Vars) -> InferredGoal<DU, DE, Goal<DU, DE>> {
     let qa = vars.v[0].clone();
     let qb = vars.v[1].clone();
     let coll0: Vec<LT> = vec![];
-    proto_vulcan!([qb != [2 | qb], for e in &coll0 { [[qa, []]] != [_ | e] }])
+    proto_vulcan!([[true], for e in &coll0 { qa == qa }])
 }
 pub fn case_15(vars: &Vars) -> InferredGoal<DU, DE, Goal<DU, DE>> {
     let qa = vars.v[0].clone();
     let qb = vars.v[1].clone();
     let coll0: Vec<LT> = vec![lterm!(2), qa.clone()];
-    proto_vulcan!([for e in &coll0 { |y| { qb != e, member(y, [3, 3, 3]) } }])
+    proto_vulcan!([for e in &coll0 { |y| { 2 == qa, _ == [2] } }])
 }
 pub fn case_16(vars: &Vars) -> InferredGoal<DU, DE, Goal<DU, DE>> {
     let qa = vars.v[0].clone();
     let qb = vars.v[1].clone();
     let coll0: Vec<LT> = vec![];
-    proto_vulcan!([for e in &coll0 { |x, t| { true, [qb, 3, x] == e, member(t, []) } }])
+    proto_vulcan!([true, for e in &coll0 { |x, t| { true, e == [3, t], [[2], [] | x] != t } }])
 }
 pub fn case_17(vars: &Vars) -> InferredGoal<DU, DE, Goal<DU, DE>> {
     let qa = vars.v[0].clone();
     let qb = vars.v[1].clone();
-    let coll0: Vec<LT> = vec![qa.clone()];
-    proto_vulcan!([qb == [[qb, qa], [2, _ | qb], qa], for e in &coll0 { |z| { 1 == [1] } }])
+    let coll0: LT = LT::from_vec(vec![qa.clone()]);
+    proto_vulcan!([for e in &coll0 { |z| { qa == z } }])
 }
 pub fn case_18(vars: &Vars) -> InferredGoal<DU, DE, Goal<DU, DE>> {
     let qa = vars.v[0].clone();
     let qb = vars.v[1].clone();
     let coll0: Vec<LT> = vec![qa.clone(), qb.clone()];
-    proto_vulcan!([for e in &coll0 { [[_, 1], [qa, qb]] == 1 }])
+    proto_vulcan!([for e in &coll0 { qb == [[qa, 2 | qb]] }])
 }
 pub fn case_19(vars: &Vars) -> InferredGoal<DU, DE, Goal<DU, DE>> {
     let qa = vars.v[0].clone();
     let qb = vars.v[1].clone();
     let coll0: Vec<LT> = vec![lterm!(2), lterm!(3)];
-    proto_vulcan!([for e in &coll0 { [[3] != e] }])
+    proto_vulcan!([for e in &coll0 { [e == 3] }])
 }
 pub fn case_20(vars: &Vars) -> InferredGoal<DU, DE, Goal<DU, DE>> {
     let qa = vars.v[0].clone();
     let qb = vars.v[1].clone();
     let coll0: Vec<LT> = vec![];
-    proto_vulcan!([for e in &coll0 { conde { false, qa == 1, 2 != [1] } }])
+    proto_vulcan!([|t, z| { member(qb, [1, 3]), z == [z, [], z] }, for e in &coll0 { conde { false, [qb | e] != qb, [[[], qa] == qb, append(qa, e, [])] } }])
 }
 pub fn case_21(vars: &Vars) -> InferredGoal<DU, DE, Goal<DU, DE>> {
     let qa = vars.v[0].clone();
     let qb = vars.v[1].clone();
     let coll0: Vec<LT> = vec![lterm!([2]), qa.clone()];
-    proto_vulcan!([qb == [1, 2, 1], for e in &coll0 { 1 == e, qa == qb }])
+    proto_vulcan!([for e in &coll0 { qa == [[], e, qa], _ == e }])
 }
 pub fn case_22(vars: &Vars) -> InferredGoal<DU, DE, Goal<DU, DE>> {
     let qa = vars.v[0].clone();
     let qb = vars.v[1].clone();
     let coll0: Vec<LT> = vec![];
-    proto_vulcan!([[qb, 2, 2 | qb] != qa, for e in &coll0 { [[qb, 2, e], [e | 2], false | e] == qb }])
+    proto_vulcan!([for e in &coll0 { [_] == qa }])
 }
 pub fn case_23(vars: &Vars) -> InferredGoal<DU, DE, Goal<DU, DE>> {
     let qa = vars.v[0].clone();
     let qb = vars.v[1].clone();
     let coll0: Vec<LT> = vec![lterm!(3), lterm!(1)];
-    proto_vulcan!([for e in &coll0 { |y| { [[false, 3, y] | qa] != 3 } }])
+    proto_vulcan!([|x| { x != [qa, [[], qb, []], [qb, 2 | qa]], qb != [] }, for e in &coll0 { |y| { false == e } }])
 }
 pub fn case_24(vars: &Vars) -> InferredGoal<DU, DE, Goal<DU, DE>> {
     let qa = vars.v[0].clone();
     let qb = vars.v[1].clone();
-    let coll0: Vec<LT> = vec![lterm!(3)];
-    proto_vulcan!([qb == [], for e in &coll0 { 1 != [[1, _ | qb], [qa, 2]] }])
+    let coll0: LT = LT::from_vec(vec![lterm!(3)]);
+    proto_vulcan!([for e in &coll0 { qa == 2 }])
 }
 pub fn case_25(vars: &Vars) -> InferredGoal<DU, DE, Goal<DU, DE>> {
     let qa = vars.v[0].clone();
     let qb = vars.v[1].clone();
     let coll0: Vec<LT> = vec![lterm!(1), qa.clone()];
-    proto_vulcan!([for e in &coll0 { |h, t| { qb == [2, [], []] }, |y, t| { [2, t] == qb, qa == t } }])
+    proto_vulcan!([for e in &coll0 { |h, t| { t == ['b'] }, |y, t| { ['a', y] == qa, qa == [[2], ['a', [], "bc"], _ | qb] } }])
 }
 pub fn case_26(vars: &Vars) -> InferredGoal<DU, DE, Goal<DU, DE>> {
     let qa = vars.v[0].clone();
     let qb = vars.v[1].clone();
     let coll0: Vec<LT> = vec![lterm!(3), qa.clone()];
-    proto_vulcan!([for e in &coll0 { 'a' == [qa, 1, []] }])
+    proto_vulcan!([qa == [qb, _, 1], for e in &coll0 { ["bc" | qa] == qb }])
 }
 pub fn case_27(vars: &Vars) -> InferredGoal<DU, DE, Goal<DU, DE>> {
     let qa = vars.v[0].clone();
     let qb = vars.v[1].clone();
-    let coll0: Vec<LT> = vec![lterm!([2]), lterm!([1]), lterm!(2)];
-    proto_vulcan!([for e in &coll0 { [[2, qa, e] | 3] == qb, 3 == [1, "a"] }])
+    let coll0: LT = LT::from_vec(vec![lterm!([2]), lterm!([1]), lterm!(2)]);
+    proto_vulcan!([for e in &coll0 { qa != [qa, [2, qa, e] | 3], conde { true, [true, qb == e] } }])
 }
 pub fn case_28(vars: &Vars) -> InferredGoal<DU, DE, Goal<DU, DE>> {
     let qa = vars.v[0].clone();
     let qb = vars.v[1].clone();
-    let coll0: Vec<LT> = vec![qa.clone(), qa.clone(), qb.clone()];
-    proto_vulcan!([for e in &coll0 { [1, 1, 3] == qa }])
+    let coll0: LT = LT::from_vec(vec![qa.clone(), qa.clone(), qb.clone()]);
+    proto_vulcan!([for e in &coll0 { 1 != e }])
 }
 pub fn case_29(vars: &Vars) -> InferredGoal<DU, DE, Goal<DU, DE>> {
     let qa = vars.v[0].clone();
     let qb = vars.v[1].clone();
     let coll0: Vec<LT> = vec![lterm!([1]), lterm!(2)];
-    proto_vulcan!([for e in &coll0 { qb == [qb, _, 2] }])
+    proto_vulcan!([for e in &coll0 { qa == [[2], 3] }])
 }
 pub fn case_30(vars: &Vars) -> InferredGoal<DU, DE, Goal<DU, DE>> {
     let qa = vars.v[0].clone();
     let qb = vars.v[1].clone();
-    let coll0: Vec<LT> = vec![lterm!(1), qb.clone(), lterm!(3)];
-    proto_vulcan!([for e in &coll0 { qa == e, append(qb, qb, []) }])
+    let coll0: LT = LT::from_vec(vec![lterm!(1), qb.clone(), lterm!(3)]);
+    proto_vulcan!([[2, qb, qa | qb] == [qa, _, ['a' | qa]], for e in &coll0 { qb != ['b', 2, 1], qb == [[qb]] }])
 }
 pub fn case_31(vars: &Vars) -> InferredGoal<DU, DE, Goal<DU, DE>> {
     let qa = vars.v[0].clone();
     let qb = vars.v[1].clone();
-    let coll0: Vec<LT> = vec![lterm!([1])];
-    proto_vulcan!([for e in &coll0 { conde { [[e] == qb, e == [[1, 3, 2], [[], e]]], [e == e, [qa] != qa], [[] == e, [1, qb, qb] == e] }, qb == [_, qa] }])
+    let coll0: LT = LT::from_vec(vec![lterm!([1])]);
+    proto_vulcan!([conde { [true, qa != qa], [[[false, 1, qb | qa], [3, [], 3], [qb, false, 2 | qb] | false] == [1, qa | qb], qa == qb], [2 != qa, qb == qa] }, for e in &coll0 { conde { [e != qb, false], [1, 3, 2] == qb, [member(e, [3]), true] }, e == e }])
 }
 pub fn case_32(vars: &Vars) -> InferredGoal<DU, DE, Goal<DU, DE>> {
     let qa = vars.v[0].clone();
     let qb = vars.v[1].clone();
-    let coll0: Vec<LT> = vec![qb.clone(), qb.clone(), lterm!(1)];
-    proto_vulcan!([qa == qa, for e in &coll0 { conde { [[e] == e, true], [[2] != qa, e == [qa, _]], qb != 2 } }])
+    let coll0: LT = LT::from_vec(vec![qb.clone(), qb.clone(), lterm!(1)]);
+    proto_vulcan!([for e in &coll0 { conde { [qb == e, [[], 1] != qb], [|tz| { [2, 2, 2] != [2 | tz], tz == [2, 2] }, [false, qa | qb] == e], [[[]], [1, 'a'], [_]] != [_, 2] } }])
 }
 pub fn case_33(vars: &Vars) -> InferredGoal<DU, DE, Goal<DU, DE>> {
     let qa = vars.v[0].clone();
     let qb = vars.v[1].clone();
-    let coll0: Vec<LT> = vec![lterm!(3), lterm!([2]), qa.clone()];
-    proto_vulcan!([|x, t| { false, [1, t, true | qa] == x }, for e in &coll0 { "a" == qb, e == qa }])
+    let coll0: LT = LT::from_vec(vec![lterm!(3), lterm!([2]), qa.clone()]);
+    proto_vulcan!([['b', [qa, 3 | qa], [1, 2 | qa]] == qa, for e in &coll0 { qb == _, false }])
 }
 pub fn case_34(vars: &Vars) -> InferredGoal<DU, DE, Goal<DU, DE>> {
     let qa = vars.v[0].clone();
     let qb = vars.v[1].clone();
-    let coll0: Vec<LT> = vec![qb.clone()];
-    proto_vulcan!([for e in &coll0 { [1, 1] == qb, qa == qb }])
+    let coll0: LT = LT::from_vec(vec![qb.clone()]);
+    proto_vulcan!([for e in &coll0 { qa == [[qb, qa, qa], _], conde { qa == [[qb, qb, qb], [false, e, 'a'], [2, _] | e], true, 1 == e } }])
 }
 pub fn case_35(vars: &Vars) -> InferredGoal<DU, DE, Goal<DU, DE>> {
     let qa = vars.v[0].clone();
     let qb = vars.v[1].clone();
     let coll0: Vec<LT> = vec![];
-    proto_vulcan!([for e in &coll0 { conde { [qa != [_, 'b' | qa], qa == [3 | e]], qb == [qb, qb, e] }, 3 == [] }])
+    proto_vulcan!([[qb, 1] != qb, for e in &coll0 { conde { [qa == [[qa, 3 | qa], [_, qa, qa | e], qb], qb == [qb, qb, e]], [3 == e, [qa] != qb] }, 1 == qa }])
 }
 pub fn case_36(vars: &Vars) -> InferredGoal<DU, DE, Goal<DU, DE>> {
     let qa = vars.v[0].clone();
     let qb = vars.v[1].clone();
-    let coll0: Vec<LT> = vec![qa.clone(), qb.clone(), lterm!([2])];
-    proto_vulcan!([for e in &coll0 { _ == qa, [qa] == _ }])
+    let coll0: LT = LT::from_vec(vec![qa.clone(), qb.clone(), lterm!([2])]);
+    proto_vulcan!([qa == qb, for e in &coll0 { 2 == e, [[_, qa] == qa, true] }])
 }
 pub fn case_37(vars: &Vars) -> InferredGoal<DU, DE, Goal<DU, DE>> {
     let qa = vars.v[0].clone();
     let qb = vars.v[1].clone();
-    let coll0: Vec<LT> = vec![lterm!([1])];
-    proto_vulcan!([[[qa, qa, qa]] != "a", for e in &coll0 { [qb, "a"] == qa }])
+    let coll0: LT = LT::from_vec(vec![lterm!([1])]);
+    proto_vulcan!([conde { [member(qb, []), |tz| { [3, 1 | tz] != [3, 1, 3, 2], tz == [3, 2] }], ["a", [[], 2, 2]] == [2, true, qa], [member(qb, [2, 1, 2]), qa == [qa, [qb, []] | qb]] }, for e in &coll0 { "a" == qb }])
 }
 pub fn case_38(vars: &Vars) -> InferredGoal<DU, DE, Goal<DU, DE>> {
     let qa = vars.v[0].clone();
     let qb = vars.v[1].clone();
     let coll0: Vec<LT> = vec![qb.clone(), lterm!([2])];
-    proto_vulcan!([member(qb, [2]), for e in &coll0 { |y, x| { [y, 'a'] == [_, ['a', qa, 1], [[], [], "bc"] | qa], x == qb, member(qb, [2, 1]) } }])
+    proto_vulcan!([for e in &coll0 { |y, x| { [_, 'a', []] != e, false, [qa, e, 3 | y] == y } }])
 }
 pub fn case_39(vars: &Vars) -> InferredGoal<DU, DE, Goal<DU, DE>> {
     let qa = vars.v[0].clone();
     let qb = vars.v[1].clone();
-    let coll0: Vec<LT> = vec![lterm!([2])];
-    proto_vulcan!([for e in &coll0 { "a" == qb, [1] == [[qa], 1] }])
+    let coll0: LT = LT::from_vec(vec![lterm!([2])]);
+    proto_vulcan!([for e in &coll0 { qb != [e, 1, e], qa == 1 }])
 }
 pub fn case_40(vars: &Vars) -> InferredGoal<DU, DE, Goal<DU, DE>> {
     let qa = vars.v[0].clone();
     let qb = vars.v[1].clone();
     let coll0: Vec<LT> = vec![];
-    proto_vulcan!([for e in &coll0 { qb == _, true }])
+    proto_vulcan!([[2, 2] == [[1, 2]], for e in &coll0 { 2 == e, qa != e }])
 }
 pub fn case_41(vars: &Vars) -> InferredGoal<DU, DE, Goal<DU, DE>> {
     let qa = vars.v[0].clone();
     let qb = vars.v[1].clone();
-    let coll0: Vec<LT> = vec![qa.clone(), lterm!(3), lterm!([2])];
-    proto_vulcan!([for e in &coll0 { qa == qb, qa == [1, 2, qa | e] }])
+    let coll0: LT = LT::from_vec(vec![qa.clone(), lterm!(3), lterm!([2])]);
+    proto_vulcan!([[[false, qb, qb], _ | qa] == qb, for e in &coll0 { qb == _, [qa, qa | qb] == qb }])
 }
 pub fn case_42(vars: &Vars) -> InferredGoal<DU, DE, Goal<DU, DE>> {
     let qa = vars.v[0].clone();
     let qb = vars.v[1].clone();
-    let coll0: Vec<LT> = vec![lterm!([2])];
-    proto_vulcan!([for e in &coll0 { [[qb], 3, [2, 3, e] | qa] == 2, qb == [qa, qb] }])
+    let coll0: LT = LT::from_vec(vec![lterm!([2])]);
+    proto_vulcan!([qb == [2], for e in &coll0 { e == [e, _, 3 | 2], |x| { x != 3 } }])
 }
 pub fn case_43(vars: &Vars) -> InferredGoal<DU, DE, Goal<DU, DE>> {
     let qa = vars.v[0].clone();
     let qb = vars.v[1].clone();
     let coll0: Vec<LT> = vec![];
-    proto_vulcan!([[qa, qb, 2] == qb, for e in &coll0 { [2, 2 | qb] != e }])
+    proto_vulcan!([for e in &coll0 { 2 == e }])
 }
 pub fn case_44(vars: &Vars) -> InferredGoal<DU, DE, Goal<DU, DE>> {
     let qa = vars.v[0].clone();
@@ -271,380 +271,380 @@ pub fn case_44(vars: &Vars) -> InferredGoal<DU, DE, Goal<DU, DE>> {
 pub fn case_45(vars: &Vars) -> InferredGoal<DU, DE, Goal<DU, DE>> {
     let qa = vars.v[0].clone();
     let qb = vars.v[1].clone();
-    let coll0: Vec<LT> = vec![lterm!(3), lterm!(3), lterm!(3)];
-    proto_vulcan!([for e in &coll0 { [[qb, e | 1] == qa, qb == e] }])
+    let coll0: LT = LT::from_vec(vec![lterm!(3), lterm!(3), lterm!(3)]);
+    proto_vulcan!([for e in &coll0 { [e == [qa, _, 3], qb == e] }])
 }
 pub fn case_46(vars: &Vars) -> InferredGoal<DU, DE, Goal<DU, DE>> {
     let qa = vars.v[0].clone();
     let qb = vars.v[1].clone();
     let coll0: Vec<LT> = vec![];
-    proto_vulcan!([for e in &coll0 { conde { qb == [_, 3], qb == [qa, 1, 'b'] }, |x| { e == [] } }])
+    proto_vulcan!([|tz| { [1, 1 | tz] != [1, 1, 2, 3], tz == [2, 3] }, for e in &coll0 { conde { qa == [e], [[qa, 1, 'b'] != [1, 1, "a"], qb != [[], [qb, 1, qb | e], [3, e]]] }, [[qa, 2 | 3] | e] == 1 }])
 }
 pub fn case_47(vars: &Vars) -> InferredGoal<DU, DE, Goal<DU, DE>> {
     let qa = vars.v[0].clone();
     let qb = vars.v[1].clone();
-    let coll0: Vec<LT> = vec![lterm!(2)];
-    proto_vulcan!([for e in &coll0 { qa != [qa, 1, 1] }])
+    let coll0: LT = LT::from_vec(vec![lterm!(2)]);
+    proto_vulcan!([for e in &coll0 { qa == [[1, e | qa], [qb, qb | e] | 1] }])
 }
 pub fn case_48(vars: &Vars) -> InferredGoal<DU, DE, Goal<DU, DE>> {
     let qa = vars.v[0].clone();
     let qb = vars.v[1].clone();
     let coll0: Vec<LT> = vec![qa.clone(), qa.clone()];
-    proto_vulcan!([[[]] == qb, for e in &coll0 { e == e, qa == 2 }])
+    proto_vulcan!([for e in &coll0 { "a" == [_, [[], 'b']], e == [[2, e, 1], 1, e] }])
 }
 pub fn case_49(vars: &Vars) -> InferredGoal<DU, DE, Goal<DU, DE>> {
     let qa = vars.v[0].clone();
     let qb = vars.v[1].clone();
-    let coll0: Vec<LT> = vec![lterm!(3), qa.clone(), qb.clone()];
+    let coll0: LT = LT::from_vec(vec![lterm!(3), qa.clone(), qb.clone()]);
     proto_vulcan!([for e in &coll0 { member(qa, []) }])
 }
 pub fn case_50(vars: &Vars) -> InferredGoal<DU, DE, Goal<DU, DE>> {
     let qa = vars.v[0].clone();
     let qb = vars.v[1].clone();
-    let coll0: Vec<LT> = vec![lterm!(2)];
-    proto_vulcan!([[_, qa] == qb, for e in &coll0 { e == [[e, 1, [] | qb] | e], [qa == qb, qa == e] }])
+    let coll0: LT = LT::from_vec(vec![lterm!(2)]);
+    proto_vulcan!([1 == [[qa], [qa, [], _], [2, 2, 'a' | qa]], for e in &coll0 { [3, [], [[], qa] | e] == 'b', |x, t| { qb == qb } }])
 }
 pub fn case_51(vars: &Vars) -> InferredGoal<DU, DE, Goal<DU, DE>> {
     let qa = vars.v[0].clone();
     let qb = vars.v[1].clone();
     let coll0: Vec<LT> = vec![];
-    proto_vulcan!([|y| { false, qb != [[1 | y]], "bc" != y }, for e in &coll0 { qa == [[3], [1, 3, 3], [_, _, 1]] }])
+    proto_vulcan!([for e in &coll0 { [[], 3, 3] != e }])
 }
 pub fn case_52(vars: &Vars) -> InferredGoal<DU, DE, Goal<DU, DE>> {
     let qa = vars.v[0].clone();
     let qb = vars.v[1].clone();
     let coll0: Vec<LT> = vec![];
-    proto_vulcan!([qb == [1], for e in &coll0 { qb == [2] }])
+    proto_vulcan!([for e in &coll0 { e == [_, 1] }])
 }
 pub fn case_53(vars: &Vars) -> InferredGoal<DU, DE, Goal<DU, DE>> {
     let qa = vars.v[0].clone();
     let qb = vars.v[1].clone();
     let coll0: Vec<LT> = vec![qa.clone(), qa.clone()];
-    proto_vulcan!([conde { [qa == qb, true], ["a", _, qa] != qa }, for e in &coll0 { [qa | qa] == e, [true | e] != e }])
+    proto_vulcan!([[_, _, qa] != qb, for e in &coll0 { [[false, []]] != [[_, "bc" | qb], [_, qb], [_] | e], [true] }])
 }
 pub fn case_54(vars: &Vars) -> InferredGoal<DU, DE, Goal<DU, DE>> {
     let qa = vars.v[0].clone();
     let qb = vars.v[1].clone();
     let coll0: Vec<LT> = vec![];
-    proto_vulcan!([|z| { [3] == qa, [[2], [], 1] != qa }, for e in &coll0 { |t, h| { qb == [[true, qb, 1 | h], [_, 2, h | qb] | 'b'] }, true }])
+    proto_vulcan!([for e in &coll0 { |t, h| { "a" == t }, |tz| { [1, 2, 1] != [1 | tz], tz == [2, 1] } }])
 }
 pub fn case_55(vars: &Vars) -> InferredGoal<DU, DE, Goal<DU, DE>> {
     let qa = vars.v[0].clone();
     let qb = vars.v[1].clone();
     let coll0: Vec<LT> = vec![];
-    proto_vulcan!([for e in &coll0 { e != [true, 2 | e] }])
+    proto_vulcan!([for e in &coll0 { 'a' == [qa] }])
 }
 pub fn case_56(vars: &Vars) -> InferredGoal<DU, DE, Goal<DU, DE>> {
     let qa = vars.v[0].clone();
     let qb = vars.v[1].clone();
     let coll0: Vec<LT> = vec![lterm!([2]), lterm!([1])];
-    proto_vulcan!([conde { qb == qb, [['b'] == qa, qb != [[true, 1, _ | _] | "a"]], qa != ["a", 1] }, for e in &coll0 { qb == e, [1, []] != qb }])
+    proto_vulcan!([[[] | qb] == qb, for e in &coll0 { [1, _] == e, [[1], [qa] | qa] != [1] }])
 }
 pub fn case_57(vars: &Vars) -> InferredGoal<DU, DE, Goal<DU, DE>> {
     let qa = vars.v[0].clone();
     let qb = vars.v[1].clone();
     let coll0: Vec<LT> = vec![lterm!(2), qb.clone()];
-    proto_vulcan!([member(qb, [2, 2]), for e in &coll0 { conde { [2 != ["bc", qb, _], false], [1 == [[2]], 1 == qa], qb == qb } }])
+    proto_vulcan!([for e in &coll0 { conde { [qb == [[], "bc", qb], 1 == qa], [|tz| { [2, 2, 1] != [2, 2 | tz], tz == [1] }, |tz| { [2, 3 | tz] != [2, 3, 2], tz == [2] }], true } }])
 }
 pub fn case_58(vars: &Vars) -> InferredGoal<DU, DE, Goal<DU, DE>> {
     let qa = vars.v[0].clone();
     let qb = vars.v[1].clone();
     let coll0: Vec<LT> = vec![lterm!([1]), qa.clone()];
-    proto_vulcan!([for e in &coll0 { [qb | 1] == qb }])
+    proto_vulcan!([for e in &coll0 { [qa, qb] == e }])
 }
 pub fn case_59(vars: &Vars) -> InferredGoal<DU, DE, Goal<DU, DE>> {
     let qa = vars.v[0].clone();
     let qb = vars.v[1].clone();
     let coll0: Vec<LT> = vec![];
-    proto_vulcan!([for e in &coll0 { qb == [_, ['a', true], [qa, e]] }])
+    proto_vulcan!([|z| { true, _ != qa, z == z }, for e in &coll0 { 3 != e }])
 }
 pub fn case_60(vars: &Vars) -> InferredGoal<DU, DE, Goal<DU, DE>> {
     let qa = vars.v[0].clone();
     let qb = vars.v[1].clone();
-    let coll0: Vec<LT> = vec![lterm!([2]), lterm!(1), lterm!(2)];
-    proto_vulcan!([for e in &coll0 { 1 == qb, |h| { [[] | h] != qb } }])
+    let coll0: LT = LT::from_vec(vec![lterm!([2]), lterm!(1), lterm!(2)]);
+    proto_vulcan!([for e in &coll0 { qb == [[]], [[], 'b', 1] == e }])
 }
 pub fn case_61(vars: &Vars) -> InferredGoal<DU, DE, Goal<DU, DE>> {
     let qa = vars.v[0].clone();
     let qb = vars.v[1].clone();
-    let coll0: Vec<LT> = vec![qa.clone(), qa.clone(), lterm!(2)];
-    proto_vulcan!([for e in &coll0 { conde { [[] != e, [e, 2, e | 3] == qb], e == [2, 2] } }])
+    let coll0: LT = LT::from_vec(vec![qa.clone(), qa.clone(), lterm!(2)]);
+    proto_vulcan!([false, for e in &coll0 { conde { [[[qb], [qb, e | qb], 'b'] == [[2], [e, e], [qa, qa, 2]], [qa, ['b'] | qb] == e], [false, append(e, qb, [2, 2])] } }])
 }
 pub fn case_62(vars: &Vars) -> InferredGoal<DU, DE, Goal<DU, DE>> {
     let qa = vars.v[0].clone();
     let qb = vars.v[1].clone();
-    let coll0: Vec<LT> = vec![lterm!(1), lterm!(3), lterm!([1])];
-    proto_vulcan!([|y, h| { member(qb, [2, 3]) }, for e in &coll0 { [true, [[2, qa], [true, 1 | qa] | qb] == [[[]]], [1 | 3] == e], [3, e, "bc" | e] == e }])
+    let coll0: LT = LT::from_vec(vec![lterm!(1), lterm!(3), lterm!([1])]);
+    proto_vulcan!([|t| { 3 == qa, 2 == qa, qa == [qb] }, for e in &coll0 { [true, qb != ["bc"], qa == qa], e == [['a', 2, qa], [], [true | qb]] }])
 }
 pub fn case_63(vars: &Vars) -> InferredGoal<DU, DE, Goal<DU, DE>> {
     let qa = vars.v[0].clone();
     let qb = vars.v[1].clone();
-    let coll0: Vec<LT> = vec![lterm!([2])];
-    proto_vulcan!([for e in &coll0 { e == [qb, qa], [[qa, e | _] == e, member(qb, [1, 1, 3]), qb == qb] }])
+    let coll0: LT = LT::from_vec(vec![lterm!([2])]);
+    proto_vulcan!([for e in &coll0 { [e, 1] == qb, [[e | _], 3] == e }])
 }
 pub fn case_64(vars: &Vars) -> InferredGoal<DU, DE, Goal<DU, DE>> {
     let qa = vars.v[0].clone();
     let qb = vars.v[1].clone();
-    let coll0: Vec<LT> = vec![lterm!([2])];
-    proto_vulcan!([qb == qb, for e in &coll0 { qb == [_] }])
+    let coll0: LT = LT::from_vec(vec![lterm!([2])]);
+    proto_vulcan!([for e in &coll0 { qa == [e | qa] }])
 }
 pub fn case_65(vars: &Vars) -> InferredGoal<DU, DE, Goal<DU, DE>> {
     let qa = vars.v[0].clone();
     let qb = vars.v[1].clone();
-    let coll0: Vec<LT> = vec![qb.clone()];
-    proto_vulcan!([for e in &coll0 { [[[1]] == [[]], qb != [e, [_, qb, qa]]] }])
+    let coll0: LT = LT::from_vec(vec![qb.clone()]);
+    proto_vulcan!([for e in &coll0 { [qa == [_, [], qb | qb], false] }])
 }
 pub fn case_66(vars: &Vars) -> InferredGoal<DU, DE, Goal<DU, DE>> {
     let qa = vars.v[0].clone();
     let qb = vars.v[1].clone();
     let coll0: Vec<LT> = vec![lterm!(1), qb.clone()];
-    proto_vulcan!([for e in &coll0 { [1, e, ['b', 2, 2]] == [[], e, "a"] }])
+    proto_vulcan!([for e in &coll0 { e == [qa, 2] }])
 }
 pub fn case_67(vars: &Vars) -> InferredGoal<DU, DE, Goal<DU, DE>> {
     let qa = vars.v[0].clone();
     let qb = vars.v[1].clone();
-    let coll0: Vec<LT> = vec![qa.clone()];
-    proto_vulcan!([|t| { t == t, qa == [_, []] }, for e in &coll0 { |z, t| { z == qa } }])
+    let coll0: LT = LT::from_vec(vec![qa.clone()]);
+    proto_vulcan!([for e in &coll0 { |z, t| { z == [true, t, "bc"] } }])
 }
 pub fn case_68(vars: &Vars) -> InferredGoal<DU, DE, Goal<DU, DE>> {
     let qa = vars.v[0].clone();
     let qb = vars.v[1].clone();
     let coll0: Vec<LT> = vec![qb.clone(), qb.clone()];
-    proto_vulcan!([for e in &coll0 { |h| { [1] == [1, _] } }])
+    proto_vulcan!([for e in &coll0 { |h| { qb == [qa, 2] } }])
 }
 pub fn case_69(vars: &Vars) -> InferredGoal<DU, DE, Goal<DU, DE>> {
     let qa = vars.v[0].clone();
     let qb = vars.v[1].clone();
     let coll0: Vec<LT> = vec![lterm!(1), lterm!([1])];
-    proto_vulcan!([[] == qb, for e in &coll0 { [qb == [e]] }])
+    proto_vulcan!([for e in &coll0 { [qa == e] }])
 }
 pub fn case_70(vars: &Vars) -> InferredGoal<DU, DE, Goal<DU, DE>> {
     let qa = vars.v[0].clone();
     let qb = vars.v[1].clone();
-    let coll0: Vec<LT> = vec![lterm!([2])];
-    proto_vulcan!([conde { [qa == [], _ == qb], [append(qa, qb, [2, 2]), qa == [2, [qa] | qa]], [[qa, qa] == qb, false] }, for e in &coll0 { [1, false, []] == qa }])
+    let coll0: LT = LT::from_vec(vec![lterm!([2])]);
+    proto_vulcan!([[qb != [], append(qa, qb, [2, 2])], for e in &coll0 { qa == [false, [1, "bc"], []] }])
 }
 pub fn case_71(vars: &Vars) -> InferredGoal<DU, DE, Goal<DU, DE>> {
     let qa = vars.v[0].clone();
     let qb = vars.v[1].clone();
     let coll0: Vec<LT> = vec![qb.clone(), lterm!(3)];
-    proto_vulcan!([for e in &coll0 { [1] == qa }])
+    proto_vulcan!([for e in &coll0 { [_] == e }])
 }
 pub fn case_72(vars: &Vars) -> InferredGoal<DU, DE, Goal<DU, DE>> {
     let qa = vars.v[0].clone();
     let qb = vars.v[1].clone();
-    let coll0: Vec<LT> = vec![qb.clone()];
-    proto_vulcan!([conde { [_ == qb, qa == [2 | qa]], [['a', qb, 2] != [_, 2, 2 | 3], qa == [1, 1]] }, for e in &coll0 { |y, h| { qa == qb, y != [h, qb, 2], [_, [], 2] == qa }, [qa, e, 3] != qb }])
+    let coll0: LT = LT::from_vec(vec![qb.clone()]);
+    proto_vulcan!([for e in &coll0 { |y, h| { [e | h] == e, [_, [], y] == qb, false }, qb == [_] }])
 }
 pub fn case_73(vars: &Vars) -> InferredGoal<DU, DE, Goal<DU, DE>> {
     let qa = vars.v[0].clone();
     let qb = vars.v[1].clone();
     let coll0: Vec<LT> = vec![];
-    proto_vulcan!([[qa, qb | qb] == qb, for e in &coll0 { conde { [qb == qb, qa != [e, e, _]], [_ | qb] != 3 } }])
+    proto_vulcan!([qb == [qb, qa, 1], for e in &coll0 { conde { [qa != e, true], [qa == qa, [e, true] == e] } }])
 }
 pub fn case_74(vars: &Vars) -> InferredGoal<DU, DE, Goal<DU, DE>> {
     let qa = vars.v[0].clone();
     let qb = vars.v[1].clone();
-    let coll0: Vec<LT> = vec![lterm!([2])];
-    proto_vulcan!([for e in &coll0 { 2 == [[1, qa] | qa], |h| { qb == [_, qa] } }])
+    let coll0: LT = LT::from_vec(vec![lterm!([2])]);
+    proto_vulcan!([for e in &coll0 { qb == [qa, [qb | qa], [e, qb | _]], [true, member(qb, [])] }])
 }
 pub fn case_75(vars: &Vars) -> InferredGoal<DU, DE, Goal<DU, DE>> {
     let qa = vars.v[0].clone();
     let qb = vars.v[1].clone();
     let coll0: Vec<LT> = vec![];
-    proto_vulcan!([false, for e in &coll0 { conde { e == 2, [qb != e, qa == [qb]], member(qb, [2, 1, 3]) }, true }])
+    proto_vulcan!([for e in &coll0 { conde { |tz| { [1 | tz] != [1, 1, 1], tz == [1, 1] }, [e == [2, true, e | qb], qb == [[e | _] | e]], member(qb, [1]) }, [e, qb | e] == qa }])
 }
 pub fn case_76(vars: &Vars) -> InferredGoal<DU, DE, Goal<DU, DE>> {
     let qa = vars.v[0].clone();
     let qb = vars.v[1].clone();
     let coll0: Vec<LT> = vec![lterm!(3), lterm!(2)];
-    proto_vulcan!([for e in &coll0 { e != e }])
+    proto_vulcan!([for e in &coll0 { e != _ }])
 }
 pub fn case_77(vars: &Vars) -> InferredGoal<DU, DE, Goal<DU, DE>> {
     let qa = vars.v[0].clone();
     let qb = vars.v[1].clone();
     let coll0: Vec<LT> = vec![];
-    proto_vulcan!([[qb != [[qb], qb, qa]], for e in &coll0 { e != qa, [[2, [qb, 1 | e], [2] | qb] == _, [3] == qa] }])
+    proto_vulcan!([|tz| { [1, 3 | tz] != [1, 3, 2], tz == [2] }, for e in &coll0 { [e, 3] != [_, qb, false | qb], 2 == [qb, e] }])
 }
 pub fn case_78(vars: &Vars) -> InferredGoal<DU, DE, Goal<DU, DE>> {
     let qa = vars.v[0].clone();
     let qb = vars.v[1].clone();
     let coll0: Vec<LT> = vec![lterm!(1), lterm!(3)];
-    proto_vulcan!([for e in &coll0 { conde { qb == [], [[[]] == qb, append(e, qa, [2])], [3] != e } }])
+    proto_vulcan!([for e in &coll0 { conde { qb == [qa], [true, 2 == [[2, 2, qa], qa]], [qb != [true], qb != [qa, 1]] } }])
 }
 pub fn case_79(vars: &Vars) -> InferredGoal<DU, DE, Goal<DU, DE>> {
     let qa = vars.v[0].clone();
     let qb = vars.v[1].clone();
-    let coll0: Vec<LT> = vec![lterm!(3)];
-    proto_vulcan!([|z| { [[], "a", false | 2] != qa, qa != 1, qb == [_] }, for e in &coll0 { [2, qa, e | e] == e, qb == [[qa] | qa] }])
+    let coll0: LT = LT::from_vec(vec![lterm!(3)]);
+    proto_vulcan!([for e in &coll0 { [e, "bc" | e] == qb, qa != [e, e, qa] }])
 }
 pub fn case_80(vars: &Vars) -> InferredGoal<DU, DE, Goal<DU, DE>> {
     let qa = vars.v[0].clone();
     let qb = vars.v[1].clone();
     let coll0: Vec<LT> = vec![];
-    proto_vulcan!([append(qb, qb, []), for e in &coll0 { [[e] == qa, e == [qa, _ | e]], conde { [qa == 2, e != [qb, qa]], [qb == 1, e == []] } }])
+    proto_vulcan!([|x, z| { [z] == 3 }, for e in &coll0 { [e == qa, e == [qa, _ | e]], conde { [qa == qb, 2 != qa], qb != [qb] } }])
 }
 pub fn case_81(vars: &Vars) -> InferredGoal<DU, DE, Goal<DU, DE>> {
     let qa = vars.v[0].clone();
     let qb = vars.v[1].clone();
     let coll0: Vec<LT> = vec![];
-    proto_vulcan!([for e in &coll0 { conde { member(qa, []), [[], qb] == qa, [qb == [2], qb != _] } }])
+    proto_vulcan!([qa == [_, _, _ | _], for e in &coll0 { conde { member(qa, []), qb != [], [true, 1 == qb] } }])
 }
 pub fn case_82(vars: &Vars) -> InferredGoal<DU, DE, Goal<DU, DE>> {
     let qa = vars.v[0].clone();
     let qb = vars.v[1].clone();
     let coll0: Vec<LT> = vec![];
-    proto_vulcan!([for e in &coll0 { e != [], qa != [1, false] }])
+    proto_vulcan!([for e in &coll0 { [qa | qa] == qa, conde { false, [member(e, [1, 3, 3]), 1 != e] } }])
 }
 pub fn case_83(vars: &Vars) -> InferredGoal<DU, DE, Goal<DU, DE>> {
     let qa = vars.v[0].clone();
     let qb = vars.v[1].clone();
-    let coll0: Vec<LT> = vec![qa.clone()];
-    proto_vulcan!([for e in &coll0 { |t| { t == t }, qa == [[], []] }])
+    let coll0: LT = LT::from_vec(vec![qa.clone()]);
+    proto_vulcan!([[true, [3, 3, 'a'] == qa], for e in &coll0 { |t| { [2, e] == qb }, [e] == [2] }])
 }
 pub fn case_84(vars: &Vars) -> InferredGoal<DU, DE, Goal<DU, DE>> {
     let qa = vars.v[0].clone();
     let qb = vars.v[1].clone();
-    let coll0: Vec<LT> = vec![lterm!(2), lterm!([1]), qa.clone()];
-    proto_vulcan!([[member(qb, [3, 3])], for e in &coll0 { 2 == qa }])
+    let coll0: LT = LT::from_vec(vec![lterm!(2), lterm!([1]), qa.clone()]);
+    proto_vulcan!([[2, 2, qa] != qa, for e in &coll0 { [[], e] == qa }])
 }
 pub fn case_85(vars: &Vars) -> InferredGoal<DU, DE, Goal<DU, DE>> {
     let qa = vars.v[0].clone();
     let qb = vars.v[1].clone();
     let coll0: Vec<LT> = vec![];
-    proto_vulcan!([[qa == [[_]], 'a' == qb], for e in &coll0 { [qb, [false | qa], _] == [[] | qb] }])
+    proto_vulcan!([for e in &coll0 { [[qb], 3] == true }])
 }
 pub fn case_86(vars: &Vars) -> InferredGoal<DU, DE, Goal<DU, DE>> {
     let qa = vars.v[0].clone();
     let qb = vars.v[1].clone();
     let coll0: Vec<LT> = vec![lterm!(3), lterm!([2])];
-    proto_vulcan!([for e in &coll0 { 1 == qa }])
+    proto_vulcan!([for e in &coll0 { [[] | qa] == qa }])
 }
 pub fn case_87(vars: &Vars) -> InferredGoal<DU, DE, Goal<DU, DE>> {
     let qa = vars.v[0].clone();
     let qb = vars.v[1].clone();
-    let coll0: Vec<LT> = vec![lterm!(1)];
-    proto_vulcan!([for e in &coll0 { conde { [[[2], e] == qb, [[qb, qa, _], [3, _] | qa] != [[_]]], [qa != qa, _ == qa], ["bc", 2, 'b'] == qb }, conde { [qb == [qb, 2, e | qb], e == qb], true, [2 != qb, [[false, 2, 2], e] != qb] } }])
+    let coll0: LT = LT::from_vec(vec![lterm!(1)]);
+    proto_vulcan!([for e in &coll0 { conde { [|tz| { [2, 1 | tz] != [2, 1, 2, 1], tz == [2, 1] }, append(qa, qa, [2, 3])], [qa == [_, 3], false], [|tz| { [2, 3, 2, 1] != [2, 3 | tz], tz == [2, 1] }, 1 != qa] }, [qb == e, qa != 3] }])
 }
 pub fn case_88(vars: &Vars) -> InferredGoal<DU, DE, Goal<DU, DE>> {
     let qa = vars.v[0].clone();
     let qb = vars.v[1].clone();
-    let coll0: Vec<LT> = vec![lterm!(3)];
-    proto_vulcan!([|x, h| { _ == 2, qb == [false, 'b', x | x], [3] == [[2], [[], [], h] | qb] }, for e in &coll0 { |x| { [[qa], 3] == qa, 2 == 1, [[[], qb], qa, [e, 'b', qb]] == 2 } }])
+    let coll0: LT = LT::from_vec(vec![lterm!(3)]);
+    proto_vulcan!([qa == [[], qb | qb], for e in &coll0 { |x| { |tz| { tz == [2], [2, 2] != [2 | tz] }, [1, _, 1] == x, [1, 2, [] | x] != e } }])
 }
 pub fn case_89(vars: &Vars) -> InferredGoal<DU, DE, Goal<DU, DE>> {
     let qa = vars.v[0].clone();
     let qb = vars.v[1].clone();
-    let coll0: Vec<LT> = vec![qa.clone()];
-    proto_vulcan!([qa == qa, for e in &coll0 { conde { [qa == [_, qa, qb], e == [[]]], [qa == [_, e], _ == qb] }, |h| { qb == h, [e, _ | 2] == e } }])
+    let coll0: LT = LT::from_vec(vec![qa.clone()]);
+    proto_vulcan!([[2] == qa, for e in &coll0 { conde { [[qa, qb, 1 | qb] == qa, |tz| { [2, 2 | tz] != [2, 2, 3], tz == [3] }], [qb, qa, _ | e] == e }, |h| { qa != e, [e, _ | 2] == e } }])
 }
 pub fn case_90(vars: &Vars) -> InferredGoal<DU, DE, Goal<DU, DE>> {
     let qa = vars.v[0].clone();
     let qb = vars.v[1].clone();
-    let coll0: Vec<LT> = vec![qa.clone(), lterm!(1), lterm!([2])];
-    proto_vulcan!([|h| { append(qa, h, [2]) }, for e in &coll0 { 1 != [qb, false], qa == [true] }])
+    let coll0: LT = LT::from_vec(vec![qa.clone(), lterm!(1), lterm!([2])]);
+    proto_vulcan!([for e in &coll0 { qb != 2, [qa == e, qb == qb, [qb] == ["a", ["a"], e]] }])
 }
 pub fn case_91(vars: &Vars) -> InferredGoal<DU, DE, Goal<DU, DE>> {
     let qa = vars.v[0].clone();
     let qb = vars.v[1].clone();
     let coll0: Vec<LT> = vec![];
-    proto_vulcan!([qa == 1, for e in &coll0 { qb == qb }])
+    proto_vulcan!([for e in &coll0 { qb != [e, 3 | e] }])
 }
 pub fn case_92(vars: &Vars) -> InferredGoal<DU, DE, Goal<DU, DE>> {
     let qa = vars.v[0].clone();
     let qb = vars.v[1].clone();
-    let coll0: Vec<LT> = vec![lterm!([2])];
-    proto_vulcan!([conde { [3, qa, 1] != qb, [qb != 2, [[], 'a' | qb] == 2], [[qb, 1] != qa, member(qb, [2, 2, 1])] }, for e in &coll0 { [[[], 2, "bc" | qb], []] == qb, qb == [_ | qa] }])
+    let coll0: LT = LT::from_vec(vec![lterm!([2])]);
+    proto_vulcan!([qb == [qa | qa], for e in &coll0 { [2] != qb, qa != qa }])
 }
 pub fn case_93(vars: &Vars) -> InferredGoal<DU, DE, Goal<DU, DE>> {
     let qa = vars.v[0].clone();
     let qb = vars.v[1].clone();
     let coll0: Vec<LT> = vec![];
-    proto_vulcan!([[2 | qa] != qb, for e in &coll0 { true, [[1, qa | e], e] == e }])
+    proto_vulcan!([for e in &coll0 { true, qb == [qb, 'a' | e] }])
 }
 pub fn case_94(vars: &Vars) -> InferredGoal<DU, DE, Goal<DU, DE>> {
     let qa = vars.v[0].clone();
     let qb = vars.v[1].clone();
     let coll0: Vec<LT> = vec![];
-    proto_vulcan!([for e in &coll0 { false, qa == [[e, _, []], [1, qb, _], [e, "a" | _] | e] }])
+    proto_vulcan!([|x, y| { x == y }, for e in &coll0 { false, ["a" | qb] == [[_, _]] }])
 }
 pub fn case_95(vars: &Vars) -> InferredGoal<DU, DE, Goal<DU, DE>> {
     let qa = vars.v[0].clone();
     let qb = vars.v[1].clone();
     let coll0: Vec<LT> = vec![];
-    proto_vulcan!([qb == qa, for e in &coll0 { [qa == [[qb], [2, qb]], false] }])
+    proto_vulcan!([for e in &coll0 { [qa == [1, []], true] }])
 }
 pub fn case_96(vars: &Vars) -> InferredGoal<DU, DE, Goal<DU, DE>> {
     let qa = vars.v[0].clone();
     let qb = vars.v[1].clone();
     let coll0: Vec<LT> = vec![];
-    proto_vulcan!([|h| { h != [qb, 'b'], qa == [qb, 1, qa | qb] }, for e in &coll0 { [[qa], [1, 1, qb]] == qa, |z, t| { z == ['a', _], append(qb, e, [2, 3]) } }])
+    proto_vulcan!([qa != [2, [1]], for e in &coll0 { qb != [[3, 1, 1] | qb], [append(qb, e, [1]), [[3, e], [[]]] == [e, 'b' | 3]] }])
 }
 pub fn case_97(vars: &Vars) -> InferredGoal<DU, DE, Goal<DU, DE>> {
     let qa = vars.v[0].clone();
     let qb = vars.v[1].clone();
-    let coll0: Vec<LT> = vec![lterm!(2), qb.clone(), lterm!(1)];
-    proto_vulcan!([for e in &coll0 { [_] == qa, true }])
+    let coll0: LT = LT::from_vec(vec![lterm!(2), qb.clone(), lterm!(1)]);
+    proto_vulcan!([qb == [qa, qa, 1], for e in &coll0 { |tz| { [3 | tz] != [3, 1], tz == [1] }, [[2, 2, 2 | "a"]] != e }])
 }
 pub fn case_98(vars: &Vars) -> InferredGoal<DU, DE, Goal<DU, DE>> {
     let qa = vars.v[0].clone();
     let qb = vars.v[1].clone();
-    let coll0: Vec<LT> = vec![lterm!(2)];
-    proto_vulcan!([|h, z| { [h | qa] != qa, [2, 1 | qb] == [[], [qb]] }, for e in &coll0 { [[e, 2 | _] == qa, qa == 1] }])
+    let coll0: LT = LT::from_vec(vec![lterm!(2)]);
+    proto_vulcan!([for e in &coll0 { [['b'] != qb, [qb] == [["bc", "bc", qa], [1, 1, e], [[], []]]] }])
 }
 pub fn case_99(vars: &Vars) -> InferredGoal<DU, DE, Goal<DU, DE>> {
     let qa = vars.v[0].clone();
     let qb = vars.v[1].clone();
     let coll0: Vec<LT> = vec![];
-    proto_vulcan!([qb == [1], for e in &coll0 { conde { [[[qa | qb]] == qb, [3] == qb], false, [[qa, qa, e] == qb, member(e, [3, 3, 3])] } }])
+    proto_vulcan!([[[1, _, []] == qb, qb != 3], for e in &coll0 { conde { [qb == [[] | qa], qa == [qa, _ | e]], [[qa, qa, e] == qb, member(e, [3, 3, 3])], qa == [1] } }])
 }
 pub fn case_100(vars: &Vars) -> InferredGoal<DU, DE, Goal<DU, DE>> {
     let qa = vars.v[0].clone();
     let qb = vars.v[1].clone();
-    let coll0: Vec<LT> = vec![lterm!(1)];
-    proto_vulcan!([qb == [[qb, 1, qa]], for e in &coll0 { [[2] == qa, qb != [[qa, _ | qb], [qb, qb, 3 | qa]], qb != _] }])
+    let coll0: LT = LT::from_vec(vec![lterm!(1)]);
+    proto_vulcan!([for e in &coll0 { [[[[], 1]] != qb, true, 2 == qa] }])
 }
 pub fn case_101(vars: &Vars) -> InferredGoal<DU, DE, Goal<DU, DE>> {
     let qa = vars.v[0].clone();
     let qb = vars.v[1].clone();
-    let coll0: Vec<LT> = vec![lterm!([1]), lterm!(2), lterm!(3)];
-    proto_vulcan!([|y| { y == 3, ["a", y] != qb }, for e in &coll0 { qb == e, qa == 3 }])
+    let coll0: LT = LT::from_vec(vec![lterm!([1]), lterm!(2), lterm!(3)]);
+    proto_vulcan!([[] == qa, for e in &coll0 { e == [], [2, 3, e] == e }])
 }
 pub fn case_102(vars: &Vars) -> InferredGoal<DU, DE, Goal<DU, DE>> {
     let qa = vars.v[0].clone();
     let qb = vars.v[1].clone();
     let coll0: Vec<LT> = vec![];
-    proto_vulcan!([for e in &coll0 { |x| { e != _ } }])
+    proto_vulcan!([for e in &coll0 { |x| { _ != x } }])
 }
 pub fn case_103(vars: &Vars) -> InferredGoal<DU, DE, Goal<DU, DE>> {
     let qa = vars.v[0].clone();
     let qb = vars.v[1].clone();
-    let coll0: Vec<LT> = vec![qb.clone(), lterm!(1), qb.clone()];
-    proto_vulcan!([for e in &coll0 { _ == qa }])
+    let coll0: LT = LT::from_vec(vec![qb.clone(), lterm!(1), qb.clone()]);
+    proto_vulcan!([for e in &coll0 { 3 == qa }])
 }
 pub fn case_104(vars: &Vars) -> InferredGoal<DU, DE, Goal<DU, DE>> {
     let qa = vars.v[0].clone();
     let qb = vars.v[1].clone();
     let coll0: Vec<LT> = vec![lterm!([1]), lterm!(2)];
-    proto_vulcan!([for e in &coll0 { |z| { e == ['a', qa] }, qa != [[], qa, "a"] }])
+    proto_vulcan!([qa == [], for e in &coll0 { |z| { e != [2] }, qb == [] }])
 }
 pub fn case_105(vars: &Vars) -> InferredGoal<DU, DE, Goal<DU, DE>> {
     let qa = vars.v[0].clone();
     let qb = vars.v[1].clone();
-    let coll0: Vec<LT> = vec![lterm!(2), lterm!(3), qb.clone()];
-    proto_vulcan!([[[[qb, 2], [1, qb, qb], [2, 2, _ | qa]] == [3, qb, "bc"]], for e in &coll0 { [[], [] | qb] != [[qb, 3]], qb == 2 }])
+    let coll0: LT = LT::from_vec(vec![lterm!(2), lterm!(3), qb.clone()]);
+    proto_vulcan!([for e in &coll0 { qb != qa, |h| { |tz| { [2, 2, 1] != [2 | tz], tz == [2, 1] } } }])
 }
 pub fn case_106(vars: &Vars) -> InferredGoal<DU, DE, Goal<DU, DE>> {
     let qa = vars.v[0].clone();
     let qb = vars.v[1].clone();
-    let coll0: Vec<LT> = vec![lterm!(3), lterm!(1), lterm!([2])];
-    proto_vulcan!([for e in &coll0 { [] == qa, e == [1, []] }])
+    let coll0: LT = LT::from_vec(vec![lterm!(3), lterm!(1), lterm!([2])]);
+    proto_vulcan!([qa == [qb, qa], for e in &coll0 { qa == [[3], [1 | e] | e], [qb] == qa }])
 }
 pub fn case_107(vars: &Vars) -> InferredGoal<DU, DE, Goal<DU, DE>> {
     let qa = vars.v[0].clone();
     let qb = vars.v[1].clone();
-    let coll0: Vec<LT> = vec![lterm!(2)];
-    proto_vulcan!([for e in &coll0 { member(qa, [1]), [[[], 2, qa | qa], ["bc" | qa], [2, [], 2]] != [qb | qb] }])
+    let coll0: LT = LT::from_vec(vec![lterm!(2)]);
+    proto_vulcan!([[1, 1, "a"] == qa, for e in &coll0 { member(qa, [1]), [] != e }])
 }
 pub fn case_108(vars: &Vars) -> InferredGoal<DU, DE, Goal<DU, DE>> {
     let qa = vars.v[0].clone();
@@ -656,187 +656,187 @@ pub fn case_109(vars: &Vars) -> InferredGoal<DU, DE, Goal<DU, DE>> {
     let qa = vars.v[0].clone();
     let qb = vars.v[1].clone();
     let coll0: Vec<LT> = vec![];
-    proto_vulcan!([qa != [[]], for e in &coll0 { e == qb }])
+    proto_vulcan!([|y, t| { t == 3, [y, qb] != qb, qa == 3 }, for e in &coll0 { qb == [3, [[]], [[], [], 3 | qa]] }])
 }
 pub fn case_110(vars: &Vars) -> InferredGoal<DU, DE, Goal<DU, DE>> {
     let qa = vars.v[0].clone();
     let qb = vars.v[1].clone();
     let coll0: Vec<LT> = vec![];
-    proto_vulcan!([for e in &coll0 { [[], _, 'b'] != qa }])
+    proto_vulcan!([for e in &coll0 { qb != e }])
 }
 pub fn case_111(vars: &Vars) -> InferredGoal<DU, DE, Goal<DU, DE>> {
     let qa = vars.v[0].clone();
     let qb = vars.v[1].clone();
     let coll0: Vec<LT> = vec![lterm!(3), lterm!(2)];
-    proto_vulcan!([for e in &coll0 { qa != e, |h| { member(qb, [1, 3]), e == [2, _] } }])
+    proto_vulcan!([for e in &coll0 { [2, _, [e]] != 3, qb == e }])
 }
 pub fn case_112(vars: &Vars) -> InferredGoal<DU, DE, Goal<DU, DE>> {
     let qa = vars.v[0].clone();
     let qb = vars.v[1].clone();
     let coll0: Vec<LT> = vec![lterm!(1), lterm!(2)];
-    proto_vulcan!([[] == [[1, qa | 3], 'a', 1], for e in &coll0 { 2 != 1 }])
+    proto_vulcan!([for e in &coll0 { [2, qb, qb] == qb }])
 }
 pub fn case_113(vars: &Vars) -> InferredGoal<DU, DE, Goal<DU, DE>> {
     let qa = vars.v[0].clone();
     let qb = vars.v[1].clone();
-    let coll0: Vec<LT> = vec![qa.clone()];
-    proto_vulcan!([|z| { [2, qb, 1 | z] == qb }, for e in &coll0 { [1, 2 | qb] != e }])
+    let coll0: LT = LT::from_vec(vec![qa.clone()]);
+    proto_vulcan!([for e in &coll0 { [2, 2 | qb] == e }])
 }
 pub fn case_114(vars: &Vars) -> InferredGoal<DU, DE, Goal<DU, DE>> {
     let qa = vars.v[0].clone();
     let qb = vars.v[1].clone();
-    let coll0: Vec<LT> = vec![lterm!([1])];
-    proto_vulcan!([for e in &coll0 { [1, [e], [qa, 3 | 3]] == [qb, [] | e] }])
+    let coll0: LT = LT::from_vec(vec![lterm!([1])]);
+    proto_vulcan!([for e in &coll0 { [[e] | e] == e }])
 }
 pub fn case_115(vars: &Vars) -> InferredGoal<DU, DE, Goal<DU, DE>> {
     let qa = vars.v[0].clone();
     let qb = vars.v[1].clone();
-    let coll0: Vec<LT> = vec![lterm!(3)];
-    proto_vulcan!([for e in &coll0 { [qa, [], 1] == ['a', [e, _, []], [[]] | e] }])
+    let coll0: LT = LT::from_vec(vec![lterm!(3)]);
+    proto_vulcan!([false, for e in &coll0 { [qa, "a"] == e }])
 }
 pub fn case_116(vars: &Vars) -> InferredGoal<DU, DE, Goal<DU, DE>> {
     let qa = vars.v[0].clone();
     let qb = vars.v[1].clone();
     let coll0: Vec<LT> = vec![];
-    proto_vulcan!([for e in &coll0 { |z, x| { [qb, qa, []] != [[_, qb, _] | x], append(e, qb, [1, 3]) }, true }])
+    proto_vulcan!([[1 == [qb, [[], []]], member(qb, [1, 2]), [1] == [qb, [false, qb] | qa]], for e in &coll0 { |z, x| { qa == _, qb == qa }, e == [] }])
 }
 pub fn case_117(vars: &Vars) -> InferredGoal<DU, DE, Goal<DU, DE>> {
     let qa = vars.v[0].clone();
     let qb = vars.v[1].clone();
     let coll0: Vec<LT> = vec![];
-    proto_vulcan!([for e in &coll0 { conde { [qa != [[qb, e], 2, [[]]], [] == e], true, [[qb] != qb, "a" == qa] }, |z| { e == [qa, qa], [3, false | qb] == qa } }])
+    proto_vulcan!([for e in &coll0 { conde { [qb == [1], append(qa, qb, [1])], [[[], [e], 1] == qa, qa != [2, 2 | qb]], 1 == 1 }, qa == ["bc", qb | qa] }])
 }
 pub fn case_118(vars: &Vars) -> InferredGoal<DU, DE, Goal<DU, DE>> {
     let qa = vars.v[0].clone();
     let qb = vars.v[1].clone();
     let coll0: Vec<LT> = vec![];
-    proto_vulcan!([qa != qb, for e in &coll0 { qb == [[], qa], conde { member(qb, [2, 1, 2]), [[2, _, 3 | e], []] == qb } }])
+    proto_vulcan!([conde { [[qa, 2] == qa, true], append(qb, qb, [1, 3]), [1] != qb }, for e in &coll0 { e == [], conde { [[[true, _ | qb], [2, _, 3 | e] | 1] == qa, qa != qb], |tz| { tz == [1], [2, 2, 1] != [2, 2 | tz] } } }])
 }
 pub fn case_119(vars: &Vars) -> InferredGoal<DU, DE, Goal<DU, DE>> {
     let qa = vars.v[0].clone();
     let qb = vars.v[1].clone();
-    let coll0: Vec<LT> = vec![lterm!([1])];
-    proto_vulcan!([for e in &coll0 { qb == [2] }])
+    let coll0: LT = LT::from_vec(vec![lterm!([1])]);
+    proto_vulcan!([for e in &coll0 { qb == [[]] }])
 }
 pub fn case_120(vars: &Vars) -> InferredGoal<DU, DE, Goal<DU, DE>> {
     let qa = vars.v[0].clone();
     let qb = vars.v[1].clone();
-    let coll0: Vec<LT> = vec![lterm!(3)];
-    proto_vulcan!([|h| { h == 1, [[h], [1 | _]] == h, qb == [h, 2] }, for e in &coll0 { qb == e, qa == [2, 3] }])
+    let coll0: LT = LT::from_vec(vec![lterm!(3)]);
+    proto_vulcan!([for e in &coll0 { [] == qb, 2 == e }])
 }
 pub fn case_121(vars: &Vars) -> InferredGoal<DU, DE, Goal<DU, DE>> {
     let qa = vars.v[0].clone();
     let qb = vars.v[1].clone();
-    let coll0: Vec<LT> = vec![lterm!(3)];
-    proto_vulcan!([[3, false, _] != qb, for e in &coll0 { e == [qb, 3 | qa] }])
+    let coll0: LT = LT::from_vec(vec![lterm!(3)]);
+    proto_vulcan!([for e in &coll0 { _ == [[qa, true | true], [[], 2], []] }])
 }
 pub fn case_122(vars: &Vars) -> InferredGoal<DU, DE, Goal<DU, DE>> {
     let qa = vars.v[0].clone();
     let qb = vars.v[1].clone();
-    let coll0: Vec<LT> = vec![lterm!(2)];
-    proto_vulcan!([for e in &coll0 { append(qb, qa, []), e != [e, _, e] }])
+    let coll0: LT = LT::from_vec(vec![lterm!(2)]);
+    proto_vulcan!([for e in &coll0 { append(qb, qa, []), [[[], _], qb, [qa, 1, []]] != _ }])
 }
 pub fn case_123(vars: &Vars) -> InferredGoal<DU, DE, Goal<DU, DE>> {
     let qa = vars.v[0].clone();
     let qb = vars.v[1].clone();
-    let coll0: Vec<LT> = vec![lterm!([1])];
-    proto_vulcan!([for e in &coll0 { e == [[2, qb, 1]] }])
+    let coll0: LT = LT::from_vec(vec![lterm!([1])]);
+    proto_vulcan!([qb != ["bc", 1, 3 | qb], for e in &coll0 { false == [qb, 1] }])
 }
 pub fn case_124(vars: &Vars) -> InferredGoal<DU, DE, Goal<DU, DE>> {
     let qa = vars.v[0].clone();
     let qb = vars.v[1].clone();
     let coll0: Vec<LT> = vec![lterm!(1), lterm!([2])];
-    proto_vulcan!([for e in &coll0 { member(e, []), [qb == _, e == e] }])
+    proto_vulcan!([for e in &coll0 { member(e, []), [qb == qa, qb != [qb, _]] }])
 }
 pub fn case_125(vars: &Vars) -> InferredGoal<DU, DE, Goal<DU, DE>> {
     let qa = vars.v[0].clone();
     let qb = vars.v[1].clone();
     let coll0: Vec<LT> = vec![qa.clone(), qb.clone()];
-    proto_vulcan!([for e in &coll0 { [3, 2, 1] == qa }])
+    proto_vulcan!([for e in &coll0 { [2, 3, qb] == qb }])
 }
 pub fn case_126(vars: &Vars) -> InferredGoal<DU, DE, Goal<DU, DE>> {
     let qa = vars.v[0].clone();
     let qb = vars.v[1].clone();
-    let coll0: Vec<LT> = vec![lterm!(2)];
-    proto_vulcan!([for e in &coll0 { true, 1 == qa }])
+    let coll0: LT = LT::from_vec(vec![lterm!(2)]);
+    proto_vulcan!([[2] != qb, for e in &coll0 { true, qa == [1, e] }])
 }
 pub fn case_127(vars: &Vars) -> InferredGoal<DU, DE, Goal<DU, DE>> {
     let qa = vars.v[0].clone();
     let qb = vars.v[1].clone();
-    let coll0: Vec<LT> = vec![lterm!(3), qb.clone(), qb.clone()];
-    proto_vulcan!([for e in &coll0 { conde { [_ != ["bc", qa, 1], [1, 1, e] == qb], [2, _] == qa } }])
+    let coll0: LT = LT::from_vec(vec![lterm!(3), qb.clone(), qb.clone()]);
+    proto_vulcan!([qb != _, for e in &coll0 { conde { ["bc" != _, true], e != 1 } }])
 }
 pub fn case_128(vars: &Vars) -> InferredGoal<DU, DE, Goal<DU, DE>> {
     let qa = vars.v[0].clone();
     let qb = vars.v[1].clone();
     let coll0: Vec<LT> = vec![];
-    proto_vulcan!([for e in &coll0 { 3 == [_, 2, qa], [[2, qb | qa], [qb, 'a'], e | qb] == e }])
+    proto_vulcan!([for e in &coll0 { qb == [], conde { qa == [1, [], 'b' | qb], [[1, e, [] | e] != qb, qb == [e | qa]], [[e] == qb, [1, [], e] != 'a'] } }])
 }
 pub fn case_129(vars: &Vars) -> InferredGoal<DU, DE, Goal<DU, DE>> {
     let qa = vars.v[0].clone();
     let qb = vars.v[1].clone();
     let coll0: Vec<LT> = vec![];
-    proto_vulcan!([for e in &coll0 { |h, z| { append(qb, qa, [3, 3]), false != h }, qb == qb }])
+    proto_vulcan!([qb == qa, for e in &coll0 { |h, z| { append(qb, qa, [3, 3]), z != [2 | z] }, qb == 3 }])
 }
 pub fn case_130(vars: &Vars) -> InferredGoal<DU, DE, Goal<DU, DE>> {
     let qa = vars.v[0].clone();
     let qb = vars.v[1].clone();
-    let coll0: Vec<LT> = vec![lterm!(3), lterm!([2]), qa.clone()];
-    proto_vulcan!([for e in &coll0 { [[e] == qa, [3 | qa] == qa, true], conde { [3 == qa, qb != e], qb != _ } }])
+    let coll0: LT = LT::from_vec(vec![lterm!(3), lterm!([2]), qa.clone()]);
+    proto_vulcan!([for e in &coll0 { [e == qa, false, 3 == qb], false }])
 }
 pub fn case_131(vars: &Vars) -> InferredGoal<DU, DE, Goal<DU, DE>> {
     let qa = vars.v[0].clone();
     let qb = vars.v[1].clone();
-    let coll0: Vec<LT> = vec![lterm!(3), qb.clone(), lterm!(3)];
-    proto_vulcan!([for e in &coll0 { conde { qa != qa, [2, [e, 1, e]] == 'b' }, [[qb], [_]] == qa }])
+    let coll0: LT = LT::from_vec(vec![lterm!(3), qb.clone(), lterm!(3)]);
+    proto_vulcan!([for e in &coll0 { conde { [[] | e] == qa, 2 == qb }, [[1 | e], [[], e], [_, _]] == qb }])
 }
 pub fn case_132(vars: &Vars) -> InferredGoal<DU, DE, Goal<DU, DE>> {
     let qa = vars.v[0].clone();
     let qb = vars.v[1].clone();
     let coll0: Vec<LT> = vec![];
-    proto_vulcan!([qa != 3, for e in &coll0 { e != 1 }])
+    proto_vulcan!([qa != [3, qa, 3 | qb], for e in &coll0 { |tz| { tz == [1, 1], [1 | tz] != [1, 1, 1] } }])
 }
 pub fn case_133(vars: &Vars) -> InferredGoal<DU, DE, Goal<DU, DE>> {
     let qa = vars.v[0].clone();
     let qb = vars.v[1].clone();
-    let coll0: Vec<LT> = vec![lterm!(3), lterm!(3), lterm!(3)];
-    proto_vulcan!([for e in &coll0 { [[qb, qa] != e, [_, qa, _] == qa], member(qa, [2]) }])
+    let coll0: LT = LT::from_vec(vec![lterm!(3), lterm!(3), lterm!(3)]);
+    proto_vulcan!([for e in &coll0 { [[qb, 'b', [qa, 3, false | 2]] == [2], [e, 2] != qa], |h| { [1, 3, h] == qb, qb == [h] } }])
 }
 pub fn case_134(vars: &Vars) -> InferredGoal<DU, DE, Goal<DU, DE>> {
     let qa = vars.v[0].clone();
     let qb = vars.v[1].clone();
     let coll0: Vec<LT> = vec![];
-    proto_vulcan!([true, for e in &coll0 { append(qb, qa, []), qa == [e, 2] }])
+    proto_vulcan!([for e in &coll0 { append(qb, qa, []), qb == e }])
 }
 pub fn case_135(vars: &Vars) -> InferredGoal<DU, DE, Goal<DU, DE>> {
     let qa = vars.v[0].clone();
     let qb = vars.v[1].clone();
-    let coll0: Vec<LT> = vec![lterm!(2)];
-    proto_vulcan!([[[1] != [[1, qb, qb | qb], []], append(qa, qb, [2])], for e in &coll0 { [qa == [e, qa], 2 != qa, append(qb, qb, [])] }])
+    let coll0: LT = LT::from_vec(vec![lterm!(2)]);
+    proto_vulcan!([for e in &coll0 { [|tz| { tz == [2], [3, 3, 2] != [3, 3 | tz] }, append(e, qb, [2]), [[], qb, 1 | 'b'] == qa] }])
 }
 pub fn case_136(vars: &Vars) -> InferredGoal<DU, DE, Goal<DU, DE>> {
     let qa = vars.v[0].clone();
     let qb = vars.v[1].clone();
-    let coll0: Vec<LT> = vec![qa.clone(), lterm!(1), lterm!(3)];
-    proto_vulcan!([conde { [qb == [qb], append(qa, qb, [1])], qa != [_ | qa] }, for e in &coll0 { ["bc" | qb] != qb }])
+    let coll0: LT = LT::from_vec(vec![qa.clone(), lterm!(1), lterm!(3)]);
+    proto_vulcan!([[true, append(qa, qb, [])], for e in &coll0 { qa != "bc" }])
 }
 pub fn case_137(vars: &Vars) -> InferredGoal<DU, DE, Goal<DU, DE>> {
     let qa = vars.v[0].clone();
     let qb = vars.v[1].clone();
-    let coll0: Vec<LT> = vec![lterm!([1]), lterm!(1), lterm!([1])];
-    proto_vulcan!([qa == [2], for e in &coll0 { [[qa, 2], [1, 'a'] | 2] == e, |t, y| { [1, e, e | y] == e, 2 != t } }])
+    let coll0: LT = LT::from_vec(vec![lterm!([1]), lterm!(1), lterm!([1])]);
+    proto_vulcan!([for e in &coll0 { 'a' == [2], [qa == [qa, qa | e], qa == [qb | qa]] }])
 }
 pub fn case_138(vars: &Vars) -> InferredGoal<DU, DE, Goal<DU, DE>> {
     let qa = vars.v[0].clone();
     let qb = vars.v[1].clone();
-    let coll0: Vec<LT> = vec![lterm!([1])];
-    proto_vulcan!([qb == [[1, qb | qb], qa, [qb, qa, true]], for e in &coll0 { conde { qa == [qb, _, qb], [[2, [], [qb | e] | qa] == [[qa | qb] | qa], qa == [[_, e]]], [[qa, 1, 2] == [[qb, e, 'b' | 2], [3, e, 1], [[], e, e] | qb], false] } }])
+    let coll0: LT = LT::from_vec(vec![lterm!([1])]);
+    proto_vulcan!([qb == [[qb | qb], [qb, 3, qa], [3, qb, qb]], for e in &coll0 { conde { |tz| { [3, 3] != [3 | tz], tz == [3] }, [e, [] | qb] == e, qa == [qb, 2, e] } }])
 }
 pub fn case_139(vars: &Vars) -> InferredGoal<DU, DE, Goal<DU, DE>> {
     let qa = vars.v[0].clone();
     let qb = vars.v[1].clone();
-    let coll0: Vec<LT> = vec![lterm!([2])];
-    proto_vulcan!([_ == qa, for e in &coll0 { |z, y| { qb == ['b', 2], true, [e] == y }, _ != [[2, qa]] }])
+    let coll0: LT = LT::from_vec(vec![lterm!([2])]);
+    proto_vulcan!([for e in &coll0 { |z, y| { [[], [y, 1, z | y], e] == y, _ != [[2, qa]], |tz| { [1 | tz] != [1, 1], tz == [1] } }, qb == _ }])
 }
 pub fn case_140(vars: &Vars) -> InferredGoal<DU, DE, Goal<DU, DE>> {
     let x = vars.v[0].clone();
@@ -863,7 +863,7 @@ pub fn case_144(vars: &Vars) -> InferredGoal<DU, DE, Goal<DU, DE>> {
 }
 pub fn case_145(vars: &Vars) -> InferredGoal<DU, DE, Goal<DU, DE>> {
     let x = vars.v[0].clone();
-    proto_vulcan!([matche x { 1 | z => { [member(x, [3, 3, 2])], [] == x }, }])
+    proto_vulcan!([matche x { 1 | z => { [member(x, [3, 3, 2])], x == [x, x] }, }])
 }
 pub fn case_146(vars: &Vars) -> InferredGoal<DU, DE, Goal<DU, DE>> {
     let q = vars.v[0].clone();
@@ -877,12 +877,12 @@ pub fn case_147(vars: &Vars) -> InferredGoal<DU, DE, Goal<DU, DE>> {
 }
 pub fn case_148(vars: &Vars) -> InferredGoal<DU, DE, Goal<DU, DE>> {
     let x = vars.v[0].clone();
-    proto_vulcan!([matcha x { [[x | t], x, 1 | _] => [|y| { append(x, x, [2, 3]) }, match t { ["bc"] => { x != ["a", [[], "bc"], [1]] }, [1, [1, [] | t], [2 | 1]] => , }], [[h], h, [z, y | y]] | [[t, z] | "bc"] => x == [[], z, 3 | z], }])
+    proto_vulcan!([matcha x { [[x | t], x, 1 | _] => [|y| { append(x, x, [2, 3]) }, match t { ["bc"] => { x != [[_, 'b', "bc"]] }, t | [[1, t, t | _], [3, 1] | 1] => , }], 1 => , }])
 }
 pub fn case_149(vars: &Vars) -> InferredGoal<DU, DE, Goal<DU, DE>> {
     let x = vars.v[0].clone();
     let y = vars.v[1].clone();
-    proto_vulcan!([[x != [x], true, [_, 1, y] != x], matche x { 1 => , }])
+    proto_vulcan!([[x == x, [[x], 1 | y] == [[], []], x == [y, 'b' | x]], matche x { [[true], [[] | h]] => { [y == 2, append(h, x, [])], h != [2] }, }])
 }
 pub fn case_150(vars: &Vars) -> InferredGoal<DU, DE, Goal<DU, DE>> {
     let q = vars.v[0].clone();
@@ -891,39 +891,39 @@ pub fn case_150(vars: &Vars) -> InferredGoal<DU, DE, Goal<DU, DE>> {
 }
 pub fn case_151(vars: &Vars) -> InferredGoal<DU, DE, Goal<DU, DE>> {
     let x = vars.v[0].clone();
-    proto_vulcan!([match x { [2] | [[x | t], 1] => , 2 => x == [[], _], [[t, t]] => , }])
+    proto_vulcan!([match x { [2] | [[x | t], 1] => , 2 => x != [3, [x, [] | x]], false => |x, z| { x == z }, }])
 }
 pub fn case_152(vars: &Vars) -> InferredGoal<DU, DE, Goal<DU, DE>> {
     let x = vars.v[0].clone();
     let y = vars.v[1].clone();
-    proto_vulcan!([|t, h| { h != [t] }, match _ { [[3, z | 1] | h] => , [[h, 'a', 3], z, [false, t, true | y] | t] => [h != [_, 2, h | t], y == z], }])
+    proto_vulcan!([|t, h| { t != [y, _] }, matchu y { z => [conde { x == x, [member(y, [3, 3]), x == _] }, |tz| { [2, 3 | tz] != [2, 3, 1, 1], tz == [1, 1] }], }])
 }
 pub fn case_153(vars: &Vars) -> InferredGoal<DU, DE, Goal<DU, DE>> {
     let x = vars.v[0].clone();
     let y = vars.v[1].clone();
-    proto_vulcan!([x == [[]], matche x { [] => matchu y { [[2, 1, z], [2, h], [y, x]] => { h == x }, }, [[t | y], [t, "bc", y | x], y] => , }])
+    proto_vulcan!([y == [], match x { [[h, []] | z] => { false, matcha h { [[h], [y, x]] => { [2, []] == _ }, 1 => , } }, t | [[y, 2, x], z, [h, 'a']] => , }])
 }
 pub fn case_154(vars: &Vars) -> InferredGoal<DU, DE, Goal<DU, DE>> {
     let x = vars.v[0].clone();
     let y = vars.v[1].clone();
-    proto_vulcan!([matcha y { z => [matcha y { [[[], x], [h | x], ['a', z] | 3] | z => [[y, []], 2, z] == z, [[1, x, z]] => , }, [1, _, [1, 3, _ | z]] == y], t => { |h, t| { true, false } }, }])
+    proto_vulcan!([matcha y { z => { matcha y { [[[], x], [h | x], ['a', z] | 3] | z => z == 2, 2 => , }, conde { append(x, x, []), [[y, x, "a"] == y, x == 2], [false, z == [1, z, 1]] } }, [1, x, 1] | [[[]], false | x] => { match x { [1 | t] | 1 => , [] => , }, |t, y| { true, x == [_ | t] } }, }])
 }
 pub fn case_155(vars: &Vars) -> InferredGoal<DU, DE, Goal<DU, DE>> {
     let x = vars.v[0].clone();
-    proto_vulcan!([1 == x, matchu x { y => matcha x { 1 | [3, h, [_, 1] | t] => , 1 | x => [append(y, y, [2, 3]), 2 == y], [[z, z] | y] => { member(x, [2, 1, 2]) }, }, [_] | 'a' => , [[z | t]] => [[1, 1] == z, x == [_, z]], }])
+    proto_vulcan!([|tz| { tz == [3], [1 | tz] != [1, 3] }, matcha [2, _, x] { [_ | 1] | [3, h, [_, 1] | t] => , 1 | x => , }])
 }
 pub fn case_156(vars: &Vars) -> InferredGoal<DU, DE, Goal<DU, DE>> {
     let x = vars.v[0].clone();
-    proto_vulcan!([condu { [[1] == x, [1] == x], x == [false, [_, x], _], [false, append(x, x, [3, 3])] }, matcha x { [] => { conda { [x, x, 2 | x] == x, [member(x, [1, 3, 3]), append(x, x, [])] } }, }])
+    proto_vulcan!([condu { [[x, x, 3 | x] == x, x == 1], member(x, []), member(x, [3, 2, 2]) }, matche x { [[], 3] | [] => , }])
 }
 pub fn case_157(vars: &Vars) -> InferredGoal<DU, DE, Goal<DU, DE>> {
     let x = vars.v[0].clone();
-    proto_vulcan!([matchu x { [h] => [match x { t => { h == [_, 3], h == [[], 1] }, }, h == [x, x | h]], [[3, x, z | _], [1, 2, _], [t]] | t => { matchu t { 1 => { t != [1, [], 1 | t], false }, } }, }])
+    proto_vulcan!([matchu x { [h] => { match x { t => [_ == h, 2 == t], }, append(x, x, []) }, [2, _] => , }])
 }
 pub fn case_158(vars: &Vars) -> InferredGoal<DU, DE, Goal<DU, DE>> {
     let q = vars.v[0].clone();
     let x = vars.v[1].clone();
-    proto_vulcan!([|t| { t == [q, []], x != _, q == [[], x, [2, q, t | x] | t] }, matcha q { [[], ['a', x, _], x] => { 2 == x }, }])
+    proto_vulcan!([|t| { [[q], x, _] == x, true, x == q }, matchu q { [[1, 3, 3 | _] | 2] => [|h, t| { append(h, h, [3, 1]), [x, 2 | q] != h }, |h, z| { member(q, [1]), "bc" == h, append(q, h, []) }], }])
 }
 pub fn case_159(vars: &Vars) -> InferredGoal<DU, DE, Goal<DU, DE>> {
     let x = vars.v[0].clone();
@@ -937,55 +937,55 @@ pub fn case_160(vars: &Vars) -> InferredGoal<DU, DE, Goal<DU, DE>> {
 pub fn case_161(vars: &Vars) -> InferredGoal<DU, DE, Goal<DU, DE>> {
     let x = vars.v[0].clone();
     let y = vars.v[1].clone();
-    proto_vulcan!([matcha x { 1 => { [x, 2 | y] == [[_, y, x | 1]] }, z => |x| { y != 2, x != 1 }, }])
+    proto_vulcan!([matcha x { 1 => { x == [[y, x, x] | x] }, z => match y { 2 | "bc" => [x == x, [false, _, x] == z], y => { x != [y, 2, x | x], |tz| { [1, 1, 3] != [1, 1 | tz], tz == [3] } }, [y, [[], 1, t], [2, 1, y] | z] => , }, }])
 }
 pub fn case_162(vars: &Vars) -> InferredGoal<DU, DE, Goal<DU, DE>> {
     let q = vars.v[0].clone();
     let x = vars.v[1].clone();
-    proto_vulcan!([matcha q { 2 => [|x, y| { false == q }, |z, y| { z != x, [] == [_, q, y | q], [3 | q] == x }], y | [t] => , [[_, 'a', 1], [x, 2], 1 | x] => { x != [2], conde { [q == [_, x | x], x == x], [q == [_, [3, _, x | q]], append(x, x, [])] } }, }])
+    proto_vulcan!([matcha q { 2 => { |x, y| { [[]] == q }, x == [[q, 2, []], []] }, [z | x] => , [1] | [y, y, [z]] => , }])
 }
 pub fn case_163(vars: &Vars) -> InferredGoal<DU, DE, Goal<DU, DE>> {
     let x = vars.v[0].clone();
     let y = vars.v[1].clone();
-    proto_vulcan!([conde { x != x, _ == x }, matchu x { 2 | [[2], [z, x, 3], h] => [[append(y, y, [3]), y == [y, 3, _], y == [2]], [1 | 2] == y], 2 => [conde { [_, 'b', 3] == x, false }, |x, t| { x != x, t != [t, x], x == [_, 3] }], }])
+    proto_vulcan!([conde { 1 == y, [x == [x, 'a', y], |tz| { tz == [3], [3, 3 | tz] != [3, 3, 3] }] }, matchu y { h => [[false, append(x, h, [3]), 2 == y], conde { [member(x, [2, 3]), x == y], member(y, []) }], y => , t => , }])
 }
 pub fn case_164(vars: &Vars) -> InferredGoal<DU, DE, Goal<DU, DE>> {
     let q = vars.v[0].clone();
     let x = vars.v[1].clone();
-    proto_vulcan!([match [q, 3] { true | [x | _] => { [[[], 3 | q] == q, ['a', q | q] == [1, 1], [1] == q] }, x | [[_]] => { q != [q, [] | q] }, [_, [_, z], [t | y]] => { t == [[y, y, x], t, y | x], |x| { 2 != q, member(t, [1, 3, 3]) } }, }])
+    proto_vulcan!([match [q, 3] { true | [x | _] => [[true] == q, 1 == q, 1 == q], 1 => , [['a', _ | y]] => , }])
 }
 pub fn case_165(vars: &Vars) -> InferredGoal<DU, DE, Goal<DU, DE>> {
     let q = vars.v[0].clone();
     let x = vars.v[1].clone();
-    proto_vulcan!([[x == x, [q] == x, member(x, [])], match x { y => [x, x, 2 | y] == y, }])
+    proto_vulcan!([[|tz| { [2, 3 | tz] != [2, 3, 2, 1], tz == [2, 1] }, x == [x, _ | q], x == q], matchu q { [2, [2 | z], [3, [] | _] | _] => , [1] => { matchu q { [x | _] => { append(x, x, [2]) }, [[_], [3, y | z], z] => { [1, y | x] == 1, append(y, z, []) }, } }, [[_, 'b']] => , }])
 }
 pub fn case_166(vars: &Vars) -> InferredGoal<DU, DE, Goal<DU, DE>> {
     let q = vars.v[0].clone();
     let x = vars.v[1].clone();
-    proto_vulcan!([matche x { [[x | x], [1], t] => { [[x], [q, x], _ | x] == t }, [] => [q == [x | x], false], [[2], z | y] => , }])
+    proto_vulcan!([matche x { [[x | x], [1], t] => { t == [q, ["a"], _ | x] }, [_, [], [[], []]] => , [z | x] | z => , }])
 }
 pub fn case_167(vars: &Vars) -> InferredGoal<DU, DE, Goal<DU, DE>> {
     let x = vars.v[0].clone();
-    proto_vulcan!([x == x, matche x { 2 => , [z, [t, t]] | 2 => , x => , }])
+    proto_vulcan!([[x | x] != x, matchu x { ['b', [], [t, t]] => , "bc" => conde { false, [false, 3 == x], x == [[3, x | x], [1, _ | _] | x] }, ['b'] => { match x { [[[], 2, 2], [t], [false]] => [[x, x] == t, [2] == x], [1, [[] | y], 3 | y] => { [x, y | x] != x }, [_, 1] => , }, conde { [x == [1, x], _ == [x, [x, 1] | x]], append(x, x, []), [true, [_, [] | x] == x] } }, }])
 }
 pub fn case_168(vars: &Vars) -> InferredGoal<DU, DE, Goal<DU, DE>> {
     let q = vars.v[0].clone();
     let x = vars.v[1].clone();
-    proto_vulcan!([matchu x { [2, [1], 2 | _] | [[h], [y, y, y]] => { false, append(x, q, []) }, [[[], 1, 1 | 2], [[], false, z | _] | z] => [|t, y| { false, [3] == q }, matche z { [2, [[], z, 1 | 1], 2 | h] => { z == _ }, }], }])
+    proto_vulcan!([matchu x { [2, [1], 2 | _] | [[h], [y, y, y]] => { false, append(x, q, []) }, [[[], 1, 1 | 2], [[], false, z | _] | z] => { |t, y| { false, [3, 1, t | x] != y }, [["bc"] == [[], q, 1], true] }, }])
 }
 pub fn case_169(vars: &Vars) -> InferredGoal<DU, DE, Goal<DU, DE>> {
     let x = vars.v[0].clone();
     let y = vars.v[1].clone();
-    proto_vulcan!([matche x { [["bc", _ | x], 2] => { x == [1, 3] }, [[x | 1], [2, z, 2]] => [onceo { [_, 2] != x }, x == [3 | x]], }])
+    proto_vulcan!([matche x { [["bc", _ | x], 2] => { |tz| { tz == [2], [1 | tz] != [1, 2] } }, [[[], 1, x | x], [1, [], t], []] => [x == [1, 2, t], [] == y, |tz| { [3 | tz] != [3, 2, 3], tz == [2, 3] }], }])
 }
 pub fn case_170(vars: &Vars) -> InferredGoal<DU, DE, Goal<DU, DE>> {
     let x = vars.v[0].clone();
     let y = vars.v[1].clone();
-    proto_vulcan!([conde { member(x, [3, 2, 2]), ["bc"] != x }, matcha x { x => { [[], y, true | y] == x, |h| { [x, 2, 2 | x] != 1 } }, [['a' | z], h, 2] => { |h| { x == _, [h] == [y] }, [h == [h], z == [1, z], false] }, }])
+    proto_vulcan!([conde { member(x, [3, 2, 2]), x == [[], y, y] }, matche x { _ => { [1] == x, |x| { [_, "bc" | x] == x, false } }, y => , 'a' | [[h, 'b'], [2, h, h | y]] => [|z, t| { false, append(z, t, [1]) }, [] == x], }])
 }
 pub fn case_171(vars: &Vars) -> InferredGoal<DU, DE, Goal<DU, DE>> {
     let x = vars.v[0].clone();
-    proto_vulcan!([onceo { [] == x }, matcha true { [[h], z] | 2 => { x == x }, y | [[2, z, t]] => [|y| { x == x, [x, ['a', 2]] == [y], _ == x }, conde { [[2] == x, x == [_, "bc", _]], member(x, [2, 2, 3]) }], [[_]] => [3, x | x] == x, }])
+    proto_vulcan!([onceo { x == [x] }, matcha x { [["a" | y], [[], t | y], 2] => { conde { [[[] | t] == t, true], 1 == x, append(t, y, [3]) } }, 'a' => { match x { [[[], t, 2], [x, h], [false, 2, 2 | 1]] => append(x, x, [3, 3]), } }, }])
 }
 pub fn case_172(vars: &Vars) -> InferredGoal<DU, DE, Goal<DU, DE>> {
     let x = vars.v[0].clone();
@@ -999,7 +999,7 @@ pub fn case_173(vars: &Vars) -> InferredGoal<DU, DE, Goal<DU, DE>> {
 }
 pub fn case_174(vars: &Vars) -> InferredGoal<DU, DE, Goal<DU, DE>> {
     let x = vars.v[0].clone();
-    proto_vulcan!([conde { append(x, x, []), [x == [_ | x], x == [[_, 3, 2 | x]]] }, match x { h => , ['a', [2, t]] => , }])
+    proto_vulcan!([conde { append(x, x, []), [x == [1, x | x], 3 != x] }, matche _ { 1 | 2 => |t| { member(x, []), t != [x, t | x] }, }])
 }
 pub fn case_175(vars: &Vars) -> InferredGoal<DU, DE, Goal<DU, DE>> {
     let q = vars.v[0].clone();
@@ -1009,41 +1009,41 @@ pub fn case_175(vars: &Vars) -> InferredGoal<DU, DE, Goal<DU, DE>> {
 pub fn case_176(vars: &Vars) -> InferredGoal<DU, DE, Goal<DU, DE>> {
     let q = vars.v[0].clone();
     let x = vars.v[1].clone();
-    proto_vulcan!([|z| { true, q == [q, [], false], q == [z, 3, 1] }, matcha [q | q] { [[t, z | t], 1] => [_ != t], }])
+    proto_vulcan!([|z| { true, q == z, _ == [q] }, matche x { [[]] => , [[3], [t, z | t] | 3] => [z == t], [2 | z] => , }])
 }
 pub fn case_177(vars: &Vars) -> InferredGoal<DU, DE, Goal<DU, DE>> {
     let q = vars.v[0].clone();
     let x = vars.v[1].clone();
-    proto_vulcan!([[x, q] == q, matche x { x => onceo { true }, _ | [] => { append(x, q, []), |t, z| { q == [3, 1] } }, x => , }])
+    proto_vulcan!([[q, 2, [] | q] == q, matchu x { t | [_, []] => , 1 => , }])
 }
 pub fn case_178(vars: &Vars) -> InferredGoal<DU, DE, Goal<DU, DE>> {
     let q = vars.v[0].clone();
     let x = vars.v[1].clone();
-    proto_vulcan!([matcha q { [[1, y, []] | x] => match x { [[2, 'b', x] | h] | [[[]]] => ['b' == y, y != []], [] | t => [x == true, [[_], [1, [], 3]] == [[2], y, true]], }, }])
+    proto_vulcan!([matcha q { [[1, y, []] | x] => { match x { [[2, 'b', x] | h] | [[[]]] => { q == [y, q | y], [q, q] != q }, [2, [t | h], 1 | 1] => [3] != [true, 1 | x], } }, }])
 }
 pub fn case_179(vars: &Vars) -> InferredGoal<DU, DE, Goal<DU, DE>> {
     let x = vars.v[0].clone();
     let y = vars.v[1].clone();
-    proto_vulcan!([matchu [2, []] { 2 => , [_, 1, [1, t] | x] | [3] => { y != [2, [y | y], ['b', 3]] }, }])
+    proto_vulcan!([matchu [2, []] { 2 => , [_, 1, [1, t] | x] | [3] => y == _, }])
 }
 pub fn case_180(vars: &Vars) -> InferredGoal<DU, DE, Goal<DU, DE>> {
     let x = vars.v[0].clone();
     let y = vars.v[1].clone();
-    proto_vulcan!([[append(y, y, [3, 1])], matche y { ['b', [x, _, [] | x], 1 | t] => { y == y }, }])
+    proto_vulcan!([[append(y, y, [3, 1])], matche y { ['b', [x, _, [] | x], 1 | t] => [[y, 2, 3], [3, x], y] != false, }])
 }
 pub fn case_181(vars: &Vars) -> InferredGoal<DU, DE, Goal<DU, DE>> {
     let x = vars.v[0].clone();
     let y = vars.v[1].clone();
-    proto_vulcan!([matche x { [z, [_, 2 | h]] => , t | [[z]] => { "a" != y, 2 == x }, _ => { onceo { append(y, x, [1]) } }, }])
+    proto_vulcan!([matche x { [z, [_, 2 | h]] => , t | [[z]] => { y != [y, y, 'a'], conde { false, [[] == [x, 1], member(x, [])] } }, y => , }])
 }
 pub fn case_182(vars: &Vars) -> InferredGoal<DU, DE, Goal<DU, DE>> {
     let q = vars.v[0].clone();
     let x = vars.v[1].clone();
-    proto_vulcan!([q != 2, matche x { [[[], x], [h, 3, h], [] | _] => matchu [2, 3, []] { [[[], h, y], [3, y, _]] => { [true] == [[], [true, q, y | x]] }, }, 1 => { [3 | q] == 2, "bc" == x }, [[x, [] | x], _] | 'a' => { |h, y| { y == y, [[_]] == [3] }, q == [1, [], []] }, }])
+    proto_vulcan!([q == q, match [3, 2] { t => , h | [[_], _, [h, [] | y] | _] => { |x| { q == [3, q, _], x == ['a' | q], append(x, x, [1]) } }, }])
 }
 pub fn case_183(vars: &Vars) -> InferredGoal<DU, DE, Goal<DU, DE>> {
     let x = vars.v[0].clone();
-    proto_vulcan!([x == _, matcha x { "a" => { |z, t| { append(z, t, [2]), t == [true, 1 | z] } }, [[z], z | z] => [x == [[x, 1, [] | x]], matcha x { [y, z] => { append(z, z, [2]) }, [[2, t, 1 | "a"], [[], _ | _], [h, y]] => { y == [[], z | z] }, }], }])
+    proto_vulcan!([x == x, matcha ["a", x] { [1, [1, t]] => [x == 1, conde { [x == [t, x, t], 3 == x], [x == [true, x], [] == t] }], [y, "a"] => , [[z], [_], h | 3] => { [[_ | z], [1, 1]] == 'a' }, }])
 }
 pub fn case_184(vars: &Vars) -> InferredGoal<DU, DE, Goal<DU, DE>> {
     let x = vars.v[0].clone();
@@ -1053,7 +1053,7 @@ pub fn case_184(vars: &Vars) -> InferredGoal<DU, DE, Goal<DU, DE>> {
 pub fn case_185(vars: &Vars) -> InferredGoal<DU, DE, Goal<DU, DE>> {
     let x = vars.v[0].clone();
     let y = vars.v[1].clone();
-    proto_vulcan!([matche x { [[h], ["a" | t]] => { onceo { [x] == x }, |t| { 2 == x } }, [[1, z, 2], [[], 'a'], [1, x]] | [[y | _], [3] | t] => , }])
+    proto_vulcan!([matche x { [[h], ["a" | t]] => { onceo { x != x }, matche t { h | 2 => { [[x | y], [[], 'a'], [1, t]] != y }, } }, y => , }])
 }
 pub fn case_186(vars: &Vars) -> InferredGoal<DU, DE, Goal<DU, DE>> {
     let x = vars.v[0].clone();
@@ -1063,66 +1063,66 @@ pub fn case_186(vars: &Vars) -> InferredGoal<DU, DE, Goal<DU, DE>> {
 pub fn case_187(vars: &Vars) -> InferredGoal<DU, DE, Goal<DU, DE>> {
     let x = vars.v[0].clone();
     let y = vars.v[1].clone();
-    proto_vulcan!([condu { [x == [], [] == [2]] }, matchu x { [1, 2] => [[_, _, 2] == x, x == x], }])
+    proto_vulcan!([condu { [["bc"] == y, x == [[], 'b', y]] }, match x { [false] => { |h| { x != [_, x], [h, [_] | y] == x }, true }, [[y | x], [3]] => { x == [x, y, y], matchu [x] { [_, [1 | t], [[], [], t]] => { x == 3 }, 3 => { false }, 1 => , } }, }])
 }
 pub fn case_188(vars: &Vars) -> InferredGoal<DU, DE, Goal<DU, DE>> {
     let x = vars.v[0].clone();
-    proto_vulcan!([[true == x, [2, x | x] != x, [x, x] == x], matche "a" { y => { [[]] == x }, }])
+    proto_vulcan!([[x == [_], [x | x] != x, |tz| { tz == [3, 3], [1, 1, 3, 3] != [1, 1 | tz] }], matcha x { "a" => , x => , }])
 }
 pub fn case_189(vars: &Vars) -> InferredGoal<DU, DE, Goal<DU, DE>> {
     let x = vars.v[0].clone();
-    proto_vulcan!([|h| { [] == h }, match 'a' { [[t, x, h], [2, h], [_]] => { ["a", 2, h] == h }, [['a' | h], ['a' | y]] => { |t, z| { false, t == _, true } }, ['a'] | [1 | h] => , }])
+    proto_vulcan!([|h| { _ != [2, x] }, matcha x { [[h, false | _], [true, 1] | _] | [z] => { conde { [[x] == x, ['a' | x] == x], [x == x, [x | x] == x], [true, true] }, match x { t => [member(t, []), x == 2], x => , } }, [_ | y] | [x, [[], _ | y], [x, 2, 1] | z] => , [1, [_, y, x], x] => , }])
 }
 pub fn case_190(vars: &Vars) -> InferredGoal<DU, DE, Goal<DU, DE>> {
     let x = vars.v[0].clone();
     let y = vars.v[1].clone();
-    proto_vulcan!([matchu y { [] => { onceo { member(x, [1, 3, 2]) } }, [] | x => [append(y, y, [3, 2])], [3 | y] | [[z, _, x], [1, z] | y] => [y == [y], [2, y] == y, member(y, [1])], }])
+    proto_vulcan!([matchu y { [] => { onceo { member(x, [1, 3, 2]) } }, [] | x => [append(y, y, [3, 2])], [3 | y] | [[z, _, x], [1, z] | y] => [[y | y] == y, [y] != [[y, _], [1 | y], [[], "bc"] | y], [y, y, y] != y], }])
 }
 pub fn case_191(vars: &Vars) -> InferredGoal<DU, DE, Goal<DU, DE>> {
     let x = vars.v[0].clone();
     let y = vars.v[1].clone();
-    proto_vulcan!([matchu y { [2] => , z => { [true, 3, 3] == x, matcha y { [t, z] => , [1, 1, [y | z]] | [[1, t], ["a"] | h] => [x == [x, x | x], x == [x, 3]], } }, [[3, y]] => , }])
+    proto_vulcan!([matchu y { [2] => , z => [[[3 | x]] == x, |tz| { tz == [3], [2, 3] != [2 | tz] }], [h, y] => [|y| { |tz| { [2, 3, 2] != [2, 3 | tz], tz == [2] } }, [x == [[], h], x == [h, 2]]], }])
 }
 pub fn case_192(vars: &Vars) -> InferredGoal<DU, DE, Goal<DU, DE>> {
     let x = vars.v[0].clone();
-    proto_vulcan!([matche [x] { [z, [3] | _] => { conde { [append(x, x, [1, 3]), [z, 1] != [[2, 3] | x]], x != [true] }, |t, y| { [1, _] == t } }, [[t]] => [matcha [t, 3, 3] { [[2], [2, [], y] | 2] | z => t == [[[], t] | x], t | 2 => { x == [1, 2] }, }, onceo { x != t }], [[true], [x, x, x | y] | _] => , }])
+    proto_vulcan!([matche [x] { [z, [3] | _] => [conde { [append(x, x, [1, 3]), z == [z, []]], z != [[1, x], [x, []]] }, |t, y| { z == [1, z] }], [[y, 3]] | [[2, x, []], [2, y, 2] | 2] => , _ => { [[], x | x] != x, conde { [[[x, 2, x]] == x, [x] == x], [append(x, x, [3]), x == [true]], [[1, 2 | x] == x, x == [[], x]] } }, }])
 }
 pub fn case_193(vars: &Vars) -> InferredGoal<DU, DE, Goal<DU, DE>> {
     let x = vars.v[0].clone();
-    proto_vulcan!([onceo { x == ["a", [x, false, x], [x, [], x | x] | x] }, matchu [x, _] { [[1, h, h | _], [x, _], 1] => , x => conde { false, [3 | x] == x, [x == x, true] }, [1, [[]]] => { conde { [append(x, x, []), true], [true, x == x] }, onceo { x == [[], x] } }, }])
+    proto_vulcan!([onceo { |tz| { [3, 3 | tz] != [3, 3, 1], tz == [1] } }, match [[]] { [2] => { |z| { z != z, x == [x, z, x] } }, }])
 }
 pub fn case_194(vars: &Vars) -> InferredGoal<DU, DE, Goal<DU, DE>> {
     let q = vars.v[0].clone();
     let x = vars.v[1].clone();
-    proto_vulcan!([matcha x { false => [x != [2, []], x == 1], }])
+    proto_vulcan!([matcha x { false => [_ == x, 3 == x], }])
 }
 pub fn case_195(vars: &Vars) -> InferredGoal<DU, DE, Goal<DU, DE>> {
     let x = vars.v[0].clone();
-    proto_vulcan!([match x { [] | 2 => { 3 == x }, [[], x | _] => , }])
+    proto_vulcan!([match x { [] | 2 => x == x, [[x | _], 2, 2] | [z, [h, 3 | 2], _ | _] => , }])
 }
 pub fn case_196(vars: &Vars) -> InferredGoal<DU, DE, Goal<DU, DE>> {
     let x = vars.v[0].clone();
-    proto_vulcan!([matche x { [[z], [[]] | _] => |z| { z == 1, z == [_], [[], 2] != x }, }])
+    proto_vulcan!([matche x { [[z], [[]] | _] => { |z| { z == z, 1 == z, [3] == z } }, }])
 }
 pub fn case_197(vars: &Vars) -> InferredGoal<DU, DE, Goal<DU, DE>> {
     let q = vars.v[0].clone();
     let x = vars.v[1].clone();
-    proto_vulcan!([|x, t| { false, append(x, t, [2, 1]) }, match [x, [] | x] { 3 => , [[t, 3], [1], [[], 3, 1]] => q == [x], 1 => { |z, y| { ['b', [], _ | q] != [[z, _, 1] | y], z == [[z, _], [q, [] | y]], false }, x == [_, 'a', 1] }, }])
+    proto_vulcan!([|x, t| { false, append(x, t, [2, 1]) }, match [x, [] | x] { 3 => , [[t, 3], [1], [[], 3, 1]] => x == x, t => { conde { [|tz| { [1, 3 | tz] != [1, 3, 1], tz == [1] }, [[1, t]] == t], q == [3] }, |t| { |tz| { [3, 2] != [3 | tz], tz == [2] } } }, }])
 }
 pub fn case_198(vars: &Vars) -> InferredGoal<DU, DE, Goal<DU, DE>> {
     let x = vars.v[0].clone();
     let y = vars.v[1].clone();
-    proto_vulcan!([[] == 2, match y { [[2, y, h]] => { true }, x => { match [_, y] { [[_], []] => { x != y, x == [x] }, } }, }])
+    proto_vulcan!([y == y, match y { [[2, y, h]] => { true }, x => match [_, y] { [[_], []] => { x == [[]], false }, }, }])
 }
 pub fn case_199(vars: &Vars) -> InferredGoal<DU, DE, Goal<DU, DE>> {
     let q = vars.v[0].clone();
     let x = vars.v[1].clone();
-    proto_vulcan!([matchu q { [false] | x => { [[q, q, q]] == [_, q, q | q] }, [[2, 2, h | x], _] | [2 | t] => q == 3, }])
+    proto_vulcan!([matchu q { [false] | x => { [3, q | q] == q }, [[1 | z], [x, 2], [false, x | 2] | 2] | [[3 | _], x, [2] | _] => { |z, t| { false, t == [2, [] | t], 2 == [t] } }, }])
 }
 pub fn case_200(vars: &Vars) -> InferredGoal<DU, DE, Goal<DU, DE>> {
     let q = vars.v[0].clone();
     let x = vars.v[1].clone();
-    proto_vulcan!([q == [], match q { [2, [y, _ | _] | h] | [[x, 2, 3], [h, [] | x], y] => { [] != y, matcha y { 1 => { h == [2, q, h] }, } }, }])
+    proto_vulcan!([q == [1, q | q], matche q { 1 => , }])
 }
 pub fn case_201(vars: &Vars) -> InferredGoal<DU, DE, Goal<DU, DE>> {
     let x = vars.v[0].clone();
@@ -1131,17 +1131,17 @@ pub fn case_201(vars: &Vars) -> InferredGoal<DU, DE, Goal<DU, DE>> {
 pub fn case_202(vars: &Vars) -> InferredGoal<DU, DE, Goal<DU, DE>> {
     let x = vars.v[0].clone();
     let y = vars.v[1].clone();
-    proto_vulcan!([[x, _, []] == y, matcha y { x | x => , }])
+    proto_vulcan!([[2, []] == x, matcha y { x | x => , }])
 }
 pub fn case_203(vars: &Vars) -> InferredGoal<DU, DE, Goal<DU, DE>> {
     let x = vars.v[0].clone();
     let y = vars.v[1].clone();
-    proto_vulcan!([matchu x { [[true, 3, _]] | [[z], [z, [], false | x] | t] => |t| { t == [y, [], 1] }, [[2]] | false => { |t, x| { [2, y] != t } }, h | t => { matcha [] { [[1, true]] => , } }, }])
+    proto_vulcan!([matchu x { [[true, 3, _]] | [[z], [z, [], false | x] | t] => |t| { [y, [y, y], [y, t]] != false }, [[t, []]] => , y | [[h, _, t], [_, []]] => { append(x, x, []), member(x, [3, 1, 2]) }, }])
 }
 pub fn case_204(vars: &Vars) -> InferredGoal<DU, DE, Goal<DU, DE>> {
     let q = vars.v[0].clone();
     let x = vars.v[1].clone();
-    proto_vulcan!([|h| { append(x, x, [3]), true, h != [[q, x, 1], 1, 3] }, matche x { 3 => onceo { [[2, q, q | 2], x, 'a'] == q }, _ => { [2] == x, [x == [x, q]] }, }])
+    proto_vulcan!([|h| { append(x, x, [3]), true, 3 == [[q, 3], [[]], [x, h, x | h] | x] }, match [1, 1, _] { [[[] | h], ['a'], 2 | _] => { |tz| { tz == [2, 2], [1, 1, 2, 2] != [1, 1 | tz] }, |x, h| { [x, x | h] != x } }, 'a' => , }])
 }
 pub fn case_205(vars: &Vars) -> InferredGoal<DU, DE, Goal<DU, DE>> {
     let q = vars.v[0].clone();
@@ -1150,12 +1150,12 @@ pub fn case_205(vars: &Vars) -> InferredGoal<DU, DE, Goal<DU, DE>> {
 }
 pub fn case_206(vars: &Vars) -> InferredGoal<DU, DE, Goal<DU, DE>> {
     let x = vars.v[0].clone();
-    proto_vulcan!([onceo { x == [x, x | x] }, matcha x { z => { onceo { false } }, h => { 2 == 1, |t, y| { false, x == [[[], 2], 2, [x, h, h] | t], [[y], h, []] == x } }, }])
+    proto_vulcan!([onceo { x == x }, matcha x { [[[] | z]] | [[y | t]] => { x != 1, |z| { [[2, []]] == z, member(z, []), z != [z, 'b'] } }, }])
 }
 pub fn case_207(vars: &Vars) -> InferredGoal<DU, DE, Goal<DU, DE>> {
     let q = vars.v[0].clone();
     let x = vars.v[1].clone();
-    proto_vulcan!([matchu q { [x, [1, x], [h, y]] => { condu { append(x, y, [1]), [1, x] != x, [y, [q, 'b', []], [h, 1]] != y }, |z, h| { member(x, [1, 1]), append(x, q, []), q == [h, 3, h] } }, [[2, 3, _], t, h] => [onceo { t != ['b', 1] }, onceo { [] != t }], }])
+    proto_vulcan!([matchu q { [x, [1, x], [h, y]] => [condu { append(x, y, [1]), q == [2, [], [x, false]], [[3, 'b'], [x, 1 | y]] != [_, "a", y] }, matche h { 3 => , [[3], 2, 1] => { ['b', 1, [x, 1]] == h, member(h, [1, 1]) }, [2, [x], [t]] => , }], [[y], x, z] => |y, z| { z == [y, 1 | q], [[y] | x] == _, x == y }, }])
 }
 pub fn case_208(vars: &Vars) -> InferredGoal<DU, DE, Goal<DU, DE>> {
     let x = vars.v[0].clone();
@@ -1164,40 +1164,40 @@ pub fn case_208(vars: &Vars) -> InferredGoal<DU, DE, Goal<DU, DE>> {
 pub fn case_209(vars: &Vars) -> InferredGoal<DU, DE, Goal<DU, DE>> {
     let q = vars.v[0].clone();
     let x = vars.v[1].clone();
-    proto_vulcan!([|y, t| { [t, "bc", y] == y, q != [t] }, matche q { t | [[t], [t, [], _], [_, z, t] | h] => , }])
+    proto_vulcan!([|y, t| { [q] == x, [q] == x }, matchu x { [3, [2, 2 | t]] => , [[t, [], 1], [false | t], z] => { match t { [[h], h] | 2 => [t == [[t], [[]]], x == [z, q]], } }, }])
 }
 pub fn case_210(vars: &Vars) -> InferredGoal<DU, DE, Goal<DU, DE>> {
     let q = vars.v[0].clone();
     let x = vars.v[1].clone();
-    proto_vulcan!([|y| { true, x == ["bc", y] }, match x { [[_, h | _], [y, h, 1] | t] => , }])
+    proto_vulcan!([|y| { true, q == [y | y] }, match q { 2 => , }])
 }
 pub fn case_211(vars: &Vars) -> InferredGoal<DU, DE, Goal<DU, DE>> {
     let q = vars.v[0].clone();
     let x = vars.v[1].clone();
-    proto_vulcan!([[[x, x, q] != x, x == [q, x], member(x, [3])], matchu [q] { [[h], ["bc", 1, z | z], [[], _, y | h]] => , }])
+    proto_vulcan!([[1 != [[[], x, x | q], [q, 1, []], [x] | false], true, append(x, q, [3])], matcha x { [[1, h, [] | z], [[], _, y | h], [z | 1]] | [[y, 3], x, h] => , }])
 }
 pub fn case_212(vars: &Vars) -> InferredGoal<DU, DE, Goal<DU, DE>> {
     let x = vars.v[0].clone();
     let y = vars.v[1].clone();
-    proto_vulcan!([[y, x] != true, matche ['a'] { z | "bc" => [x == [2, [], x], [y, 3] == y], [_] => matche y { _ => false, _ => y == [[], y], "a" => , }, h => , }])
+    proto_vulcan!([x != [2, y], matchu y { [z, z, "bc"] => |h, y| { _ == x, member(z, [2, 2, 3]) }, }])
 }
 pub fn case_213(vars: &Vars) -> InferredGoal<DU, DE, Goal<DU, DE>> {
     let x = vars.v[0].clone();
     let y = vars.v[1].clone();
-    proto_vulcan!([[[[1, x, _], [x]] == [2, y]], matche [1, _, 1] { [h, [y, z | 2], [[]]] | [[_, x, x], [_, 2, y | t]] => [_ == y, [_] == y, append(y, y, [1])], [[3, z], [h, 2], [2]] => { x == [1, [], h | x] }, [_, [z, [] | x]] => , }])
+    proto_vulcan!([[[[x, 2, y | x], [_, 1], [x, 2]] == [[2, 1], ["bc", 1]]], matchu y { [] => [[x != [3, [], x | y], [y] == [2, [2 | _]]], |x, t| { t == [[_, t], [t, 2], [2]] }], [[1, [], h | h]] => , }])
 }
 pub fn case_214(vars: &Vars) -> InferredGoal<DU, DE, Goal<DU, DE>> {
     let x = vars.v[0].clone();
-    proto_vulcan!([matcha x { [[1 | "bc"]] => { [[[]] == x, [1, [3, _ | 3], 3] != [[], x, 1], [1 | x] == x] }, [2, h, [y] | x] => { ["bc", 'a' | h] == h, [[] == x, false, x != x] }, }])
+    proto_vulcan!([matcha x { [[1 | "bc"]] => { [[[], 2, [x, x, x] | x] != x, true, [] != x] }, [1, [[], 2, 1] | y] => , }])
 }
 pub fn case_215(vars: &Vars) -> InferredGoal<DU, DE, Goal<DU, DE>> {
     let q = vars.v[0].clone();
     let x = vars.v[1].clone();
-    proto_vulcan!([matche x { [[z, 2], 3, [3, z, 2] | x] => [[] == z, conde { [x == true, true], [false, 3 == z], true }], }])
+    proto_vulcan!([matche x { [[z, 2], 3, [3, z, 2] | x] => { [2] == x, [q] == x }, }])
 }
 pub fn case_216(vars: &Vars) -> InferredGoal<DU, DE, Goal<DU, DE>> {
     let x = vars.v[0].clone();
-    proto_vulcan!([matche x { h => [h == ["a", x, 1 | h], conda { [[x, x]] == x, [h == [], true] }], [[x], [3, t], [2, t | t]] => , [[z, x] | _] | _ => , }])
+    proto_vulcan!([matche x { h => [x == h, [[2, x, [] | h], [[], x, x]] == x], 1 => , [_, [[], z, 3 | x]] => { |t| { z == [z, 'b'], append(x, x, [1]) }, [] == z }, }])
 }
 pub fn case_217(vars: &Vars) -> InferredGoal<DU, DE, Goal<DU, DE>> {
     let x = vars.v[0].clone();
@@ -1207,31 +1207,31 @@ pub fn case_217(vars: &Vars) -> InferredGoal<DU, DE, Goal<DU, DE>> {
 pub fn case_218(vars: &Vars) -> InferredGoal<DU, DE, Goal<DU, DE>> {
     let q = vars.v[0].clone();
     let x = vars.v[1].clone();
-    proto_vulcan!([true, match x { 2 => , [y, 1 | t] | [3, [_, x]] => |z, x| { 1 == q, true }, 'a' => , }])
+    proto_vulcan!([true, match x { 2 => , [y, 1 | t] | [3, [_, x]] => { |z, x| { z == x, [q, ["a"]] != x } }, 3 => { condu { [x == q, x == []] } }, }])
 }
 pub fn case_219(vars: &Vars) -> InferredGoal<DU, DE, Goal<DU, DE>> {
     let q = vars.v[0].clone();
     let x = vars.v[1].clone();
-    proto_vulcan!([matche x { [z | _] => [|z| { member(q, [1]), q == [z, z, q] }, z != [[1, "bc", 2], x, [q, 1]]], t => , _ => , }])
+    proto_vulcan!([matche x { [z | _] => [|z| { member(q, [1]), [_] == x }, [1, 1, x | z] == x], [[z, 1], 1 | _] | 1 => { [[[1, _], x | x] == [q], ["bc"] != x, q == q], x == q }, 1 => |y| { x == [x, 1] }, }])
 }
 pub fn case_220(vars: &Vars) -> InferredGoal<DU, DE, Goal<DU, DE>> {
     let x = vars.v[0].clone();
     let y = vars.v[1].clone();
-    proto_vulcan!([matche x { [2, [_, t]] | [["a"], y | 2] => [false, onceo { [[], 1] != x }], }])
+    proto_vulcan!([matche x { [2, [_, t]] | [["a"], y | 2] => [false, onceo { [[1], [x, x | x] | x] != _ }], }])
 }
 pub fn case_221(vars: &Vars) -> InferredGoal<DU, DE, Goal<DU, DE>> {
     let q = vars.v[0].clone();
     let x = vars.v[1].clone();
-    proto_vulcan!([["bc", x] == q, matcha q { [x, [h, 3, x] | _] => , h => , [y, [3, false], [2, []]] => , }])
+    proto_vulcan!([x != "bc", matcha [_, "bc"] { 2 | [[z, 2 | _] | y] => { matche q { h | 3 => , [[1, 3, []] | 1] => { 2 == x }, [[x, "a"], [z, [], _]] => [[[1, true], [], [[], [], 2] | q] == x, |tz| { tz == [3], [2, 2 | tz] != [2, 2, 3] }], } }, [[1, h | h]] => [[[] | q], [[], _, q] | h] == q, }])
 }
 pub fn case_222(vars: &Vars) -> InferredGoal<DU, DE, Goal<DU, DE>> {
     let q = vars.v[0].clone();
     let x = vars.v[1].clone();
-    proto_vulcan!([[q, q] == x, matchu x { [_, [z, _] | _] => , }])
+    proto_vulcan!([x == q, matcha [3 | x] { 2 | [_, [x, h]] => |t| { t == [_, []] }, y | x => { conde { [[2 | q] == q, member(q, [1, 2, 1])], [q == [2, q, []], q != [q | q]], [q != q, q == []] } }, }])
 }
 pub fn case_223(vars: &Vars) -> InferredGoal<DU, DE, Goal<DU, DE>> {
     let x = vars.v[0].clone();
-    proto_vulcan!([matchu x { [2, [[], [], t], h] => |h, y| { _ == [['b', 'a', []], _], false, member(y, [3, 1, 3]) }, }])
+    proto_vulcan!([matchu x { [2, [[], [], t], h] => { |h, y| { t != [x, 'a'], member(x, [3, 1]), [[2, [], _]] == h } }, }])
 }
 pub fn case_224(vars: &Vars) -> InferredGoal<DU, DE, Goal<DU, DE>> {
     let q = vars.v[0].clone();
@@ -1240,112 +1240,112 @@ pub fn case_224(vars: &Vars) -> InferredGoal<DU, DE, Goal<DU, DE>> {
 }
 pub fn case_225(vars: &Vars) -> InferredGoal<DU, DE, Goal<DU, DE>> {
     let x = vars.v[0].clone();
-    proto_vulcan!([matche [2, 'a', _ | x] { [[h, 1, z] | x] | [[false, 1 | t], [t, x, 1] | 2] => { onceo { 3 == [[3, [], x | x]] } }, }])
+    proto_vulcan!([matche [2, 'a', _ | x] { [[h, 1, z] | x] | [[false, 1 | t], [t, x, 1] | 2] => { onceo { x == [2, x, x] } }, }])
 }
 pub fn case_226(vars: &Vars) -> InferredGoal<DU, DE, Goal<DU, DE>> {
     let x = vars.v[0].clone();
-    proto_vulcan!([[] != x, matchu x { [[] | x] => , x => [x] == x, _ => |h| { x != x }, }])
+    proto_vulcan!([[2, 2, x] == x, matche x { [_, [2, z, t], t] | [[_, _], x, [_ | x]] => , [] => conde { [] != [[x, x, 1], 2, [x, 3] | x], [x != [x], member(x, [2])] }, [[3, 2, [] | "bc"], [y, 2], [_]] => { match y { 2 => { [[2, false, y | y], [x, 3, 3 | x]] == 1 }, [[z], [1], 1] | 1 => [y != [['b', 2], _ | y], x == [2]], 3 => y == [1, [], y], }, [false, y == [x, _, []]] }, }])
 }
 pub fn case_227(vars: &Vars) -> InferredGoal<DU, DE, Goal<DU, DE>> {
     let x = vars.v[0].clone();
-    proto_vulcan!([|x| { append(x, x, []), x == "a", x == [x, "a"] }, matcha x { [[2, _, _ | 1], ["bc", x]] | [2, [t | 'a']] => , }])
+    proto_vulcan!([|x| { append(x, x, []), [x, 1, x] == x, member(x, [3, 1]) }, matche x { t => , 2 => , 1 | [[1, y, true], [1, t | 'a']] => [[x, 1] == x, [x != [true, _], |tz| { [1, 1 | tz] != [1, 1, 2], tz == [2] }]], }])
 }
 pub fn case_228(vars: &Vars) -> InferredGoal<DU, DE, Goal<DU, DE>> {
     let x = vars.v[0].clone();
-    proto_vulcan!([match x { [[2], 1] | [["bc"], [2 | _], [[], [], []]] => { x == x, true }, t => [[x, 2], [1, 1], _] == t, [t, [2 | h]] | [[1, 1], [2, []]] => { matchu x { [_ | z] => { x == 'a' }, } }, }])
+    proto_vulcan!([match x { [[2], 1] | [["bc"], [2 | _], [[], [], []]] => [|tz| { [3, 2, 3, 3] != [3, 2 | tz], tz == [3, 3] }, |y| { 2 == x, 2 == y }], [_, true, [h, 1 | 1]] | 'b' => false, [[x, 2], y, [2, _]] => , }])
 }
 pub fn case_229(vars: &Vars) -> InferredGoal<DU, DE, Goal<DU, DE>> {
     let x = vars.v[0].clone();
     let y = vars.v[1].clone();
-    proto_vulcan!([[y != [3, _], false], matcha x { [[_, _]] => , [[_, y], [x, h, 1] | _] => , }])
+    proto_vulcan!([[x != [1], false], matcha x { [[_, _]] => , [[_, y], [x, h, 1] | _] => , }])
 }
 pub fn case_230(vars: &Vars) -> InferredGoal<DU, DE, Goal<DU, DE>> {
     let q = vars.v[0].clone();
     let x = vars.v[1].clone();
-    proto_vulcan!([|x| { append(x, x, [3, 1]), append(q, q, []) }, matche q { 2 | [[t | _], h, y | z] => , [[1, "bc", h | 3]] => x == [[]], }])
+    proto_vulcan!([|x| { append(x, x, [3, 1]), append(q, q, []) }, matche q { 2 | [[t | _], h, y | z] => , [[1, "bc", h | 3]] => { |tz| { [2, 1] != [2 | tz], tz == [1] } }, }])
 }
 pub fn case_231(vars: &Vars) -> InferredGoal<DU, DE, Goal<DU, DE>> {
     let x = vars.v[0].clone();
     let y = vars.v[1].clone();
-    proto_vulcan!([append(y, x, []), matche 2 { 1 => [y == 2, [[y]] == y], z => , }])
+    proto_vulcan!([append(y, x, []), matche 2 { 1 => [x == x, |h, t| { |tz| { tz == [2, 3], [2 | tz] != [2, 2, 3] } }], [] | [t] => [[_, [], x | y] == y, [x == 3, true, y == [3, 3]]], }])
 }
 pub fn case_232(vars: &Vars) -> InferredGoal<DU, DE, Goal<DU, DE>> {
     let x = vars.v[0].clone();
     let y = vars.v[1].clone();
-    proto_vulcan!([matche x { 2 => 2 == [[3 | y], 1 | _], [2, [], [_] | _] => , }])
+    proto_vulcan!([matche x { 2 => { [_, [y, [] | _], [2, []]] == y }, [[], [_], 1 | _] => [y == x, match y { [[_ | h], [t | 1] | _] => { y == [[], _], [[], 3 | x] == y }, }], }])
 }
 pub fn case_233(vars: &Vars) -> InferredGoal<DU, DE, Goal<DU, DE>> {
     let x = vars.v[0].clone();
     let y = vars.v[1].clone();
-    proto_vulcan!([matchu x { [[h, 3, z], 2, [3, z, h | x]] => { matcha x { [[t, 2]] | _ => { member(z, [2]), [y] == x }, [[_, _], [x, h, _]] | y => { _ == [false, 1 | z] }, [y | _] => , } }, }])
+    proto_vulcan!([matchu x { [[h, 3, z], 2, [3, z, h | x]] => matcha x { [[t, 2]] | _ => { member(z, [2]), [y, [], x | x] != _ }, h | [] => { [_] == [false, 1 | x], z == z }, [[h, t, false], [2, _ | _], 3] => { member(t, []), append(x, y, []) }, }, }])
 }
 pub fn case_234(vars: &Vars) -> InferredGoal<DU, DE, Goal<DU, DE>> {
     let x = vars.v[0].clone();
-    proto_vulcan!([x == [[false, 2, [] | x]], matche x { [[true, 1 | "bc"] | 1] | 1 => { x == [x, x, x], match [[]] { x => , } }, [[2, z, "bc" | y], t] => { 1 == z }, [[_, 2, y], 1, [[]]] => , }])
+    proto_vulcan!([[x, x, 2 | x] == x, match x { [[[]], [true | "bc"] | 1] => [[append(x, x, [2]), [x] == x, [] == 2], [2, x, "bc" | x] == x], 1 => [condu { [[x, _, 2] == x, [_, []] == x], [2 | x] == x }, condu { [x == [x, _], member(x, [])], [['a'] == [[2, 2], [2, 3, 3] | x], x != ["bc", [_, 2]]], ['a' | x] != x }], [[] | z] => , }])
 }
 pub fn case_235(vars: &Vars) -> InferredGoal<DU, DE, Goal<DU, DE>> {
     let x = vars.v[0].clone();
     let y = vars.v[1].clone();
-    proto_vulcan!([[true, true | 1] == 2, match x { [x, [t, 3] | y] | [[2, 'b', 3], t, 3 | h] => , [] | [z, [2, y, y]] => { conda { x == [_ | x], [[x, 1]] == [[], x] }, [] == [[x, 3, x], [x, x, x | x], [_, _, 'a']] }, [2] | z => , }])
+    proto_vulcan!([[x | x] == y, match [2 | y] { [t] => |x, z| { false, false }, [['b', 3], t, 3 | h] => , }])
 }
 pub fn case_236(vars: &Vars) -> InferredGoal<DU, DE, Goal<DU, DE>> {
     let x = vars.v[0].clone();
     let y = vars.v[1].clone();
-    proto_vulcan!([matchu [y] { [[3, 1, x]] | y => , [[1, _, false], ['a' | z], _] => , 2 | ["bc", _ | _] => [|t, h| { t == 3, 'a' == t }, |x, y| { ["bc", [2, 'a' | y] | y] == [y, x | y] }], }])
+    proto_vulcan!([matchu [y] { [[3, 1, x]] | y => , [[1, _, false], ['a' | z], _] => , 2 | ["bc", _ | _] => [|t, h| { [x, 2, 1 | t] == x, |tz| { [2, 1 | tz] != [2, 1, 3, 3], tz == [3, 3] } }, conde { [y == true, y == x], [x != [1], x != [y | y]], x == [x] }], }])
 }
 pub fn case_237(vars: &Vars) -> InferredGoal<DU, DE, Goal<DU, DE>> {
     let x = vars.v[0].clone();
     let y = vars.v[1].clone();
-    proto_vulcan!([matchu x { [[_, t, _], [z, "bc"], 1] => { conda { [true, y == [z]], ['a' != z, false], t == z } }, [[y, _, []], [[], 2, 2]] => { conda { [3] == x, [y == x, [3, _ | y] == y], x == [y, 3, 3] } }, [] => [condu { [1, x, _ | y] == y, [false, [3] == x] }, |x, y| { member(x, [3]), [[2, y], 2, y | y] == x, [y, [_, 2, 3]] == 2 }], }])
+    proto_vulcan!([matchu x { [[_, t, _], [z, "bc"], 1] => { conda { [true, x != [z]], [z == z, t == z], member(x, []) } }, [[]] => { condu { [[[x | x], [_], [x, x]] == y, y == 3], true, [|tz| { [1 | tz] != [1, 2], tz == [2] }, [true, y, []] != y] }, [[x | x] != y, false, x == [1, 3, "a"]] }, [[h, 1, h], [2, x] | x] => , }])
 }
 pub fn case_238(vars: &Vars) -> InferredGoal<DU, DE, Goal<DU, DE>> {
     let x = vars.v[0].clone();
-    proto_vulcan!([member(x, [3, 2, 3]), match x { z | [[1, []], [[]]] => { onceo { x == [1, _, x] }, match x { 3 => true, } }, h => , [[[], x, h] | 1] => |y, z| { [_] == z, x != [1, []], true }, }])
+    proto_vulcan!([member(x, [3, 2, 3]), match x { z | [[1, []], [[]]] => [onceo { x == [x, x, _ | x] }, x != [[], 'a', x | x]], [h, 2, x] => , [[2, [], y], [1, _ | x], [1, 1] | _] | x => , }])
 }
 pub fn case_239(vars: &Vars) -> InferredGoal<DU, DE, Goal<DU, DE>> {
     let q = vars.v[0].clone();
     let x = vars.v[1].clone();
-    proto_vulcan!([match x { h | "bc" => , 1 | _ => { [[1, q | x]] == x }, [[h, x | y], [x, x, z], 3] => , }])
+    proto_vulcan!([match x { h | "bc" => , 1 | _ => { x == x }, [3, y, [2, []] | _] | [[3, x, x], [t, [], x], x | 2] => { |t, h| { true, 1 == q, [2, h | t] == h }, [[1] != q, false, [1] == q] }, }])
 }
 pub fn case_240(vars: &Vars) -> InferredGoal<DU, DE, Goal<DU, DE>> {
     let q = vars.v[0].clone();
     let x = vars.v[1].clone();
-    proto_vulcan!([matchu x { z | 3 => , [[3]] => { [["bc", 'a' | q] | x] == [1, _] }, [['b', 1, _], [_] | z] => , }])
+    proto_vulcan!([matchu x { z | 3 => , [[3]] => { x == "bc" }, [[2], [y], [_, 3]] => { matchu q { [[] | z] => , [1, [2, _ | _] | h] => true, }, onceo { y == [2, y, x] } }, }])
 }
 pub fn case_241(vars: &Vars) -> InferredGoal<DU, DE, Goal<DU, DE>> {
     let q = vars.v[0].clone();
     let x = vars.v[1].clone();
-    proto_vulcan!([matcha x { 2 => , [[1]] => , [[1], [] | 2] | [[h, x, 3]] => |y| { 2 == y }, }])
+    proto_vulcan!([matcha x { 2 => , [[1]] => , [[1], [] | 2] | [[h, x, 3]] => |y| { [[1, q, [] | q]] == y }, }])
 }
 pub fn case_242(vars: &Vars) -> InferredGoal<DU, DE, Goal<DU, DE>> {
     let x = vars.v[0].clone();
     let y = vars.v[1].clone();
-    proto_vulcan!([2 == x, matchu y { h => { [h | x] == x, |y| { [3, h, 3] == y, [x | 2] == y, y == y } }, x => x != ['a'], h => matche y { true => { [y, x, h | x] == [y, [y | y]] }, [3] => y == [2, 2, 3 | y], }, }])
+    proto_vulcan!([y == [2, x | 'a'], match x { [[y, z, z | y] | _] | x => , }])
 }
 pub fn case_243(vars: &Vars) -> InferredGoal<DU, DE, Goal<DU, DE>> {
     let x = vars.v[0].clone();
     let y = vars.v[1].clone();
-    proto_vulcan!([|z| { y != [[_, 2, _], 2], false == 'a' }, matcha x { h | x => [matcha [y, y | y] { t => , }, [y == [_], member(y, []), y == [3, [_], [false, _, 1]]]], [[_, _, []]] => { matche x { z => { 3 == x }, }, match y { [x, 2, [[] | z] | h] => [member(x, [1]), x == y], } }, }])
+    proto_vulcan!([|z| { y == [2], false }, match y { [[false] | x] => , [y, x] => { matcha x { 2 => , [[t, 2] | "bc"] => , }, member(y, []) }, [2 | y] => { conde { [] != [[1, 3, y | y] | y], [append(y, y, [2, 1]), [] == x] } }, }])
 }
 pub fn case_244(vars: &Vars) -> InferredGoal<DU, DE, Goal<DU, DE>> {
     let q = vars.v[0].clone();
     let x = vars.v[1].clone();
-    proto_vulcan!([matchu x { [[x]] | 3 => { onceo { q == [false, q, _] }, conde { q == [3], [[2, 1] == q, q == [2]], [q == [[_, 2], [1, q, q | q] | q], ['a'] != q] } }, }])
+    proto_vulcan!([matchu x { [[x]] | 3 => [onceo { false != q }, conda { append(q, q, []) }], }])
 }
 pub fn case_245(vars: &Vars) -> InferredGoal<DU, DE, Goal<DU, DE>> {
     let x = vars.v[0].clone();
     let y = vars.v[1].clone();
-    proto_vulcan!([matcha x { [[2, 3], [y, 1 | z], z] => [[y], 3, 2 | _] == y, ['b', h] => , }])
+    proto_vulcan!([matcha x { [[2, 3], [y, 1 | z], z] => z == 2, x => , }])
 }
 pub fn case_246(vars: &Vars) -> InferredGoal<DU, DE, Goal<DU, DE>> {
     let x = vars.v[0].clone();
     let y = vars.v[1].clone();
-    proto_vulcan!([x == [y | x], matcha x { [[y]] => { [[[3, "a", x], [3, y]] != [1, y]] }, }])
+    proto_vulcan!([x == [x, x], match x { [[h, 2, _ | y]] => false, [t, [x], 2] => , 1 => [matchu x { 2 => , }, false], }])
 }
 pub fn case_247(vars: &Vars) -> InferredGoal<DU, DE, Goal<DU, DE>> {
     let x = vars.v[0].clone();
     let y = vars.v[1].clone();
-    proto_vulcan!([matche y { ['a', [2, _]] => , _ => [|t, h| { [2, [y], [y, h, 2]] != x }, matchu x { [[[]], 2 | 1] | [[3], [x, false] | _] => { member(y, []) }, [y, [_, 2, 2 | _]] => { x != y, false }, 'b' => { [y, 2, []] != y }, }], z => { |h, y| { [2 | y] == y }, |y| { [3, _] == 2 } }, }])
+    proto_vulcan!([matche y { ['a', [2, _]] => , _ => [|t, h| { [[x, y], [y, h, 2]] != h }, matchu x { [[[]], 2 | 1] | [[3], [x, false] | _] => { member(y, []) }, [y, [_, 2, 2 | _]] => [false == y, |tz| { tz == [2, 1], [2 | tz] != [2, 2, 1] }], [2, [[], y, y], [t, 'a' | _]] => { [[y, [], 3 | y], [1, 3] | t] == t }, }], [[[]], ["bc", "bc" | t], [z]] | 3 => [conde { [append(x, x, [2]), true], [true, x == [_ | y]] }, matcha x { z => |tz| { tz == [1, 1], [1, 1, 1, 1] != [1, 1 | tz] }, [h, z, [_, y | y]] => [h == [h, "a", _], h == [x]], 1 => [y != [_, 2], y == ["a", y, y | y]], }], }])
 }
 pub fn case_248(vars: &Vars) -> InferredGoal<DU, DE, Goal<DU, DE>> {
     let x = vars.v[0].clone();
@@ -1355,7 +1355,7 @@ pub fn case_248(vars: &Vars) -> InferredGoal<DU, DE, Goal<DU, DE>> {
 pub fn case_249(vars: &Vars) -> InferredGoal<DU, DE, Goal<DU, DE>> {
     let x = vars.v[0].clone();
     let y = vars.v[1].clone();
-    proto_vulcan!([match [x] { [[h], [z, _ | _]] => [|t, y| { z == [1, [], []], y == y, [1] != y }, [[]] == h], z => [x == [[z, 3] | z]], }])
+    proto_vulcan!([match [x] { [[h], [z, _ | _]] => { |t, y| { [1] == y, append(t, x, [2, 2]), false }, condu { [[1] != z, [[]] == h], [member(x, [2, 2]), x != [[x, 3] | h]], [['a', [[], "bc"], y] == h, ["bc", h | h] == [[[]]]] } }, [[z, y | z], [h] | _] => { 'a' == h }, }])
 }
 pub fn case_250(vars: &Vars) -> InferredGoal<DU, DE, Goal<DU, DE>> {
     let x = vars.v[0].clone();
@@ -1363,39 +1363,39 @@ pub fn case_250(vars: &Vars) -> InferredGoal<DU, DE, Goal<DU, DE>> {
 }
 pub fn case_251(vars: &Vars) -> InferredGoal<DU, DE, Goal<DU, DE>> {
     let x = vars.v[0].clone();
-    proto_vulcan!([[x, 3] == x, matche x { _ | [y, [t, y, z | h]] => , 1 => { false != x }, }])
+    proto_vulcan!([x == [x], match x { y => { conde { x == y, [x == 1, x == [[1]]], [y == [[[]], [1, [], 'b' | y], false], x != [x, []]] }, conde { [x != 'a', x != [y | x]], [y == x, [y | y] != y] } }, [1] => , [[3, 1 | z]] => [conde { [_, x, "a"] != z, [true, member(z, [1, 1, 3])] }, [true, ["bc", _] == x, append(x, x, [3])]], }])
 }
 pub fn case_252(vars: &Vars) -> InferredGoal<DU, DE, Goal<DU, DE>> {
     let x = vars.v[0].clone();
     let y = vars.v[1].clone();
-    proto_vulcan!([conde { [y == x, y == [[], 1, y]], [[] | y] == x }, match y { [3, [3 | 3]] => { [member(y, []), [1, [_] | true] == y] }, z => , }])
+    proto_vulcan!([conde { [x == 1, y == [y]], |tz| { tz == [1, 2], [3 | tz] != [3, 1, 2] } }, matcha y { [[[], y | y], _ | 3] | x => , }])
 }
 pub fn case_253(vars: &Vars) -> InferredGoal<DU, DE, Goal<DU, DE>> {
     let x = vars.v[0].clone();
-    proto_vulcan!([matcha x { [[3, [], 2], [3, y, x | z], [3, y, z]] | [] => , h => [|h, x| { h != [_, h, h | x] }, conde { x == ["bc" | x], [[1, 'b', h]] != [1 | h], x != h }], [x, h, "a"] => , }])
+    proto_vulcan!([matcha x { [[3, [], 2], [3, y, x | z], [3, y, z]] | [] => , h => [|h, x| { h != [h, h, 2] }, conde { [1, 'a', _ | x] == x, true, h == h }], h => , }])
 }
 pub fn case_254(vars: &Vars) -> InferredGoal<DU, DE, Goal<DU, DE>> {
     let q = vars.v[0].clone();
     let x = vars.v[1].clone();
-    proto_vulcan!([conde { q != "bc", [q == x, _ == x] }, matchu q { [[3, "a"], _, [_, y, t | _]] | [h | _] => conda { [true, ['b', x, x] == q], q != true }, [_, ["bc", x], _] => , }])
+    proto_vulcan!([conde { [1, x, 1] == x, [_ == x, [[2 | x]] == _] }, matcha x { t | [[h, 1 | _] | x] => { |z| { [2 | z] == 'a' } }, [x] => , }])
 }
 pub fn case_255(vars: &Vars) -> InferredGoal<DU, DE, Goal<DU, DE>> {
     let x = vars.v[0].clone();
-    proto_vulcan!([matcha _ { 1 => [onceo { member(x, [1]) }, match x { [[2, _], [2 | h] | h] => , [["a", 1, y]] => { [[[], [] | y] | x] == x }, [[2, 1], [_, x, 'a'] | x] => x == x, }], }])
+    proto_vulcan!([matcha _ { 1 => { onceo { member(x, [1]) }, match x { [[2, _], [2 | h] | h] => , [["a", 1, y]] => { x != y }, z => { z == [], |tz| { [3, 1 | tz] != [3, 1, 3, 1], tz == [3, 1] } }, } }, }])
 }
 pub fn case_256(vars: &Vars) -> InferredGoal<DU, DE, Goal<DU, DE>> {
     let x = vars.v[0].clone();
     let y = vars.v[1].clone();
-    proto_vulcan!([match x { 2 => [[x, 'a', [x, 2, x]] == [y], matchu x { [[y] | t] => [t == y, y == ['a', 2, t | y]], [['a', t, y], [y, _ | t]] => , }], }])
+    proto_vulcan!([match x { 2 => ['a' == x, true], }])
 }
 pub fn case_257(vars: &Vars) -> InferredGoal<DU, DE, Goal<DU, DE>> {
     let x = vars.v[0].clone();
-    proto_vulcan!([[x == [[x, _, x | x]]], matchu [2, 2, 1] { ['a', [], [z, z]] | [2, 3, [h]] => member(x, [1, 3, 2]), }])
+    proto_vulcan!([[3 == x], matcha x { x => { [1] == x, [member(x, [2, 3]), [x, false] == x, x == [x]] }, }])
 }
 pub fn case_258(vars: &Vars) -> InferredGoal<DU, DE, Goal<DU, DE>> {
     let x = vars.v[0].clone();
     let y = vars.v[1].clone();
-    proto_vulcan!([y != x, matchu x { [[2, _, x]] => , 1 | [[]] => x != y, }])
+    proto_vulcan!([|tz| { tz == [3, 2], [2, 1, 3, 2] != [2, 1 | tz] }, matche y { [[y], _] => , }])
 }
 pub fn case_259(vars: &Vars) -> InferredGoal<DU, DE, Goal<DU, DE>> {
     let q = vars.v[0].clone();
@@ -1405,54 +1405,54 @@ pub fn case_259(vars: &Vars) -> InferredGoal<DU, DE, Goal<DU, DE>> {
 pub fn case_260(vars: &Vars) -> InferredGoal<DU, DE, Goal<DU, DE>> {
     let q = vars.v[0].clone();
     let x = vars.v[1].clone();
-    proto_vulcan!([matche x { [[2, z, z], [y, 'b']] => , [[x], [y, z]] => [condu { append(y, x, [3]) }, x == y], h => [[[]] == [q | h]], }])
+    proto_vulcan!([matche x { [[2, z, z], [y, 'b']] => , [[x], [y, z]] => [condu { append(y, x, [3]) }, [[y]] == q], [x, []] | 1 => { [q, "bc"] != q }, }])
 }
 pub fn case_261(vars: &Vars) -> InferredGoal<DU, DE, Goal<DU, DE>> {
     let x = vars.v[0].clone();
     let y = vars.v[1].clone();
-    proto_vulcan!([y == [x, x], matche [2] { [[y, [] | z]] => , [1, [2, x | _]] => { match y { [] | x => { _ == y }, }, match y { [[3], z, z | h] => [y == "bc", [[x | 2], x, [true, 'b' | x]] != x], [] => [3, 2 | x] == x, [[true], _ | 2] => { x == x, [x, y] != x }, } }, [2] => { [1, y, 1] == x }, }])
+    proto_vulcan!([x == x, matchu y { [3] => [[true, y != [true, y]], [_ | x] == [1 | x]], }])
 }
 pub fn case_262(vars: &Vars) -> InferredGoal<DU, DE, Goal<DU, DE>> {
     let x = vars.v[0].clone();
     let y = vars.v[1].clone();
-    proto_vulcan!([matche y { z => y != y, [[3, 1, h] | h] => [conde { false, [x == _, [2, y, [1, 3] | h] != ['b']], 1 == [2] }, [_, 'b', y | x] == y], [[2]] => [conde { y == [], [x != [[3]], x == [y]], [['b'] == y, false] }, 1 != x], }])
+    proto_vulcan!([matche y { z => |tz| { tz == [2], [2, 3, 2] != [2, 3 | tz] }, [[3, 1, h] | h] => [conde { false, [x != y, y == h], [1 == [[2, [], y]], |tz| { tz == [3], [1, 2 | tz] != [1, 2, 3] }] }, y == [h]], _ => , }])
 }
 pub fn case_263(vars: &Vars) -> InferredGoal<DU, DE, Goal<DU, DE>> {
     let q = vars.v[0].clone();
     let x = vars.v[1].clone();
-    proto_vulcan!([|x, z| { q != [q] }, matcha x { [2, t | y] => [2, t | y] == y, }])
+    proto_vulcan!([|x, z| { x != ["a", 1, false | x] }, matchu [1, "a" | q] { [[h, _], [x] | x] | [1, [z, 1, y], [y, 1, z | y] | _] => { match [1, q, q] { [] => { q == [[], 1] }, }, [[q, _, true], [3], [_, true]] == q }, t | [] => |z| { [[], x] == z, [[]] != q }, [[3, []]] => { q == 1, x == q }, }])
 }
 pub fn case_264(vars: &Vars) -> InferredGoal<DU, DE, Goal<DU, DE>> {
     let q = vars.v[0].clone();
     let x = vars.v[1].clone();
-    proto_vulcan!([x == [2, 3 | x], matche q { [h] => , }])
+    proto_vulcan!([[x] != q, matchu q { t => [[x] == _, |tz| { [1, 1, 2] != [1 | tz], tz == [1, 2] }], }])
 }
 pub fn case_265(vars: &Vars) -> InferredGoal<DU, DE, Goal<DU, DE>> {
     let x = vars.v[0].clone();
-    proto_vulcan!([matcha x { 1 => { |z| { [x, x] != x, z == [_, 2], x == [z, 2 | x] }, matchu x { z | ['b', "bc", [[], _, []] | x] => , } }, }])
+    proto_vulcan!([matcha x { 1 => { |z| { x == ["a", 'b'], [3, x | 'b'] == x, z == x }, conde { [[], x] == x, 2 == x } }, }])
 }
 pub fn case_266(vars: &Vars) -> InferredGoal<DU, DE, Goal<DU, DE>> {
     let x = vars.v[0].clone();
-    proto_vulcan!([true, matcha x { [[_], [h | z]] => { [z, 3] == h }, [] | z => , false => { member(x, [1, 1, 3]) }, }])
+    proto_vulcan!([true, matcha x { [[_], [h | z]] => x == [['b', 1], x, []], _ => , 2 => { [] == x }, }])
 }
 pub fn case_267(vars: &Vars) -> InferredGoal<DU, DE, Goal<DU, DE>> {
     let q = vars.v[0].clone();
     let x = vars.v[1].clone();
-    proto_vulcan!([2 == [false], matche x { [[x, z, h | x], [1, 1, h], [_, false, z]] | [[3, 2 | z], [false, x]] => { [2] == x, condu { [x == [[], _, 1 | x], z == [true, 3]], [z == 2, z == 3] } }, 1 => { x == ['a', 2], x != [1, x, 3] }, }])
+    proto_vulcan!([q == x, matchu q { [[3, z | z], [2, x]] => , [[h, _, false], [1, _, 2 | 2], [2, 'a' | x]] => [|h| { h == q }, onceo { h == [[], _, 1 | x] }], }])
 }
 pub fn case_268(vars: &Vars) -> InferredGoal<DU, DE, Goal<DU, DE>> {
     let x = vars.v[0].clone();
     let y = vars.v[1].clone();
-    proto_vulcan!([x == [2, x, y], match y { 2 | [[h], [h, 2]] => , [[t, 2], [1, 1]] => conde { [[x, x], [x, 3, []], false] != x, [append(t, t, [2, 2]), x != [_ | x]] }, }])
+    proto_vulcan!([|tz| { tz == [3, 2], [2, 3, 2] != [2 | tz] }, match y { [[x, _ | x], [h] | h] | [[2, z], [t, 2]] => { conde { true != y, true, [true, y == [y, 3, []]] } }, [[], ["a", x, 1] | x] => , 2 | [_ | 'a'] => conda { 'a' == y }, }])
 }
 pub fn case_269(vars: &Vars) -> InferredGoal<DU, DE, Goal<DU, DE>> {
     let x = vars.v[0].clone();
-    proto_vulcan!([matchu x { [2] => { [x == [x]], x == [["bc" | x], 'b', x] }, }])
+    proto_vulcan!([matchu x { [2] => { [[[x, _, 1], [x, 1, x], x | 'b'] == 2], [[] | x] != _ }, }])
 }
 pub fn case_270(vars: &Vars) -> InferredGoal<DU, DE, Goal<DU, DE>> {
     let x = vars.v[0].clone();
     let y = vars.v[1].clone();
-    proto_vulcan!([match x { [t, [h, h, 2], ['b', 3, 'a']] => { |x, t| { [2, t, 1] != t, x != 1 } }, }])
+    proto_vulcan!([match x { [t, [h, h, 2], ['b', 3, 'a']] => |x, t| { [1, 2 | t] != y, [true] != 1 }, }])
 }
 pub fn case_271(vars: &Vars) -> InferredGoal<DU, DE, Goal<DU, DE>> {
     let q = vars.v[0].clone();
@@ -1462,7 +1462,7 @@ pub fn case_271(vars: &Vars) -> InferredGoal<DU, DE, Goal<DU, DE>> {
 pub fn case_272(vars: &Vars) -> InferredGoal<DU, DE, Goal<DU, DE>> {
     let x = vars.v[0].clone();
     let y = vars.v[1].clone();
-    proto_vulcan!([matche x { [2, x, 2] | [[[], [], _], [x, _, 3 | x], z] => { [2] == x, matcha [x, 3] { _ | [[1, 1, 3] | _] => { y != [2] }, [[[], t, y]] | [] => , _ => , } }, [[1 | _], _, [t] | t] => { false, x != [2, x] }, [[z | _], [1 | z] | t] => [y == [[], x, 2 | t], |z| { true }], }])
+    proto_vulcan!([matche x { [2, x, 2] | [[[], [], _], [x, _, 3 | x], z] => [|tz| { [1, 1] != [1 | tz], tz == [1] }, [3] == true], [[1, 1, 3] | _] => matche [x] { h => append(x, h, [3, 3]), 3 => , }, _ => , }])
 }
 pub fn case_273(vars: &Vars) -> InferredGoal<DU, DE, Goal<DU, DE>> {
     let x = vars.v[0].clone();
@@ -1470,30 +1470,30 @@ pub fn case_273(vars: &Vars) -> InferredGoal<DU, DE, Goal<DU, DE>> {
 }
 pub fn case_274(vars: &Vars) -> InferredGoal<DU, DE, Goal<DU, DE>> {
     let x = vars.v[0].clone();
-    proto_vulcan!([[[x]] == x, matchu x { [[y, z, []], [1] | z] => , [3, [z], x] | x => , }])
+    proto_vulcan!([x != [_, x], match 2 { [[2, _], ["bc", 1, 1]] | [["bc"]] => , [x, [x | h]] => [x, 3] == h, }])
 }
 pub fn case_275(vars: &Vars) -> InferredGoal<DU, DE, Goal<DU, DE>> {
     let x = vars.v[0].clone();
     let y = vars.v[1].clone();
-    proto_vulcan!([|t| { x == [t, 2] }, matcha x { [[h, false, 3], [2, true | h], _] => , }])
+    proto_vulcan!([|t| { t != t }, match y { 1 => { condu { [x != [y, 1, [] | x], member(x, [1, 1, 1])], x == [x] } }, }])
 }
 pub fn case_276(vars: &Vars) -> InferredGoal<DU, DE, Goal<DU, DE>> {
     let q = vars.v[0].clone();
     let x = vars.v[1].clone();
-    proto_vulcan!([[x, [1, 1]] == x, match q { t => , [[3], t] => matche t { [[_]] => [false, t == [t]], [[1, 2, t], y] | [x, z, 1] => , }, }])
+    proto_vulcan!([q == x, matcha [2, 1] { [t] => matche q { [3, 2] => { [3, _ | _] == t }, z => [true == q, append(q, x, [3])], }, x => , }])
 }
 pub fn case_277(vars: &Vars) -> InferredGoal<DU, DE, Goal<DU, DE>> {
     let x = vars.v[0].clone();
-    proto_vulcan!([x != x, match x { [[3, [], _]] => , [[_]] | [[y, 2, y], [_, [], x | z], t] => , z => , }])
+    proto_vulcan!([x != _, match x { [[3, [], _]] => , [[_]] | [[y, 2, y], [_, [], x | z], t] => , z => , }])
 }
 pub fn case_278(vars: &Vars) -> InferredGoal<DU, DE, Goal<DU, DE>> {
     let q = vars.v[0].clone();
     let x = vars.v[1].clone();
-    proto_vulcan!([match 1 { [h, _] => { [[3], [1, h, q | h], h] != [], [append(q, x, [1, 2])] }, [["a", 'a', 3], [_], 2] => { [[], 3 | x] != [[x, "bc"]], matcha ["a" | q] { z => { x == ["bc"] }, h => [x == [[2], [_, x, x]], [q] != h], t => [1 == t, append(q, q, [3])], } }, }])
+    proto_vulcan!([match 1 { [h, _] => { [x] == h, true }, [[]] | [] => { member(x, [3, 2]) }, }])
 }
 pub fn case_279(vars: &Vars) -> InferredGoal<DU, DE, Goal<DU, DE>> {
     let x = vars.v[0].clone();
-    proto_vulcan!([matche x { [[2, _, true], [_, _, _ | x], t | 3] => { |y, t| { ["bc", y, [] | y] == "bc", [_, [], y] != t, member(x, [1]) } }, }])
+    proto_vulcan!([matche x { [[2, _, true], [_, _, _ | x], t | 3] => { |y, t| { y == y, false, t == "bc" } }, }])
 }
 pub fn case_280(vars: &Vars) -> InferredGoal<DU, DE, Goal<DU, DE>> {
     let q = vars.v[0].clone();
@@ -1502,11 +1502,11 @@ pub fn case_280(vars: &Vars) -> InferredGoal<DU, DE, Goal<DU, DE>> {
 }
 pub fn case_281(vars: &Vars) -> InferredGoal<DU, DE, Goal<DU, DE>> {
     let x = vars.v[0].clone();
-    proto_vulcan!([x == [[], 1 | x], matcha x { y => , }])
+    proto_vulcan!([|tz| { [1, 2, 2] != [1 | tz], tz == [2, 2] }, matchu [x, 2, 2] { [[[], z, _], 2] | t => , 1 => , z => { member(z, []) }, }])
 }
 pub fn case_282(vars: &Vars) -> InferredGoal<DU, DE, Goal<DU, DE>> {
     let x = vars.v[0].clone();
-    proto_vulcan!([x == _, matcha x { [x, 1, _] => , [[3, y, y] | y] => , h => { [x, x] == x, [[], h] != [[h, x, _], [h, x, h] | x] }, }])
+    proto_vulcan!([x == x, matcha x { x => |tz| { tz == [1], [2, 1] != [2 | tz] }, }])
 }
 pub fn case_283(vars: &Vars) -> InferredGoal<DU, DE, Goal<DU, DE>> {
     let x = vars.v[0].clone();
@@ -1514,7 +1514,7 @@ pub fn case_283(vars: &Vars) -> InferredGoal<DU, DE, Goal<DU, DE>> {
 }
 pub fn case_284(vars: &Vars) -> InferredGoal<DU, DE, Goal<DU, DE>> {
     let x = vars.v[0].clone();
-    proto_vulcan!([[_] == x, matchu x { ['a', [1, 'a', [] | 3], []] => x == x, 1 => [_ != x, [x, 2, []] == 2], [[x, h], [t]] => [matche h { [z, [h, z, 2]] | [[1 | z], 2, [1, 2, _]] => , [y] => h != [3, true, [] | y], [x, [_, _, "bc" | z], 'b'] => , }, |z, h| { z == x, x != 2 }], }])
+    proto_vulcan!([x != _, matche [1 | x] { [['a', [] | 3], [], [t, _] | x] => , [["bc", 3 | _]] => , }])
 }
 pub fn case_285(vars: &Vars) -> InferredGoal<DU, DE, Goal<DU, DE>> {
     let x = vars.v[0].clone();
@@ -1542,265 +1542,265 @@ pub fn case_289(vars: &Vars) -> InferredGoal<DU, DE, Goal<DU, DE>> {
 pub fn case_290(vars: &Vars) -> InferredGoal<DU, DE, Goal<DU, DE>> {
     let q = vars.v[0].clone();
     let x = vars.v[1].clone();
-    proto_vulcan!([member(x, []), [[2, [q]] == q]])
+    proto_vulcan!([member(x, []), [x != [2 | q]]])
 }
 pub fn case_291(vars: &Vars) -> InferredGoal<DU, DE, Goal<DU, DE>> {
     let q = vars.v[0].clone();
     let x = vars.v[1].clone();
-    proto_vulcan!([|y| { x == [[2], [y, y | q], [3]] }, q == _, closure { conde { [[[q], ['a', _, 2] | q] == q, 'b' != q], [conde { [[], q, x] == q, q == x, [q == 1, q != q] }, q == 2], [[q == 1], [[q, 3, _ | x], [[], x, x], [2]] != q] } }])
+    proto_vulcan!([|y| { q == [2, [2], [2, "bc", 3]] }, x == x])
 }
 pub fn case_292(vars: &Vars) -> InferredGoal<DU, DE, Goal<DU, DE>> {
     let q = vars.v[0].clone();
     let x = vars.v[1].clone();
-    proto_vulcan!([conde { [q] == q, [] == q, [|x| { conde { [[2, x], [x, _, x], [x, 3, [] | x]] == q, q != x }, append(x, x, [2]), |y| { [[_, 'b'], [3 | y]] == 3 } }, q == x] }, conde { [|h| { |t| { member(t, [1, 2]) }, h != h }, _ == q], [q, q, 2 | q] == x }, [[], true] != x])
+    proto_vulcan!([conde { x != [q, [], []], condu { [q == [3, q, x], [x, x] == x] }, [q == [1, x, q], ['a', q | x] != x] }, [q, 1] == x, [[3, 3, q], [3, x] | 3] != 1])
 }
 pub fn case_293(vars: &Vars) -> InferredGoal<DU, DE, Goal<DU, DE>> {
     let x = vars.v[0].clone();
     let y = vars.v[1].clone();
-    proto_vulcan!([conda { [[2] == [[[], 2, 1], true], |y| { y == y, append(y, y, [2, 3]) }], [[[]] == y, [2, []] == x] }])
+    proto_vulcan!([conda { [1 == 1, |z, x| { conde { [z == x, y == _], [true, [2] == x] } }], [conde { _ == y, [true, onceo { [] == y }] }, true] }, closure { [2, _ | y] == x }])
 }
 pub fn case_294(vars: &Vars) -> InferredGoal<DU, DE, Goal<DU, DE>> {
     let x = vars.v[0].clone();
     let y = vars.v[1].clone();
-    proto_vulcan!([condu { [y] != y }, |t, z| { |h, t| { |y| { t == [[]], [x, [], y] == y, [1, ['b'] | y] == x }, conde { [[h, y | 'a'], ['b' | t]] == [t], [[[[], 3, 1 | x], [1, z | x]] == t, member(z, [2])] } }, t == [1, [false, false, 2], x] }, x == [false, [], _], closure { [y, y] == x }])
+    proto_vulcan!([condu { [[x, y, x | y], x] == [y, x] }, condu { y == _ }, [[|x| { member(y, [1, 1]), |tz| { [2 | tz] != [2, 3, 1], tz == [3, 1] }, [x, x, 2] == x }, |tz| { tz == [2], [1, 3 | tz] != [1, 3, 2] }, y == 1], 3 == y, onceo { [[1, y], 1, [y] | y] == [x, y, false | y] }]])
 }
 pub fn case_295(vars: &Vars) -> InferredGoal<DU, DE, Goal<DU, DE>> {
     let x = vars.v[0].clone();
     let y = vars.v[1].clone();
-    proto_vulcan!([y == [[], _, 1], |h| { member(y, [1, 2]) }])
+    proto_vulcan!([[_, x, [_ | y]] == [[] | x], conde { [true, ['b', _] == x], [[2, 2 | y] == y, condu { 1 == y, [onceo { [[], 2 | y] == x }, |y| { y == _, x == "bc", [3, ["a", []]] == y }], member(y, [1, 2, 3]) }] }])
 }
 pub fn case_296(vars: &Vars) -> InferredGoal<DU, DE, Goal<DU, DE>> {
     let q = vars.v[0].clone();
     let x = vars.v[1].clone();
-    proto_vulcan!([x == [1, 2]])
+    proto_vulcan!([[1 | q] == [_, 2, q]])
 }
 pub fn case_297(vars: &Vars) -> InferredGoal<DU, DE, Goal<DU, DE>> {
     let x = vars.v[0].clone();
     let y = vars.v[1].clone();
-    proto_vulcan!([|y| { y == y, conde { [conde { [member(y, [1, 3, 2]), y == y], [true, x != 1], [3, y, y] != y }, |x| { [[y], [x, [], _], [y]] == [[], 1 | x], member(x, [1, 3]), 1 == y }], [conde { [1 == x, x == y], [1 == y, [_] == y], [[["a", 3, []], [1 | x], ["a", "bc", 2]] == y, member(y, [3, 3, 2])] }, [_] != [2 | x]] } }, closure { [[[[] | y], [2, x, 'b' | y] | x] == x, y == [[3, x, 3 | x], [2 | 3], [2, 2] | x]] }])
+    proto_vulcan!([|y| { [_, _, y] == y, condu { conde { y == y, [true] == y, [y != y, y == x] } } }])
 }
 pub fn case_298(vars: &Vars) -> InferredGoal<DU, DE, Goal<DU, DE>> {
     let x = vars.v[0].clone();
-    proto_vulcan!([conda { [append(x, x, [1]), [condu { [x == [x, []], x == [x, 2]], [[], _ | x] == [[x, 1], true | x] }, [[3, x, 3 | x]] == x, x == [x, x]]], |x| { true, x == x, conda { [true, 3 == x] } }, [x == [x, 3], |y, z| { z == [3, _, 3] }] }, [_, 'b', x] == x, closure { [[3, []], [false, x, x], [x]] == x }])
+    proto_vulcan!([conda { [append(x, x, [1]), [condu { [1 == [x], [2, 'a'] != [x, x]], member(x, [1, 2]) }, condu { [2, []] != x, [[3, x] != x, x == [x, 3]] }, |t, h| { |tz| { [2, 1, 1] != [2 | tz], tz == [1, 1] } }]], [x, [true, 3, []], 1 | x] == [x, 2], x == 3 }, [[x, x, x] | _] == x, closure { x != 2 }])
 }
 pub fn case_299(vars: &Vars) -> InferredGoal<DU, DE, Goal<DU, DE>> {
     let x = vars.v[0].clone();
-    proto_vulcan!([[_, [], [x, _]] != x, 3 == x, conda { |x, h| { x == _, [x, true, 'a' | x] == [[x]], x == x } }])
+    proto_vulcan!([x != x, onceo { [1, 1] == x }, conda { |x, h| { h == x, [member(x, [])], [true] == x } }, closure { false }])
 }
 pub fn case_300(vars: &Vars) -> InferredGoal<DU, DE, Goal<DU, DE>> {
     let q = vars.v[0].clone();
     let x = vars.v[1].clone();
-    proto_vulcan!([x == [x, _, _ | x], _ != x, x == x])
+    proto_vulcan!([[x, _, [[], true]] == x, [[_, 'a'] == q], |y, x| { |h| { |y, h| { 1 == [[3], ['a'], [[]]], y == [x], x == [y, h, "a"] }, onceo { [[], q] != x }, [member(x, [2])] } }, closure { [conde { [_ != x, [true, [x, x, 3 | x] == q]], false }, |x| { [q != x, x != [x, x, x], |tz| { [1, 3, 3] != [1, 3 | tz], tz == [3] }], |tz| { [2, 2] != [2 | tz], tz == [2] } }] }])
 }
 pub fn case_301(vars: &Vars) -> InferredGoal<DU, DE, Goal<DU, DE>> {
     let x = vars.v[0].clone();
-    proto_vulcan!([|y| { x == [x] }, [[x == [[3 | x], 1, [x, 'a' | x]]], onceo { [[x, _, 1 | x] | false] == ["a", 'b', 'b'] }]])
+    proto_vulcan!([|y| { x == x }, x == []])
 }
 pub fn case_302(vars: &Vars) -> InferredGoal<DU, DE, Goal<DU, DE>> {
     let x = vars.v[0].clone();
     let y = vars.v[1].clone();
-    proto_vulcan!([[[2, 1, [] | y], []] != ['a', _], 2 != x, [y != 3]])
+    proto_vulcan!([[[1, _], [x, x, x]] != [['a', [], false]], [x == x], |x| { conda { |t, y| { y == 3, [y, true | 3] == y }, [x == _, |tz| { tz == [2], [1 | tz] != [1, 2] }] }, x == x }])
 }
 pub fn case_303(vars: &Vars) -> InferredGoal<DU, DE, Goal<DU, DE>> {
     let x = vars.v[0].clone();
     let y = vars.v[1].clone();
-    proto_vulcan!([y == [['b', y, "bc" | y]], member(x, [3, 2]), closure { [|t| { 2 != [1, t] }, conde { |h, t| { h != 3 }, [|t| { [t | x] == y, y == x, [1, y, 3 | x] != y }, |h, t| { y == [y], t == [_, 1, y | x], true }], [y == [x | x], conde { [x == 3, [] == _], [y == [], x == [x]] }] }] }])
+    proto_vulcan!([x != 'b', y != [y, [x, _]]])
 }
 pub fn case_304(vars: &Vars) -> InferredGoal<DU, DE, Goal<DU, DE>> {
     let x = vars.v[0].clone();
     let y = vars.v[1].clone();
-    proto_vulcan!([[x] == x, y != y])
+    proto_vulcan!([x == x, y != y])
 }
 pub fn case_305(vars: &Vars) -> InferredGoal<DU, DE, Goal<DU, DE>> {
     let x = vars.v[0].clone();
     let y = vars.v[1].clone();
-    proto_vulcan!([[y, _, y | x] == y, [[x], 1] == x])
+    proto_vulcan!([[x] == y, conde { [[[x], 1] == x, conde { [y == x, [y, x, _ | y] == x], [y == [x, 1], x != y] }], [x != [[_, 1 | y], [1, x, x | y], [[], _, 2]], y == 1] }, closure { |y, h| { false, [append(y, y, [2, 2]), y != h, [[], 1, 1] == y] } }])
 }
 pub fn case_306(vars: &Vars) -> InferredGoal<DU, DE, Goal<DU, DE>> {
     let q = vars.v[0].clone();
     let x = vars.v[1].clone();
-    proto_vulcan!([conda { [_] == q }, conde { |x| { [q, x] == q, x == x, [[q, 1, x | q]] == q }, |x| { member(q, []) }, [condu { |x| { x != [x], append(q, q, []) }, [onceo { [[_, "bc", q], [false, x], [q | x]] != _ }, q == [x, x, 2 | _]] }, [[q, 1], [q, _], x | q] == [q | q]] }, 3 == [[false, q, []]], closure { q == [] }])
+    proto_vulcan!([conda { x != [2, x, _ | 3] }, condu { |y| { |h| { q == [[h, false | x], 3, [[], x | 1] | 2] } } }, member(q, [])])
 }
 pub fn case_307(vars: &Vars) -> InferredGoal<DU, DE, Goal<DU, DE>> {
     let x = vars.v[0].clone();
-    proto_vulcan!([true, |y, t| { [_, [_], ['b', 1, 2]] == [t, 1, _ | 2] }, x == [x]])
+    proto_vulcan!([true, |y, t| { t == [] }, onceo { 2 == 3 }, closure { [[x == x, x == [2, x], [x == false, append(x, x, [3, 2]), member(x, [1, 2, 1])]], condu { [true, [x, _, x | x] == x], [true, x == [x, x]] }] }])
 }
 pub fn case_308(vars: &Vars) -> InferredGoal<DU, DE, Goal<DU, DE>> {
     let x = vars.v[0].clone();
     let y = vars.v[1].clone();
-    proto_vulcan!([[[], y, y | y] != x, x == 2])
+    proto_vulcan!([|tz| { tz == [3, 1], [3 | tz] != [3, 3, 1] }, [x, [2 | y]] == y, closure { |h| { h == [3 | x], |t| { x == y, h != x, 2 == h }, h == [_ | 1] } }])
 }
 pub fn case_309(vars: &Vars) -> InferredGoal<DU, DE, Goal<DU, DE>> {
     let x = vars.v[0].clone();
-    proto_vulcan!([x == [2], closure { [x != [[], 3, []], x == x] }])
+    proto_vulcan!([2 == x, closure { [|t, h| { [[], _, h] != h }, |h| { [x, 2, h | h] == h, conde { member(h, [1]), [[[], [], h] != [1, [x, true], [2]], member(h, [])] }, conde { [[h, h] == x, false], [[_, h, [] | 1]] == [_, 1 | false], [h == [h, 2, 1], [['a', x], h, x] == [[]]] } }] }])
 }
 pub fn case_310(vars: &Vars) -> InferredGoal<DU, DE, Goal<DU, DE>> {
     let q = vars.v[0].clone();
     let x = vars.v[1].clone();
-    proto_vulcan!([[|x| { conda { [append(x, x, [1]), x != [q]], [true, true], [[[] | x] != q, false] }, conde { [member(q, [3]), x == x], ["bc", x] == q }, [_, [], x] == q }, q != 1], onceo { conde { [|z| { x == 3, x != [[z, "a"], [q] | 3] }, [member(x, [])]], [[[_] == q, q == [q, 2], x == [[], x, 1 | x]], x == [[x, x], q | q]] } }, x == q, closure { [onceo { |t, h| { true } }, q == [x, 1]] }])
+    proto_vulcan!([[|x| { conda { [append(x, x, [1]), x == [[x, x | q]]], [[[x, 3 | _], x, [x, x]] == q, q == x], member(x, [2, 3, 1]) }, |y| { y == [_] }, |h| { [2, x] == x, |tz| { [2, 2, 2, 2] != [2, 2 | tz], tz == [2, 2] }, [[]] == x } }, [[]] == x], |t, y| { conde { [q == [t, 2], [[3], [t, 1], [q, 1] | q] == [q, x, 1 | t]], [_, q] == x } }, true])
 }
 pub fn case_311(vars: &Vars) -> InferredGoal<DU, DE, Goal<DU, DE>> {
     let x = vars.v[0].clone();
     let y = vars.v[1].clone();
-    proto_vulcan!([y == [2, true | _], closure { [|h| { [_, 1] == h, conde { [[x, h, [] | 'b'] != h, append(x, h, [3, 3])], [[[2]] == 2, x != [3, 3, x]], member(x, [3, 3, 3]) } }, y == [[x, 'a', y]]] }])
+    proto_vulcan!([true == 2])
 }
 pub fn case_312(vars: &Vars) -> InferredGoal<DU, DE, Goal<DU, DE>> {
     let q = vars.v[0].clone();
     let x = vars.v[1].clone();
-    proto_vulcan!([conde { [[x, [], q] == q, [q, 3] != q], [onceo { |x| { true } }, false == q] }, conda { member(q, []) }])
+    proto_vulcan!([conde { [x == q, x == [x, _]], append(x, x, []) }, x != [_]])
 }
 pub fn case_313(vars: &Vars) -> InferredGoal<DU, DE, Goal<DU, DE>> {
     let q = vars.v[0].clone();
     let x = vars.v[1].clone();
-    proto_vulcan!([true, conde { [|h, y| { |t, h| { [x, 1 | y] != x }, false, conde { y != [x, 2], [[y, q, "bc"] == y, y != q], [append(q, h, []), true] } }, [x != _, [1, [[] | q]] == [3, q]]], [onceo { conde { x != [x], [[q, x] == q, q == [[q, x, q | x], [1, true, x], [2, [] | x]]] } }, true], x == 1 }, closure { q != [_, 3, []] }])
+    proto_vulcan!([true, conde { [|h, y| { |t, h| { q == [[q, y | 2], 1] }, conda { [[y, [[], "bc", y], [2] | 2] == [y | y], h == h] }, [[1, q | h], h] == x }, [[q, _]] == q], [|x, t| { [q == q, member(t, [3, 1])], |x| { t == _ } }, q == [2 | q]], conde { [conde { [true, [[x | x], [q], [3, [], q | x] | x] == x], |tz| { tz == [3], [3, 3] != [3 | tz] } }, 2 == "a"], onceo { q == [q, x] }, [q != [[q], x, [x]], [x == x, false, 1 == q]] } }, closure { [conde { conde { |tz| { [3, 1, 3, 3] != [3, 1 | tz], tz == [3, 3] }, append(q, q, [3]) }, [false != q, |h, y| { q == [] }], [true, 1 != q] }, q == [2, false | x]] }])
 }
 pub fn case_314(vars: &Vars) -> InferredGoal<DU, DE, Goal<DU, DE>> {
     let q = vars.v[0].clone();
     let x = vars.v[1].clone();
-    proto_vulcan!([conde { [onceo { [false, x == q] }, x == [[q | q], _, ["a", 3, 2]]], [append(q, x, [])], [x == 2, conde { [condu { [q, x, 1 | x] == x, [x | q] == q, x == [] }, conde { member(q, [2, 3, 3]), [[x, x, 1 | x] == x, q != q] }], [1, [q, x, q] | q] == q }] }, [['a' | x], 1 | _] == x])
+    proto_vulcan!([conde { [onceo { [false, x != q] }, [q | q] == q], [conde { x == [[q, x, _ | x]], |y, z| { y == [[], q], append(q, x, [3, 3]), [] == [[2, 2, y | _]] }, [|t| { 2 == _, [x | t] == [1, 1 | x] }, true] }, x == [[x]]], |x| { conde { [member(q, [1, 1]), append(q, x, [2, 2])], [false, q == [q | x]] } } }, |tz| { [2, 1 | tz] != [2, 1, 2], tz == [2] }])
 }
 pub fn case_315(vars: &Vars) -> InferredGoal<DU, DE, Goal<DU, DE>> {
     let x = vars.v[0].clone();
     let y = vars.v[1].clone();
-    proto_vulcan!([append(x, y, [2]), |z| { conde { [[] == y, 'a' != z], [false, z == [1, _, "bc" | y]], [append(z, z, []), conde { y == _, x != [_, 1 | y] }] }, |t| { [false] == [_, z, t], y == 3 }, x == [[z], [2]] }, conda { [y == [[_, y, x]], _ != y] }])
+    proto_vulcan!([append(x, y, [2]), |z| { conde { [x != [1, _ | 2], |y, z| { z == [1, _, "bc" | z] }], [append(z, z, []), conde { y == _, 1 != x }], [append(z, y, [2]), conde { [|tz| { tz == [1], [2, 1] != [2 | tz] }, false], [y == y, [y, 3] == y], z == [3, false, 2 | x] }] }, [[3, x, y], [false, 2, 'a' | x] | true] == [3 | z], _ == z }, |tz| { tz == [3, 1], [3, 2, 3, 1] != [3, 2 | tz] }])
 }
 pub fn case_316(vars: &Vars) -> InferredGoal<DU, DE, Goal<DU, DE>> {
     let q = vars.v[0].clone();
     let x = vars.v[1].clone();
-    proto_vulcan!([|x| { x == [[[]] | 3] }, conde { [[|h| { h != [2 | h], member(x, []) }, q != [[false]]], x == 2], [x != x, q != [1, x]], [condu { x == q, [condu { q == x, q == q }, x == [_]], [x != [q, x], condu { x != [x | q], q == [[1, "a"] | q] }] }, q == x] }])
+    proto_vulcan!([|x| { |tz| { tz == [1], [3, 3, 1] != [3, 3 | tz] } }, |t| { x == x, 3 == [[q, 2, _], [1, 2, _], [1, []] | q], [condu { [x, x, x | x] == x, [2 == _, [[x, x]] == x], [1, 'a', 1] == x }, [x, 3, [1] | q] != x, [[x, x, q | x] == q, ["bc"] == t]] }, closure { [|x, y| { x == [3, 2 | 'a'], x == [2, true], append(q, q, []) }] }])
 }
 pub fn case_317(vars: &Vars) -> InferredGoal<DU, DE, Goal<DU, DE>> {
     let x = vars.v[0].clone();
-    proto_vulcan!([|h| { |t, x| { h == t, |h| { [[h], x, [2]] != h, [_] == h, [2, _] == h } }, h != [[x, h, 2 | h], x, [1 | h] | h], h == [2, x] }])
+    proto_vulcan!([|h| { |t, x| { x == [_, x, [t | x] | t], conde { [1 != [[], 1], [[[], 2 | 2], [_, 1, "bc"], _] != 1], true } }, 2 == [x, [], [h, [], x]], [[]] == x }, closure { [|z| { [3, 1 | false] == z }, conde { |t, z| { [t] == x, t == t, [1, [true, z, 2] | x] == [[_ | z], [z], [[] | t] | x] }, [x != true, conde { [true, |tz| { tz == [2], [3 | tz] != [3, 2] }], [x == [x | x], false] }], ['b', [false], [x | x]] != x }] }])
 }
 pub fn case_318(vars: &Vars) -> InferredGoal<DU, DE, Goal<DU, DE>> {
     let x = vars.v[0].clone();
     let y = vars.v[1].clone();
-    proto_vulcan!([[2] == x])
+    proto_vulcan!([|tz| { [1, 1, 3] != [1 | tz], tz == [1, 3] }])
 }
 pub fn case_319(vars: &Vars) -> InferredGoal<DU, DE, Goal<DU, DE>> {
     let q = vars.v[0].clone();
     let x = vars.v[1].clone();
-    proto_vulcan!([conde { [[q, 2]] == 1, [[1, x, x]] == x }, x == [[x], [] | x], q == [q, 1, "a"]])
+    proto_vulcan!([conde { [1, 2, 3] != x, [member(q, []), conde { true, [|x| { [[q, [], _], x] == [x] }, member(q, [1])], [2 == q, _ == [[q, [], q]]] }] }, x == x, [1] == x, closure { q == [_] }])
 }
 pub fn case_320(vars: &Vars) -> InferredGoal<DU, DE, Goal<DU, DE>> {
     let x = vars.v[0].clone();
     let y = vars.v[1].clone();
-    proto_vulcan!([x == 1, |y| { [_ | y] != x, y == [y, 3], y == [true] }, true])
+    proto_vulcan!([x == true, y == y, [['a'], [x, 1, 2], 1] == y])
 }
 pub fn case_321(vars: &Vars) -> InferredGoal<DU, DE, Goal<DU, DE>> {
     let x = vars.v[0].clone();
     let y = vars.v[1].clone();
-    proto_vulcan!([true, conde { conde { [true == x, [_, y, x] == x], [[2 | x] != y, y == [1, y]] }, [[[y, 'b', x], [y, _, y]] == 'b', [[y] != x, false, y != [y, x, 2 | x]], true], [conde { [x != [[], x, []], x == ["a", _, false]], [condu { [_ == x, [1, false] == y] }, |t| { x == x, append(y, x, []) }] }, [x, y, 'a' | 2] == y] }, conde { [|h, x| { [2] == x, y == 'b' }, member(y, [2])], [[x, []] != x, y == 3], onceo { conde { append(x, y, [3]), append(x, x, []) } } }])
+    proto_vulcan!([true, conde { conde { [y == [[y] | x], 1 != y], [conde { [[2] == x, [1, 1, "bc"] == y], [x == [["a", []], 3], y != x] }, onceo { |tz| { tz == [2, 1], [3, 2, 1] != [3 | tz] } }] }, |t| { y != y, true }, [conde { [x != [x, []], [[_, false], [y] | y] == x], y == x }, |h| { [|tz| { tz == [3, 2], [2 | tz] != [2, 3, 2] }, x == true, h == [x, 'a', h | x]], x == [2, _ | h] }] }, [x, []] != [[3], [1, y], y | true]])
 }
 pub fn case_322(vars: &Vars) -> InferredGoal<DU, DE, Goal<DU, DE>> {
     let q = vars.v[0].clone();
     let x = vars.v[1].clone();
-    proto_vulcan!([conde { member(x, [3, 1, 2]), [|y| { 2 == x, member(x, []), append(x, q, [2, 1]) }, |t| { _ == t }], [false, conde { [append(q, x, []), [3] == x], x == x, |t| { t != [q, t, 2], t != q, t == [_, 3] } }] }, closure { |t| { [_, q] != t } }])
+    proto_vulcan!([conde { member(x, [3, 1, 2]), [|y| { y == [1, 2], x == [x, false | 1], y == [[], q, q] }, |tz| { [1, 3, 3] != [1, 3 | tz], tz == [3] }], q == [_, 1, _ | x] }])
 }
 pub fn case_323(vars: &Vars) -> InferredGoal<DU, DE, Goal<DU, DE>> {
     let x = vars.v[0].clone();
     let y = vars.v[1].clone();
-    proto_vulcan!([[y == x, y == ["bc", x, 'a']], condu { x == 2, [x, y, x] == y, [] == x }])
+    proto_vulcan!([[[_] == y, y == [[x], ['a', 1, 1], [_ | x]]], false == y, closure { x == y }])
 }
 pub fn case_324(vars: &Vars) -> InferredGoal<DU, DE, Goal<DU, DE>> {
     let x = vars.v[0].clone();
-    proto_vulcan!([conde { [condu { [conda { false }, onceo { x == x }], [x == [2, _ | x], x == x], |z| { [2, z] != z, z == [[], x, 3], x == x } }, x == x], [[x, 'b', _] == x, conde { [[[2, x] == x, x == x], |z| { 2 == z, [[2], x] == [[2]] }], [|z| { true }, [x] == x] }] }, [member(x, [3, 1, 2]), x == x, onceo { x == false }], closure { [append(x, x, [1]), onceo { |z, t| { t == [x, [_, z | z], [2, z | z]] } }] }])
+    proto_vulcan!([conde { [condu { [conda { false }, onceo { 'a' == x }], |t| { ['b'] != t, t != ["a", []] }, [append(x, x, [1]), [[[], x, 3], ["a", x]] == x] }, [x, x] == x], [[] == x, conde { [[2] != x, [x | x] == x], x == [x, 3, 3 | x] }] }, |h| { [conda { [h == [x], 3 != x] }, [] != [1]], conda { [[x, [2, h, x | h] | x] == [[h, x, _], [[] | x]], h == [[1, x], [h, 3, x], [x, [] | 2]]], h != [2 | h], |tz| { tz == [3, 1], [1, 3, 3, 1] != [1, 3 | tz] } }, |z| { z == [[h]], conde { [[[[], []], ['b', z, "a" | 3]] == _, append(h, h, [])], x == _, [z == z, [[x, h]] == h] }, z != z } }])
 }
 pub fn case_325(vars: &Vars) -> InferredGoal<DU, DE, Goal<DU, DE>> {
     let q = vars.v[0].clone();
     let x = vars.v[1].clone();
-    proto_vulcan!([q == 3, |t| { [[3, [q, 1] | t] == q, ['b', q, x] == 2, [_ == 1, x == [false, t, q], q != 1]], |t| { conda { [x != [1, x, _], [q, _, 3 | q] != [x, 1]], [[q, 1, 1 | t] != x, t == [[] | t]] }, false } }])
+    proto_vulcan!([q == q, [condu { [q == 2], q == [x | x], onceo { [3, x] != q } }, conde { [x == [false, 1, _ | x], [x == [_, _]]], [x == x, append(x, x, [2])], q == "a" }, [x == [2, 2, x], [[x] == q, member(x, [1, 1]), x == 2]]]])
 }
 pub fn case_326(vars: &Vars) -> InferredGoal<DU, DE, Goal<DU, DE>> {
     let x = vars.v[0].clone();
-    proto_vulcan!([x == _, [_, 2 | x] == x, ['b', 3] != [x]])
+    proto_vulcan!([[_, [2, 1 | x], x] == ["bc", x, [[]]], |h, t| { [|h, y| { h == [2, _] }, x == 'b'] }, [2 | x] == x, closure { [x != [_], x == x] }])
 }
 pub fn case_327(vars: &Vars) -> InferredGoal<DU, DE, Goal<DU, DE>> {
     let x = vars.v[0].clone();
     let y = vars.v[1].clone();
-    proto_vulcan!([|h| { x != y, x != x }, y != x])
+    proto_vulcan!([|h| { [x | x] == h, |x| { conde { [x == x, [[_]] == x], append(x, x, []), [[h, h | x] == h, member(y, [3, 2, 1])] }, x == [_], [[_, [], h], 3, y | x] == [_, 1] } }, onceo { y == [x | x] }, closure { [append(y, x, []), x == [_]] }])
 }
 pub fn case_328(vars: &Vars) -> InferredGoal<DU, DE, Goal<DU, DE>> {
     let x = vars.v[0].clone();
-    proto_vulcan!([[x, _] != x, |y| { conde { x == [y], [x == [1 | x]], [1 == y, _ == y] }, y == [x, 3, []] }, x == [x, x, 2 | x], closure { [[x == _], _ != "a"] }])
+    proto_vulcan!([x != [3, [], x], [[x]] == [2, x | x], |z, h| { conde { [[_, [], h | 3] == [[1], 2], [[3, "bc"], [h, h, h | x], 1] == 1], [conda { member(z, [1, 3, 2]), [[], _, _ | x] == h }, [3] == z], [[false, _] == x, conda { [h == [2, _, 2 | z], x != [1]], z == [1, _, h], h == x }] } }])
 }
 pub fn case_329(vars: &Vars) -> InferredGoal<DU, DE, Goal<DU, DE>> {
     let q = vars.v[0].clone();
     let x = vars.v[1].clone();
-    proto_vulcan!([[|y| { [append(q, q, [3, 1]), 2 != [[1, [], 2 | q]]], q != q }], [append(x, q, [2, 1]), onceo { true }], |z, t| { x == _ }])
+    proto_vulcan!([[|y| { [append(q, q, [3, 1]), [[2 | q], 'b'] != q], 1 != y }], [[q == q]], |x, z| { [q != [z], condu { [[_, _] == x, x == [q, _]] }, onceo { [] != x }], [[|tz| { tz == [2], [2, 3 | tz] != [2, 3, 2] }, x == [z, x], true]] }])
 }
 pub fn case_330(vars: &Vars) -> InferredGoal<DU, DE, Goal<DU, DE>> {
     let x = vars.v[0].clone();
-    proto_vulcan!([2 == x])
+    proto_vulcan!([[x] == x])
 }
 pub fn case_331(vars: &Vars) -> InferredGoal<DU, DE, Goal<DU, DE>> {
     let q = vars.v[0].clone();
     let x = vars.v[1].clone();
-    proto_vulcan!([conda { [q] == x, [[q, q] == x] }, condu { conde { [conde { [member(q, [3]), 2 == [2, [], x]], 1 == [1, [x, 1], 2], [x == [3], [x, _, x] == q] }, onceo { q != [q] }], q == 3, [q == q, |t, x| { x == q, [2, 3, t] == q, x == x }] } }, [['a', 3, 1] == x, x == 2, conde { 1 == x, [2, [[], q | q], 3] != x, [q == q, |t| { [[x, 3, q], "bc"] != t, false == q, 2 == t }] }]])
+    proto_vulcan!([conda { |tz| { tz == [1], [3, 3 | tz] != [3, 3, 1] }, [[|h| { append(h, q, [2]), [2, h] != x }, |tz| { tz == [3], [2, 2 | tz] != [2, 2, 3] }], conde { q != [[q, []], [1, q, 2]], [conda { q == 3 }, false], |z, t| { false, false, append(z, t, [3]) } }] }, [[x, 2], [_, q | 'b'], 3 | x] == [[_, q, 1], 2 | q], [x] == [['b', 2], [_], _ | q]])
 }
 pub fn case_332(vars: &Vars) -> InferredGoal<DU, DE, Goal<DU, DE>> {
     let q = vars.v[0].clone();
     let x = vars.v[1].clone();
-    proto_vulcan!([|h| { |x| { 1 == x, x == 2, _ != h } }])
+    proto_vulcan!([|h| { |x| { x == [1 | 2], [member(q, [2]), 3 == 3], |tz| { [3, 3, 3] != [3 | tz], tz == [3, 3] } } }, closure { [conde { x != [2], [x, 1] == x }, q == [q, 1]] }])
 }
 pub fn case_333(vars: &Vars) -> InferredGoal<DU, DE, Goal<DU, DE>> {
     let x = vars.v[0].clone();
-    proto_vulcan!([conde { [x == x, conda { [member(x, [1, 3, 1]), [x == [x, _ | 3], ['a', 1, [[]] | x] == [1, false | _], [[], 1, 1 | x] == x]] }], conda { [conde { [append(x, x, [2, 3]), [[]] == x], x != x, [x != [2, 2, [] | x], true] }, [x, _ | x] == x], |t, y| { [[[]], [_, 3, x] | 2] != y, y == [x, 'a', t | t] } } }, conda { [|x, y| { y != x }, |t| { |y| { false, 1 == t }, |y| { y == [y, y], [[y | x], [y], x] == [[y]] }, [3, _, t] != x }] }, |h, z| { onceo { z == [[] | h] } }, closure { x != "a" }])
+    proto_vulcan!([conde { [1 == [x], |x, t| { [x == x, x == ["a", 'a', _], [x] == x] }], [|y| { |h| { x == [1, []] }, conda { [|tz| { [1, 1, 2, 3] != [1, 1 | tz], tz == [2, 3] }, [] == y], |tz| { [1, 3] != [1 | tz], tz == [3] } }, x != [2, y, 3 | x] }, |tz| { [2, 3, 2, 3] != [2, 3 | tz], tz == [2, 3] }] }, member(x, [2, 2, 2]), x == x])
 }
 pub fn case_334(vars: &Vars) -> InferredGoal<DU, DE, Goal<DU, DE>> {
     let x = vars.v[0].clone();
     let y = vars.v[1].clone();
-    proto_vulcan!([conde { [append(x, x, [2]), false], [x == x, conde { [y != [2], |z| { member(x, []), false, 'a' == 1 }], [x == [x], [1, x, x] == [x]], [|y| { [[x, _, 1]] == x, y == [false, x], append(y, y, []) }, y == [y, [], [y] | y]] }] }])
+    proto_vulcan!([conde { [append(x, x, [2]), false], [y != y, conde { member(y, []), [member(y, [2]), conde { y == [[]], y != [y, [x]] }], y == [[], y, "a"] }] }])
 }
 pub fn case_335(vars: &Vars) -> InferredGoal<DU, DE, Goal<DU, DE>> {
     let q = vars.v[0].clone();
     let x = vars.v[1].clone();
-    proto_vulcan!([x == x, |h| { conda { [|y| { member(q, [3, 3]), [y, 'a', 2] != y, h == [q, x] }, onceo { [x] == q }] } }, conda { [|y| { x == [1], |x, z| { x == [[x] | q], true } }, [] == [x, 1, [q, 3, true]]], 1 == q, [[false, 1 | q] != q, conde { [q == _, false, [2] == x], [3] != 1 }] }])
+    proto_vulcan!([|tz| { tz == [3, 3], [3, 1 | tz] != [3, 1, 3, 3] }, conde { conda { [|y| { member(x, [3, 3]), y == [q], member(y, [3, 3, 1]) }, |tz| { [1, 3] != [1 | tz], tz == [3] }] }, conde { member(x, [1]), condu { x == [[_, _, q], x, [] | 3], [x == [[q] | x], true], [[_, 1, x], 3, ['b']] == [1, 3] } }, [q != q, |t| { [t == [1, x, q], false, [2] != [2]] }] }, |tz| { tz == [3], [3, 3] != [3 | tz] }])
 }
 pub fn case_336(vars: &Vars) -> InferredGoal<DU, DE, Goal<DU, DE>> {
     let x = vars.v[0].clone();
     let y = vars.v[1].clone();
-    proto_vulcan!([|h, t| { onceo { h == [[_, _, _], [[], false, 2], [[], 3 | h]] } }, closure { [x == x] }])
+    proto_vulcan!([|h, t| { onceo { t == "a" } }])
 }
 pub fn case_337(vars: &Vars) -> InferredGoal<DU, DE, Goal<DU, DE>> {
     let q = vars.v[0].clone();
     let x = vars.v[1].clone();
-    proto_vulcan!([q == "bc", [3, q, q] == x, closure { x == [q] }])
+    proto_vulcan!([[1, 1, 2] != x, onceo { [1, 1 | x] != q }])
 }
 pub fn case_338(vars: &Vars) -> InferredGoal<DU, DE, Goal<DU, DE>> {
     let x = vars.v[0].clone();
-    proto_vulcan!([|z| { x == [1, 1 | x] }, closure { |t, z| { conda { [false, [[1], [[]], 1] == z] }, conde { [[1, t, t] != x, x == [_, z]], [1] == z, [x == [z | x], append(x, t, [2, 3])] }, ['a' == 2, x != _] } }])
+    proto_vulcan!([|z| { x == [[], 1 | x] }, closure { |t, z| { conda { [false, [[], 1] == z] }, [3, 1] == [[t, [], 2], 2], [[], t, 1 | z] != t } }])
 }
 pub fn case_339(vars: &Vars) -> InferredGoal<DU, DE, Goal<DU, DE>> {
     let x = vars.v[0].clone();
     let y = vars.v[1].clone();
-    proto_vulcan!([|y| { |h| { conde { [[y | y], [_, y, x] | y] == y, [x, y | y] == 3, [2, x, [y, 2, h]] == [x | y] } }, y == _, [y, [], y | y] != x }, false, x == [[[]]], closure { [onceo { "a" != y }, x == [[2, y], [y, 1, 1] | 2]] }])
+    proto_vulcan!([|y| { |h| { conde { [x, 1, y] == h, true, |tz| { [1, 2 | tz] != [1, 2, 2], tz == [2] } } }, [y, x | x] == y, y == 3 }, y == [[], [[]], 1], x == _])
 }
 pub fn case_340(vars: &Vars) -> InferredGoal<DU, DE, Goal<DU, DE>> {
     let q = vars.v[0].clone();
     let x = vars.v[1].clone();
-    proto_vulcan!([x == [x, x, 2 | q], closure { [q == x, 2 == [[1, x | x]]] }])
+    proto_vulcan!([|tz| { tz == [2], [3, 2, 2] != [3, 2 | tz] }])
 }
 pub fn case_341(vars: &Vars) -> InferredGoal<DU, DE, Goal<DU, DE>> {
     let q = vars.v[0].clone();
     let x = vars.v[1].clone();
-    proto_vulcan!([[x, x, q] != x])
+    proto_vulcan!([q != x])
 }
 pub fn case_342(vars: &Vars) -> InferredGoal<DU, DE, Goal<DU, DE>> {
     let q = vars.v[0].clone();
     let x = vars.v[1].clone();
-    proto_vulcan!([[2, 2] == [x, 1], 'b' == q, [["a"] == q]])
+    proto_vulcan!([x == [], q != [2], onceo { onceo { x == [q] } }, closure { q == [false, 2, 3] }])
 }
 pub fn case_343(vars: &Vars) -> InferredGoal<DU, DE, Goal<DU, DE>> {
     let x = vars.v[0].clone();
     let y = vars.v[1].clone();
-    proto_vulcan!([x == x, conde { y == [1], [[onceo { x == x }], conde { x == [y, x | y], [y, true | y] == y }], onceo { true } }, y == [[] | y]])
+    proto_vulcan!([[y, [x, 1, 3] | x] == y, append(x, x, []), onceo { [y == 1] }])
 }
 pub fn case_344(vars: &Vars) -> InferredGoal<DU, DE, Goal<DU, DE>> {
     let x = vars.v[0].clone();
     let y = vars.v[1].clone();
-    proto_vulcan!([x == _, append(y, y, [3]), |h, y| { 2 == y }])
+    proto_vulcan!([y == _, x != x, x == [x, 1], closure { [y == 2, conda { [y | x] != [[x, y, 1 | y] | y], [['b'] == y, [x, x] == [2, 1, false]], [|h| { x == ["bc" | y] }, onceo { |tz| { tz == [3], [1 | tz] != [1, 3] } }] }] }])
 }
 pub fn case_345(vars: &Vars) -> InferredGoal<DU, DE, Goal<DU, DE>> {
     let x = vars.v[0].clone();
@@ -1808,301 +1808,301 @@ pub fn case_345(vars: &Vars) -> InferredGoal<DU, DE, Goal<DU, DE>> {
 }
 pub fn case_346(vars: &Vars) -> InferredGoal<DU, DE, Goal<DU, DE>> {
     let x = vars.v[0].clone();
-    proto_vulcan!([x != [1]])
+    proto_vulcan!([[[], 1, 2] == x])
 }
 pub fn case_347(vars: &Vars) -> InferredGoal<DU, DE, Goal<DU, DE>> {
     let x = vars.v[0].clone();
     let y = vars.v[1].clone();
-    proto_vulcan!([_ != y, y != ['b', 2, y], closure { [onceo { [y == 2, x != [y, 2 | 3]] }, x == 'b'] }])
+    proto_vulcan!([1 == y, |tz| { tz == [2], [3, 2] != [3 | tz] }])
 }
 pub fn case_348(vars: &Vars) -> InferredGoal<DU, DE, Goal<DU, DE>> {
     let q = vars.v[0].clone();
     let x = vars.v[1].clone();
-    proto_vulcan!([|x, z| { condu { [false == [[_, x]], q == [_, x | _]] } }, x != [1, q], closure { [onceo { [x, _, 1] == q }] }])
+    proto_vulcan!([|x, z| { condu { [x == [[3 | x], [3, x | q]], |tz| { [2 | tz] != [2, 2], tz == [2] }] } }, |x| { [onceo { |tz| { [1, 1 | tz] != [1, 1, 3, 1], tz == [3, 1] } }] }])
 }
 pub fn case_349(vars: &Vars) -> InferredGoal<DU, DE, Goal<DU, DE>> {
     let q = vars.v[0].clone();
     let x = vars.v[1].clone();
-    proto_vulcan!([1 == x, onceo { x != 3 }, closure { [false, |x| { x == [_ | 1], [2, [_ | q], [q, "bc"]] == 3 }, q == ['a']] }])
+    proto_vulcan!([x != [2], q == 1])
 }
 pub fn case_350(vars: &Vars) -> InferredGoal<DU, DE, Goal<DU, DE>> {
     let x = vars.v[0].clone();
-    proto_vulcan!([[x, _, x] == [2 | 2], x == 1, closure { |z| { |y| { [x] == z, member(x, [2]), z == [1, x, _] }, [member(x, [])] } }])
+    proto_vulcan!([x != x, [x, [x, x, x]] == [1]])
 }
 pub fn case_351(vars: &Vars) -> InferredGoal<DU, DE, Goal<DU, DE>> {
     let x = vars.v[0].clone();
-    proto_vulcan!(["a" == [x, x, []], x == true, [x] == x, closure { [|h, z| { [x == true] }, x == x] }])
+    proto_vulcan!(['a' == x, x == [_], |z| { x != [x, 2, z], [[x != [_]]], conde { [["a", x, _] != x, |x| { [[[], []], [_]] == [[1], [[]], [2]], [] == z, [x] == [['a', [], x | z], [2] | x] }], append(z, z, [3, 1]) } }])
 }
 pub fn case_352(vars: &Vars) -> InferredGoal<DU, DE, Goal<DU, DE>> {
     let q = vars.v[0].clone();
     let x = vars.v[1].clone();
-    proto_vulcan!([q != [_], conda { x == [[], q, 3], ['a' == [[2, 1], [q, 2, 3 | x]], [2] == [[], q | 2]], [true, [q, x | q] == x] }])
+    proto_vulcan!([|tz| { [3 | tz] != [3, 1, 1], tz == [1, 1] }, x == [3 | x]])
 }
 pub fn case_353(vars: &Vars) -> InferredGoal<DU, DE, Goal<DU, DE>> {
     let x = vars.v[0].clone();
-    proto_vulcan!([|x| { |h| { [h == [2, x], h != [x, h, h | x], 3 == x] }, conda { [x == [[], 'b', x | 'b'], "a" == [3, x, 2]] }, [x, 2, x] == x }, x == [3], [[x, x, x]] == x])
+    proto_vulcan!([|x| { |h| { [[h, _, 2] == [[2, h, h | h], 1], 1 == x, false == [[], 'b', h | 'b']] }, x != x, x == ["a", x, 2 | x] }, [[true, false, x | 1], [1, x], [x, x]] == x, |x, z| { 1 != x, [_, x] == x, true }])
 }
 pub fn case_354(vars: &Vars) -> InferredGoal<DU, DE, Goal<DU, DE>> {
     let x = vars.v[0].clone();
-    proto_vulcan!([[[true], [3, x | 2], 2] == x, append(x, x, [3, 3])])
+    proto_vulcan!([x == [[1, x]], conde { condu { [[x != [[], 3, 1], false], conde { true, [[], 1, []] != x }] }, x == x, onceo { 3 == x } }])
 }
 pub fn case_355(vars: &Vars) -> InferredGoal<DU, DE, Goal<DU, DE>> {
     let x = vars.v[0].clone();
-    proto_vulcan!([[[x, 2, []], x] == 1, x != [[[], x], x]])
+    proto_vulcan!([x == x, _ == 1, closure { ["bc" == x, conde { [x == x, |z| { |tz| { tz == [2], [3, 2, 2] != [3, 2 | tz] } }], |tz| { [2, 3 | tz] != [2, 3, 3], tz == [3] } }] }])
 }
 pub fn case_356(vars: &Vars) -> InferredGoal<DU, DE, Goal<DU, DE>> {
     let x = vars.v[0].clone();
     let y = vars.v[1].clone();
-    proto_vulcan!([_ != [["a" | x] | y], member(x, [2]), x == 2])
+    proto_vulcan!([[[], false, 1] == y, [] == x, y == 1, closure { onceo { [["a", x, y | x] != y, false] } }])
 }
 pub fn case_357(vars: &Vars) -> InferredGoal<DU, DE, Goal<DU, DE>> {
     let x = vars.v[0].clone();
-    proto_vulcan!([conde { [|y| { x == [[], "bc", 2 | x] }, condu { [|x| { x != [x] }, member(x, [1])], x != 2 }], |t, h| { h != [t, [], 2 | 'a'], 1 == x, [1, t | "a"] == [_, _] } }, [[1] | x] == x])
+    proto_vulcan!([conde { [|y| { x == [] }, condu { [2 != "bc", [_ == x, _ == x, [x, ["a", x, 3 | x], x] != _]] }], |h, y| { x == [_, _], [member(h, [3])] } }, 1 == [x]])
 }
 pub fn case_358(vars: &Vars) -> InferredGoal<DU, DE, Goal<DU, DE>> {
     let x = vars.v[0].clone();
     let y = vars.v[1].clone();
-    proto_vulcan!([y == [2], |y| { [member(x, [2]), [false, [y, [y], [2, 1]] == [[[]], 3, [y | x] | y]]], member(y, [2, 1]) }, [y, 3] != x])
+    proto_vulcan!([y == [2, 'b', "a" | x], member(y, [2]), [onceo { [x] == y }, 3 != y]])
 }
 pub fn case_359(vars: &Vars) -> InferredGoal<DU, DE, Goal<DU, DE>> {
     let x = vars.v[0].clone();
-    proto_vulcan!([[3] != [false, [1 | x] | x], 1 == x])
+    proto_vulcan!([x == [3 | x], |x, t| { t == [], condu { [|y, x| { x != [1, 2, x | x], x == [y, [], y], [1 | x] == x }, x == ["a"]], [x, [x, "bc"], [true] | 2] == [2] }, x == 'a' }])
 }
 pub fn case_360(vars: &Vars) -> InferredGoal<DU, DE, Goal<DU, DE>> {
     let x = vars.v[0].clone();
-    proto_vulcan!([x == [1, x], closure { [|x| { x == [_, x, 1], 2 == 3, |y, h| { [h, 2] == x } }, x == x] }])
+    proto_vulcan!([1 == x])
 }
 pub fn case_361(vars: &Vars) -> InferredGoal<DU, DE, Goal<DU, DE>> {
     let x = vars.v[0].clone();
-    proto_vulcan!([[1] != x, |t, h| { [[3, h], [], x] == [[t | h], [2 | 2], [h, t, h | _] | t] }])
+    proto_vulcan!([|tz| { tz == [3], [1, 3, 3] != [1, 3 | tz] }, [|t, h| { h == [[_], [2 | 2]] }]])
 }
 pub fn case_362(vars: &Vars) -> InferredGoal<DU, DE, Goal<DU, DE>> {
     let x = vars.v[0].clone();
     let y = vars.v[1].clone();
-    proto_vulcan!([|t| { conde { conde { [1, 'a', 2 | false] != [[y, 1]], t != [3 | t], [member(x, []), append(y, x, [3, 1])] }, t == y }, [3, _, 1 | 3] == t }])
+    proto_vulcan!([|t| { conde { conde { x != y, [[t, 2, 3] == t, append(y, y, [])], member(t, [1]) }, t == [_, x, 2 | _] }, _ == 3 }, closure { [conde { conde { [y == 3, member(y, [1, 3, 3])], [x == [2], x == y], [x, y | x] == _ }, x == ["a", "bc"] }, [x, x, x] == x] }])
 }
 pub fn case_363(vars: &Vars) -> InferredGoal<DU, DE, Goal<DU, DE>> {
     let q = vars.v[0].clone();
     let x = vars.v[1].clone();
-    proto_vulcan!([|h| { x == [["bc"], [1, 1]], onceo { [[true, 3 | h], [1 | x], 3 | h] == x }, false }, |y| { condu { [[true], [false] != q] }, |z| { conde { [[_, 2, _] == [y], q == [y]], true } }, y == [x] }, conde { onceo { x == _ }, conde { [q != q, [] != q], false }, [[3, 2 | false] != 1, [[true], x == [], [q, _] != q]] }])
+    proto_vulcan!([|h| { [q, h, []] == h, x != q, member(h, [3]) }, conde { |h| { |tz| { tz == [1, 2], [1 | tz] != [1, 1, 2] } }, [[[], _, x] == x, q == q] }, |x| { conde { [q == [[x, q], 1, [_, 2, _]], |h| { false }], conde { true, [member(x, [1]), x == []] }, [onceo { q == 2 }, [q] == q] }, 3 != q, [2] == x }, closure { x != 1 }])
 }
 pub fn case_364(vars: &Vars) -> InferredGoal<DU, DE, Goal<DU, DE>> {
     let q = vars.v[0].clone();
     let x = vars.v[1].clone();
-    proto_vulcan!([|t| { |t, z| { t == t }, |h, y| { onceo { t == [t, 1 | h] }, |h| { false, t == [[3 | x] | x] }, conde { member(x, [1, 1, 3]), [q == [[_, "bc", x] | q], [[] | x] == [1, h, 1]], [member(q, [3, 2, 2]), 2 == h] } } }, conde { x == "a", [conda { conde { [[1 | q], [], [x]] != [[_, 2, 'b'], true], [x == [3, x], x != [_]], append(x, q, [1, 2]) } }, |h, x| { 2 == x, q == q }] }, q == [3, false, []]])
+    proto_vulcan!([|t| { |t, z| { [t, 3] == t }, |t| { q == [q | q], [[1, _ | x] == t, t == [_, _, t | x]] } }, x == [1, q, x], conde { [conde { [q, 2, q] == q, [2 == q, q == "a"], [true, true] }], q != x }])
 }
 pub fn case_365(vars: &Vars) -> InferredGoal<DU, DE, Goal<DU, DE>> {
     let q = vars.v[0].clone();
     let x = vars.v[1].clone();
-    proto_vulcan!([conde { [2 == q, condu { |t, y| { false, member(y, [3, 1]) }, [conde { [false, q != [1, q | x]], [[[q], [2, x | x], [q, 1]] == [[], 2 | 2], x != x] }, [true, x == [x, "bc", []], [] == q]] }], condu { onceo { [[[], 2, _ | x], [3, 2, q], [2]] != x }, condu { append(x, x, [1, 2]), x == [2, []], [true, x == [2]] }, append(q, q, [3]) } }, closure { member(q, [2, 2, 2]) }])
+    proto_vulcan!([conde { [[x] == x, 1 == x], [[[q, []] | x] != q, [x, 3] != x] }])
 }
 pub fn case_366(vars: &Vars) -> InferredGoal<DU, DE, Goal<DU, DE>> {
     let x = vars.v[0].clone();
     let y = vars.v[1].clone();
-    proto_vulcan!([[_] == [3, [1, 1, 1 | y], 1], member(y, [1])])
+    proto_vulcan!([[[1, 1, 1 | y], 1, [1, _, 1] | y] == x, |tz| { tz == [2, 1], [3, 2, 1] != [3 | tz] }])
 }
 pub fn case_367(vars: &Vars) -> InferredGoal<DU, DE, Goal<DU, DE>> {
     let q = vars.v[0].clone();
     let x = vars.v[1].clone();
-    proto_vulcan!([[[] == q, x == [x], q == [[[]]]], onceo { |t, z| { [t] == x } }, closure { q == _ }])
+    proto_vulcan!([[[_ | x] == q, q != 3, [[q == [[]], [x] == x, q == [q, q]]]], conde { [[x != [2, [] | x]], |x| { 3 != x, onceo { [[x], [x, 3, []]] == x }, |z| { [] == [], append(x, z, []) } }], conde { [q == [x, 2, 3], q == q], true }, [q != [x, 'b', 2 | q], conda { x == q, [x == q, false] }] }])
 }
 pub fn case_368(vars: &Vars) -> InferredGoal<DU, DE, Goal<DU, DE>> {
     let x = vars.v[0].clone();
-    proto_vulcan!([2 == x, [] != x, [x, 3, 2] != x, closure { |z, y| { onceo { [] == x } } }])
+    proto_vulcan!([[] == x, [[x, [], 2], [x, 3, 2] | x] == [[], [], _ | x], x == [_ | _]])
 }
 pub fn case_369(vars: &Vars) -> InferredGoal<DU, DE, Goal<DU, DE>> {
     let x = vars.v[0].clone();
-    proto_vulcan!([x == 3])
+    proto_vulcan!([x != true, closure { onceo { conde { [[[], [], x] != x, member(x, [])], [|tz| { [1, 2, 3] != [1 | tz], tz == [2, 3] }, [x, 2] == x] } } }])
 }
 pub fn case_370(vars: &Vars) -> InferredGoal<DU, DE, Goal<DU, DE>> {
     let x = vars.v[0].clone();
-    proto_vulcan!([false, [x != [x], |h, z| { 2 != h, |h| { [[z, 3, _], 'b' | h] == h, z == [h] } }, x == [x, "a" | 2]], closure { conde { [|y| { [[_ | x], 3] != x }, false], 2 == x, conde { member(x, [3, 1, 2]), x == [1, x], [x == x, x == [_ | 1]] } } }])
+    proto_vulcan!([false, [[3, _, x] == x, x == x, 2 == x]])
 }
 pub fn case_371(vars: &Vars) -> InferredGoal<DU, DE, Goal<DU, DE>> {
     let q = vars.v[0].clone();
     let x = vars.v[1].clone();
-    proto_vulcan!([[1 == x, conde { [x == x, [2, 1, q] == x], onceo { false } }, q != x], closure { [[[x, x, q | q], ['b', q], [x, q]] == [1 | x], append(q, x, [])] }])
+    proto_vulcan!([[x == [x], conde { x == [[], x], [|y| { false, y != [q | q] }, q == [2, q | q]] }, [[x, x | x] != x]]])
 }
 pub fn case_372(vars: &Vars) -> InferredGoal<DU, DE, Goal<DU, DE>> {
     let x = vars.v[0].clone();
     let y = vars.v[1].clone();
-    proto_vulcan!([[|z, y| { [1] != z }], closure { [x == [_, y], y != [[]]] }])
+    proto_vulcan!([[|z, y| { |tz| { tz == [1], [3 | tz] != [3, 1] } }]])
 }
 pub fn case_373(vars: &Vars) -> InferredGoal<DU, DE, Goal<DU, DE>> {
     let x = vars.v[0].clone();
     let y = vars.v[1].clone();
-    proto_vulcan!([[x] == y, [["a", 2, [] | y], [2, [], x], [y, [], 2]] != x, x == x])
+    proto_vulcan!([x == x, [["a", 2, [] | y], [2, [], x], [y, [], 2]] != x, |tz| { tz == [3], [2 | tz] != [2, 3] }])
 }
 pub fn case_374(vars: &Vars) -> InferredGoal<DU, DE, Goal<DU, DE>> {
     let q = vars.v[0].clone();
     let x = vars.v[1].clone();
-    proto_vulcan!([conda { append(x, x, [2]), [[2 | x] == q, |z, y| { |h| { false }, z == [[], z], |y| { y == 3, [[3, 1, _ | z] | q] == q } }], conde { |h, x| { append(q, h, [1, 2]) }, x == x, [x != [x, 2], [x == [[] | x], member(q, [1, 3, 1])]] } }, |y| { q == [true, q, y | 1], [1, 1, "bc"] == [x | y] }, q != [[], 2, []], closure { [onceo { member(q, [2]) }, 2 == q] }])
+    proto_vulcan!([conda { append(x, x, [2]), [[1, _, x] == q, 1 == q], |z| { 1 == [q | q], [q, x, z] == q, |x, y| { z == [1, 1], false } } }, conda { [[x == 1, |tz| { tz == [2, 3], [2, 1, 2, 3] != [2, 1 | tz] }], [[q, x | 2], [q, x, q] | true] != q] }, conde { 2 == q, x == [1] }])
 }
 pub fn case_375(vars: &Vars) -> InferredGoal<DU, DE, Goal<DU, DE>> {
     let q = vars.v[0].clone();
     let x = vars.v[1].clone();
-    proto_vulcan!([true, |h, x| { [[[1]] == h, [q, 1] == x, [x == x, q != x]], |x| { [1, _] == x, [[_] | 2] == _, conde { x == [], [x == 3, h == q], [x != [1, x | h], [_, 2, _ | 1] == h] } } }, 1 == x, closure { [x == q, conde { [[true, append(q, x, [2, 1])], |y, t| { y == _ }], [conde { [[1, 3, 3] != q, q != [[2], [_, _], x]], [] == [[[]], x | q], q != [1] }, [[1, x, _] != q]] }] }])
+    proto_vulcan!([true, |h, x| { [1 == q, h == [x, 2], [[], 2] != x], [x] == h }, x == [1, 2]])
 }
 pub fn case_376(vars: &Vars) -> InferredGoal<DU, DE, Goal<DU, DE>> {
     let x = vars.v[0].clone();
     let y = vars.v[1].clone();
-    proto_vulcan!([y == [1 | y]])
+    proto_vulcan!([1 != y])
 }
 pub fn case_377(vars: &Vars) -> InferredGoal<DU, DE, Goal<DU, DE>> {
     let x = vars.v[0].clone();
-    proto_vulcan!([[conde { [[x] == x, ["bc"] != x], [x == x, [3, [2, 'b'], [x, x]] == x], x == [1, [[]] | _] }, x != [[]], conde { [true, |t| { [["bc"], [x], [2, 3, 1]] == x, [1 | t] == x }], [1, x, x] == x, |x| { member(x, [1, 2]), x == x, [2, x] == x } }], [[1, 'b']] == [2], closure { onceo { conde { [append(x, x, [3]), [x, [x, 2, x]] != x], [[]] == x, [[[], 1, x] != [x, x, [2, x, x | x]], [x, x | x] == x] } } }])
+    proto_vulcan!([[conde { [[[x] | x] != x, false], [[] != x, x == [2, x, _ | x]], [|y| { [y, 1] == y }, condu { true, [append(x, x, [1, 2]), x != [[]]], [[false, 3, x] == x, [x | 2] == x] }] }, [3, [2], 2 | x] == [x, "a"], [x, x | x] == [[x, x, 1 | x]]], false])
 }
 pub fn case_378(vars: &Vars) -> InferredGoal<DU, DE, Goal<DU, DE>> {
     let q = vars.v[0].clone();
     let x = vars.v[1].clone();
-    proto_vulcan!([x == x, conde { conde { |t| { [[x | q] | t] != [q], x != 2 }, q == 3, q == 1 }, [q != x, x == "bc"] }, 'b' == 1, closure { [[[]] == q, [[member(x, [1, 1]), q != [[], _, q], append(q, q, [1, 2])], |x, z| { [[x], x, x] == 1 }]] }])
+    proto_vulcan!([['b' | q] == x, [q, 'a' | 1] != q, x == q])
 }
 pub fn case_379(vars: &Vars) -> InferredGoal<DU, DE, Goal<DU, DE>> {
     let x = vars.v[0].clone();
     let y = vars.v[1].clone();
-    proto_vulcan!([onceo { append(x, y, [3, 3]) }, [conde { [3, [3, x, 3 | x], [[], _ | 1]] == y, |x, t| { x == y, 3 == x, y == [1, y, x] } }]])
+    proto_vulcan!([onceo { append(x, y, [3, 3]) }, [conde { y != 2, [onceo { [_, y, [] | x] == y }, x == x] }]])
 }
 pub fn case_380(vars: &Vars) -> InferredGoal<DU, DE, Goal<DU, DE>> {
     let x = vars.v[0].clone();
-    proto_vulcan!([|h, y| { [[_, h]] == x, x == [[], _, _] }, [_] == [1 | x]])
+    proto_vulcan!([|h, y| { |tz| { tz == [1, 2], [3, 3 | tz] != [3, 3, 1, 2] }, [1, "bc", _] == h }, onceo { [x | x] == x }])
 }
 pub fn case_381(vars: &Vars) -> InferredGoal<DU, DE, Goal<DU, DE>> {
     let x = vars.v[0].clone();
-    proto_vulcan!([x == x, x != [x, [2, []], x]])
+    proto_vulcan!([x != x, x == x])
 }
 pub fn case_382(vars: &Vars) -> InferredGoal<DU, DE, Goal<DU, DE>> {
     let x = vars.v[0].clone();
     let y = vars.v[1].clone();
-    proto_vulcan!([append(y, x, [2, 3]), y != [[], y, [_, 2 | x]], conde { [y == 3, [x, _, 2] != x], [2, []] == [], [[1, false | y] != y, conde { member(y, [1]), [[false, y == [[y, 2, y], [1, 2, x] | 'b']], |y| { true, y == [y | y] }], [x == [3, 1 | y], member(y, [])] }] }])
+    proto_vulcan!([append(y, x, [2, 3]), [y, y, _] == x, [[[y, y]] == 3, |tz| { [1 | tz] != [1, 3], tz == [3] }]])
 }
 pub fn case_383(vars: &Vars) -> InferredGoal<DU, DE, Goal<DU, DE>> {
     let x = vars.v[0].clone();
     let y = vars.v[1].clone();
-    proto_vulcan!([false, |t, z| { t != 1, true }, |h, z| { condu { [2, false] == h } }])
+    proto_vulcan!([false, |t, z| { ['a', y, false] != y, conde { x == [[z, []], z, [t, t]], t == [z | z], |y, h| { y == [_, 2, _], z == [[]] } } }, 3 != x])
 }
 pub fn case_384(vars: &Vars) -> InferredGoal<DU, DE, Goal<DU, DE>> {
     let x = vars.v[0].clone();
-    proto_vulcan!([x == [[x, _], [1, _]]])
+    proto_vulcan!([x != x])
 }
 pub fn case_385(vars: &Vars) -> InferredGoal<DU, DE, Goal<DU, DE>> {
     let x = vars.v[0].clone();
-    proto_vulcan!([conda { [[[] | x] != x, |z, t| { |z, y| { [1] == [t | 2], [3, _, [x | z]] == 3, true } }], x != [x] }])
+    proto_vulcan!([conda { [x == [[x, x, x] | 1], onceo { conde { x == 2, [2 == x, x == 1], [2, _] == _ } }], [x != [x, x, 2 | x], [x == [x, [], 2 | "bc"]]] }])
 }
 pub fn case_386(vars: &Vars) -> InferredGoal<DU, DE, Goal<DU, DE>> {
     let q = vars.v[0].clone();
     let x = vars.v[1].clone();
-    proto_vulcan!([[x, 2, x | q] == q, [_, [_, 2, _ | q] | q] != x, |y| { conde { [_, x] == x, [x == ["a"], false, member(y, [3, 1, 3])] } }])
+    proto_vulcan!([x == [[x], [] | q], conde { [|tz| { [2, 1, 1, 1] != [2, 1 | tz], tz == [1, 1] }], append(q, q, []), [[1 | q] != q, [x == q, onceo { x == [true, q, x] }]] }, member(x, [3, 3, 3]), closure { append(x, q, [2]) }])
 }
 pub fn case_387(vars: &Vars) -> InferredGoal<DU, DE, Goal<DU, DE>> {
     let x = vars.v[0].clone();
-    proto_vulcan!([member(x, [3, 1]), x == [x, _, _], x == []])
+    proto_vulcan!([member(x, [3, 1]), |tz| { [1, 2 | tz] != [1, 2, 3, 2], tz == [3, 2] }, onceo { conde { |z| { false, z == z, [[z, x, 2], [z, z, z], [_]] != z }, [x, false, []] == x, x == [[1, 2, x], ['a', 2] | x] } }])
 }
 pub fn case_388(vars: &Vars) -> InferredGoal<DU, DE, Goal<DU, DE>> {
     let q = vars.v[0].clone();
     let x = vars.v[1].clone();
-    proto_vulcan!([[] == q, q == [q, x], q == x])
+    proto_vulcan!([q == [2, 3], |h, t| { conda { [|h, x| { true, q == [x, 1], false }, [1, [] | 1] == x] }, |tz| { [3 | tz] != [3, 1, 1], tz == [1, 1] }, q == [[_, _, h]] }, [[2, 3, _ | x]] == q])
 }
 pub fn case_389(vars: &Vars) -> InferredGoal<DU, DE, Goal<DU, DE>> {
     let q = vars.v[0].clone();
     let x = vars.v[1].clone();
-    proto_vulcan!([["a"] != 1, |y| { ["a"] == x }, |y, z| { 'b' != z }, closure { [x != [q, _, []], [1, x, 1 | x] != x] }])
+    proto_vulcan!([[[1, true, x]] == [], conde { [[x, q | q] != x, 2 != x], conde { |z| { member(x, []), 1 == x, z != z }, [[x, x, q | q] == q], [append(x, x, []), true, [1, 'b'] == q] } }, x == q])
 }
 pub fn case_390(vars: &Vars) -> InferredGoal<DU, DE, Goal<DU, DE>> {
     let q = vars.v[0].clone();
     let x = vars.v[1].clone();
-    proto_vulcan!([q != 1, x != ["bc", x | q], condu { [member(x, [2, 1, 2]), condu { onceo { q == [2, x | x] } }] }])
+    proto_vulcan!([[_ | q] == x, [q, [[], x, 1 | q], x | q] == ["a" | q], condu { [x != q, 1 == x], [onceo { append(q, q, [3, 2]) }, conde { |t| { true }, [_ != x, |tz| { tz == [3, 2], [2, 1, 3, 2] != [2, 1 | tz] }], false }], [condu { [|y, x| { false }, [[x, 1, x] == x]], [[1] == [x, 1, q | q], onceo { x != ["a", [[], x | x], [x | x] | 2] }], [false == q, 'b' == q] }, append(q, x, [])] }])
 }
 pub fn case_391(vars: &Vars) -> InferredGoal<DU, DE, Goal<DU, DE>> {
     let x = vars.v[0].clone();
-    proto_vulcan!([x == [x, _ | x], [x, x, 1] == x, x == x])
+    proto_vulcan!([x != x, x != x, x == [[x, "a"], 3 | x], closure { [[[[], true], [x], [[]] | 1] == x, onceo { 3 == x }] }])
 }
 pub fn case_392(vars: &Vars) -> InferredGoal<DU, DE, Goal<DU, DE>> {
     let x = vars.v[0].clone();
-    proto_vulcan!([|y| { x == y }, x == x, |t, y| { |z| { append(x, t, []) }, condu { [x == 2, [t == [2, t | 1]]], x == 1 }, conda { [[t != x, x == 1], conde { [[[x, false, x | y], [2, 2, 'a' | y], [y | y]] == [], x != 2], [[x, _, x] == 1, y == ['a', t, x]] }], |y, z| { [[], _, z] != y, y == y, true } } }])
+    proto_vulcan!([|y| { [y, 3, x | x] == x }, conde { [|y, t| { |h| { _ == t, y != [y, _], y == [t | 1] }, member(t, [1, 3, 3]) }, x == 2], [[1 | x] == x, [[]] == [3, x]] }, x == _])
 }
 pub fn case_393(vars: &Vars) -> InferredGoal<DU, DE, Goal<DU, DE>> {
     let q = vars.v[0].clone();
     let x = vars.v[1].clone();
-    proto_vulcan!([false, closure { [[_], [q, x, x | 'a'], q] == q }])
+    proto_vulcan!([false, closure { x == [q, [], x] }])
 }
 pub fn case_394(vars: &Vars) -> InferredGoal<DU, DE, Goal<DU, DE>> {
     let q = vars.v[0].clone();
     let x = vars.v[1].clone();
-    proto_vulcan!([append(x, x, [2]), closure { |h| { append(x, x, [1, 2]), q == 1 } }])
+    proto_vulcan!([append(x, x, [2]), closure { |h| { append(x, x, [1, 2]), x == [] } }])
 }
 pub fn case_395(vars: &Vars) -> InferredGoal<DU, DE, Goal<DU, DE>> {
     let x = vars.v[0].clone();
     let y = vars.v[1].clone();
-    proto_vulcan!([[y, y | y] == y])
+    proto_vulcan!([|tz| { [2, 2, 1] != [2, 2 | tz], tz == [1] }, closure { [x == x, false] }])
 }
 pub fn case_396(vars: &Vars) -> InferredGoal<DU, DE, Goal<DU, DE>> {
     let q = vars.v[0].clone();
     let x = vars.v[1].clone();
-    proto_vulcan!([conde { [q == 2, [q, []] == x], [[2, [], q] == x, conde { condu { true }, [conde { append(q, x, []), q == [[[], x, q], [2], [_, 1, x]], append(q, x, [1]) }, conde { [x == [1], q == x], [[1] == q, q != x], [true, x != [[x, q | _], [1], [x, _]]] }] }], [q == q, onceo { |h, x| { x != [true | q], true } }] }, conde { [x == _, conde { x == [q | x], [x, [] | q] != x }], [onceo { q == [2] }, |t, x| { append(t, q, []), member(x, [3, 2]), [q] == t }] }])
+    proto_vulcan!([conde { [x == [_, [], x | _], |x, h| { [_ == h, [['b', [], x], 1] == false], onceo { [q, _, q | h] == x }, |tz| { [3, 2, 1] != [3, 2 | tz], tz == [1] } }], [[] == q, condu { [[q | 2] != x, |t| { q == true }] }], [x, q | _] == x }, x != _, closure { [q == q, onceo { |h, x| { ['b'] == h, 1 == q } }] }])
 }
 pub fn case_397(vars: &Vars) -> InferredGoal<DU, DE, Goal<DU, DE>> {
     let x = vars.v[0].clone();
-    proto_vulcan!([x == [[], []], [x] == x])
+    proto_vulcan!([[] != x, [x, [3]] == x])
 }
 pub fn case_398(vars: &Vars) -> InferredGoal<DU, DE, Goal<DU, DE>> {
     let x = vars.v[0].clone();
     let y = vars.v[1].clone();
-    proto_vulcan!([3 == x, y == [y], x == [x]])
+    proto_vulcan!([y == 1, y == [y], ["a"] != x, closure { conde { onceo { member(x, [1, 2]) }, [x == y, [3, y, 2] != [[1, "bc"], 1]], [y == [x], x == [1, 1]] } }])
 }
 pub fn case_399(vars: &Vars) -> InferredGoal<DU, DE, Goal<DU, DE>> {
     let q = vars.v[0].clone();
     let x = vars.v[1].clone();
-    proto_vulcan!([[[], x, []] == q, |x| { [[q, 1, 2] == q, [x, [], _ | q] == q], |y| { |t| { member(x, [1]) }, y == [q, 'b'], q == [] }, [[2, x, x] == x, [2, _] != x] }, x == x, closure { [_, q, "a" | x] == q }])
+    proto_vulcan!([[x] == q, |y| { [] == [q, []] }, x == [3, x]])
 }
 pub fn case_400(vars: &Vars) -> InferredGoal<DU, DE, Goal<DU, DE>> {
     let x = vars.v[0].clone();
     let y = vars.v[1].clone();
-    proto_vulcan!([[y, false, y] != y, [2, 2, _] == y])
+    proto_vulcan!([x == [[3 | y], [_], 3], conde { [[y, x, _ | x], [y]] != [x, [1], [[], 2 | x]], [y == [[], x | x], x == x], x == [y | y] }])
 }
 pub fn case_401(vars: &Vars) -> InferredGoal<DU, DE, Goal<DU, DE>> {
     let x = vars.v[0].clone();
-    proto_vulcan!([x == x])
+    proto_vulcan!([[1, x, 3] == [x, [_, 'a', 2]]])
 }
 pub fn case_402(vars: &Vars) -> InferredGoal<DU, DE, Goal<DU, DE>> {
     let q = vars.v[0].clone();
     let x = vars.v[1].clone();
-    proto_vulcan!([[2, q] == x, condu { true == q }, [[]] == q])
+    proto_vulcan!([[[q | x], [[], [] | _], [x, q, [] | x]] != [_, x], q == x, x != 1])
 }
 pub fn case_403(vars: &Vars) -> InferredGoal<DU, DE, Goal<DU, DE>> {
     let x = vars.v[0].clone();
-    proto_vulcan!([[_, x, false | x] == x, conda { [x | x] != x }, 2 != [x | x]])
+    proto_vulcan!([_ == x, [append(x, x, [2, 2]), [1, x, x] != x], [x] != [[x, x, 2], x, [false | x] | x]])
 }
 pub fn case_404(vars: &Vars) -> InferredGoal<DU, DE, Goal<DU, DE>> {
     let x = vars.v[0].clone();
-    proto_vulcan!([['a', x] == x, [x, 3] == 2, [[x] != 1]])
+    proto_vulcan!([x != [[x, x, 3], _ | x], x == 2, [[], _] == x])
 }
 pub fn case_405(vars: &Vars) -> InferredGoal<DU, DE, Goal<DU, DE>> {
     let x = vars.v[0].clone();
     let y = vars.v[1].clone();
-    proto_vulcan!([1 == [3 | x], conde { [conde { false, x == [[], 1], y == [_] }], [member(x, [1, 2]), ['b'] != y], |h| { y == [1, h], |y, t| { member(x, [2, 1, 2]), _ == h } } }])
+    proto_vulcan!([x == _, |x, y| { x == [false | true], member(y, [1]) }])
 }
 pub fn case_406(vars: &Vars) -> InferredGoal<DU, DE, Goal<DU, DE>> {
     let x = vars.v[0].clone();
-    proto_vulcan!([conde { [1 == [x | x], [2, x] == x], |x, y| { x != [[], _] }, [x == [x, x, x], [[x] == x, false]] }, true, conde { [|t| { onceo { t != [x] }, |x| { false } }, [] != x], [x == [x, 2], x == [[], 2, x]], [|x| { [x] == x, 3 == [] }, [x == [[[]]], x == [_, [x, x | x], [x]], [_ != x]]] }, closure { [x != [[1, "bc", _], [1], [] | x], ["bc", x | x] != x] }])
+    proto_vulcan!([conde { [1 == x, |tz| { [3 | tz] != [3, 1], tz == [1] }], true, onceo { 3 != x } }, x != [[], _], x == [x, x, x]])
 }
 pub fn case_407(vars: &Vars) -> InferredGoal<DU, DE, Goal<DU, DE>> {
     let q = vars.v[0].clone();
     let x = vars.v[1].clone();
-    proto_vulcan!([conde { q != 2, [x == q, |h, x| { 1 == x, |y| { false }, 2 == x }] }, false, append(q, q, [2, 2])])
+    proto_vulcan!([conde { [x, 1 | _] == x, [q == [[]], conde { [|tz| { tz == [1], [2, 1, 1] != [2, 1 | tz] }, conde { [2, "bc"] != x, [q != x, |tz| { tz == [3, 1], [2, 2, 3, 1] != [2, 2 | tz] }], x == x }], [|tz| { tz == [1, 3], [2, 2 | tz] != [2, 2, 1, 3] }, x == x], q == [3, q, x] }] }, q != 3, q == [[x, 2], [3, false] | 2], closure { x != q }])
 }
 pub fn case_408(vars: &Vars) -> InferredGoal<DU, DE, Goal<DU, DE>> {
     let x = vars.v[0].clone();
     let y = vars.v[1].clone();
-    proto_vulcan!([[[false, 1 | y], [y, 2, y | y], 2] == x, closure { y == [[[]]] }])
+    proto_vulcan!([[x, 3, 1 | y] != y])
 }
 pub fn case_409(vars: &Vars) -> InferredGoal<DU, DE, Goal<DU, DE>> {
     let x = vars.v[0].clone();
-    proto_vulcan!([x == 3, x != x, append(x, x, [1]), closure { x == 2 }])
+    proto_vulcan!([[["bc", 1, _], _, [x | x] | x] == x, conda { [conde { [onceo { x != [1, x] }, [[x, 2, false] == x]], [condu { append(x, x, []), [[3, x], [1, []], [x, 3, _] | 'a'] != x }, [x == [], x == [x | x]]], [[[false, _, []], x, [2, _, 3]] == x, [x, 1] != x] }, |x, t| { x == x, [[], 1 | x] == [1], [[t, false | x], x | x] == x }], |x, y| { member(x, []), x == 2 }, |y, t| { |z| { false, x == [[], [z]], [] == x } } }, x == x])
 }
 pub fn case_410(vars: &Vars) -> InferredGoal<DU, DE, Goal<DU, DE>> {
     let q = vars.v[0].clone();
     let x = vars.v[1].clone();
-    proto_vulcan!([[[[q, _] == q, q == [2, _, q], [false, 1, ['a', 1 | q]] != ["a", 2]]], [[1], q, [q, 1, 2 | 3]] != q])
+    proto_vulcan!([[[x == q, conde { [2, 1 | _] != [[_, q], [x, 2, 2], [_, 1, 'a'] | q], q == q }, q == q]], [[3, _, x | x] | q] == x, closure { [[x] == q, conde { [|tz| { tz == [2, 2], [2, 1, 2, 2] != [2, 1 | tz] }, |tz| { [2, 3] != [2 | tz], tz == [3] }], onceo { false } }] }])
 }
 pub fn case_411(vars: &Vars) -> InferredGoal<DU, DE, Goal<DU, DE>> {
     let q = vars.v[0].clone();
@@ -2111,935 +2111,1007 @@ pub fn case_411(vars: &Vars) -> InferredGoal<DU, DE, Goal<DU, DE>> {
 }
 pub fn case_412(vars: &Vars) -> InferredGoal<DU, DE, Goal<DU, DE>> {
     let x = vars.v[0].clone();
-    proto_vulcan!([x == [x, x | "bc"], onceo { x == [2, [3, 1 | x] | x] }, condu { [[1, _ | x] == x, [] == [x]], [condu { [[1], x, 3 | x] != [[] | x] }, true] }, closure { onceo { false } }])
+    proto_vulcan!([x == x, [x, x, x] != x, x != [x], closure { 1 == [['a', [], x], 2] }])
 }
 pub fn case_413(vars: &Vars) -> InferredGoal<DU, DE, Goal<DU, DE>> {
     let x = vars.v[0].clone();
     let y = vars.v[1].clone();
-    proto_vulcan!([conde { conde { [x == [[]], |t, x| { false, false, [t] == x }], true, [condu { false }, [x | x] == x] }, [onceo { y == 1 }, |x, t| { conde { [x != [t], [[3, 2, []], [[]], ['b']] == [[]]], [[[3, 1, y | x], [t | 2], 1] != t, member(x, [])], [y == [false, 2], 1 != x] } }], x == x }, [3, 1, x | y] == 1, closure { [[|z, t| { [_, t] == x }], 2 == x] }])
+    proto_vulcan!([conde { conde { [[[] | x] != x, [false]], |tz| { tz == [2], [2, 2] != [2 | tz] }, [|h| { true }, 1 != [x, [1, [] | x], _]] }, conde { true, [|x, t| { 2 == y }, [1] == y], [x] == y }, member(y, [1, 3]) }, |x, t| { [[_, t] == [1 | t], x == y, |tz| { [3, 2 | tz] != [3, 2, 1], tz == [1] }], [[x, 1, x | y] == t, conda { _ == [x], [member(y, []), member(x, [2, 2, 3])], [_, t] == x }, |tz| { [1, 2, 2] != [1 | tz], tz == [2, 2] }], conda { 3 == y, [[[y] | y] == [['b'], [_, t, t]], [1 | _] == y], [onceo { t == x }, [[2, _], [y, []]] == 1] } }])
 }
 pub fn case_414(vars: &Vars) -> InferredGoal<DU, DE, Goal<DU, DE>> {
     let x = vars.v[0].clone();
-    proto_vulcan!([conde { conda { [conde { [[x, 3] != x, x == [x, 2, x]], x == [[], 2], x == x }, [x == ["a", [1, []]], [x] != x]], x == x }, conde { [x == [[[], 2], [x]], ["bc", [], 1] == [x, [x, 2 | x], _]], x == [x] } }])
+    proto_vulcan!([conde { conda { [conde { [[[x, x, 2]] != 3, x == _], [[] != x, x == [[x], [x, x]]], true }, [1, 2, x | 'b'] == x], onceo { false } }, [x | x] != x }])
 }
 pub fn case_415(vars: &Vars) -> InferredGoal<DU, DE, Goal<DU, DE>> {
     let x = vars.v[0].clone();
     let y = vars.v[1].clone();
-    proto_vulcan!([false, [x | x] != y, closure { [|x, h| { [h == 3] }, [] == y] }])
+    proto_vulcan!([false, x == x, closure { [conde { x == [1], [2, x] != y, [[x, x] == y, member(x, [1, 2, 1])] }, |x, y| { y == [y, 1, 1 | y], [[], y, x] != y, 1 == x }] }])
 }
 pub fn case_416(vars: &Vars) -> InferredGoal<DU, DE, Goal<DU, DE>> {
     let x = vars.v[0].clone();
-    proto_vulcan!([[["a", [], true | x], [x, []], _ | 'b'] == [[x, 1, 2], [true, 2, x], [2, "a"]], [1] == x])
+    proto_vulcan!([[[], x, _ | 'b'] == ["a", [x | x]], [x, false, 1 | x] == x])
 }
 pub fn case_417(vars: &Vars) -> InferredGoal<DU, DE, Goal<DU, DE>> {
     let q = vars.v[0].clone();
     let x = vars.v[1].clone();
-    proto_vulcan!([x == ['a'], q == [2, true, 3], [1 | x] == q])
+    proto_vulcan!([|tz| { [1, 3 | tz] != [1, 3, 1], tz == [1] }, onceo { true }, conda { [|h, t| { [2] == x, [h, h, x | x] != x, onceo { |tz| { [2, 2, 2, 1] != [2, 2 | tz], tz == [2, 1] } } }, q != q], [[|x, z| { [[q, 2, x], [z, q | z], 1] != x, append(x, x, []) }, x != true, [[]] == q], false], [|x, y| { [2] == x, onceo { [3, x, 2 | y] == x }, y != [_] }, onceo { [true, _ == q] }] }, closure { [onceo { x == 3 }, [1] == x] }])
 }
 pub fn case_418(vars: &Vars) -> InferredGoal<DU, DE, Goal<DU, DE>> {
     let x = vars.v[0].clone();
     let y = vars.v[1].clone();
-    proto_vulcan!([|h, x| { _ == x }, closure { [onceo { conde { [_ == [[1, y], [true | y], [1, y, y] | 1], [3, [y, 2 | y], [y]] != [[2, y | x], true, 3]], [x == [1, 1, y], y != y] } }, |t| { t == 2, onceo { true }, onceo { [x, 2, x] == y } }] }])
+    proto_vulcan!([|h, x| { [_, [y], [x]] == [1, 3 | x] }, closure { y == [[], y] }])
 }
 pub fn case_419(vars: &Vars) -> InferredGoal<DU, DE, Goal<DU, DE>> {
     let x = vars.v[0].clone();
-    proto_vulcan!([false == x, [[_, 3 | x], 2, [[] | x]] == x])
+    proto_vulcan!([|tz| { tz == [1], [2, 3, 1] != [2, 3 | tz] }, [conde { |y, t| { member(y, [1]), false, true }, append(x, x, [2, 2]), [x == _, 2 != x] }, conde { |x, y| { true }, [false, x == [1]], conde { [append(x, x, [1, 3]), [_, [x], [_, x | x]] == []], |tz| { tz == [3], [3, 2, 3] != [3, 2 | tz] } } }, onceo { conda { [x == x, x == [[], x | x]], [[1]] == [[], [], x | x], [[x] == x, member(x, [1, 1, 1])] } }]])
 }
 pub fn case_420(vars: &Vars) -> InferredGoal<DU, DE, Goal<DU, DE>> {
     let x = vars.v[0].clone();
     let y = vars.v[1].clone();
-    proto_vulcan!([y == [y], y == 3, [1] == y, closure { [[1, 2, [] | x] == [[1, []], [y]]] }])
+    proto_vulcan!([[3, x] == [[y, _ | y]], false, |x, y| { |tz| { tz == [1], [2 | tz] != [2, 1] }, |y, x| { [[], ['b', [], x | y], [x, 1, x | y]] == x } }])
 }
 pub fn case_421(vars: &Vars) -> InferredGoal<DU, DE, Goal<DU, DE>> {
     let x = vars.v[0].clone();
     let y = vars.v[1].clone();
-    proto_vulcan!([conde { _ == x, [] == x, |z| { [[_, x, []]] != [['a' | 2], 1], z != z, [[2, z, 2]] != [_ | x] } }, closure { [x != 1, x != x] }])
+    proto_vulcan!([conde { y == [], true, x != [[], y, x | 2] }, closure { y == [] }])
 }
 pub fn case_422(vars: &Vars) -> InferredGoal<DU, DE, Goal<DU, DE>> {
     let x = vars.v[0].clone();
-    proto_vulcan!([|y| { [] == x, [conde { y == [x | x], [member(x, [1]), 2 == x] }] }, |h| { member(x, [2, 1]), |y| { [append(x, h, [3]), false] } }])
+    proto_vulcan!([|y| { x == [y, x], [[|tz| { tz == [1, 1], [1, 1, 1] != [1 | tz] }, member(x, [1])]] }, [[x == [[1, "a" | x], x | x], [x != [2, [3]]], x == [2]]]])
 }
 pub fn case_423(vars: &Vars) -> InferredGoal<DU, DE, Goal<DU, DE>> {
     let x = vars.v[0].clone();
-    proto_vulcan!([[x == [[] | x], |x, h| { conda { [append(x, h, [3]), x == ["a", h, h | x]], [h == [x, h], x != []] }, condu { x == true, x != [x, [x, x, false], [1 | x] | h], x != [1, [], 2 | x] }, x == x }]])
+    proto_vulcan!([[x != [x], false]])
 }
 pub fn case_424(vars: &Vars) -> InferredGoal<DU, DE, Goal<DU, DE>> {
     let x = vars.v[0].clone();
     let y = vars.v[1].clone();
-    proto_vulcan!([true, y == 1, x != ["a", y, y | y]])
+    proto_vulcan!([true, x == [[y, []]], x == [2, y | 2], closure { [conde { [condu { [true, true], [_, y] == x }, conde { [true, x == [2, [], x | x]], [3, y | 3] == x }], [y != x], [conda { [x == [], y == ['a', y, x]] }, [append(y, y, []), [2, x | y] != y]] }, conda { [x == [_, ['a', y, 'a'], [_]], [2] == x], [onceo { append(y, x, [1, 1]) }, [x, [[], x, x]] == x] }] }])
 }
 pub fn case_425(vars: &Vars) -> InferredGoal<DU, DE, Goal<DU, DE>> {
     let q = vars.v[0].clone();
     let x = vars.v[1].clone();
-    proto_vulcan!([conde { [[[]] | x] == q, |t, h| { |y| { h != [_ | x], q == 2 }, x == true } }, x == [[], x], x == [x, 3]])
+    proto_vulcan!([conde { |tz| { tz == [1, 1], [2, 1, 1] != [2 | tz] }, [|tz| { tz == [2], [2, 2 | tz] != [2, 2, 2] }, |x, t| { |h| { append(q, t, []) }, x == x }] }, |t| { [conde { member(x, [3]), q != [[t, t, [] | x]], [false, q == 2] }, condu { [[q, t] == true, q == [t, 1]] }, |x, t| { x != t, [1] == x, x != x }], [x] != x }, onceo { |x| { false, _ == x } }])
 }
 pub fn case_426(vars: &Vars) -> InferredGoal<DU, DE, Goal<DU, DE>> {
     let q = vars.v[0].clone();
     let x = vars.v[1].clone();
-    proto_vulcan!([conde { conda { [|y, z| { [] == q }, [1] == q] }, [[q, 2] == q, conda { [2, [], []] != x, [x == _], [q != [[], x | x], [] == x] }] }, [1, 3, [x, _, q]] == x])
+    proto_vulcan!([conde { conda { [|y, z| { [[2, y, [] | x]] == y }, [q, 2] == q] }, [q != [[q], [3, q, q | x]], conde { [conda { [true, [x] == x] }, _ != q], [|x, z| { append(x, x, [3, 2]) }, x == x], [|tz| { [3 | tz] != [3, 1], tz == [1] }, condu { q == [x, 2], [[3 | x], x] != q }] }] }, |t, x| { t != [2] }])
 }
 pub fn case_427(vars: &Vars) -> InferredGoal<DU, DE, Goal<DU, DE>> {
     let x = vars.v[0].clone();
     let y = vars.v[1].clone();
-    proto_vulcan!([|z| { z != z, [2, y, 2] != z, 'a' == y }, [[_ | y] | x] != y, x == y])
+    proto_vulcan!([|z| { z == y, true, [[y == [1, _, z], [1, x, y | x] == y], [1, y, "a"] == z, z == []] }, [x == []], x == [1 | 2], closure { |z| { |tz| { [1, 3, 2] != [1, 3 | tz], tz == [2] }, [y, [y, z, _ | 2]] == z } }])
 }
 pub fn case_428(vars: &Vars) -> InferredGoal<DU, DE, Goal<DU, DE>> {
     let q = vars.v[0].clone();
     let x = vars.v[1].clone();
-    proto_vulcan!([|x| { |z| { false, x == [[], [], x], conda { x == [z, [1, q, "bc" | z]], append(q, x, [3, 2]), [[z, 2] == x, x != "bc"] } }, |h, z| { |h, y| { z == [[], 2, "bc"] }, [z, true, 2 | z] == h }, conde { conde { [append(q, q, [2]), [[], 2] == x], [[[x, q] | q] == [x, []], 'b' == q] }, conde { [x == [[], _], [[], "bc", true | q] == [x, [x], [q, 1, 3] | x]], q == [[3, _, []]], [_ == q, [true | x] == x] }, |z| { q != [[q, [], [] | x]] } } }, [true, [2, [], _]] == [x], q == [1, "a"]])
+    proto_vulcan!([|x| { |z| { false, [] == x, |t| { x == [1, 2, z], x == z, [t, 3, 3 | x] != t } }, [q, "bc", x] == x, conda { [_ != q, x == "bc"], [2 | x] == x, [|t| { [] == q, [x] == q, x == _ }, [|tz| { [2, 2, 3] != [2 | tz], tz == [2, 3] }, 'b' == q]] } }, [q, [[], _]] != q, |t| { [|t| { 1 == x }], |h, t| { true, append(x, x, [3]), x != t } }])
 }
 pub fn case_429(vars: &Vars) -> InferredGoal<DU, DE, Goal<DU, DE>> {
     let x = vars.v[0].clone();
     let y = vars.v[1].clone();
-    proto_vulcan!([conda { [[] == y, x == x], conda { y != [[2, []]], y == [3] } }, [false, condu { [true, x == x], [x == [[false, y], [[], y, 1], [x, x, y | x]], [append(x, x, [2]), true]] }], closure { [x == x, condu { _ == x, conda { [[y, "a"], [y, 2], [[], y, _ | y]] == 1, append(y, y, [3, 2]), y != 1 }, [[false, y == [3, [2], 1], _ == x], false] }] }])
+    proto_vulcan!([conda { [[[y, x | y], "a"] == [], condu { member(y, []), conda { [true, y == [3]] } }], [|y| { x != [y], onceo { [['a', y, y], [[], y, 1]] == x }, [member(y, [2, 1, 3]), true] }, y == [x, y | x]] }, true])
 }
 pub fn case_430(vars: &Vars) -> InferredGoal<DU, DE, Goal<DU, DE>> {
     let x = vars.v[0].clone();
     let y = vars.v[1].clone();
-    proto_vulcan!([matche [3, "a" | y] { [[z], [y, 3, 1 | _], 1 | _] | h => [match x { 1 => { match x { ["a", 3, [t, x]] => , [[1, h, t | y], [[], _], [z]] => , [h, 2] | [[1 | x], [1 | _], [t, 1, h | 3] | h] => { [["a", [], h], [2 | 3]] == h, [3, h, 3] != h }, }, matche x { [] => { true }, } }, [[2 | x], ["bc", h | _]] => , }, conde { match x { [[2, t], _, [h, 2, x] | z] => { 3 != z }, y => , }, [x == [x | x], [false, _, [x]] == x, x != [x, x, 2]] }], [[], _] | [2] => [[[x, 2 | y], [true, false, x]] != true, [member(y, [])], y == _], [[2, x, []], t, h | _] | [[x | 1], z, [2, true] | t] => { y == [x] }, }, member(y, []), x != x])
+    proto_vulcan!([true, [[[], 2], 'a'] != y, matche y { [[[]], [false | _] | h] => [h == 2, [[[], 3]] != [[_, 2]]], true => , 3 | [[z, y, true], x, []] => , }])
 }
 pub fn case_431(vars: &Vars) -> InferredGoal<DU, DE, Goal<DU, DE>> {
     let x = vars.v[0].clone();
     let y = vars.v[1].clone();
-    proto_vulcan!([matche [3, "a" | y] { [[z], [y, 3, 1 | _], 1 | _] | h => [match x { 1 => { match x { ["a", 3, [t, x]] => , [[1, h, t | y], [[], _], [z]] => , [h, 2] | [[1 | x], [1 | _], [t, 1, h | 3] | h] => { [["a", [], h], [2 | 3]] == h, [3, h, 3] != h }, }, matche x { [] => { true }, } }, [[2 | x], ["bc", h | _]] => , }, conde { match x { [[2, t], _, [fresh_name_9, 2, x] | z] => { 3 != z }, y => , }, [x == [x | x], [false, _, [x]] == x, x != [x, x, 2]] }], [[], _] | [2] => [[[x, 2 | y], [true, false, x]] != true, [member(y, [])], y == _], [[2, x, []], t, h | _] | [[x | 1], z, [2, true] | t] => { y == [x] }, }, member(y, []), x != x])
+    proto_vulcan!([true, [[[], 2], 'a'] != y, matche y { [[[]], [false | _] | fresh_name_9] => [fresh_name_9 == 2, [[[], 3]] != [[_, 2]]], true => , 3 | [[z, y, true], x, []] => , }])
 }
 pub fn case_432(vars: &Vars) -> InferredGoal<DU, DE, Goal<DU, DE>> {
     let x = vars.v[0].clone();
-    proto_vulcan!([match x { [[2, true, 1 | 2]] => { matche x { [] => , [[h, 1, "bc"]] => h == [_ | x], [[t, x, y], t, [h, _, x] | h] => matche x { x | [] => { ["a"] == y }, }, }, ['a' == x, |h, t| { h != [[3 | h], [1, true], [3 | t]], x == x, false }, [x == x, x == [['b'], [3] | x], [[x, x, _]] == _]] }, [[_, _], 1, h] => [[h, 1] == x, match h { 1 | [1 | t] => [1] != h, [[2, y, []], [], h] => [matche y { z => , [[[], 2, x | _], 1] | h => [[2, []] == y, y != true], [y | z] => , }, [2, 2, h] != x], }], }, conde { [[1 == x, |x, z| { x == [3] }], x == x], [2 != [[3, 1, []], [x, 3 | x] | x], matche x { [[2], [[], z], 1] | [[[]], [[], y, 3 | t], _ | _] => , _ => , }] }])
+    let y = vars.v[1].clone();
+    proto_vulcan!([matche [3, "a" | y] { [[z], [y, 3, 1 | _], 1 | _] | h => [match x { 1 => { match x { ["a", 3, [t, x]] => , [[1, h, t | y], [[], _], [z]] => , [h, 2] | [[1 | x], [1 | _], [t, 1, h | 3] | h] => { h == [1, [], h], "a" != h }, }, ['a', 3] != x }, [[y, z, []], ["a", 2 | _]] | [["bc", h | _], 1] => [[[[x, 2, 1], 1] != x, x == [x, 2, 1], false], [x == [3, x | true]]], }, [conde { [true, true], [|tz| { [2, 1 | tz] != [2, 1, 1], tz == [1] }, true] }]], 3 => , y => append(x, y, []), }, match y { z => , }, 'b' != y, closure { [y != [x, x], |h, y| { |y| { |tz| { [2, 1, 1] != [2, 1 | tz], tz == [1] }, |tz| { [2, 3 | tz] != [2, 3, 2], tz == [2] }, y != [[]] } }] }])
 }
 pub fn case_433(vars: &Vars) -> InferredGoal<DU, DE, Goal<DU, DE>> {
     let x = vars.v[0].clone();
-    proto_vulcan!([match x { [[2, true, 1 | 2]] => { matche x { [] => , [[h, 1, "bc"]] => h == [_ | x], [[t, x, fresh_name_9], t, [h, _, x] | h] => matche x { x | [] => { ["a"] == fresh_name_9 }, }, }, ['a' == x, |h, t| { h != [[3 | h], [1, true], [3 | t]], x == x, false }, [x == x, x == [['b'], [3] | x], [[x, x, _]] == _]] }, [[_, _], 1, h] => [[h, 1] == x, match h { 1 | [1 | t] => [1] != h, [[2, y, []], [], h] => [matche y { z => , [[[], 2, x | _], 1] | h => [[2, []] == y, y != true], [y | z] => , }, [2, 2, h] != x], }], }, conde { [[1 == x, |x, z| { x == [3] }], x == x], [2 != [[3, 1, []], [x, 3 | x] | x], matche x { [[2], [[], z], 1] | [[[]], [[], y, 3 | t], _ | _] => , _ => , }] }])
+    let y = vars.v[1].clone();
+    proto_vulcan!([matche [3, "a" | y] { [[z], [y, 3, 1 | _], 1 | _] | h => [match x { 1 => { match x { ["a", 3, [t, x]] => , [[1, h, t | y], [[], _], [z]] => , [h, 2] | [[1 | x], [1 | _], [t, 1, h | 3] | h] => { h == [1, [], h], "a" != h }, }, ['a', 3] != x }, [[y, z, []], ["a", 2 | _]] | [["bc", h | _], 1] => [[[[x, 2, 1], 1] != x, x == [x, 2, 1], false], [x == [3, x | true]]], }, [conde { [true, true], [|tz| { [2, 1 | tz] != [2, 1, 1], tz == [1] }, true] }]], 3 => , y => append(x, y, []), }, match y { fresh_name_9 => , }, 'b' != y, closure { [y != [x, x], |h, y| { |y| { |tz| { [2, 1, 1] != [2, 1 | tz], tz == [1] }, |tz| { [2, 3 | tz] != [2, 3, 2], tz == [2] }, y != [[]] } }] }])
 }
 pub fn case_434(vars: &Vars) -> InferredGoal<DU, DE, Goal<DU, DE>> {
-    let q = vars.v[0].clone();
-    let x = vars.v[1].clone();
-    proto_vulcan!([[1, 2, false | q] != x, q == 1, match q { [[x | y] | 2] | [true] => { [1, 3 | 1] == q }, [[_ | _]] => [[matche x { [[x, 1 | y], [t, [], x], y | t] => [x == [[] | y], [t] != q], _ | [[z] | _] => , }], [x] == [[1, x | q], [x, q, "a"] | _]], }])
+    let x = vars.v[0].clone();
+    proto_vulcan!([match x { [[2, true, 1 | 2]] => [matche x { [] => , [[h, 1, "bc"]] => { [2, x, 2 | h] == h }, z => [[[z] == z], z == z], }, conde { [1] == x, x == 1, [x != [[3 | x], [1, true], [3 | x]], conde { [x != 2, x != x], [true, [["bc", 2, 'a']] != x] }] }], [[x | z], [[]]] => match 1 { [[2, _ | h], 1, [t, h, 3]] => { |tz| { tz == [1], [2, 1 | tz] != [2, 1, 1] }, |tz| { [2, 1 | tz] != [2, 1, 3], tz == [3] } }, }, }, [[2, x, []], [], x] != [[3, x]]])
 }
 pub fn case_435(vars: &Vars) -> InferredGoal<DU, DE, Goal<DU, DE>> {
-    let q = vars.v[0].clone();
-    let x = vars.v[1].clone();
-    proto_vulcan!([[1, 2, false | q] != x, q == 1, match q { [[x | y] | 2] | [true] => { [1, 3 | 1] == q }, [[_ | _]] => [[matche x { [[x, 1 | fresh_name_9], [t, [], x], fresh_name_9 | t] => [x == [[] | fresh_name_9], [t] != q], _ | [[z] | _] => , }], [x] == [[1, x | q], [x, q, "a"] | _]], }])
+    let x = vars.v[0].clone();
+    proto_vulcan!([match x { [[2, true, 1 | 2]] => [matche x { [] => , [[h, 1, "bc"]] => { [2, x, 2 | h] == h }, z => [[[z] == z], z == z], }, conde { [1] == x, x == 1, [x != [[3 | x], [1, true], [3 | x]], conde { [x != 2, x != x], [true, [["bc", 2, 'a']] != x] }] }], [[x | z], [[]]] => match 1 { [[2, _ | h], 1, [t, h, 3]] => { |tz| { tz == [1], [2, 1 | tz] != [2, 1, 1] }, |fresh_name_9| { [2, 1 | fresh_name_9] != [2, 1, 3], fresh_name_9 == [3] } }, }, }, [[2, x, []], [], x] != [[3, x]]])
 }
 pub fn case_436(vars: &Vars) -> InferredGoal<DU, DE, Goal<DU, DE>> {
-    let x = vars.v[0].clone();
-    proto_vulcan!([|h| { x == h, [_ | x] != x }, |z| { z != [[_, x, x], [[] | z] | x] }, closure { conde { [x == [[]], 2 == x], [conde { [[[2, 2, [] | x] | x] == x, true], x != _ }, [x, 2, 2 | 'b'] == x], ['b', _, 2] == x } }])
+    let q = vars.v[0].clone();
+    let x = vars.v[1].clone();
+    proto_vulcan!([1 == q, |t, y| { |z, t| { "a" == q, matche t { _ | ["a", [x, true]] => , } }, 3 == x, matche q { [_, [z]] | [true | h] => [q == [2, []], 2 == y], } }, [[x] | _] != q])
 }
 pub fn case_437(vars: &Vars) -> InferredGoal<DU, DE, Goal<DU, DE>> {
-    let x = vars.v[0].clone();
-    proto_vulcan!([|fresh_name_9| { x == fresh_name_9, [_ | x] != x }, |z| { z != [[_, x, x], [[] | z] | x] }, closure { conde { [x == [[]], 2 == x], [conde { [[[2, 2, [] | x] | x] == x, true], x != _ }, [x, 2, 2 | 'b'] == x], ['b', _, 2] == x } }])
+    let q = vars.v[0].clone();
+    let x = vars.v[1].clone();
+    proto_vulcan!([1 == q, |t, y| { |z, fresh_name_9| { "a" == q, matche fresh_name_9 { _ | ["a", [x, true]] => , } }, 3 == x, matche q { [_, [z]] | [true | h] => [q == [2, []], 2 == y], } }, [[x] | _] != q])
 }
 pub fn case_438(vars: &Vars) -> InferredGoal<DU, DE, Goal<DU, DE>> {
     let x = vars.v[0].clone();
-    let y = vars.v[1].clone();
-    proto_vulcan!([match x { t => { match y { ["bc", 2] => , y => , } }, }, |t| { [append(x, y, [3]), conde { ["bc", 2, 2] == 'b', _ != y }, conde { y == [y, _, y | t], y == [[], 1, 1], [t != t, y != [[], x | y]] }], matche t { y => false, [["bc"], [1, "bc", t]] => , } }, closure { x == 1 }])
+    proto_vulcan!([|h| { h == [], ["bc", x] == x }, |h, x| { _ == h }])
 }
 pub fn case_439(vars: &Vars) -> InferredGoal<DU, DE, Goal<DU, DE>> {
     let x = vars.v[0].clone();
-    let y = vars.v[1].clone();
-    proto_vulcan!([match x { t => { match y { ["bc", 2] => , fresh_name_9 => , } }, }, |t| { [append(x, y, [3]), conde { ["bc", 2, 2] == 'b', _ != y }, conde { y == [y, _, y | t], y == [[], 1, 1], [t != t, y != [[], x | y]] }], matche t { y => false, [["bc"], [1, "bc", t]] => , } }, closure { x == 1 }])
+    proto_vulcan!([|h| { h == [], ["bc", x] == x }, |h, fresh_name_9| { _ == h }])
 }
 pub fn case_440(vars: &Vars) -> InferredGoal<DU, DE, Goal<DU, DE>> {
-    let q = vars.v[0].clone();
-    let x = vars.v[1].clone();
-    proto_vulcan!([match x { [3, [3], z | _] => { match z { [[1], t] => { [q != [q]], |t, h| { member(t, [1]), member(q, [2, 1, 3]) } }, [[y]] => , [2] | 2 => z != 2, }, |z| { z == [2, q, q] } }, }, closure { [matche x { t => , [[y], t] => |t, y| { y == x }, }, |x| { [3] == q, [x == [[], [2, 2 | x], [2, []] | x], [] == q, q == [1, []]] }] }])
+    let x = vars.v[0].clone();
+    let y = vars.v[1].clone();
+    proto_vulcan!([match x { t => { match y { ["bc", 2] => , y => , } }, }, |t| { [append(x, y, [3]), conde { [[3], [2 | t] | t] == 1, [[y, 2 | x] == t, [[1, 3, x], t, 2 | y] == [_, [3, y]]] }, false], [[2, t] == x, matche x { h => { [3, x | x] == t }, }] }, closure { [[_, y] == y, match x { [[[]], [x, _, []] | 'a'] => , }] }])
 }
 pub fn case_441(vars: &Vars) -> InferredGoal<DU, DE, Goal<DU, DE>> {
-    let q = vars.v[0].clone();
-    let x = vars.v[1].clone();
-    proto_vulcan!([match x { [3, [3], z | _] => { match z { [[1], t] => { [q != [q]], |t, h| { member(t, [1]), member(q, [2, 1, 3]) } }, [[y]] => , [2] | 2 => z != 2, }, |z| { z == [2, q, q] } }, }, closure { [matche x { t => , [[y], t] => |t, fresh_name_9| { fresh_name_9 == x }, }, |x| { [3] == q, [x == [[], [2, 2 | x], [2, []] | x], [] == q, q == [1, []]] }] }])
+    let x = vars.v[0].clone();
+    let y = vars.v[1].clone();
+    proto_vulcan!([match x { t => { match y { ["bc", 2] => , y => , } }, }, |t| { [append(x, y, [3]), conde { [[3], [2 | t] | t] == 1, [[y, 2 | x] == t, [[1, 3, x], t, 2 | y] == [_, [3, y]]] }, false], [[2, t] == x, matche x { h => { [3, x | x] == t }, }] }, closure { [[_, y] == y, match x { [[[]], [fresh_name_9, _, []] | 'a'] => , }] }])
 }
 pub fn case_442(vars: &Vars) -> InferredGoal<DU, DE, Goal<DU, DE>> {
     let q = vars.v[0].clone();
     let x = vars.v[1].clone();
-    proto_vulcan!([conde { [[[]] != q, matche q { x => [_ != x, true], [[_, h, h], 3, [h, y | z]] => append(h, z, [2, 1]), z => , }, true], |h| { false, q != [1, 1, [false, 3, []] | q], [h, 1 | h] == h } }, x == [[], 2 | q], closure { conde { [[2] == [[2, [] | q], [x, _, 3]], match q { _ => , }], [[3] != [[q, []], [1 | x]], q == [1]] } }])
+    proto_vulcan!([match x { [3, [3], z | _] => [match z { [[1], t] => { [q == q], |y, t| { t == x } }, 1 => , x | [] => [[member(q, [3, 1]), z == [z, 1, []], 2 == z], [q | z] == q], }, x == 1], }, closure { matche x { [[_ | _]] | _ => |z, h| { true, true == x }, [3, [h, y, []], 2] => , } }])
 }
 pub fn case_443(vars: &Vars) -> InferredGoal<DU, DE, Goal<DU, DE>> {
     let q = vars.v[0].clone();
     let x = vars.v[1].clone();
-    proto_vulcan!([conde { [[[]] != q, matche q { fresh_name_9 => [_ != fresh_name_9, true], [[_, h, h], 3, [h, y | z]] => append(h, z, [2, 1]), z => , }, true], |h| { false, q != [1, 1, [false, 3, []] | q], [h, 1 | h] == h } }, x == [[], 2 | q], closure { conde { [[2] == [[2, [] | q], [x, _, 3]], match q { _ => , }], [[3] != [[q, []], [1 | x]], q == [1]] } }])
+    proto_vulcan!([match x { [3, [3], z | _] => [match z { [[1], t] => { [q == q], |y, t| { t == x } }, 1 => , x | [] => [[member(q, [3, 1]), z == [z, 1, []], 2 == z], [q | z] == q], }, x == 1], }, closure { matche x { [[_ | _]] | _ => |z, fresh_name_9| { true, true == x }, [3, [h, y, []], 2] => , } }])
 }
 pub fn case_444(vars: &Vars) -> InferredGoal<DU, DE, Goal<DU, DE>> {
-    let x = vars.v[0].clone();
-    let y = vars.v[1].clone();
-    proto_vulcan!([[append(x, y, [1]), y == 2], match y { [] => [2 != [x, 1, []], match y { "bc" => { y != y }, [t | y] => { [[], x] != y, append(y, y, [2]) }, }], }, |h| { x == [y] }])
+    let q = vars.v[0].clone();
+    let x = vars.v[1].clone();
+    proto_vulcan!([conde { [q == [[[]] | q], [x, x | q] != [["a", [], [] | x], [2, _, q | q], _], x == [q | 1]], [[2, 3, _ | q] == x, x == []] }, [x, q, q | x] != q, closure { conde { [q, 1] == q, |z| { q == [x | 3], z == ["a"] }, |tz| { [2, 2, 1] != [2, 2 | tz], tz == [1] } } }])
 }
 pub fn case_445(vars: &Vars) -> InferredGoal<DU, DE, Goal<DU, DE>> {
-    let x = vars.v[0].clone();
-    let y = vars.v[1].clone();
-    proto_vulcan!([[append(x, y, [1]), y == 2], match y { [] => [2 != [x, 1, []], match y { "bc" => { y != y }, [t | y] => { [[], x] != y, append(y, y, [2]) }, }], }, |fresh_name_9| { x == [y] }])
+    let q = vars.v[0].clone();
+    let x = vars.v[1].clone();
+    proto_vulcan!([conde { [q == [[[]] | q], [x, x | q] != [["a", [], [] | x], [2, _, q | q], _], x == [q | 1]], [[2, 3, _ | q] == x, x == []] }, [x, q, q | x] != q, closure { conde { [q, 1] == q, |z| { q == [x | 3], z == ["a"] }, |fresh_name_9| { [2, 2, 1] != [2, 2 | fresh_name_9], fresh_name_9 == [1] } } }])
 }
 pub fn case_446(vars: &Vars) -> InferredGoal<DU, DE, Goal<DU, DE>> {
     let q = vars.v[0].clone();
     let x = vars.v[1].clone();
-    proto_vulcan!([matche q { t => , h | [y, [1 | _]] => [q == "bc", |y| { x != q, conde { [y == [], true], [[] | x] == [2, 1], [false == q, [_, ['a', q, [] | y] | x] == x] }, matche [q] { [[1, []] | z] => , } }], }, x == ["a" | 1]])
+    proto_vulcan!([1 != [[x, x], ["a", _, q]], q == q, [matche [2, 1, _] { [1] => , [[1, 1 | h], [2]] => { matche h { 3 => , [x, [h]] => [[false, 1] == x, [[q | x], 1, [h] | x] != q], 2 | [[_, 1, x]] => { q == [1, h] }, } }, }, [conde { [x == [1, "bc"], [1, 1] == x], [[2, ["a", q | q]] == q, x == x], [false, append(q, x, [2, 2])] }, q == [[_, [], 2 | q]], match q { z => , [[y]] => { |tz| { tz == [3, 2], [3, 1 | tz] != [3, 1, 3, 2] }, [q, y, q] != q }, [z, z | h] => |tz| { tz == [2], [1, 1 | tz] != [1, 1, 2] }, }], |z, t| { z == [z, t, _], x == [["bc" | q] | t], [[2]] == [_] }]])
 }
 pub fn case_447(vars: &Vars) -> InferredGoal<DU, DE, Goal<DU, DE>> {
     let q = vars.v[0].clone();
     let x = vars.v[1].clone();
-    proto_vulcan!([matche q { t => , h | [y, [1 | _]] => [q == "bc", |fresh_name_9| { x != q, conde { [fresh_name_9 == [], true], [[] | x] == [2, 1], [false == q, [_, ['a', q, [] | fresh_name_9] | x] == x] }, matche [q] { [[1, []] | z] => , } }], }, x == ["a" | 1]])
+    proto_vulcan!([1 != [[x, x], ["a", _, q]], q == q, [matche [2, 1, _] { [1] => , [[1, 1 | h], [2]] => { matche h { 3 => , [x, [h]] => [[false, 1] == x, [[q | x], 1, [h] | x] != q], 2 | [[_, 1, x]] => { q == [1, h] }, } }, }, [conde { [x == [1, "bc"], [1, 1] == x], [[2, ["a", q | q]] == q, x == x], [false, append(q, x, [2, 2])] }, q == [[_, [], 2 | q]], match q { z => , [[y]] => { |fresh_name_9| { fresh_name_9 == [3, 2], [3, 1 | fresh_name_9] != [3, 1, 3, 2] }, [q, y, q] != q }, [z, z | h] => |tz| { tz == [2], [1, 1 | tz] != [1, 1, 2] }, }], |z, t| { z == [z, t, _], x == [["bc" | q] | t], [[2]] == [_] }]])
 }
 pub fn case_448(vars: &Vars) -> InferredGoal<DU, DE, Goal<DU, DE>> {
     let x = vars.v[0].clone();
-    proto_vulcan!([match [[], 2] { [[false, z, 1], t] => { [1 != z, |x| { x != [[true, t, 2], [_], ["bc" | 3]] }, matche z { z => { x != [[z, 2, t]], x != _ }, [['b', 2 | z], [2, _], ['b' | h]] => [[2, h, t | t] != z, t == [z, _, t]], [x, [false], y] => x == [3, y], }], x == [3] }, [z] | [[1, x], y, [[] | _] | x] => , }])
+    let y = vars.v[1].clone();
+    proto_vulcan!([[append(x, y, [1]), x == [x]], [] != 1, [|tz| { tz == [2], [1 | tz] != [1, 2] }, conde { conde { [member(x, [3, 3, 1]), false], member(y, [3, 1, 3]), [|tz| { [3, 1, 2] != [3, 1 | tz], tz == [2] }, false] }, [[], x] != y, [|y| { _ == y, false }, 2 == x] }, y == []]])
 }
 pub fn case_449(vars: &Vars) -> InferredGoal<DU, DE, Goal<DU, DE>> {
     let x = vars.v[0].clone();
-    proto_vulcan!([match [[], 2] { [[false, z, 1], t] => { [1 != z, |x| { x != [[true, t, 2], [_], ["bc" | 3]] }, matche z { z => { x != [[z, 2, t]], x != _ }, [['b', 2 | z], [2, _], ['b' | fresh_name_9]] => [[2, fresh_name_9, t | t] != z, t == [z, _, t]], [x, [false], y] => x == [3, y], }], x == [3] }, [z] | [[1, x], y, [[] | _] | x] => , }])
+    let y = vars.v[1].clone();
+    proto_vulcan!([[append(x, y, [1]), x == [x]], [] != 1, [|tz| { tz == [2], [1 | tz] != [1, 2] }, conde { conde { [member(x, [3, 3, 1]), false], member(y, [3, 1, 3]), [|tz| { [3, 1, 2] != [3, 1 | tz], tz == [2] }, false] }, [[], x] != y, [|fresh_name_9| { _ == fresh_name_9, false }, 2 == x] }, y == []]])
 }
 pub fn case_450(vars: &Vars) -> InferredGoal<DU, DE, Goal<DU, DE>> {
     let q = vars.v[0].clone();
     let x = vars.v[1].clone();
-    proto_vulcan!([member(x, [2, 1, 2]), |t, z| { |t| { x == [2, z, false], match [true, 'b' | t] { [[[]] | _] => , [[[], 3, _]] => , }, matche t { ["bc"] => { [[false | t], t | t] == z, [2] == q }, [[1 | y], [x], t | _] | [[z, y], [[]] | y] => q == [true, y, 2], } } }])
+    proto_vulcan!([matche q { t => , h | [y, [1 | _]] => { q == [q, 3, x | q], true }, }, |z| { conde { [[] == _, |tz| { [2, 1, 2, 2] != [2, 1 | tz], tz == [2, 2] }], [conde { [[false, _] != z, ['a', q, [] | z] == z], |tz| { [3, 3, 3, 1] != [3, 3 | tz], tz == [3, 1] } }, matche q { [[z, "bc", _], [y, 2 | 1] | 1] => { member(z, [1]) }, [[h, z], 1, 1] => , }], 'a' == z }, x == [x | q] }])
 }
 pub fn case_451(vars: &Vars) -> InferredGoal<DU, DE, Goal<DU, DE>> {
     let q = vars.v[0].clone();
     let x = vars.v[1].clone();
-    proto_vulcan!([member(x, [2, 1, 2]), |fresh_name_9, z| { |t| { x == [2, z, false], match [true, 'b' | t] { [[[]] | _] => , [[[], 3, _]] => , }, matche t { ["bc"] => { [[false | t], t | t] == z, [2] == q }, [[1 | y], [x], t | _] | [[z, y], [[]] | y] => q == [true, y, 2], } } }])
+    proto_vulcan!([matche q { t => , h | [y, [1 | _]] => { q == [q, 3, x | q], true }, }, |fresh_name_9| { conde { [[] == _, |tz| { [2, 1, 2, 2] != [2, 1 | tz], tz == [2, 2] }], [conde { [[false, _] != fresh_name_9, ['a', q, [] | fresh_name_9] == fresh_name_9], |tz| { [3, 3, 3, 1] != [3, 3 | tz], tz == [3, 1] } }, matche q { [[z, "bc", _], [y, 2 | 1] | 1] => { member(z, [1]) }, [[h, z], 1, 1] => , }], 'a' == fresh_name_9 }, x == [x | q] }])
 }
 pub fn case_452(vars: &Vars) -> InferredGoal<DU, DE, Goal<DU, DE>> {
     let x = vars.v[0].clone();
-    proto_vulcan!([conde { [3, x | x] == [x | x], [|h, t| { member(x, [3, 2, 2]), [[h, h, 'a'], [[], 3, t]] == [h] }, |x, h| { match 1 { [[], 1] | _ => { 2 == h, x != [[x, x, 1], x] }, [] => h == [h, h, 2], z => , }, conde { h == [2, 1 | _], [x | x] == h }, x == [h, 3, true] }], [x == x, [x == 1]] }, x != true])
+    proto_vulcan!([match [[], 2] { [[false, z, 1], t] => [[z != z, x == t, match t { h => , }], |t| { false, false, [false] }], [[x], 2, [y, _, 3 | x] | _] => , }])
 }
 pub fn case_453(vars: &Vars) -> InferredGoal<DU, DE, Goal<DU, DE>> {
     let x = vars.v[0].clone();
-    proto_vulcan!([conde { [3, x | x] == [x | x], [|h, t| { member(x, [3, 2, 2]), [[h, h, 'a'], [[], 3, t]] == [h] }, |x, h| { match 1 { [[], 1] | _ => { 2 == h, x != [[x, x, 1], x] }, [] => h == [h, h, 2], fresh_name_9 => , }, conde { h == [2, 1 | _], [x | x] == h }, x == [h, 3, true] }], [x == x, [x == 1]] }, x != true])
+    proto_vulcan!([match [[], 2] { [[false, z, 1], t] => [[z != z, x == t, match t { fresh_name_9 => , }], |t| { false, false, [false] }], [[x], 2, [y, _, 3 | x] | _] => , }])
 }
 pub fn case_454(vars: &Vars) -> InferredGoal<DU, DE, Goal<DU, DE>> {
     let q = vars.v[0].clone();
     let x = vars.v[1].clone();
-    proto_vulcan!([|t| { [q == [q], conde { x == t, [3, _] != q, q == [q, [], q | t] }], |h| { |y, x| { t != "a", true, h == 3 } }, matche t { [2, [x, 'b', _]] | 2 => , 1 => , } }, [q, _ | false] == x, x != q])
+    proto_vulcan!([x == [[_, q]], _ == q, conde { [[matche 3 { [x, [z, 1, h]] => [z | 2] != x, [[z, x], [1, y]] => { z == [[x], [2 | y], ["a" | q]] }, }, [x, "bc", [2]] == x], [match x { [[y, 1, "a"], [1, 1, true], ["bc" | false]] => { [[x], 'b'] == [[3, 3], [] | y] }, }, |tz| { [2, 3, 3] != [2, 3 | tz], tz == [3] }]], [2 == q, matche x { _ => [match q { _ => [q == [2, q, 1], [3, [] | x] == q], }, |x| { [2, false | x] == x }], }], [matche x { [[2], [1, 2, 2 | _]] | _ => , [[1, t, x], "a"] => [3] == [x], }, [[3, 2 | x] != x]] }, closure { conde { [x == [1], match x { x => 2 != x, h => [x, q] == x, [z | y] => { append(y, x, []), q == [_, x] }, }], |x, z| { [["a", 1], [false], []] == [3, x, 2], z == x, "bc" == x }, [match x { false => , [2] => [|tz| { tz == [2, 2], [3, 2, 2] != [3 | tz] }, q == ['b', false, 2 | q]], }, |h| { q == x }] } }])
 }
 pub fn case_455(vars: &Vars) -> InferredGoal<DU, DE, Goal<DU, DE>> {
     let q = vars.v[0].clone();
     let x = vars.v[1].clone();
-    proto_vulcan!([|t| { [q == [q], conde { x == t, [3, _] != q, q == [q, [], q | t] }], |fresh_name_9| { |y, x| { t != "a", true, fresh_name_9 == 3 } }, matche t { [2, [x, 'b', _]] | 2 => , 1 => , } }, [q, _ | false] == x, x != q])
+    proto_vulcan!([x == [[_, q]], _ == q, conde { [[matche 3 { [x, [z, 1, h]] => [z | 2] != x, [[z, x], [1, y]] => { z == [[x], [2 | y], ["a" | q]] }, }, [x, "bc", [2]] == x], [match x { [[y, 1, "a"], [1, 1, true], ["bc" | false]] => { [[x], 'b'] == [[3, 3], [] | y] }, }, |tz| { [2, 3, 3] != [2, 3 | tz], tz == [3] }]], [2 == q, matche x { _ => [match q { _ => [q == [2, q, 1], [3, [] | x] == q], }, |x| { [2, false | x] == x }], }], [matche x { [[2], [1, 2, 2 | _]] | _ => , [[1, t, x], "a"] => [3] == [x], }, [[3, 2 | x] != x]] }, closure { conde { [x == [1], match x { x => 2 != x, h => [x, q] == x, [z | y] => { append(y, x, []), q == [_, x] }, }], |x, z| { [["a", 1], [false], []] == [3, x, 2], z == x, "bc" == x }, [match x { false => , [2] => [|tz| { tz == [2, 2], [3, 2, 2] != [3 | tz] }, q == ['b', false, 2 | q]], }, |fresh_name_9| { q == x }] } }])
 }
 pub fn case_456(vars: &Vars) -> InferredGoal<DU, DE, Goal<DU, DE>> {
     let q = vars.v[0].clone();
     let x = vars.v[1].clone();
-    proto_vulcan!([|t, y| { [matche y { [[z, y]] => x == [2 | _], [t, [y | h] | false] | [_, ["a", "a", y]] => { [q, _, 2] == x }, }, q == 3], x == [x, 3, y] }, |y, t| { [] != q, [_] != q }, matche x { [['b', z], [h | y] | h] => [[[q, y] | x] != [[1, [], h | x], [false, 1 | y]], [] == q], h => h == h, [] => { x == x, member(x, [2]) }, }, closure { 1 != 3 }])
+    proto_vulcan!([member(x, [2, 1, 2]), |t, z| { |t| { [[true, t], 2] == t, conde { [true, [1, t | t]] == z, x == [[_, 1]] }, |tz| { [1 | tz] != [1, 3, 1], tz == [3, 1] } } }])
 }
 pub fn case_457(vars: &Vars) -> InferredGoal<DU, DE, Goal<DU, DE>> {
     let q = vars.v[0].clone();
     let x = vars.v[1].clone();
-    proto_vulcan!([|t, y| { [matche y { [[z, y]] => x == [2 | _], [t, [y | h] | false] | [_, ["a", "a", y]] => { [q, _, 2] == x }, }, q == 3], x == [x, 3, y] }, |y, t| { [] != q, [_] != q }, matche x { [['b', fresh_name_9], [h | y] | h] => [[[q, y] | x] != [[1, [], h | x], [false, 1 | y]], [] == q], h => h == h, [] => { x == x, member(x, [2]) }, }, closure { 1 != 3 }])
+    proto_vulcan!([member(x, [2, 1, 2]), |t, z| { |fresh_name_9| { [[true, fresh_name_9], 2] == fresh_name_9, conde { [true, [1, fresh_name_9 | fresh_name_9]] == z, x == [[_, 1]] }, |tz| { [1 | tz] != [1, 3, 1], tz == [3, 1] } } }])
 }
 pub fn case_458(vars: &Vars) -> InferredGoal<DU, DE, Goal<DU, DE>> {
-    let q = vars.v[0].clone();
-    let x = vars.v[1].clone();
-    proto_vulcan!([[q, 1] == x, conde { [[[q], _, [q, x]] != x, |t| { [2] == t, [q] == x }], match q { [[y, 1] | z] | 'b' => , 3 => , } }, matche q { [[2 | _]] => { x == [[x, "bc", 2 | q] | q] }, }])
+    let x = vars.v[0].clone();
+    proto_vulcan!([conde { [] == x, [x != [], [|h, t| { x != [2, x | h], append(h, h, [3, 2]) }, [member(x, [2]), x == [x, "bc", 3]]]], x == [x] }, x == [x]])
 }
 pub fn case_459(vars: &Vars) -> InferredGoal<DU, DE, Goal<DU, DE>> {
-    let q = vars.v[0].clone();
-    let x = vars.v[1].clone();
-    proto_vulcan!([[q, 1] == x, conde { [[[q], _, [q, x]] != x, |fresh_name_9| { [2] == fresh_name_9, [q] == x }], match q { [[y, 1] | z] | 'b' => , 3 => , } }, matche q { [[2 | _]] => { x == [[x, "bc", 2 | q] | q] }, }])
+    let x = vars.v[0].clone();
+    proto_vulcan!([conde { [] == x, [x != [], [|h, fresh_name_9| { x != [2, x | h], append(h, h, [3, 2]) }, [member(x, [2]), x == [x, "bc", 3]]]], x == [x] }, x == [x]])
 }
 pub fn case_460(vars: &Vars) -> InferredGoal<DU, DE, Goal<DU, DE>> {
-    let x = vars.v[0].clone();
-    let y = vars.v[1].clone();
-    proto_vulcan!([[2, [true, 3, 3 | x], [x, y | y]] == x, member(y, [3]), |h, t| { h == [2, y, _ | 2], |x, h| { 1 != [1, y | x], |h, t| { member(x, [2]), h != x, false } }, t != 2 }])
+    let q = vars.v[0].clone();
+    let x = vars.v[1].clone();
+    proto_vulcan!([|t| { [x == [_, t, 1], conde { [x != x, [x, [q, [], q | t]] == t], [[t, q] != t, t == q] }], x == x, matche t { x => { conde { [true, q == x], [[t, _ | false] == x, x != t] } }, ['b', ["a"], h | z] => , } }, 2 == false, match x { _ | [y, [t, 2, false], [_ | y]] => { x == [2], false }, [[1] | z] => match 2 { t => { match 2 { [[z, z], [t, t, 1 | t]] => [z == [z, _, z], t == [z]], [[_, t | x], [_, _ | y], "bc" | _] => { x == _, x == [[1], [1], [1, [] | z]] }, } }, }, }, closure { [match _ { 2 => , [[h, y, _], [_], [[]]] => { [[]] == y }, [['b'], ["a", 1 | x]] => { [|tz| { [3, 1, 3, 1] != [3, 1 | tz], tz == [3, 1] }], [member(x, []), q == 1, append(x, q, [2, 1])] }, }, x != [1, q | q]] }])
 }
 pub fn case_461(vars: &Vars) -> InferredGoal<DU, DE, Goal<DU, DE>> {
-    let x = vars.v[0].clone();
-    let y = vars.v[1].clone();
-    proto_vulcan!([[2, [true, 3, 3 | x], [x, y | y]] == x, member(y, [3]), |h, t| { h == [2, y, _ | 2], |x, fresh_name_9| { 1 != [1, y | x], |h, t| { member(x, [2]), h != x, false } }, t != 2 }])
+    let q = vars.v[0].clone();
+    let x = vars.v[1].clone();
+    proto_vulcan!([|t| { [x == [_, t, 1], conde { [x != x, [x, [q, [], q | t]] == t], [[t, q] != t, t == q] }], x == x, matche t { x => { conde { [true, q == x], [[t, _ | false] == x, x != t] } }, ['b', ["a"], h | z] => , } }, 2 == false, match x { _ | [y, [t, 2, false], [_ | y]] => { x == [2], false }, [[1] | z] => match 2 { t => { match 2 { [[z, z], [fresh_name_9, fresh_name_9, 1 | fresh_name_9]] => [z == [z, _, z], fresh_name_9 == [z]], [[_, t | x], [_, _ | y], "bc" | _] => { x == _, x == [[1], [1], [1, [] | z]] }, } }, }, }, closure { [match _ { 2 => , [[h, y, _], [_], [[]]] => { [[]] == y }, [['b'], ["a", 1 | x]] => { [|tz| { [3, 1, 3, 1] != [3, 1 | tz], tz == [3, 1] }], [member(x, []), q == 1, append(x, q, [2, 1])] }, }, x != [1, q | q]] }])
 }
 pub fn case_462(vars: &Vars) -> InferredGoal<DU, DE, Goal<DU, DE>> {
-    let q = vars.v[0].clone();
-    let x = vars.v[1].clone();
-    proto_vulcan!([q == ["a" | x], match x { [[z, z, t]] => , }, closure { [q != [q, x, _], [match x { [[], [x, 2, 1] | true] => { 1 == x }, }, match q { [[2, t], 1 | t] => { q == t, "bc" == q }, [[_, false, []], [true | _]] => { false, member(q, [1, 3]) }, }]] }])
+    let x = vars.v[0].clone();
+    proto_vulcan!([x == [_], |tz| { [1 | tz] != [1, 3], tz == [3] }, closure { match x { 3 | false => { [[]] == 2, [false, 2 != x, false] }, [[t]] => { |h| { [x, x | 1] == h, h == [3], 1 == [[t, x, 3 | h], [t, x, _], [t]] } }, 3 => , } }])
 }
 pub fn case_463(vars: &Vars) -> InferredGoal<DU, DE, Goal<DU, DE>> {
-    let q = vars.v[0].clone();
-    let x = vars.v[1].clone();
-    proto_vulcan!([q == ["a" | x], match x { [[z, z, t]] => , }, closure { [q != [q, x, _], [match x { [[], [fresh_name_9, 2, 1] | true] => { 1 == fresh_name_9 }, }, match q { [[2, t], 1 | t] => { q == t, "bc" == q }, [[_, false, []], [true | _]] => { false, member(q, [1, 3]) }, }]] }])
+    let x = vars.v[0].clone();
+    proto_vulcan!([x == [_], |fresh_name_9| { [1 | fresh_name_9] != [1, 3], fresh_name_9 == [3] }, closure { match x { 3 | false => { [[]] == 2, [false, 2 != x, false] }, [[t]] => { |h| { [x, x | 1] == h, h == [3], 1 == [[t, x, 3 | h], [t, x, _], [t]] } }, 3 => , } }])
 }
 pub fn case_464(vars: &Vars) -> InferredGoal<DU, DE, Goal<DU, DE>> {
-    let x = vars.v[0].clone();
-    proto_vulcan!([match [x, 2] { h | _ => , [y] | ["a", [h, _]] => [x == ["bc", 1, true], [conde { x == [x], x == x, [true, [x, [_, "bc"], "bc" | x] != [3, x | x]] }, conde { [2 == x, append(x, x, [])], false, [3 != x, [_ | x] != x] }]], [[y], [_, [], 1 | _], 'b' | 1] => , }, false, closure { x == 3 }])
+    let q = vars.v[0].clone();
+    let x = vars.v[1].clone();
+    proto_vulcan!([|t, y| { [matche y { [[z, y]] => { [y, z] == q }, x => , }, member(t, [2, 2])], true }, [_, ["a", "a", q]] == x, match x { [h, t] => , 2 | 2 => { conde { [conde { [q != 1, |tz| { tz == [3, 3], [3 | tz] != [3, 3, 3] }], [true, append(q, x, [])], q == [3] }, |h| { append(q, h, [1, 1]), [[[], h], [1, 1], [x, h]] != x, |tz| { tz == [3], [1, 3] != [1 | tz] } }], [[|tz| { tz == [3], [3, 1, 3] != [3, 1 | tz] }], [x, q, x] == q], match x { [[], t, [1]] => { [q, 1, 2] == t, |tz| { [3, 2 | tz] != [3, 2, 3], tz == [3] } }, } }, matche q { h | [t] => , } }, [[true, 3 | h], [], [_]] => { [|z, x| { member(h, []), true }, [2] == x, [h] == [[x]]] }, }])
 }
 pub fn case_465(vars: &Vars) -> InferredGoal<DU, DE, Goal<DU, DE>> {
-    let x = vars.v[0].clone();
-    proto_vulcan!([match [x, 2] { h | _ => , [y] | ["a", [h, _]] => [x == ["bc", 1, true], [conde { x == [x], x == x, [true, [x, [_, "bc"], "bc" | x] != [3, x | x]] }, conde { [2 == x, append(x, x, [])], false, [3 != x, [_ | x] != x] }]], [[fresh_name_9], [_, [], 1 | _], 'b' | 1] => , }, false, closure { x == 3 }])
+    let q = vars.v[0].clone();
+    let x = vars.v[1].clone();
+    proto_vulcan!([|t, y| { [matche y { [[z, y]] => { [y, z] == q }, x => , }, member(t, [2, 2])], true }, [_, ["a", "a", q]] == x, match x { [h, t] => , 2 | 2 => { conde { [conde { [q != 1, |tz| { tz == [3, 3], [3 | tz] != [3, 3, 3] }], [true, append(q, x, [])], q == [3] }, |h| { append(q, h, [1, 1]), [[[], h], [1, 1], [x, h]] != x, |fresh_name_9| { fresh_name_9 == [3], [1, 3] != [1 | fresh_name_9] } }], [[|tz| { tz == [3], [3, 1, 3] != [3, 1 | tz] }], [x, q, x] == q], match x { [[], t, [1]] => { [q, 1, 2] == t, |tz| { [3, 2 | tz] != [3, 2, 3], tz == [3] } }, } }, matche q { h | [t] => , } }, [[true, 3 | h], [], [_]] => { [|z, x| { member(h, []), true }, [2] == x, [h] == [[x]]] }, }])
 }
 pub fn case_466(vars: &Vars) -> InferredGoal<DU, DE, Goal<DU, DE>> {
     let q = vars.v[0].clone();
     let x = vars.v[1].clone();
-    proto_vulcan!([conde { false, matche x { [x, z] => , [z, [], [] | h] => { [[1, h, [] | z] == h] }, [[t, x, 'b'], t] => , } }])
+    proto_vulcan!([q != x, matche x { [[1, z | _]] => |y| { [append(x, y, []), x == [z, x, 2], x != q], [member(q, [3, 2]), [1] != y] }, }, match x { [2, [2, 1, t] | _] | y => [q == [1, 3 | q], match 1 { [[_, [] | z], x, [_]] | 1 => { ['b', q, [] | q] == q }, [[t, 'b' | _]] => , }], }, closure { [|z| { x != [x, "bc", z], x == z }, |z, t| { conde { [false, _ == z], q == 2, [t != [x, [], 2], member(q, [2, 1, 1])] }, false }] }])
 }
 pub fn case_467(vars: &Vars) -> InferredGoal<DU, DE, Goal<DU, DE>> {
     let q = vars.v[0].clone();
     let x = vars.v[1].clone();
-    proto_vulcan!([conde { false, matche x { [x, z] => , [z, [], [] | fresh_name_9] => { [[1, fresh_name_9, [] | z] == fresh_name_9] }, [[t, x, 'b'], t] => , } }])
+    proto_vulcan!([q != x, matche x { [[1, z | _]] => |fresh_name_9| { [append(x, fresh_name_9, []), x == [z, x, 2], x != q], [member(q, [3, 2]), [1] != fresh_name_9] }, }, match x { [2, [2, 1, t] | _] | y => [q == [1, 3 | q], match 1 { [[_, [] | z], x, [_]] | 1 => { ['b', q, [] | q] == q }, [[t, 'b' | _]] => , }], }, closure { [|z| { x != [x, "bc", z], x == z }, |z, t| { conde { [false, _ == z], q == 2, [t != [x, [], 2], member(q, [2, 1, 1])] }, false }] }])
 }
 pub fn case_468(vars: &Vars) -> InferredGoal<DU, DE, Goal<DU, DE>> {
-    let q = vars.v[0].clone();
-    let x = vars.v[1].clone();
-    proto_vulcan!([conde { member(x, []), match x { [[_, t], [1 | h], [h]] => [t == ['a', t], |h, z| { q == [t, [], z], false }], [z, [2, 2, t | h], x] => { |x, h| { true, [z, 2, _] == t, z == [2] }, match h { [_, []] => , [[t, t, "a" | _], 2, true] | y => , } }, 1 => , }, [[x, q, 2 | x] != [[x, q]], x == x] }, closure { [1, 2, x | q] == 2 }])
+    let x = vars.v[0].clone();
+    let y = vars.v[1].clone();
+    proto_vulcan!([_ == y, |y| { |y| { y == y }, conde { conde { false, [[x, []]] == 3, [y == [y, x, x], ['a', x] != y] }, [matche y { [[_], [t, 1 | 2]] | [[], [3 | y], []] => { [x, 3] == [_, []], [x | x] == x }, [["a", 1, []], ['b'], [t | h]] | 1 => member(y, [2, 1, 3]), }, |y| { 'b' == y }] } }, y == [3, x, _], closure { 1 != x }])
 }
 pub fn case_469(vars: &Vars) -> InferredGoal<DU, DE, Goal<DU, DE>> {
-    let q = vars.v[0].clone();
-    let x = vars.v[1].clone();
-    proto_vulcan!([conde { member(x, []), match x { [[_, t], [1 | h], [h]] => [t == ['a', t], |h, z| { q == [t, [], z], false }], [z, [2, 2, t | h], x] => { |x, fresh_name_9| { true, [z, 2, _] == t, z == [2] }, match h { [_, []] => , [[t, t, "a" | _], 2, true] | y => , } }, 1 => , }, [[x, q, 2 | x] != [[x, q]], x == x] }, closure { [1, 2, x | q] == 2 }])
+    let x = vars.v[0].clone();
+    let y = vars.v[1].clone();
+    proto_vulcan!([_ == y, |fresh_name_9| { |y| { y == y }, conde { conde { false, [[x, []]] == 3, [fresh_name_9 == [fresh_name_9, x, x], ['a', x] != fresh_name_9] }, [matche fresh_name_9 { [[_], [t, 1 | 2]] | [[], [3 | y], []] => { [x, 3] == [_, []], [x | x] == x }, [["a", 1, []], ['b'], [t | h]] | 1 => member(fresh_name_9, [2, 1, 3]), }, |y| { 'b' == y }] } }, y == [3, x, _], closure { 1 != x }])
 }
 pub fn case_470(vars: &Vars) -> InferredGoal<DU, DE, Goal<DU, DE>> {
-    let q = vars.v[0].clone();
-    let x = vars.v[1].clone();
-    proto_vulcan!([|x, z| { |y, x| { y == 2, y == [y, x] }, q != ['a' | x], [match z { [["bc", 2]] | [_, ["bc", y], [[], y, 1 | x]] => , [[true, h], [x, 'b' | h], [y, z, _]] | y => { append(q, q, [1]) }, }] }, [] == x, [conde { 2 == q, [[x == x, x == [q, q, 3]], [[1]] == x], [|z| { [false] == q }, matche q { "bc" => { [3 | q] != x }, }] }, q != [[], 2]]])
+    let x = vars.v[0].clone();
+    proto_vulcan!([[[2], [_, x, 2], [2]] == [x, 3, []], append(x, x, [2, 1]), |tz| { [2, 3 | tz] != [2, 3, 3, 3], tz == [3, 3] }, closure { true }])
 }
 pub fn case_471(vars: &Vars) -> InferredGoal<DU, DE, Goal<DU, DE>> {
-    let q = vars.v[0].clone();
-    let x = vars.v[1].clone();
-    proto_vulcan!([|x, z| { |y, x| { y == 2, y == [y, x] }, q != ['a' | x], [match z { [["bc", 2]] | [_, ["bc", y], [[], y, 1 | x]] => , [[true, h], [x, 'b' | h], [y, z, _]] | y => { append(q, q, [1]) }, }] }, [] == x, [conde { 2 == q, [[x == x, x == [q, q, 3]], [[1]] == x], [|fresh_name_9| { [false] == q }, matche q { "bc" => { [3 | q] != x }, }] }, q != [[], 2]]])
+    let x = vars.v[0].clone();
+    proto_vulcan!([[[2], [_, x, 2], [2]] == [x, 3, []], append(x, x, [2, 1]), |fresh_name_9| { [2, 3 | fresh_name_9] != [2, 3, 3, 3], fresh_name_9 == [3, 3] }, closure { true }])
 }
 pub fn case_472(vars: &Vars) -> InferredGoal<DU, DE, Goal<DU, DE>> {
-    let q = vars.v[0].clone();
-    let x = vars.v[1].clone();
-    proto_vulcan!([[conde { [[[3, 3]] == q, conde { [[], x] == q, append(q, q, [3]) }], [true], [match _ { [[2, x, y | x]] => { append(x, y, [2]) }, [] => , [[1, 2 | _], [y, 'a']] | 2 => { 1 == q }, }, [_] == q] }], matche x { [h, 1, [true] | z] | [] => [[3] == q, false], 'a' => [[2 == x, _ == x, conde { [q != [], [x, _ | q] != x], "bc" != q }], x == [q, [], q]], }])
+    let x = vars.v[0].clone();
+    proto_vulcan!([match [x, 2] { h | _ => , [y] | ["a", [h, _]] => { x != "bc", |x| { x == x, [member(x, [])], x == [x] } }, [[t, 1, _], 2, "bc" | h] => , }, x != x])
 }
 pub fn case_473(vars: &Vars) -> InferredGoal<DU, DE, Goal<DU, DE>> {
-    let q = vars.v[0].clone();
-    let x = vars.v[1].clone();
-    proto_vulcan!([[conde { [[[3, 3]] == q, conde { [[], x] == q, append(q, q, [3]) }], [true], [match _ { [[2, fresh_name_9, y | fresh_name_9]] => { append(fresh_name_9, y, [2]) }, [] => , [[1, 2 | _], [y, 'a']] | 2 => { 1 == q }, }, [_] == q] }], matche x { [h, 1, [true] | z] | [] => [[3] == q, false], 'a' => [[2 == x, _ == x, conde { [q != [], [x, _ | q] != x], "bc" != q }], x == [q, [], q]], }])
+    let x = vars.v[0].clone();
+    proto_vulcan!([match [x, 2] { h | _ => , [y] | ["a", [h, _]] => { x != "bc", |fresh_name_9| { fresh_name_9 == fresh_name_9, [member(fresh_name_9, [])], fresh_name_9 == [fresh_name_9] } }, [[t, 1, _], 2, "bc" | h] => , }, x != x])
 }
 pub fn case_474(vars: &Vars) -> InferredGoal<DU, DE, Goal<DU, DE>> {
-    let x = vars.v[0].clone();
-    proto_vulcan!([x == [x, x, x], |z, x| { conde { [matche x { [h, [true, "bc", 2]] | 3 => { [[], []] != x }, t => [false, [2] == 3], [[1, 1, t], ['b', 1, _], 3] => { false, append(z, x, []) }, }, conde { [z == [x, 1, []], x == x], [[] == z, [z, [], 2] == z] }], [|h, t| { false }, conde { [[] != x, z != x], ["bc", z | x] == x, [[x] == ["a" | x], x == [3, 1]] }], [append(x, x, []), |x| { x == [z, x, x] }] }, z == [x, x] }, conde { [x == x, matche _ { [[2, _]] => { [x | x] == x, x == [x | x] }, }], [[false, ["bc", [3, []], true] == [1, x, 1 | x], |x| { x == x }], x == _] }])
+    let q = vars.v[0].clone();
+    let x = vars.v[1].clone();
+    proto_vulcan!([conde { false, matche x { [x, z] => , [z, [], [] | h] => [|tz| { tz == [2, 1], [2, 1, 2, 1] != [2, 1 | tz] }], [[2], [1 | 2], ['a']] => , } }])
 }
 pub fn case_475(vars: &Vars) -> InferredGoal<DU, DE, Goal<DU, DE>> {
-    let x = vars.v[0].clone();
-    proto_vulcan!([x == [x, x, x], |z, x| { conde { [matche x { [h, [true, "bc", 2]] | 3 => { [[], []] != x }, t => [false, [2] == 3], [[1, 1, fresh_name_9], ['b', 1, _], 3] => { false, append(z, x, []) }, }, conde { [z == [x, 1, []], x == x], [[] == z, [z, [], 2] == z] }], [|h, t| { false }, conde { [[] != x, z != x], ["bc", z | x] == x, [[x] == ["a" | x], x == [3, 1]] }], [append(x, x, []), |x| { x == [z, x, x] }] }, z == [x, x] }, conde { [x == x, matche _ { [[2, _]] => { [x | x] == x, x == [x | x] }, }], [[false, ["bc", [3, []], true] == [1, x, 1 | x], |x| { x == x }], x == _] }])
+    let q = vars.v[0].clone();
+    let x = vars.v[1].clone();
+    proto_vulcan!([conde { false, matche x { [x, z] => , [z, [], [] | fresh_name_9] => [|tz| { tz == [2, 1], [2, 1, 2, 1] != [2, 1 | tz] }], [[2], [1 | 2], ['a']] => , } }])
 }
 pub fn case_476(vars: &Vars) -> InferredGoal<DU, DE, Goal<DU, DE>> {
-    let x = vars.v[0].clone();
-    proto_vulcan!([x != 1, [[[append(x, x, []), x == [x, [x, x | x] | x], [[], x] != x], |t, x| { x == t, x == [_, 'b'] }, x == x], _ != x], closure { |h, x| { conde { [true, [] == 2], x == [x, _, x | x], [h != [[], x | h], h == [3, []]] }, x != [[2, 1], [[]], x] } }])
+    let q = vars.v[0].clone();
+    let x = vars.v[1].clone();
+    proto_vulcan!([conde { member(x, []), match x { [[_, t], [1 | h], [h]] => { [[t]] == x, false }, [x, [x, [], x], _] => [member(x, []), _ == [2, x, "bc" | x]], [h, z, x] => _ == x, }, [x == [x, []], [3, q, x] == q] }, closure { [3 == x, x != q] }])
 }
 pub fn case_477(vars: &Vars) -> InferredGoal<DU, DE, Goal<DU, DE>> {
-    let x = vars.v[0].clone();
-    proto_vulcan!([x != 1, [[[append(x, x, []), x == [x, [x, x | x] | x], [[], x] != x], |t, x| { x == t, x == [_, 'b'] }, x == x], _ != x], closure { |h, fresh_name_9| { conde { [true, [] == 2], fresh_name_9 == [fresh_name_9, _, fresh_name_9 | fresh_name_9], [h != [[], fresh_name_9 | h], h == [3, []]] }, fresh_name_9 != [[2, 1], [[]], fresh_name_9] } }])
+    let q = vars.v[0].clone();
+    let x = vars.v[1].clone();
+    proto_vulcan!([conde { member(x, []), match x { [[_, t], [1 | h], [h]] => { [[t]] == x, false }, [x, [x, [], x], _] => [member(x, []), _ == [2, x, "bc" | x]], [fresh_name_9, z, x] => _ == x, }, [x == [x, []], [3, q, x] == q] }, closure { [3 == x, x != q] }])
 }
 pub fn case_478(vars: &Vars) -> InferredGoal<DU, DE, Goal<DU, DE>> {
-    let x = vars.v[0].clone();
-    let y = vars.v[1].clone();
-    proto_vulcan!([conde { [y == 2, |t| { matche [1, _, []] { [[x], [1], [false, _ | _] | _] => , 'a' => { [2, "bc" | t] != y, t == y }, } }], [y == ["a", _, y], x == [y]] }, x == _, [_ != y, true, ["bc", ['a'], ['a', [], y | x] | _] != [[]]], closure { [[[]], [_, y, _ | 'b'], ["bc", _, x] | y] == "a" }])
+    let q = vars.v[0].clone();
+    let x = vars.v[1].clone();
+    proto_vulcan!([1 == q, append(q, q, [2]), closure { |x| { |y| { [_ | x] == y, [q] == x, append(x, y, [3, 3]) } } }])
 }
 pub fn case_479(vars: &Vars) -> InferredGoal<DU, DE, Goal<DU, DE>> {
-    let x = vars.v[0].clone();
-    let y = vars.v[1].clone();
-    proto_vulcan!([conde { [y == 2, |fresh_name_9| { matche [1, _, []] { [[x], [1], [false, _ | _] | _] => , 'a' => { [2, "bc" | fresh_name_9] != y, fresh_name_9 == y }, } }], [y == ["a", _, y], x == [y]] }, x == _, [_ != y, true, ["bc", ['a'], ['a', [], y | x] | _] != [[]]], closure { [[[]], [_, y, _ | 'b'], ["bc", _, x] | y] == "a" }])
+    let q = vars.v[0].clone();
+    let x = vars.v[1].clone();
+    proto_vulcan!([1 == q, append(q, q, [2]), closure { |fresh_name_9| { |y| { [_ | fresh_name_9] == y, [q] == fresh_name_9, append(fresh_name_9, y, [3, 3]) } } }])
 }
 pub fn case_480(vars: &Vars) -> InferredGoal<DU, DE, Goal<DU, DE>> {
-    let x = vars.v[0].clone();
-    proto_vulcan!([member(x, []), match x { z => { [x, 2, x | z] == z, |z, t| { |y, x| { member(x, [2, 2]), z == ["a", x] }, [append(t, z, []), "a" == z] } }, "a" => |z, y| { append(z, x, []), 2 != [y, true, y], y != [false] }, }])
+    let q = vars.v[0].clone();
+    let x = vars.v[1].clone();
+    proto_vulcan!([|x, z| { |y, x| { [2, [] | y] == x, [[1], ['a' | x], []] == x }, match z { [["bc", 2]] | [_, ["bc", y], [[], y, 1 | x]] => , [[true, h], [x, 'b' | h], [y, z, _]] | y => match [y, _] { [[2, false], [_], [2, x]] | [[z, z, 1], [3, z, []]] => { q != 2 }, }, }, [[[q, q | x] | x] != [x, x, []]] }, |tz| { tz == [3], [2, 2, 3] != [2, 2 | tz] }, [x, q | q] != q, closure { [|h| { h == 'b', [3] == x, true }, x == q] }])
 }
 pub fn case_481(vars: &Vars) -> InferredGoal<DU, DE, Goal<DU, DE>> {
-    let x = vars.v[0].clone();
-    proto_vulcan!([member(x, []), match x { fresh_name_9 => { [x, 2, x | fresh_name_9] == fresh_name_9, |z, t| { |y, x| { member(x, [2, 2]), z == ["a", x] }, [append(t, z, []), "a" == z] } }, "a" => |z, y| { append(z, x, []), 2 != [y, true, y], y != [false] }, }])
+    let q = vars.v[0].clone();
+    let x = vars.v[1].clone();
+    proto_vulcan!([|x, z| { |y, x| { [2, [] | y] == x, [[1], ['a' | x], []] == x }, match z { [["bc", 2]] | [_, ["bc", y], [[], y, 1 | x]] => , [[true, h], [x, 'b' | h], [y, z, _]] | y => match [y, _] { [[2, false], [_], [2, x]] | [[z, z, 1], [3, z, []]] => { q != 2 }, }, }, [[[q, q | x] | x] != [x, x, []]] }, |tz| { tz == [3], [2, 2, 3] != [2, 2 | tz] }, [x, q | q] != q, closure { [|fresh_name_9| { fresh_name_9 == 'b', [3] == x, true }, x == q] }])
 }
 pub fn case_482(vars: &Vars) -> InferredGoal<DU, DE, Goal<DU, DE>> {
-    let x = vars.v[0].clone();
-    proto_vulcan!([x == _, match x { z | [[2, z, z], [2, 2, 2 | _], y] => { true }, 1 => , }, closure { [|x| { match x { 3 | [h, 1] => { [x, x, []] == x, true }, }, x == 2, [true, x == [[], []]] }, conde { [[_, _ | _] == x, match x { 2 => , z => { [2] == x }, [[z]] | [[_, t | h] | t] => [[[1, 2, 1], x | x] == x, [true] == x], }], x != [_, _, x | 1] }] }])
+    let q = vars.v[0].clone();
+    let x = vars.v[1].clone();
+    proto_vulcan!([[conde { [[q, q] == x, |t, h| { [] == x }], [false, conde { x == 'a', [append(q, x, [2]), member(x, [1, 1])] }], q == q }], matche x { "bc" => [] == x, 'a' => { conde { [conde { false, true, [x == [[], [x | q], x], member(x, [3, 2, 2])] }, q == 2], [["bc", x, x | x] == q, |t| { 2 == t, append(q, x, [3]), |tz| { [2, 2, 2] != [2, 2 | tz], tz == [2] } }] }, x == [[], [[], 2], 2] }, ["bc" | t] => { |tz| { [3, 3] != [3 | tz], tz == [3] } }, }, closure { [|x| { [q == 3, [x] == [[]]], x == 1 }, q == x] }])
 }
 pub fn case_483(vars: &Vars) -> InferredGoal<DU, DE, Goal<DU, DE>> {
-    let x = vars.v[0].clone();
-    proto_vulcan!([x == _, match x { z | [[2, z, z], [2, 2, 2 | _], y] => { true }, 1 => , }, closure { [|x| { match x { 3 | [h, 1] => { [x, x, []] == x, true }, }, x == 2, [true, x == [[], []]] }, conde { [[_, _ | _] == x, match x { 2 => , fresh_name_9 => { [2] == x }, [[z]] | [[_, t | h] | t] => [[[1, 2, 1], x | x] == x, [true] == x], }], x != [_, _, x | 1] }] }])
+    let q = vars.v[0].clone();
+    let x = vars.v[1].clone();
+    proto_vulcan!([[conde { [[q, q] == x, |t, h| { [] == x }], [false, conde { x == 'a', [append(q, x, [2]), member(x, [1, 1])] }], q == q }], matche x { "bc" => [] == x, 'a' => { conde { [conde { false, true, [x == [[], [x | q], x], member(x, [3, 2, 2])] }, q == 2], [["bc", x, x | x] == q, |t| { 2 == t, append(q, x, [3]), |tz| { [2, 2, 2] != [2, 2 | tz], tz == [2] } }] }, x == [[], [[], 2], 2] }, ["bc" | fresh_name_9] => { |tz| { [3, 3] != [3 | tz], tz == [3] } }, }, closure { [|x| { [q == 3, [x] == [[]]], x == 1 }, q == x] }])
 }
 pub fn case_484(vars: &Vars) -> InferredGoal<DU, DE, Goal<DU, DE>> {
-    let q = vars.v[0].clone();
-    let x = vars.v[1].clone();
-    proto_vulcan!([matche q { y => , [[]] | [2, [[], _]] => , }])
+    let x = vars.v[0].clone();
+    proto_vulcan!([x == [_, x, x], |z, x| { conde { [matche x { [h, [true, "bc", 2]] | 3 => { [x, []] != x }, t => { false, [_, x] == t }, [[_], 1] => , }, conde { append(x, x, [2]), 1 == x }], [matche [x, false] { _ => _ == x, }, match z { [1, [x, [], 2], _] => [x, [], z | _] != x, z => { [[1], [z, z, z]] == [[1, x, x | z], [z, x, 2]] }, }], 1 == x }, member(z, [2, 3]) }, [x] != x])
 }
 pub fn case_485(vars: &Vars) -> InferredGoal<DU, DE, Goal<DU, DE>> {
-    let q = vars.v[0].clone();
-    let x = vars.v[1].clone();
-    proto_vulcan!([matche q { fresh_name_9 => , [[]] | [2, [[], _]] => , }])
+    let x = vars.v[0].clone();
+    proto_vulcan!([x == [_, x, x], |z, x| { conde { [matche x { [h, [true, "bc", 2]] | 3 => { [x, []] != x }, t => { false, [_, x] == t }, [[_], 1] => , }, conde { append(x, x, [2]), 1 == x }], [matche [x, false] { _ => _ == x, }, match z { [1, [x, [], 2], _] => [x, [], z | _] != x, fresh_name_9 => { [[1], [fresh_name_9, fresh_name_9, fresh_name_9]] == [[1, x, x | fresh_name_9], [fresh_name_9, x, 2]] }, }], 1 == x }, member(z, [2, 3]) }, [x] != x])
 }
 pub fn case_486(vars: &Vars) -> InferredGoal<DU, DE, Goal<DU, DE>> {
     let x = vars.v[0].clone();
-    let y = vars.v[1].clone();
-    proto_vulcan!([y == x, conde { [x != [x | y], conde { [[y] != x, matche x { [] => { x == ["a"], y == ['a', 2] }, ['b' | y] => { y == [3, y | x], y == y }, [2, h, 1 | _] => , }], [matche x { [y | y] => { [_, _] != y }, x => [] == y, }, [true, y == 'b', 'a' == [[x | x], x]]] }], [] == x }, closure { [[1, 2, x | x] == x] }])
+    proto_vulcan!([x != [], [[[append(x, x, []), [x, x | x] == x, |tz| { tz == [3, 1], [2, 3 | tz] != [2, 3, 3, 1] }], matche [_, 2] { [x] => , }, |t| { |tz| { tz == [3], [3 | tz] != [3, 3] }, t == [[_, x], [[]], [x, 2, 1] | t] }], conde { [x == [[], x], x == x], [conde { [x != [x, x], x == [x, 3, x]], [x == 1, [x, x | x] == x], x == x }, conde { [true, x == true], [2 != "a", x != [2, 2, 2]], [[2, 1, _] == [['a', x, x], [_], [_ | x]], [x, _, 1 | _] != x] }], true }], closure { [|h| { h == [[x, x | 3], h], |tz| { [2, 1, 1] != [2, 1 | tz], tz == [1] } }, x == [2, 2]] }])
 }
 pub fn case_487(vars: &Vars) -> InferredGoal<DU, DE, Goal<DU, DE>> {
     let x = vars.v[0].clone();
-    let y = vars.v[1].clone();
-    proto_vulcan!([y == x, conde { [x != [x | y], conde { [[y] != x, matche x { [] => { x == ["a"], y == ['a', 2] }, ['b' | y] => { y == [3, y | x], y == y }, [2, h, 1 | _] => , }], [matche x { [y | y] => { [_, _] != y }, fresh_name_9 => [] == y, }, [true, y == 'b', 'a' == [[x | x], x]]] }], [] == x }, closure { [[1, 2, x | x] == x] }])
+    proto_vulcan!([x != [], [[[append(x, x, []), [x, x | x] == x, |fresh_name_9| { fresh_name_9 == [3, 1], [2, 3 | fresh_name_9] != [2, 3, 3, 1] }], matche [_, 2] { [x] => , }, |t| { |tz| { tz == [3], [3 | tz] != [3, 3] }, t == [[_, x], [[]], [x, 2, 1] | t] }], conde { [x == [[], x], x == x], [conde { [x != [x, x], x == [x, 3, x]], [x == 1, [x, x | x] == x], x == x }, conde { [true, x == true], [2 != "a", x != [2, 2, 2]], [[2, 1, _] == [['a', x, x], [_], [_ | x]], [x, _, 1 | _] != x] }], true }], closure { [|h| { h == [[x, x | 3], h], |tz| { [2, 1, 1] != [2, 1 | tz], tz == [1] } }, x == [2, 2]] }])
 }
 pub fn case_488(vars: &Vars) -> InferredGoal<DU, DE, Goal<DU, DE>> {
     let x = vars.v[0].clone();
     let y = vars.v[1].clone();
-    proto_vulcan!([|h, t| { t == [1 | x], h == [2] }, matche x { ['a', 1, [z, 1]] => , [y, [t | _] | t] => [|y| { matche x { [[h, 2, 2], t, [y] | z] => [] == x, [[[], 1, 3 | t] | _] | [2, [1], _ | y] => , }, conde { [member(y, []), [['b', "a", "bc" | t]] == _], y == [[2, y], []] }, append(y, y, [3]) }, y == _], [[[], 1, _], [h]] => { [matche y { x => [[y] == [2], true], "a" => , [1, [t, []]] => h != [[[], y, y], [[], _, []], 2 | h], }], match x { [[1, 2, x | h], [true, h | z]] | [_, [2, x], _] => [false, [y, 2, _] == x], } }, }, match y { [[], h] => , x | [2, [1], h | _] => , }])
+    proto_vulcan!([conde { [|tz| { tz == [2, 3], [3, 1 | tz] != [3, 1, 2, 3] }, |tz| { tz == [1], [1, 2, 1] != [1, 2 | tz] }], x == 2 }, member(y, [1]), [y == [_, _, x | x], |t, z| { [t == [y, 2, x], 3 == t], z == y }, [x == [x, true | x], |h| { y == 1 }, x == [2, x, 1]]], closure { conde { ['a' == y, [true]], y == [y | x] } }])
 }
 pub fn case_489(vars: &Vars) -> InferredGoal<DU, DE, Goal<DU, DE>> {
     let x = vars.v[0].clone();
     let y = vars.v[1].clone();
-    proto_vulcan!([|h, t| { t == [1 | x], h == [2] }, matche x { ['a', 1, [fresh_name_9, 1]] => , [y, [t | _] | t] => [|y| { matche x { [[h, 2, 2], t, [y] | z] => [] == x, [[[], 1, 3 | t] | _] | [2, [1], _ | y] => , }, conde { [member(y, []), [['b', "a", "bc" | t]] == _], y == [[2, y], []] }, append(y, y, [3]) }, y == _], [[[], 1, _], [h]] => { [matche y { x => [[y] == [2], true], "a" => , [1, [t, []]] => h != [[[], y, y], [[], _, []], 2 | h], }], match x { [[1, 2, x | h], [true, h | z]] | [_, [2, x], _] => [false, [y, 2, _] == x], } }, }, match y { [[], h] => , x | [2, [1], h | _] => , }])
+    proto_vulcan!([conde { [|tz| { tz == [2, 3], [3, 1 | tz] != [3, 1, 2, 3] }, |fresh_name_9| { fresh_name_9 == [1], [1, 2, 1] != [1, 2 | fresh_name_9] }], x == 2 }, member(y, [1]), [y == [_, _, x | x], |t, z| { [t == [y, 2, x], 3 == t], z == y }, [x == [x, true | x], |h| { y == 1 }, x == [2, x, 1]]], closure { conde { ['a' == y, [true]], y == [y | x] } }])
 }
 pub fn case_490(vars: &Vars) -> InferredGoal<DU, DE, Goal<DU, DE>> {
-    let x = vars.v[0].clone();
-    let y = vars.v[1].clone();
-    proto_vulcan!([x == y, conde { matche y { [[h, 3, 2], 2, [1]] => [h != [[] | y], [[], h] == x], }, matche y { [[[], t], [z, z]] => { [t, t | 2] == [[t], [[], x, z | y]] }, t => { true != y }, [[_, false, z], [[], _, x]] | [1, false | z] => [|z| { true, z == 'b' }, z == [y, z, 1]], } }, [x == [1]], closure { [match x { 2 | [2, [_, 2]] => , [[z, 2 | t] | y] | h => match x { _ => [member(x, [1]), [[3, x | x] | 1] == x], x => append(x, x, [3]), [[t, [], x], [[]]] => , }, [_, z] | [x, [2], [[]]] => , }, |h, y| { |h| { true, 2 == x } }] }])
+    let q = vars.v[0].clone();
+    let x = vars.v[1].clone();
+    proto_vulcan!([x != 1, x == q, closure { conde { |x, z| { x == [], |tz| { [1, 2, 3] != [1, 2 | tz], tz == [3] }, z == [[], [x, x | x], [_, z, x | q]] }, conde { false, [q == x, |tz| { tz == [3, 3], [3 | tz] != [3, 3, 3] }] }, [append(q, x, []), conde { [false, true], [false, [2] != [_, q]] }] } }])
 }
 pub fn case_491(vars: &Vars) -> InferredGoal<DU, DE, Goal<DU, DE>> {
-    let x = vars.v[0].clone();
-    let y = vars.v[1].clone();
-    proto_vulcan!([x == y, conde { matche y { [[fresh_name_9, 3, 2], 2, [1]] => [fresh_name_9 != [[] | y], [[], fresh_name_9] == x], }, matche y { [[[], t], [z, z]] => { [t, t | 2] == [[t], [[], x, z | y]] }, t => { true != y }, [[_, false, z], [[], _, x]] | [1, false | z] => [|z| { true, z == 'b' }, z == [y, z, 1]], } }, [x == [1]], closure { [match x { 2 | [2, [_, 2]] => , [[z, 2 | t] | y] | h => match x { _ => [member(x, [1]), [[3, x | x] | 1] == x], x => append(x, x, [3]), [[t, [], x], [[]]] => , }, [_, z] | [x, [2], [[]]] => , }, |h, y| { |h| { true, 2 == x } }] }])
+    let q = vars.v[0].clone();
+    let x = vars.v[1].clone();
+    proto_vulcan!([x != 1, x == q, closure { conde { |x, fresh_name_9| { x == [], |tz| { [1, 2, 3] != [1, 2 | tz], tz == [3] }, fresh_name_9 == [[], [x, x | x], [_, fresh_name_9, x | q]] }, conde { false, [q == x, |tz| { tz == [3, 3], [3 | tz] != [3, 3, 3] }] }, [append(q, x, []), conde { [false, true], [false, [2] != [_, q]] }] } }])
 }
 pub fn case_492(vars: &Vars) -> InferredGoal<DU, DE, Goal<DU, DE>> {
-    let q = vars.v[0].clone();
-    let x = vars.v[1].clone();
-    proto_vulcan!([q == 1, |x| { |h, y| { [x, [h]] == y, append(h, x, []), [member(y, [2, 1]), false, x != [q | q]] }, 1 == x }, [] == q, closure { x != [2, _, 1] }])
+    let x = vars.v[0].clone();
+    proto_vulcan!([member(x, []), match x { z => [x == [2], 2 == [[], x]], [[2, _, "a"], [t, _, h]] => [t == "bc", [|x, h| { true, x == x, append(x, h, [3]) }]], }, closure { [match x { [z, [2, t, true | x], [3, _, 3]] => [|x| { |tz| { [1, 1, 3, 1] != [1, 1 | tz], tz == [3, 1] }, x != [3, ['b' | x] | z] }, t == z], }, conde { [x != [[x, 1, x] | x], [] != x], match x { x => , [1, [t, 2]] => false, } }] }])
 }
 pub fn case_493(vars: &Vars) -> InferredGoal<DU, DE, Goal<DU, DE>> {
-    let q = vars.v[0].clone();
-    let x = vars.v[1].clone();
-    proto_vulcan!([q == 1, |x| { |fresh_name_9, y| { [x, [fresh_name_9]] == y, append(fresh_name_9, x, []), [member(y, [2, 1]), false, x != [q | q]] }, 1 == x }, [] == q, closure { x != [2, _, 1] }])
+    let x = vars.v[0].clone();
+    proto_vulcan!([member(x, []), match x { z => [x == [2], 2 == [[], x]], [[2, _, "a"], [t, _, h]] => [t == "bc", [|x, fresh_name_9| { true, x == x, append(x, fresh_name_9, [3]) }]], }, closure { [match x { [z, [2, t, true | x], [3, _, 3]] => [|x| { |tz| { [1, 1, 3, 1] != [1, 1 | tz], tz == [3, 1] }, x != [3, ['b' | x] | z] }, t == z], }, conde { [x != [[x, 1, x] | x], [] != x], match x { x => , [1, [t, 2]] => false, } }] }])
 }
 pub fn case_494(vars: &Vars) -> InferredGoal<DU, DE, Goal<DU, DE>> {
-    let q = vars.v[0].clone();
-    let x = vars.v[1].clone();
-    proto_vulcan!([matche q { y => q == x, [[z, y], t, h] | 1 => [[q == [2, x], [x == [[], 1, q], q == [2, x, true], q == []]], _ == [x, x | x]], [[_, _, true], [2, 'b', t]] => { append(t, x, [2, 1]), conde { |y, x| { [[q, [], []], [1, q], false | y] != 3 }, [|z| { [x, 1] != z, [q, t, t] == z }, q != [1 | x]], matche q { [[x], [x, h | 1], h | y] | z => q == [3], } } }, }])
+    let x = vars.v[0].clone();
+    proto_vulcan!([x == x, matche x { [[], 2, [z]] => [z == [x, z, [true | x] | z], conde { z == 3, [z == z, |tz| { [1, 2, 2, 2] != [1, 2 | tz], tz == [2, 2] }], z != [[_, 'a', [] | z]] }], [[3, 2, y], [_, _ | _]] | z => { match 2 { 3 | [[true | _], [h]] => , } }, [y, [_, t | h], []] | [[h, t], [1, 2 | y], 1 | y] => match x { [[z]] => matche y { [z, [x], t | t] | [[h | t], [z, 'a' | false], [t, _, t] | _] => { append(z, z, [1]) }, [1, [], [z, t, t | z] | z] => { [y] == x }, 1 => , }, }, }])
 }
 pub fn case_495(vars: &Vars) -> InferredGoal<DU, DE, Goal<DU, DE>> {
-    let q = vars.v[0].clone();
-    let x = vars.v[1].clone();
-    proto_vulcan!([matche q { y => q == x, [[z, y], t, h] | 1 => [[q == [2, x], [x == [[], 1, q], q == [2, x, true], q == []]], _ == [x, x | x]], [[_, _, true], [2, 'b', t]] => { append(t, x, [2, 1]), conde { |fresh_name_9, x| { [[q, [], []], [1, q], false | fresh_name_9] != 3 }, [|z| { [x, 1] != z, [q, t, t] == z }, q != [1 | x]], matche q { [[x], [x, h | 1], h | y] | z => q == [3], } } }, }])
+    let x = vars.v[0].clone();
+    proto_vulcan!([x == x, matche x { [[], 2, [fresh_name_9]] => [fresh_name_9 == [x, fresh_name_9, [true | x] | fresh_name_9], conde { fresh_name_9 == 3, [fresh_name_9 == fresh_name_9, |tz| { [1, 2, 2, 2] != [1, 2 | tz], tz == [2, 2] }], fresh_name_9 != [[_, 'a', [] | fresh_name_9]] }], [[3, 2, y], [_, _ | _]] | z => { match 2 { 3 | [[true | _], [h]] => , } }, [y, [_, t | h], []] | [[h, t], [1, 2 | y], 1 | y] => match x { [[z]] => matche y { [z, [x], t | t] | [[h | t], [z, 'a' | false], [t, _, t] | _] => { append(z, z, [1]) }, [1, [], [z, t, t | z] | z] => { [y] == x }, 1 => , }, }, }])
 }
 pub fn case_496(vars: &Vars) -> InferredGoal<DU, DE, Goal<DU, DE>> {
     let x = vars.v[0].clone();
     let y = vars.v[1].clone();
-    proto_vulcan!([[2] == [[y | y], 3, [y] | x], matche 'b' { [[[]], y, [y, false, t]] => { ["a", x, "a" | 3] == [[], false, 1 | t], conde { [y, t, y | y] == t, [conde { [y == y, member(y, [])], [[[2, 3], [true], [y, 1 | 2] | 1] == x, y == [_, y, [[], x] | y]], [t] == y }, matche t { [y] | [[1, y] | t] => { false }, [t, _, [[], 1 | _]] | [[x, 3], 3] => y == [_, y | 2], }], [|y| { true, x == [3, [_, false | y]] }, conde { [x != x, 3 != [y, []]], [_, true, x | t] == y, y == [x, 1] }] } }, [] => { x == [y, y, 'a' | x], 2 == _ }, }, [] == [3]])
+    proto_vulcan!([[[[], y | x]] == [1, 'a'], matche y { [[false, 2, t | h], [t, 1]] => { [|t| { y != [1, h, 3 | t], 'a' == h }, |x| { |tz| { [1 | tz] != [1, 2, 3], tz == [2, 3] } }, [false, append(h, x, []), false]] }, [1] => matche y { 'a' | 2 => { [[], [[], 1, 2]] == y }, [['a', _], [x, z], 3] => |y| { append(y, x, [1]), true, z != [z, 2, 2 | "a"] }, }, [[_ | x], [x, y]] => , }, |z| { |tz| { [2, 1 | tz] != [2, 1, 3, 3], tz == [3, 3] }, x != [x, z, y], |x| { matche x { _ => { |tz| { tz == [1], [1 | tz] != [1, 1] }, [[2, 3, "a"], x | x] == y }, [h, z, [1]] => { x != _ }, [t, [2, z], []] => { true }, }, conde { [y == x, append(x, x, [])], z == y, [member(z, [3, 3]), y != [[]]] } } }])
 }
 pub fn case_497(vars: &Vars) -> InferredGoal<DU, DE, Goal<DU, DE>> {
     let x = vars.v[0].clone();
     let y = vars.v[1].clone();
-    proto_vulcan!([[2] == [[y | y], 3, [y] | x], matche 'b' { [[[]], y, [y, false, fresh_name_9]] => { ["a", x, "a" | 3] == [[], false, 1 | fresh_name_9], conde { [y, fresh_name_9, y | y] == fresh_name_9, [conde { [y == y, member(y, [])], [[[2, 3], [true], [y, 1 | 2] | 1] == x, y == [_, y, [[], x] | y]], [fresh_name_9] == y }, matche fresh_name_9 { [y] | [[1, y] | t] => { false }, [t, _, [[], 1 | _]] | [[x, 3], 3] => y == [_, y | 2], }], [|y| { true, x == [3, [_, false | y]] }, conde { [x != x, 3 != [y, []]], [_, true, x | fresh_name_9] == y, y == [x, 1] }] } }, [] => { x == [y, y, 'a' | x], 2 == _ }, }, [] == [3]])
+    proto_vulcan!([[[[], y | x]] == [1, 'a'], matche y { [[false, 2, t | h], [t, 1]] => { [|t| { y != [1, h, 3 | t], 'a' == h }, |x| { |tz| { [1 | tz] != [1, 2, 3], tz == [2, 3] } }, [false, append(h, x, []), false]] }, [1] => matche y { 'a' | 2 => { [[], [[], 1, 2]] == y }, [['a', _], [x, z], 3] => |y| { append(y, x, [1]), true, z != [z, 2, 2 | "a"] }, }, [[_ | x], [x, fresh_name_9]] => , }, |z| { |tz| { [2, 1 | tz] != [2, 1, 3, 3], tz == [3, 3] }, x != [x, z, y], |x| { matche x { _ => { |tz| { tz == [1], [1 | tz] != [1, 1] }, [[2, 3, "a"], x | x] == y }, [h, z, [1]] => { x != _ }, [t, [2, z], []] => { true }, }, conde { [y == x, append(x, x, [])], z == y, [member(z, [3, 3]), y != [[]]] } } }])
 }
 pub fn case_498(vars: &Vars) -> InferredGoal<DU, DE, Goal<DU, DE>> {
     let q = vars.v[0].clone();
     let x = vars.v[1].clone();
-    proto_vulcan!([conde { [match [q, q] { _ | [_, _] => [q == 1, x == x], [x, [1], []] => { true }, [[2, 2], 3, [y]] => , }, 'a' == q], matche q { [2, h] => [[[], 3] == q, append(q, x, [])], 2 => , } }, matche q { 2 => [|x| { x == [1] }, [[_ | 2], x] != x], z => { append(z, q, [1]), x == [3, z] }, [true, [x, h], [1 | z]] => |y| { [[q], [true | y], [1] | x] != [true, z, x], 2 == h }, }, [[[], 2, q], [3]] == q])
+    proto_vulcan!([matche q { y => , [[]] | [2, [[], _]] => , }])
 }
 pub fn case_499(vars: &Vars) -> InferredGoal<DU, DE, Goal<DU, DE>> {
     let q = vars.v[0].clone();
     let x = vars.v[1].clone();
-    proto_vulcan!([conde { [match [q, q] { _ | [_, _] => [q == 1, x == x], [x, [1], []] => { true }, [[2, 2], 3, [y]] => , }, 'a' == q], matche q { [2, h] => [[[], 3] == q, append(q, x, [])], 2 => , } }, matche q { 2 => [|fresh_name_9| { fresh_name_9 == [1] }, [[_ | 2], x] != x], z => { append(z, q, [1]), x == [3, z] }, [true, [x, h], [1 | z]] => |y| { [[q], [true | y], [1] | x] != [true, z, x], 2 == h }, }, [[[], 2, q], [3]] == q])
+    proto_vulcan!([matche q { fresh_name_9 => , [[]] | [2, [[], _]] => , }])
 }
 pub fn case_500(vars: &Vars) -> InferredGoal<DU, DE, Goal<DU, DE>> {
     let x = vars.v[0].clone();
-    proto_vulcan!(["a" == x, match x { [3, z | 1] => [[[[]], [_]] == 2, |y, z| { [[x, x], [3, y, 1], [[]] | z] == y, conde { [x == [], member(z, [])], x == [true], [[z, 2] != y, [[[], z, _], [y, z, x | z]] == [[], 3, 1]] }, append(z, x, []) }], }])
+    let y = vars.v[1].clone();
+    proto_vulcan!([|h, t| { t == [1 | x], [x, h, 1] == x }, true, y == [x, 2]])
 }
 pub fn case_501(vars: &Vars) -> InferredGoal<DU, DE, Goal<DU, DE>> {
     let x = vars.v[0].clone();
-    proto_vulcan!(["a" == x, match x { [3, z | 1] => [[[[]], [_]] == 2, |fresh_name_9, z| { [[x, x], [3, fresh_name_9, 1], [[]] | z] == fresh_name_9, conde { [x == [], member(z, [])], x == [true], [[z, 2] != fresh_name_9, [[[], z, _], [fresh_name_9, z, x | z]] == [[], 3, 1]] }, append(z, x, []) }], }])
+    let y = vars.v[1].clone();
+    proto_vulcan!([|fresh_name_9, t| { t == [1 | x], [x, fresh_name_9, 1] == x }, true, y == [x, 2]])
 }
 pub fn case_502(vars: &Vars) -> InferredGoal<DU, DE, Goal<DU, DE>> {
     let x = vars.v[0].clone();
-    proto_vulcan!([[x | x] == 2, match x { z => { conde { |h| { 3 == z }, [3, x, z] != x, [x != x, _ != z] } }, }, "bc" == x, closure { [x == x, "a" != x] }])
+    let y = vars.v[1].clone();
+    proto_vulcan!([|tz| { tz == [1], [2, 3, 1] != [2, 3 | tz] }, conde { matche y { [[h, 3, 2], 2, [1]] => { |tz| { tz == [1, 2], [1, 1, 2] != [1 | tz] }, matche [y] { [y, 3, [[], h]] => { [h | h] == [[], [[], h, 3]] }, 3 => { [h, y | 2] == y }, } }, }, [|y, t| { [[["a", false] | 3] == t] }, 1 == [1, false | x]] }, match x { 'b' | [y, [3, h | h], 'b'] => , [[y, 1], [z, 1, 3], [t] | _] | [[_, 2], [t | h], [] | _] => , }, closure { |y| { [y, _, x] != y, [[3, y | x] | 1] == 3, [false] } }])
 }
 pub fn case_503(vars: &Vars) -> InferredGoal<DU, DE, Goal<DU, DE>> {
     let x = vars.v[0].clone();
-    proto_vulcan!([[x | x] == 2, match x { z => { conde { |fresh_name_9| { 3 == z }, [3, x, z] != x, [x != x, _ != z] } }, }, "bc" == x, closure { [x == x, "a" != x] }])
+    let y = vars.v[1].clone();
+    proto_vulcan!([|tz| { tz == [1], [2, 3, 1] != [2, 3 | tz] }, conde { matche y { [[fresh_name_9, 3, 2], 2, [1]] => { |tz| { tz == [1, 2], [1, 1, 2] != [1 | tz] }, matche [y] { [y, 3, [[], h]] => { [h | h] == [[], [[], h, 3]] }, 3 => { [fresh_name_9, y | 2] == y }, } }, }, [|y, t| { [[["a", false] | 3] == t] }, 1 == [1, false | x]] }, match x { 'b' | [y, [3, h | h], 'b'] => , [[y, 1], [z, 1, 3], [t] | _] | [[_, 2], [t | h], [] | _] => , }, closure { |y| { [y, _, x] != y, [[3, y | x] | 1] == 3, [false] } }])
 }
 pub fn case_504(vars: &Vars) -> InferredGoal<DU, DE, Goal<DU, DE>> {
-    let x = vars.v[0].clone();
-    let y = vars.v[1].clone();
-    proto_vulcan!([match [[], "bc" | x] { y => , [[_, [], 2], [x | false]] | 1 => { y == [1, y, 1], matche y { 3 => , x => { [3, [2, 1, 2]] == x }, } }, 3 | [3, ['a', true, 1 | t] | _] => { matche x { [[3, 1], 1, [x, 1] | h] => [conde { [[y, 'a', x | x] == [true], x == [1]], false }, matche y { [[3], [z, x, t] | 2] => { h == [x, 2] }, 2 => , [[2, y, z], [h], [_, t, t] | 2] | [[z, h], [1, 1] | z] => , }], "a" | z => { y != x, [[y, x, 2] == [[x, false, y]]] }, }, |h| { [[h] == h, [3, 1] != h], [] == [[h, [], 3 | x]] } }, }, false, [[|t| { false, t == [false, y, 3], t == t }, |x, z| { [[x, x | x], [2, []] | z] != [2] }], |z| { |x| { z != [x | y] }, matche x { [[3, true, []] | 2] => { _ == x, false }, [2] | x => y == [_, "a" | y], [[2, _], [true], [false, "a", _ | x]] => { true }, }, [[z, true, _], [x], [y] | x] == y }, [[]] == x]])
+    let q = vars.v[0].clone();
+    let x = vars.v[1].clone();
+    proto_vulcan!([[_, _] != q, matche q { _ => { q == q }, [false, [_] | t] => , }, false])
 }
 pub fn case_505(vars: &Vars) -> InferredGoal<DU, DE, Goal<DU, DE>> {
-    let x = vars.v[0].clone();
-    let y = vars.v[1].clone();
-    proto_vulcan!([match [[], "bc" | x] { y => , [[_, [], 2], [x | false]] | 1 => { y == [1, y, 1], matche y { 3 => , x => { [3, [2, 1, 2]] == x }, } }, 3 | [3, ['a', true, 1 | t] | _] => { matche x { [[3, 1], 1, [x, 1] | h] => [conde { [[y, 'a', x | x] == [true], x == [1]], false }, matche y { [[3], [z, x, t] | 2] => { h == [x, 2] }, 2 => , [[2, y, z], [h], [_, t, t] | 2] | [[z, h], [1, 1] | z] => , }], "a" | z => { y != x, [[y, x, 2] == [[x, false, y]]] }, }, |fresh_name_9| { [[fresh_name_9] == fresh_name_9, [3, 1] != fresh_name_9], [] == [[fresh_name_9, [], 3 | x]] } }, }, false, [[|t| { false, t == [false, y, 3], t == t }, |x, z| { [[x, x | x], [2, []] | z] != [2] }], |z| { |x| { z != [x | y] }, matche x { [[3, true, []] | 2] => { _ == x, false }, [2] | x => y == [_, "a" | y], [[2, _], [true], [false, "a", _ | x]] => { true }, }, [[z, true, _], [x], [y] | x] == y }, [[]] == x]])
+    let q = vars.v[0].clone();
+    let x = vars.v[1].clone();
+    proto_vulcan!([[_, _] != q, matche q { _ => { q == q }, [false, [_] | fresh_name_9] => , }, false])
 }
 pub fn case_506(vars: &Vars) -> InferredGoal<DU, DE, Goal<DU, DE>> {
     let x = vars.v[0].clone();
     let y = vars.v[1].clone();
-    proto_vulcan!([x != [[2 | x], [1, _, x] | x], match [true] { [[[], [], 3], t, [2, 3, x | _]] => , }])
+    proto_vulcan!([[true, x | y] == y, conde { [y] == y, [|t| { member(t, [2]) }, y != [y]] }, x == ["bc", x | 2], closure { conde { [y == [3], [[[1, 2]] == [[x, x, y]], true, [x, _ | 3] == x]], [1 == x, x != [x | y]] } }])
 }
 pub fn case_507(vars: &Vars) -> InferredGoal<DU, DE, Goal<DU, DE>> {
     let x = vars.v[0].clone();
     let y = vars.v[1].clone();
-    proto_vulcan!([x != [[2 | x], [1, _, x] | x], match [true] { [[[], [], 3], fresh_name_9, [2, 3, x | _]] => , }])
+    proto_vulcan!([[true, x | y] == y, conde { [y] == y, [|fresh_name_9| { member(fresh_name_9, [2]) }, y != [y]] }, x == ["bc", x | 2], closure { conde { [y == [3], [[[1, 2]] == [[x, x, y]], true, [x, _ | 3] == x]], [1 == x, x != [x | y]] } }])
 }
 pub fn case_508(vars: &Vars) -> InferredGoal<DU, DE, Goal<DU, DE>> {
     let q = vars.v[0].clone();
     let x = vars.v[1].clone();
-    proto_vulcan!([conde { |z| { [z == [_, _, []], [3, 1] != 2, [z] != x] }, true, true }, q == [_, [3, x]]])
+    proto_vulcan!([matche q { y => { [2, y] != q }, [_, t, h] => , [t, z] => [matche z { [[2, 1, 2], 1 | _] | [[2] | y] => , [t | _] | [[]] => q != 'b', }, |z, t| { conde { x == 2, [t == [t, [z | z] | z], 3 == z] }, matche t { false => , t | _ => { z == [_], [q] == q }, } }], }])
 }
 pub fn case_509(vars: &Vars) -> InferredGoal<DU, DE, Goal<DU, DE>> {
     let q = vars.v[0].clone();
     let x = vars.v[1].clone();
-    proto_vulcan!([conde { |fresh_name_9| { [fresh_name_9 == [_, _, []], [3, 1] != 2, [fresh_name_9] != x] }, true, true }, q == [_, [3, x]]])
+    proto_vulcan!([matche q { y => { [2, y] != q }, [_, fresh_name_9, h] => , [t, z] => [matche z { [[2, 1, 2], 1 | _] | [[2] | y] => , [t | _] | [[]] => q != 'b', }, |z, t| { conde { x == 2, [t == [t, [z | z] | z], 3 == z] }, matche t { false => , t | _ => { z == [_], [q] == q }, } }], }])
 }
 pub fn case_510(vars: &Vars) -> InferredGoal<DU, DE, Goal<DU, DE>> {
-    let q = vars.v[0].clone();
-    let x = vars.v[1].clone();
-    proto_vulcan!([x != x, [match q { [[[], [] | y], [x, 3, 2]] => { |t, x| { 3 == x } }, [2, [t, x | _]] => , }, [2, x, x] != [[x, [], "bc"]], [2 | q] == x]])
+    let x = vars.v[0].clone();
+    let y = vars.v[1].clone();
+    proto_vulcan!([x == y, |z| { x == z, match [z, y] { 'a' => ["bc" == x, z != _], } }, [|tz| { tz == [1], [3, 1, 1] != [3, 1 | tz] }, [matche y { false | [[], [t, z], z | z] => { [true, 2] == x, x == y }, }, append(x, y, [3, 3])], 1 == y], closure { [2 | x] == y }])
 }
 pub fn case_511(vars: &Vars) -> InferredGoal<DU, DE, Goal<DU, DE>> {
-    let q = vars.v[0].clone();
-    let x = vars.v[1].clone();
-    proto_vulcan!([x != x, [match q { [[[], [] | fresh_name_9], [x, 3, 2]] => { |t, x| { 3 == x } }, [2, [t, x | _]] => , }, [2, x, x] != [[x, [], "bc"]], [2 | q] == x]])
+    let x = vars.v[0].clone();
+    let y = vars.v[1].clone();
+    proto_vulcan!([x == y, |z| { x == z, match [z, y] { 'a' => ["bc" == x, z != _], } }, [|fresh_name_9| { fresh_name_9 == [1], [3, 1, 1] != [3, 1 | fresh_name_9] }, [matche y { false | [[], [t, z], z | z] => { [true, 2] == x, x == y }, }, append(x, y, [3, 3])], 1 == y], closure { [2 | x] == y }])
 }
 pub fn case_512(vars: &Vars) -> InferredGoal<DU, DE, Goal<DU, DE>> {
-    let x = vars.v[0].clone();
-    let y = vars.v[1].clone();
-    proto_vulcan!([|z| { [1, 1] == y, [conde { z == [[], 2], [[z, 2] == z, [[z]] == [[x, "bc", []] | z]], [z == 2, false] }, [[z] == z, [y, ['a', y], 2 | 2] == x], [_ == z, y == [[]]]] }])
+    let q = vars.v[0].clone();
+    let x = vars.v[1].clone();
+    proto_vulcan!([conde { [match [q, q] { _ | [_, _] => [x == [_], false], [] => { [[[2]] != q, true] }, [[2, 2], 3, [y]] => , }, x == [['b'], _]], [[q, q | 'b'] == q, x == [x | x]] }, matche q { 2 => { [|x| { |tz| { tz == [1], [1 | tz] != [1, 1] } }, match x { 'b' => , }] }, [t, [x, []]] => matche q { 1 => |x, h| { x == h, t == x }, 'b' => , }, [1, [[], _, z] | true] => , }, member(x, [1, 2]), closure { [q == [q], |tz| { tz == [3, 1], [3, 3, 1] != [3 | tz] }] }])
 }
 pub fn case_513(vars: &Vars) -> InferredGoal<DU, DE, Goal<DU, DE>> {
-    let x = vars.v[0].clone();
-    let y = vars.v[1].clone();
-    proto_vulcan!([|fresh_name_9| { [1, 1] == y, [conde { fresh_name_9 == [[], 2], [[fresh_name_9, 2] == fresh_name_9, [[fresh_name_9]] == [[x, "bc", []] | fresh_name_9]], [fresh_name_9 == 2, false] }, [[fresh_name_9] == fresh_name_9, [y, ['a', y], 2 | 2] == x], [_ == fresh_name_9, y == [[]]]] }])
+    let q = vars.v[0].clone();
+    let x = vars.v[1].clone();
+    proto_vulcan!([conde { [match [q, q] { _ | [_, _] => [x == [_], false], [] => { [[[2]] != q, true] }, [[2, 2], 3, [y]] => , }, x == [['b'], _]], [[q, q | 'b'] == q, x == [x | x]] }, matche q { 2 => { [|x| { |tz| { tz == [1], [1 | tz] != [1, 1] } }, match x { 'b' => , }] }, [t, [fresh_name_9, []]] => matche q { 1 => |x, h| { x == h, t == x }, 'b' => , }, [1, [[], _, z] | true] => , }, member(x, [1, 2]), closure { [q == [q], |tz| { tz == [3, 1], [3, 3, 1] != [3 | tz] }] }])
 }
 pub fn case_514(vars: &Vars) -> InferredGoal<DU, DE, Goal<DU, DE>> {
     let x = vars.v[0].clone();
-    proto_vulcan!([conde { [[[[2], [x], [] | x] == x, match x { [[1 | 1], true, [[], x]] => [[2, 2, 2 | x] == x, x == 3], }, matche [x, x | 1] { ['b', z, _] | z => , }], match x { [t, [t, 2, []], [2 | _] | z] => [[[t], x] == x, [[z] != [[_, x, z], [t, false, t | x]]]], [[z, t | z], 1] => { |t| { member(t, [3]), t == x }, match t { 1 => [t == false, false], x => { [x | z] != x, true }, } }, y | [[z, []], [_, 3 | _], [[], y | _] | 2] => , }], true, [true == x, [_, 3, [x, x, 3] | x] == [[], x, x]] }])
+    proto_vulcan!([|tz| { tz == [3, 3], [3 | tz] != [3, 3, 3] }, [[], 1] != x])
 }
 pub fn case_515(vars: &Vars) -> InferredGoal<DU, DE, Goal<DU, DE>> {
     let x = vars.v[0].clone();
-    proto_vulcan!([conde { [[[[2], [x], [] | x] == x, match x { [[1 | 1], true, [[], x]] => [[2, 2, 2 | x] == x, x == 3], }, matche [x, x | 1] { ['b', z, _] | z => , }], match x { [t, [t, 2, []], [2 | _] | z] => [[[t], x] == x, [[z] != [[_, x, z], [t, false, t | x]]]], [[z, t | z], 1] => { |t| { member(t, [3]), t == x }, match t { 1 => [t == false, false], fresh_name_9 => { [fresh_name_9 | z] != fresh_name_9, true }, } }, y | [[z, []], [_, 3 | _], [[], y | _] | 2] => , }], true, [true == x, [_, 3, [x, x, 3] | x] == [[], x, x]] }])
+    proto_vulcan!([|fresh_name_9| { fresh_name_9 == [3, 3], [3 | fresh_name_9] != [3, 3, 3] }, [[], 1] != x])
 }
 pub fn case_516(vars: &Vars) -> InferredGoal<DU, DE, Goal<DU, DE>> {
-    let q = vars.v[0].clone();
-    let x = vars.v[1].clone();
-    proto_vulcan!([|x| { x == x }, match q { [[_, 1 | z], [y] | x] | x => , _ | 2 => [[1 | x] != x, ['b', [false], [_, []]] != x], }])
+    let x = vars.v[0].clone();
+    proto_vulcan!([x == [[x, x, []], x, x | x], x == [x, _], x == [x], closure { [[1 == [x, 3], ["bc" == x, x != x], |h, t| { append(x, h, [2, 2]), [h, 3] != h, h != [h, 'b'] }], 1 == x] }])
 }
 pub fn case_517(vars: &Vars) -> InferredGoal<DU, DE, Goal<DU, DE>> {
-    let q = vars.v[0].clone();
-    let x = vars.v[1].clone();
-    proto_vulcan!([|fresh_name_9| { fresh_name_9 == fresh_name_9 }, match q { [[_, 1 | z], [y] | x] | x => , _ | 2 => [[1 | x] != x, ['b', [false], [_, []]] != x], }])
+    let x = vars.v[0].clone();
+    proto_vulcan!([x == [[x, x, []], x, x | x], x == [x, _], x == [x], closure { [[1 == [x, 3], ["bc" == x, x != x], |fresh_name_9, t| { append(x, fresh_name_9, [2, 2]), [fresh_name_9, 3] != fresh_name_9, fresh_name_9 != [fresh_name_9, 'b'] }], 1 == x] }])
 }
 pub fn case_518(vars: &Vars) -> InferredGoal<DU, DE, Goal<DU, DE>> {
     let x = vars.v[0].clone();
-    proto_vulcan!([x == x, match x { [[x, "bc", []]] => { conde { [append(x, x, [1, 3]), |z| { x == z, z == 2, [x, x] == x }], conde { x == [[x, 1], [1, []], x], [x == x, [_, [_ | x], [x]] != x], 3 == [1, "a", _] }, [[3] != x, x == [x]] } }, 2 => [false, [[x, x | x], 3, [x, 1]] == x], }, x == [3, 3]])
+    let y = vars.v[1].clone();
+    proto_vulcan!([match [[], "bc" | x] { y => , [[_, [], 2], [x | false]] | 1 => { [1, 'b', "a"] == y, |t| { |z, x| { [y, 3, y] != x, member(y, []), [y, y] == y }, t == 'a' } }, [t | _] => { matche t { [[3, 1], 1, [x, 1] | h] => [conde { [[y, h | x] == [1], "a" == 1], 2 == t }, x == [3, t]], [] => , }, false }, }, x == [2, "bc"], |z, t| { x == t, [x, 3, [2, 2, 'b' | z]] == 1 }])
 }
 pub fn case_519(vars: &Vars) -> InferredGoal<DU, DE, Goal<DU, DE>> {
     let x = vars.v[0].clone();
-    proto_vulcan!([x == x, match x { [[x, "bc", []]] => { conde { [append(x, x, [1, 3]), |fresh_name_9| { x == fresh_name_9, fresh_name_9 == 2, [x, x] == x }], conde { x == [[x, 1], [1, []], x], [x == x, [_, [_ | x], [x]] != x], 3 == [1, "a", _] }, [[3] != x, x == [x]] } }, 2 => [false, [[x, x | x], 3, [x, 1]] == x], }, x == [3, 3]])
+    let y = vars.v[1].clone();
+    proto_vulcan!([match [[], "bc" | x] { fresh_name_9 => , [[_, [], 2], [x | false]] | 1 => { [1, 'b', "a"] == y, |t| { |z, x| { [y, 3, y] != x, member(y, []), [y, y] == y }, t == 'a' } }, [t | _] => { matche t { [[3, 1], 1, [x, 1] | h] => [conde { [[y, h | x] == [1], "a" == 1], 2 == t }, x == [3, t]], [] => , }, false }, }, x == [2, "bc"], |z, t| { x == t, [x, 3, [2, 2, 'b' | z]] == 1 }])
 }
 pub fn case_520(vars: &Vars) -> InferredGoal<DU, DE, Goal<DU, DE>> {
-    let x = vars.v[0].clone();
-    proto_vulcan!([x == x, match x { 1 => , ['b'] | [[_, []], [[], 2, 3 | _] | z] => conde { |h, y| { _ != [y, _, h] }, [|h, z| { [[]] == [[x, 2, _]], z == [], append(x, z, [3, 2]) }, matche x { "a" => , }] }, }])
+    let q = vars.v[0].clone();
+    let x = vars.v[1].clone();
+    proto_vulcan!([[[2, _, 3 | x], 'b', [3, x]] == 3, [[|t| { [[x], [t, _, t], q | x] == 1, q == x, t == 'b' }, x == q], |tz| { tz == [1, 2], [3, 1, 2] != [3 | tz] }, matche [_, _, q] { [[x, z], 3] => [conde { |tz| { [1, 2] != [1 | tz], tz == [2] }, [x == z, member(z, [2])], false }, z == [3, q, 2]], }]])
 }
 pub fn case_521(vars: &Vars) -> InferredGoal<DU, DE, Goal<DU, DE>> {
-    let x = vars.v[0].clone();
-    proto_vulcan!([x == x, match x { 1 => , ['b'] | [[_, []], [[], 2, 3 | _] | z] => conde { |h, fresh_name_9| { _ != [fresh_name_9, _, h] }, [|h, z| { [[]] == [[x, 2, _]], z == [], append(x, z, [3, 2]) }, matche x { "a" => , }] }, }])
+    let q = vars.v[0].clone();
+    let x = vars.v[1].clone();
+    proto_vulcan!([[[2, _, 3 | x], 'b', [3, x]] == 3, [[|t| { [[x], [t, _, t], q | x] == 1, q == x, t == 'b' }, x == q], |tz| { tz == [1, 2], [3, 1, 2] != [3 | tz] }, matche [_, _, q] { [[x, fresh_name_9], 3] => [conde { |tz| { [1, 2] != [1 | tz], tz == [2] }, [x == fresh_name_9, member(fresh_name_9, [2])], false }, fresh_name_9 == [3, q, 2]], }]])
 }
 pub fn case_522(vars: &Vars) -> InferredGoal<DU, DE, Goal<DU, DE>> {
     let q = vars.v[0].clone();
     let x = vars.v[1].clone();
-    proto_vulcan!([conde { [|y, z| { [2, y, z | z] == y, [x, x, true | 3] == q, match [[], z, q] { [[_, false, 1 | y] | _] | [y, [1, z, [] | _], [t] | h] => { y == 1 }, } }, conde { conde { [append(x, x, [2]), [2, 'b'] == q], [q != q, [[x | q], [1, q | q], x] != x] }, [true, x == x], [|t| { q != x, member(t, []), [[_, 2, t] | x] != x }, [x, q, x] == [[3, 3, x | q], [1, x], x | q]] }], [[q | q], [1, 1]] != q, [true, false] }])
+    proto_vulcan!([[[q | 2], true | x] == [x, 2, 2], member(x, [1, 3]), conde { q != _, [true, q != []], [conde { [[false], false], match q { [[2]] => , h => , [[], [1]] => { q != _, false }, }, false }, conde { match [q, q, 2] { [] => , [2 | _] => 1 == x, }, [|z| { [_, 3, q] == x }, [[_, []] == [[2, 2, _], [false, 2, 3 | _], 2], |tz| { [1 | tz] != [1, 1], tz == [1] }, q == [[] | x]]], [match x { [[h, 1], 3] => { |tz| { tz == [2], [1, 2] != [1 | tz] } }, }, q == x] }] }])
 }
 pub fn case_523(vars: &Vars) -> InferredGoal<DU, DE, Goal<DU, DE>> {
     let q = vars.v[0].clone();
     let x = vars.v[1].clone();
-    proto_vulcan!([conde { [|fresh_name_9, z| { [2, fresh_name_9, z | z] == fresh_name_9, [x, x, true | 3] == q, match [[], z, q] { [[_, false, 1 | y] | _] | [y, [1, z, [] | _], [t] | h] => { y == 1 }, } }, conde { conde { [append(x, x, [2]), [2, 'b'] == q], [q != q, [[x | q], [1, q | q], x] != x] }, [true, x == x], [|t| { q != x, member(t, []), [[_, 2, t] | x] != x }, [x, q, x] == [[3, 3, x | q], [1, x], x | q]] }], [[q | q], [1, 1]] != q, [true, false] }])
+    proto_vulcan!([[[q | 2], true | x] == [x, 2, 2], member(x, [1, 3]), conde { q != _, [true, q != []], [conde { [[false], false], match q { [[2]] => , h => , [[], [1]] => { q != _, false }, }, false }, conde { match [q, q, 2] { [] => , [2 | _] => 1 == x, }, [|fresh_name_9| { [_, 3, q] == x }, [[_, []] == [[2, 2, _], [false, 2, 3 | _], 2], |tz| { [1 | tz] != [1, 1], tz == [1] }, q == [[] | x]]], [match x { [[h, 1], 3] => { |tz| { tz == [2], [1, 2] != [1 | tz] } }, }, q == x] }] }])
 }
 pub fn case_524(vars: &Vars) -> InferredGoal<DU, DE, Goal<DU, DE>> {
-    let x = vars.v[0].clone();
-    let y = vars.v[1].clone();
-    proto_vulcan!([false, matche y { [[1, h, _], [1, t, z | _]] | x => { match y { 'b' => , [2, [t, 1], [2, h, 2] | _] => [[[], h | t] == y, match [[], 'b'] { [_, [y, [] | t]] => [[y] == y, t == y], z => { y == 2 }, [[z, h], 2, 'b' | z] => [z == [3], 3 == h], }], }, matche y { [[_, 1 | _] | true] => , } }, [[_, 3, x], [1], ["a" | 2]] | x => [x == [[_, _, [] | x], [false, 3, y], [[], x, 2] | 'b'], conde { [_] == [["a", x | x], [3, x | x], [1] | y], match x { [y] => [member(y, [1]), [_] == x], }, |x| { [2] == x } }], t => [y] == true, }])
+    let q = vars.v[0].clone();
+    let x = vars.v[1].clone();
+    proto_vulcan!([conde { |z| { [q != _, false, member(q, [3, 1])] }, [x != [x], matche x { [[h, _, 1], [t, z, _], x] => { false, |tz| { tz == [1, 1], [2, 1, 1, 1] != [2, 1 | tz] } }, }], append(x, x, [1]) }, match x { [[[], [] | y], [t] | _] => { [x, q, 2 | q] == t, match t { z | h => [x == x, matche x { [_] | [[y, x | 3], [1, 3, 2], [2]] => , x => , [[x, 1 | _], [2, _], [x, y, y]] => , }], [[[]] | t] => { |z, x| { x == ['a', _ | x], 3 == q } }, } }, }])
 }
 pub fn case_525(vars: &Vars) -> InferredGoal<DU, DE, Goal<DU, DE>> {
-    let x = vars.v[0].clone();
-    let y = vars.v[1].clone();
-    proto_vulcan!([false, matche y { [[1, h, _], [1, t, z | _]] | x => { match y { 'b' => , [2, [t, 1], [2, h, 2] | _] => [[[], h | t] == y, match [[], 'b'] { [_, [y, [] | t]] => [[y] == y, t == y], z => { y == 2 }, [[z, fresh_name_9], 2, 'b' | z] => [z == [3], 3 == fresh_name_9], }], }, matche y { [[_, 1 | _] | true] => , } }, [[_, 3, x], [1], ["a" | 2]] | x => [x == [[_, _, [] | x], [false, 3, y], [[], x, 2] | 'b'], conde { [_] == [["a", x | x], [3, x | x], [1] | y], match x { [y] => [member(y, [1]), [_] == x], }, |x| { [2] == x } }], t => [y] == true, }])
+    let q = vars.v[0].clone();
+    let x = vars.v[1].clone();
+    proto_vulcan!([conde { |z| { [q != _, false, member(q, [3, 1])] }, [x != [x], matche x { [[h, _, 1], [t, z, _], x] => { false, |tz| { tz == [1, 1], [2, 1, 1, 1] != [2, 1 | tz] } }, }], append(x, x, [1]) }, match x { [[[], [] | y], [t] | _] => { [x, q, 2 | q] == t, match t { z | h => [x == x, matche x { [_] | [[y, x | 3], [1, 3, 2], [2]] => , x => , [[x, 1 | _], [2, _], [x, y, y]] => , }], [[[]] | fresh_name_9] => { |z, x| { x == ['a', _ | x], 3 == q } }, } }, }])
 }
 pub fn case_526(vars: &Vars) -> InferredGoal<DU, DE, Goal<DU, DE>> {
     let q = vars.v[0].clone();
     let x = vars.v[1].clone();
-    proto_vulcan!([|y| { |h, y| { x == y, y == y }, matche x { [[2], [1, h, h], ["bc", [], 3]] => , [[]] => { x == [3], q == y }, } }, [[x | x] == q, conde { [2, 1 | x] == x, [member(x, [2, 3, 1]), [2] == x] }], |h| { |t| { matche x { [[], [1, h | _], [z, 3, h | _]] => false, }, match t { h => { [h | t] == [_, 3 | h] }, 2 => [[] == [[1, 3, 1], [2, 2]], h == x], "bc" => , }, _ == q }, conde { [member(x, []), [1, [2], q] == h], [[q, x, "bc" | x] == q, conde { true, [[3] == h, q == q] }] }, q == _ }])
+    proto_vulcan!([|tz| { tz == [2, 2], [2, 3, 2, 2] != [2, 3 | tz] }, [|x| { matche x { 1 => , x => { x != 3, 3 == x }, [2, [t, x | _]] => , }, x == q }, [[[], x, x], [] | x] == q, [x | 2] == x]])
 }
 pub fn case_527(vars: &Vars) -> InferredGoal<DU, DE, Goal<DU, DE>> {
     let q = vars.v[0].clone();
     let x = vars.v[1].clone();
-    proto_vulcan!([|fresh_name_9| { |h, y| { x == y, y == y }, matche x { [[2], [1, h, h], ["bc", [], 3]] => , [[]] => { x == [3], q == fresh_name_9 }, } }, [[x | x] == q, conde { [2, 1 | x] == x, [member(x, [2, 3, 1]), [2] == x] }], |h| { |t| { matche x { [[], [1, h | _], [z, 3, h | _]] => false, }, match t { h => { [h | t] == [_, 3 | h] }, 2 => [[] == [[1, 3, 1], [2, 2]], h == x], "bc" => , }, _ == q }, conde { [member(x, []), [1, [2], q] == h], [[q, x, "bc" | x] == q, conde { true, [[3] == h, q == q] }] }, q == _ }])
+    proto_vulcan!([|fresh_name_9| { fresh_name_9 == [2, 2], [2, 3, 2, 2] != [2, 3 | fresh_name_9] }, [|x| { matche x { 1 => , x => { x != 3, 3 == x }, [2, [t, x | _]] => , }, x == q }, [[[], x, x], [] | x] == q, [x | 2] == x]])
 }
 pub fn case_528(vars: &Vars) -> InferredGoal<DU, DE, Goal<DU, DE>> {
     let x = vars.v[0].clone();
-    proto_vulcan!([|y| { x == y, y == [[[]], []], 1 == [[y, 3, _], 2] }, x == x, [matche x { [[h, 3, 'b'] | t] | [2, 2] => , [[2 | t], h, [x, h] | t] | [[1, _], h | x] => [|t| { x != t }, _ == h], h => , }, [1, 1, []] == x, _ != x], closure { [x == 2, conde { [conde { true, [[3 | x] != x, [] == x] }, |x, h| { false, [] == x }], [[[[1], 1] == x, member(x, [1, 2]), x != [_, [], true]], x == [1]], [|x| { 2 != x, 2 != x }, x == [x, x]] }] }])
+    let y = vars.v[1].clone();
+    proto_vulcan!([|z| { [2, y, "bc"] == z, [] != x }])
 }
 pub fn case_529(vars: &Vars) -> InferredGoal<DU, DE, Goal<DU, DE>> {
     let x = vars.v[0].clone();
-    proto_vulcan!([|y| { x == y, y == [[[]], []], 1 == [[y, 3, _], 2] }, x == x, [matche x { [[h, 3, 'b'] | t] | [2, 2] => , [[2 | t], h, [x, h] | t] | [[1, _], h | x] => [|t| { x != t }, _ == h], h => , }, [1, 1, []] == x, _ != x], closure { [x == 2, conde { [conde { true, [[3 | x] != x, [] == x] }, |x, h| { false, [] == x }], [[[[1], 1] == x, member(x, [1, 2]), x != [_, [], true]], x == [1]], [|fresh_name_9| { 2 != fresh_name_9, 2 != fresh_name_9 }, x == [x, x]] }] }])
+    let y = vars.v[1].clone();
+    proto_vulcan!([|fresh_name_9| { [2, y, "bc"] == fresh_name_9, [] != x }])
 }
 pub fn case_530(vars: &Vars) -> InferredGoal<DU, DE, Goal<DU, DE>> {
-    let q = vars.v[0].clone();
-    let x = vars.v[1].clone();
-    proto_vulcan!([[1, 'b', 1] == q, [[x | 3], [q, q | x], [x]] != x, |t, x| { match q { [[_, 2, 3], "a"] => , [[2, z, h] | z] => { match t { [[t, []], y, x | y] => , [[]] => append(x, q, [3]), [y] => { q != 3 }, }, |z, y| { x == [false, x, 2], [2, 1] == t } }, [[[], _] | x] | [[2], 3, [_]] => [[[1, true, t], []] == [[q, t | 1], [2, q], [] | q], conde { false, [t == t, [q, [t, 3], [_]] != [[2, q, 2 | q], [q, 1, q | q], [q, q, q]]] }], }, |z| { match [q | t] { t | [[y, y, _ | z], [[], y, 1 | 3]] => , _ => { [[2, 1] | z] != [x, x | "a"], [[_], [x, true], [1, x, 1] | z] != x }, y => , }, [x, 2] == z, t != [1] } }])
+    let x = vars.v[0].clone();
+    proto_vulcan!([conde { [[x == x, [false], match x { h => member(h, [1]), }], [1, 2, 'a'] == x], match x { [[2, 2, h], y, [x | h] | h] => { matche y { [[t], 'b', z | true] => , h | [] => { [2] == x, y == x }, [1] | [[_], x] => { [h, h] != y }, } }, }, [[false, 1] != [x, [x, x | x], [x, 1, 3] | 2]] }, closure { ["a"] != x }])
 }
 pub fn case_531(vars: &Vars) -> InferredGoal<DU, DE, Goal<DU, DE>> {
-    let q = vars.v[0].clone();
-    let x = vars.v[1].clone();
-    proto_vulcan!([[1, 'b', 1] == q, [[x | 3], [q, q | x], [x]] != x, |t, x| { match q { [[_, 2, 3], "a"] => , [[2, z, h] | z] => { match t { [[fresh_name_9, []], y, x | y] => , [[]] => append(x, q, [3]), [y] => { q != 3 }, }, |z, y| { x == [false, x, 2], [2, 1] == t } }, [[[], _] | x] | [[2], 3, [_]] => [[[1, true, t], []] == [[q, t | 1], [2, q], [] | q], conde { false, [t == t, [q, [t, 3], [_]] != [[2, q, 2 | q], [q, 1, q | q], [q, q, q]]] }], }, |z| { match [q | t] { t | [[y, y, _ | z], [[], y, 1 | 3]] => , _ => { [[2, 1] | z] != [x, x | "a"], [[_], [x, true], [1, x, 1] | z] != x }, y => , }, [x, 2] == z, t != [1] } }])
+    let x = vars.v[0].clone();
+    proto_vulcan!([conde { [[x == x, [false], match x { h => member(h, [1]), }], [1, 2, 'a'] == x], match x { [[2, 2, h], y, [fresh_name_9 | h] | h] => { matche y { [[t], 'b', z | true] => , h | [] => { [2] == fresh_name_9, y == fresh_name_9 }, [1] | [[_], x] => { [h, h] != y }, } }, }, [[false, 1] != [x, [x, x | x], [x, 1, 3] | 2]] }, closure { ["a"] != x }])
 }
 pub fn case_532(vars: &Vars) -> InferredGoal<DU, DE, Goal<DU, DE>> {
-    let x = vars.v[0].clone();
-    proto_vulcan!([x == [[3, x, 'a'], [_, x]], closure { conde { [_, 2 | x] == x, [append(x, x, []), matche x { [1] => [x == 1, x == [[1, 1, [] | _], [_] | x]], [[3, t]] => [x != [t, 'a', true], append(t, t, [2])], }], match x { 3 | t => { x == [2] }, [[x, _, "a"], [t, t, x], 'a'] => { [x] == x }, [[z, 3]] => [false, z == z], } } }])
+    let q = vars.v[0].clone();
+    let x = vars.v[1].clone();
+    proto_vulcan!([|x| { [x] == [[1, 3, q], ['a', x], q] }, conde { [|t| { append(x, t, [3, 3]) }, [[x, 2, 2 | q] == x]], true }, closure { [conde { 1 == x, |h| { append(x, q, [2]) } }, [[], [1]] == x] }])
 }
 pub fn case_533(vars: &Vars) -> InferredGoal<DU, DE, Goal<DU, DE>> {
-    let x = vars.v[0].clone();
-    proto_vulcan!([x == [[3, x, 'a'], [_, x]], closure { conde { [_, 2 | x] == x, [append(x, x, []), matche x { [1] => [x == 1, x == [[1, 1, [] | _], [_] | x]], [[3, fresh_name_9]] => [x != [fresh_name_9, 'a', true], append(fresh_name_9, fresh_name_9, [2])], }], match x { 3 | t => { x == [2] }, [[x, _, "a"], [t, t, x], 'a'] => { [x] == x }, [[z, 3]] => [false, z == z], } } }])
+    let q = vars.v[0].clone();
+    let x = vars.v[1].clone();
+    proto_vulcan!([|x| { [x] == [[1, 3, q], ['a', x], q] }, conde { [|t| { append(x, t, [3, 3]) }, [[x, 2, 2 | q] == x]], true }, closure { [conde { 1 == x, |fresh_name_9| { append(x, q, [2]) } }, [[], [1]] == x] }])
 }
 pub fn case_534(vars: &Vars) -> InferredGoal<DU, DE, Goal<DU, DE>> {
     let x = vars.v[0].clone();
-    let y = vars.v[1].clone();
-    proto_vulcan!([match y { [["bc", 1, 2]] | [[z, _, 1 | y]] => , }, matche y { _ => { [x != [[x, y, []], [x], x]] }, y => [y != x, |z, x| { false, x == [1, z] }], }])
+    proto_vulcan!([[x, [], _] == x, |t, h| { conde { [[] != t, [1 | h] == x], [false, h == 2] }, t == x, |tz| { [3, 3, 1] != [3 | tz], tz == [3, 1] } }, ['b'] != x])
 }
 pub fn case_535(vars: &Vars) -> InferredGoal<DU, DE, Goal<DU, DE>> {
     let x = vars.v[0].clone();
-    let y = vars.v[1].clone();
-    proto_vulcan!([match y { [["bc", 1, 2]] | [[z, _, 1 | y]] => , }, matche y { _ => { [x != [[x, y, []], [x], x]] }, fresh_name_9 => [fresh_name_9 != x, |z, x| { false, x == [1, z] }], }])
+    proto_vulcan!([[x, [], _] == x, |t, h| { conde { [[] != t, [1 | h] == x], [false, h == 2] }, t == x, |fresh_name_9| { [3, 3, 1] != [3 | fresh_name_9], fresh_name_9 == [3, 1] } }, ['b'] != x])
 }
 pub fn case_536(vars: &Vars) -> InferredGoal<DU, DE, Goal<DU, DE>> {
-    let q = vars.v[0].clone();
-    let x = vars.v[1].clone();
-    proto_vulcan!([|z| { [match x { [[t], [2, _, _], [2, t, h] | 2] => , [_, _, [2, 1, "a" | h] | _] => , }], true }, conde { [[1, 2, q] == q, 1 != x], x == 2, [|t, y| { [] == q, match x { [[z, t, 1], [[]], [false, "bc" | _]] | _ => { true, member(q, [3, 1]) }, [[[], [], _] | _] => , } }, conde { [|h, z| { member(h, []), false }, q == _], [q, 2, q] == q }] }, conde { [append(q, q, [1]), q == [3]], [[2, 2, q] == q, match x { [[2, 3]] => x != [], }] }, closure { [2, x, x | x] == 2 }])
+    let x = vars.v[0].clone();
+    let y = vars.v[1].clone();
+    proto_vulcan!([y != [_, _], conde { [y == [[y], [1] | y], append(x, y, [1, 1])], [match x { [[y, []]] => { [[x, true | x] == x, 2 == x] }, }, match x { [t, true] => , 1 => , }] }])
 }
 pub fn case_537(vars: &Vars) -> InferredGoal<DU, DE, Goal<DU, DE>> {
-    let q = vars.v[0].clone();
-    let x = vars.v[1].clone();
-    proto_vulcan!([|z| { [match x { [[t], [2, _, _], [2, t, h] | 2] => , [_, _, [2, 1, "a" | h] | _] => , }], true }, conde { [[1, 2, q] == q, 1 != x], x == 2, [|t, y| { [] == q, match x { [[z, t, 1], [[]], [false, "bc" | _]] | _ => { true, member(q, [3, 1]) }, [[[], [], _] | _] => , } }, conde { [|fresh_name_9, z| { member(fresh_name_9, []), false }, q == _], [q, 2, q] == q }] }, conde { [append(q, q, [1]), q == [3]], [[2, 2, q] == q, match x { [[2, 3]] => x != [], }] }, closure { [2, x, x | x] == 2 }])
+    let x = vars.v[0].clone();
+    let y = vars.v[1].clone();
+    proto_vulcan!([y != [_, _], conde { [y == [[y], [1] | y], append(x, y, [1, 1])], [match x { [[y, []]] => { [[x, true | x] == x, 2 == x] }, }, match x { [fresh_name_9, true] => , 1 => , }] }])
 }
 pub fn case_538(vars: &Vars) -> InferredGoal<DU, DE, Goal<DU, DE>> {
     let x = vars.v[0].clone();
-    proto_vulcan!([matche x { [t] | [] => [[[x, x, x]] == _, conde { [|h| { true, append(x, x, [3]) }, conde { x == [x, _], [[x, _ | x] == x, x == true] }], [false, x == [x, 2]], [x == 1, matche x { 1 => , h => { member(h, [2]), x == [x] }, }] }], [[_, "bc", []], [x, t]] => , }, x == [x, _, 3 | 1], [_] == x])
+    proto_vulcan!([[1] != [[1, x], [_, 1] | x], match x { [[x, [], y | _], ["bc"], 2 | _] => , _ => , h => { x != h }, }, closure { [matche x { [_] | z => , [] => , [] => , }, conde { [[[], x] == [[x, x, 3], [x, x, 2]], append(x, x, [2, 3])], [matche [x, x, 'b' | x] { [[2, t, _]] => true, 2 => false, }, member(x, [1, 2, 2])], |y| { [y] != x, y == [2, []] } }] }])
 }
 pub fn case_539(vars: &Vars) -> InferredGoal<DU, DE, Goal<DU, DE>> {
     let x = vars.v[0].clone();
-    proto_vulcan!([matche x { [t] | [] => [[[x, x, x]] == _, conde { [|h| { true, append(x, x, [3]) }, conde { x == [x, _], [[x, _ | x] == x, x == true] }], [false, x == [x, 2]], [x == 1, matche x { 1 => , h => { member(h, [2]), x == [x] }, }] }], [[_, "bc", []], [fresh_name_9, t]] => , }, x == [x, _, 3 | 1], [_] == x])
+    proto_vulcan!([[1] != [[1, x], [_, 1] | x], match x { [[x, [], y | _], ["bc"], 2 | _] => , _ => , h => { x != h }, }, closure { [matche x { [_] | z => , [] => , [] => , }, conde { [[[], x] == [[x, x, 3], [x, x, 2]], append(x, x, [2, 3])], [matche [x, x, 'b' | x] { [[2, t, _]] => true, 2 => false, }, member(x, [1, 2, 2])], |fresh_name_9| { [fresh_name_9] != x, fresh_name_9 == [2, []] } }] }])
 }
 pub fn case_540(vars: &Vars) -> InferredGoal<DU, DE, Goal<DU, DE>> {
-    let x = vars.v[0].clone();
-    proto_vulcan!([|h| { h == [[x | "bc"], 2, [_, 1, x]], [false, [[h], 2 | x] == x] }, [conde { [x != [[2, 1], x], _ != [x]], [false, x == x] }], false])
+    let q = vars.v[0].clone();
+    let x = vars.v[1].clone();
+    proto_vulcan!([conde { [|y, z| { [x] != x, z == 1, [1] != z }, |y| { 3 == [_ | x] }], q == _, q != 1 }])
 }
 pub fn case_541(vars: &Vars) -> InferredGoal<DU, DE, Goal<DU, DE>> {
-    let x = vars.v[0].clone();
-    proto_vulcan!([|fresh_name_9| { fresh_name_9 == [[x | "bc"], 2, [_, 1, x]], [false, [[fresh_name_9], 2 | x] == x] }, [conde { [x != [[2, 1], x], _ != [x]], [false, x == x] }], false])
+    let q = vars.v[0].clone();
+    let x = vars.v[1].clone();
+    proto_vulcan!([conde { [|fresh_name_9, z| { [x] != x, z == 1, [1] != z }, |y| { 3 == [_ | x] }], q == _, q != 1 }])
 }
 pub fn case_542(vars: &Vars) -> InferredGoal<DU, DE, Goal<DU, DE>> {
     let x = vars.v[0].clone();
-    proto_vulcan!([conde { [x != [x, [_]], |h, y| { [_, 2 | y] == y }], x != [1], [[x == [[2, 'a', x | x], [[], 1, 1], [x]], x == [[1, []], ["bc", x | x], ['a', x, true | x]]], [false]] }, x != x, closure { x == [x, x, _] }])
+    let y = vars.v[1].clone();
+    proto_vulcan!([false, matche y { [[1, h, _], [1, t, z | _]] | x => { match y { 'b' => , [2, [t, 1], [2, h, 2] | _] => { [h | t] == h, match [[], 'b'] { [_, [y, [] | t]] => [[y] == 2, h == [3, [], y]], [[1, z, _]] => { t != 'b', [z, 3, 2] != h }, "bc" => , } }, }, y != [2 | y] }, y => [[x == [_, 3, y], x != _, [x | 3] == x], |x, y| { [_, _, []] != y }], [['b', z, 1], [3]] => { match z { 1 => { conde { |tz| { [3, 1, 1, 3] != [3, 1 | tz], tz == [1, 3] }, y != [3, _] } }, }, |y| { match y { "bc" => { append(x, x, [2, 2]), member(x, [3, 3]) }, [[t, t, 2], _] | [[y, true, 2], z] => { true }, }, [z == []] } }, }, closure { [x != [x], y == [x]] }])
 }
 pub fn case_543(vars: &Vars) -> InferredGoal<DU, DE, Goal<DU, DE>> {
     let x = vars.v[0].clone();
-    proto_vulcan!([conde { [x != [x, [_]], |fresh_name_9, y| { [_, 2 | y] == y }], x != [1], [[x == [[2, 'a', x | x], [[], 1, 1], [x]], x == [[1, []], ["bc", x | x], ['a', x, true | x]]], [false]] }, x != x, closure { x == [x, x, _] }])
+    let y = vars.v[1].clone();
+    proto_vulcan!([false, matche y { [[1, h, _], [1, t, z | _]] | x => { match y { 'b' => , [2, [t, 1], [2, h, 2] | _] => { [h | t] == h, match [[], 'b'] { [_, [y, [] | t]] => [[y] == 2, h == [3, [], y]], [[1, z, _]] => { t != 'b', [z, 3, 2] != h }, "bc" => , } }, }, y != [2 | y] }, y => [[x == [_, 3, y], x != _, [x | 3] == x], |x, fresh_name_9| { [_, _, []] != fresh_name_9 }], [['b', z, 1], [3]] => { match z { 1 => { conde { |tz| { [3, 1, 1, 3] != [3, 1 | tz], tz == [1, 3] }, y != [3, _] } }, }, |y| { match y { "bc" => { append(x, x, [2, 2]), member(x, [3, 3]) }, [[t, t, 2], _] | [[y, true, 2], z] => { true }, }, [z == []] } }, }, closure { [x != [x], y == [x]] }])
 }
 pub fn case_544(vars: &Vars) -> InferredGoal<DU, DE, Goal<DU, DE>> {
     let q = vars.v[0].clone();
     let x = vars.v[1].clone();
-    proto_vulcan!([match x { [[3, _ | y], x | z] => { conde { z == [1, y, q], [z == [[_, false], [1]], true], [q, y] == x }, [] == x }, true => { x != q, [matche 3 { 2 | [[false, x | t], [true, z, "a" | t], [] | x] => { q == [_, 2, q], append(q, q, []) }, 2 => [true, q != [['a' | q], 2 | 3]], }] }, [3, [x, 2], [2, 1, h | _]] => { q == q }, }, |t| { |h| { conde { [[q, h] != q, 1 == h], [2, [], q | t] == x, [] == [1] }, false, match q { 1 => , } }, x != [[q, _ | x], [_] | t] }, [x] != x])
+    proto_vulcan!([|y| { |h, y| { [['b']] == [[], [y, 1], [x, 1 | x] | 1], [[]] == x }, conde { [x != q, conde { [true, [_] == y], _ == x, member(q, [2, 1]) }], q == x, [|t, x| { [[x, q, _], [x, t | t]] == x, t == [1, [], t] }, q == [1, x | q]] } }, [x] != x, match q { x => , h => , [[2, y]] => , }])
 }
 pub fn case_545(vars: &Vars) -> InferredGoal<DU, DE, Goal<DU, DE>> {
     let q = vars.v[0].clone();
     let x = vars.v[1].clone();
-    proto_vulcan!([match x { [[3, _ | fresh_name_9], x | z] => { conde { z == [1, fresh_name_9, q], [z == [[_, false], [1]], true], [q, fresh_name_9] == x }, [] == x }, true => { x != q, [matche 3 { 2 | [[false, x | t], [true, z, "a" | t], [] | x] => { q == [_, 2, q], append(q, q, []) }, 2 => [true, q != [['a' | q], 2 | 3]], }] }, [3, [x, 2], [2, 1, h | _]] => { q == q }, }, |t| { |h| { conde { [[q, h] != q, 1 == h], [2, [], q | t] == x, [] == [1] }, false, match q { 1 => , } }, x != [[q, _ | x], [_] | t] }, [x] != x])
+    proto_vulcan!([|y| { |h, y| { [['b']] == [[], [y, 1], [x, 1 | x] | 1], [[]] == x }, conde { [x != q, conde { [true, [_] == y], _ == x, member(q, [2, 1]) }], q == x, [|t, x| { [[x, q, _], [x, t | t]] == x, t == [1, [], t] }, q == [1, x | q]] } }, [x] != x, match q { x => , fresh_name_9 => , [[2, y]] => , }])
 }
 pub fn case_546(vars: &Vars) -> InferredGoal<DU, DE, Goal<DU, DE>> {
-    let q = vars.v[0].clone();
-    let x = vars.v[1].clone();
-    proto_vulcan!([append(q, q, [1]), _ == [], matche x { [2, [true, "a", "a"] | x] | ["a", [h | z]] => { _ == [q, q, 'b' | q], false }, z => , }, closure { q != 2 }])
+    let x = vars.v[0].clone();
+    proto_vulcan!([|y| { [[y, _ | 'b'] | 3] != [2, [] | y], [|t| { true }], [conde { [false, append(x, y, [])], x == 'b' }] }, match x { [[t, 2], [t, t]] => [3 == t, false], [[_], [1, 1, 'b']] => |h, x| { x != h }, }, |h| { [1, _, x] == h }, closure { [[true], [[x, 2, x | x], [_, x | x]] == x] }])
 }
 pub fn case_547(vars: &Vars) -> InferredGoal<DU, DE, Goal<DU, DE>> {
-    let q = vars.v[0].clone();
-    let x = vars.v[1].clone();
-    proto_vulcan!([append(q, q, [1]), _ == [], matche x { [2, [true, "a", "a"] | x] | ["a", [h | z]] => { _ == [q, q, 'b' | q], false }, fresh_name_9 => , }, closure { q != 2 }])
+    let x = vars.v[0].clone();
+    proto_vulcan!([|y| { [[y, _ | 'b'] | 3] != [2, [] | y], [|t| { true }], [conde { [false, append(x, y, [])], x == 'b' }] }, match x { [[t, 2], [t, t]] => [3 == t, false], [[_], [1, 1, 'b']] => |h, fresh_name_9| { fresh_name_9 != h }, }, |h| { [1, _, x] == h }, closure { [[true], [[x, 2, x | x], [_, x | x]] == x] }])
 }
 pub fn case_548(vars: &Vars) -> InferredGoal<DU, DE, Goal<DU, DE>> {
-    let x = vars.v[0].clone();
-    let y = vars.v[1].clone();
-    proto_vulcan!([match y { [[1]] | h => { conde { false, |t| { x == 2, t == [1 | x] }, [[y == [1 | 2], [[x, y], [3 | x] | y] != 1, 1 == ["a", 1]], conde { [false, [y, [1], [3, "bc", y]] == [[_ | 1], [1, _ | y], _ | x]], y == x, x == x }] }, [1] != [1, y, 2] }, [[_ | t], [h, y, 1], [z, h] | h] => { member(x, [3, 2]) }, }])
+    let q = vars.v[0].clone();
+    let x = vars.v[1].clone();
+    proto_vulcan!([q != 1, |x| { |h| { x == 3 }, x == [q, 1] }, x == 1, closure { [[2 == q, member(x, []), [x] == q]] }])
 }
 pub fn case_549(vars: &Vars) -> InferredGoal<DU, DE, Goal<DU, DE>> {
-    let x = vars.v[0].clone();
-    let y = vars.v[1].clone();
-    proto_vulcan!([match y { [[1]] | h => { conde { false, |t| { x == 2, t == [1 | x] }, [[y == [1 | 2], [[x, y], [3 | x] | y] != 1, 1 == ["a", 1]], conde { [false, [y, [1], [3, "bc", y]] == [[_ | 1], [1, _ | y], _ | x]], y == x, x == x }] }, [1] != [1, y, 2] }, [[_ | fresh_name_9], [h, y, 1], [z, h] | h] => { member(x, [3, 2]) }, }])
+    let q = vars.v[0].clone();
+    let x = vars.v[1].clone();
+    proto_vulcan!([q != 1, |fresh_name_9| { |h| { fresh_name_9 == 3 }, fresh_name_9 == [q, 1] }, x == 1, closure { [[2 == q, member(x, []), [x] == q]] }])
 }
 pub fn case_550(vars: &Vars) -> InferredGoal<DU, DE, Goal<DU, DE>> {
     let x = vars.v[0].clone();
-    let y = vars.v[1].clone();
-    proto_vulcan!([conde { [x, x, 2 | "a"] == x, x == y, [[matche x { [[y, true, x], [z], 'b'] => { member(x, [1, 3]) }, }, x == _, y == [1 | x]], append(y, x, [1, 3])] }, 1 != [1], x != y, closure { |y| { matche x { [h] => [y != 1, [_, 3 | y] != h], y | [[3] | y] => , }, match x { t => { member(x, []), _ == t }, } } }])
+    proto_vulcan!([x == x, closure { [[2] == x, |t| { [] != t }] }])
 }
 pub fn case_551(vars: &Vars) -> InferredGoal<DU, DE, Goal<DU, DE>> {
     let x = vars.v[0].clone();
-    let y = vars.v[1].clone();
-    proto_vulcan!([conde { [x, x, 2 | "a"] == x, x == y, [[matche x { [[y, true, x], [z], 'b'] => { member(x, [1, 3]) }, }, x == _, y == [1 | x]], append(y, x, [1, 3])] }, 1 != [1], x != y, closure { |y| { matche x { [fresh_name_9] => [y != 1, [_, 3 | y] != fresh_name_9], y | [[3] | y] => , }, match x { t => { member(x, []), _ == t }, } } }])
+    proto_vulcan!([x == x, closure { [[2] == x, |fresh_name_9| { [] != fresh_name_9 }] }])
 }
 pub fn case_552(vars: &Vars) -> InferredGoal<DU, DE, Goal<DU, DE>> {
     let x = vars.v[0].clone();
     let y = vars.v[1].clone();
-    proto_vulcan!([[conde { match x { _ => true == y, }, [[2 | y] == y, [_ | y] == y], [y] == [] }, y == [['b', y | x], 2, [[], y, 2] | 2], conde { |y| { [[]] == y, x == [[1, y], [[]], 1], y == 3 }, y != x }], |z| { conde { x == x, [|z| { x != [], false }, match z { [[[], t, _]] => member(y, []), }], [false, z == [1 | z]] }, y != y, x == x }, matche y { [3] => [[true, [[2] == y, false]], match [[] | x] { [[[], [], _], [2 | 1], 1 | _] => { [[1 | x]] == [x, 'b', y | x] }, }], [[y]] => conde { x == x, |h| { x == 1 } }, }, closure { matche x { [y | _] => matche y { [h, [h] | h] => [y != y, y == y], }, true | [[], 3 | _] => , } }])
+    proto_vulcan!([match y { [["bc", 1, 2]] | [[z, _, 1 | y]] => , }, matche y { _ => { [[true | y] == y] }, [y, [2], y] => { [3] == y, |t| { x == [t, false, 1], match y { y => , [[[], 1, _]] => { t == [['b', 2 | 1]] }, }, 2 != y } }, }])
 }
 pub fn case_553(vars: &Vars) -> InferredGoal<DU, DE, Goal<DU, DE>> {
     let x = vars.v[0].clone();
     let y = vars.v[1].clone();
-    proto_vulcan!([[conde { match x { _ => true == y, }, [[2 | y] == y, [_ | y] == y], [y] == [] }, y == [['b', y | x], 2, [[], y, 2] | 2], conde { |y| { [[]] == y, x == [[1, y], [[]], 1], y == 3 }, y != x }], |z| { conde { x == x, [|z| { x != [], false }, match z { [[[], t, _]] => member(y, []), }], [false, z == [1 | z]] }, y != y, x == x }, matche y { [3] => [[true, [[2] == y, false]], match [[] | x] { [[[], [], _], [2 | 1], 1 | _] => { [[1 | x]] == [x, 'b', y | x] }, }], [[fresh_name_9]] => conde { x == x, |h| { x == 1 } }, }, closure { matche x { [y | _] => matche y { [h, [h] | h] => [y != y, y == y], }, true | [[], 3 | _] => , } }])
+    proto_vulcan!([match y { [["bc", 1, 2]] | [[z, _, 1 | y]] => , }, matche y { _ => { [[true | y] == y] }, [fresh_name_9, [2], fresh_name_9] => { [3] == fresh_name_9, |t| { x == [t, false, 1], match fresh_name_9 { y => , [[[], 1, _]] => { t == [['b', 2 | 1]] }, }, 2 != fresh_name_9 } }, }])
 }
 pub fn case_554(vars: &Vars) -> InferredGoal<DU, DE, Goal<DU, DE>> {
-    let x = vars.v[0].clone();
-    let y = vars.v[1].clone();
-    proto_vulcan!([x == [x, x, [x, 'a', x | y]], conde { [[x, [], 2 | y] != y, [x != y]], [y] != y, [true, conde { match x { ["bc", [2, "bc"]] => { [_] == x }, [[z, false, 3 | z], 1] => , [1, [[], 'b', 1 | y]] => { [[2, x]] == [x] }, }, [[y == [2, _, y], x == [[2, 3], y]], y != [[y], [y, "bc", y]]], [match [[]] { 2 => , }, [y != y, x == x, x == "a"]] }] }, [[] | x] == [[[], _, y], ["bc", false, 3], x]])
+    let q = vars.v[0].clone();
+    let x = vars.v[1].clone();
+    proto_vulcan!([|z| { [match x { [[t], [2, _, _], [2, t, h] | 2] => , [_, _, [2, 1, "a" | h] | _] => , }], true }, conde { [q == [[q, q], [3 | q], [[], q, x | "a"]], match q { [h, _] => { |t, y| { [h, y, 1] != t, t == h } }, }], true, [1 == 2, x == 2] }, x == [false, q, x], closure { |y| { matche y { _ => |tz| { [2, 2, 3, 2] != [2, 2 | tz], tz == [3, 2] }, [[x, t]] => , [t, [2 | x]] => { |tz| { [3, 1, 3] != [3 | tz], tz == [1, 3] }, 2 == q }, }, [[[2, q], [q, 3, y | y]] != q, |tz| { tz == [3], [3, 3 | tz] != [3, 3, 3] }], x == x } }])
 }
 pub fn case_555(vars: &Vars) -> InferredGoal<DU, DE, Goal<DU, DE>> {
-    let x = vars.v[0].clone();
-    let y = vars.v[1].clone();
-    proto_vulcan!([x == [x, x, [x, 'a', x | y]], conde { [[x, [], 2 | y] != y, [x != y]], [y] != y, [true, conde { match x { ["bc", [2, "bc"]] => { [_] == x }, [[z, false, 3 | z], 1] => , [1, [[], 'b', 1 | fresh_name_9]] => { [[2, x]] == [x] }, }, [[y == [2, _, y], x == [[2, 3], y]], y != [[y], [y, "bc", y]]], [match [[]] { 2 => , }, [y != y, x == x, x == "a"]] }] }, [[] | x] == [[[], _, y], ["bc", false, 3], x]])
+    let q = vars.v[0].clone();
+    let x = vars.v[1].clone();
+    proto_vulcan!([|fresh_name_9| { [match x { [[t], [2, _, _], [2, t, h] | 2] => , [_, _, [2, 1, "a" | h] | _] => , }], true }, conde { [q == [[q, q], [3 | q], [[], q, x | "a"]], match q { [h, _] => { |t, y| { [h, y, 1] != t, t == h } }, }], true, [1 == 2, x == 2] }, x == [false, q, x], closure { |y| { matche y { _ => |tz| { [2, 2, 3, 2] != [2, 2 | tz], tz == [3, 2] }, [[x, t]] => , [t, [2 | x]] => { |tz| { [3, 1, 3] != [3 | tz], tz == [1, 3] }, 2 == q }, }, [[[2, q], [q, 3, y | y]] != q, |tz| { tz == [3], [3, 3 | tz] != [3, 3, 3] }], x == x } }])
 }
 pub fn case_556(vars: &Vars) -> InferredGoal<DU, DE, Goal<DU, DE>> {
-    let q = vars.v[0].clone();
-    let x = vars.v[1].clone();
-    proto_vulcan!([[_, "bc"] == q, match q { [[1 | _], [2, 3]] | [[h, 2], x] => [_ == q, q == q], 1 => { q != [] }, }, |t| { t == [q, [], q], |h| { [3, _] == [['a'], [x]], q != [], [t == [x]] } }])
+    let x = vars.v[0].clone();
+    let y = vars.v[1].clone();
+    proto_vulcan!([[1, 1] != x, matche x { [[z, false, 1 | t], [y, h, 1]] => { |t, y| { |x, h| { [["bc", 2, []], [3], [1, y]] == t, h == [2, h, 2], _ == [x | y] }, append(x, x, [1]) } }, }])
 }
 pub fn case_557(vars: &Vars) -> InferredGoal<DU, DE, Goal<DU, DE>> {
-    let q = vars.v[0].clone();
-    let x = vars.v[1].clone();
-    proto_vulcan!([[_, "bc"] == q, match q { [[1 | _], [2, 3]] | [[h, 2], x] => [_ == q, q == q], 1 => { q != [] }, }, |fresh_name_9| { fresh_name_9 == [q, [], q], |h| { [3, _] == [['a'], [x]], q != [], [fresh_name_9 == [x]] } }])
+    let x = vars.v[0].clone();
+    let y = vars.v[1].clone();
+    proto_vulcan!([[1, 1] != x, matche x { [[z, false, 1 | t], [y, h, 1]] => { |t, fresh_name_9| { |x, h| { [["bc", 2, []], [3], [1, fresh_name_9]] == t, h == [2, h, 2], _ == [x | fresh_name_9] }, append(x, x, [1]) } }, }])
 }
 pub fn case_558(vars: &Vars) -> InferredGoal<DU, DE, Goal<DU, DE>> {
     let x = vars.v[0].clone();
-    let y = vars.v[1].clone();
-    proto_vulcan!([conde { [|y| { |y| { member(y, [1, 3, 1]), y == [y] }, x == [y] }, true], [[[2, "bc", 1], x] == y, [[], 'a' | x] == y] }, matche y { [] | [3] => y == [x, x, y], }, conde { [|t, h| { _ == [1, _, y], match y { [1] | [x, [z, 2], [2 | _]] => , [] | 3 => , }, |t| { y == [t, x] } }, y == 3], matche x { "bc" => { matche x { 'b' | [2] => , [[2, t], [3] | _] => , [1 | _] => y == [3, y | x], }, conde { [false, member(x, [])], member(y, []) } }, h => { [[y, [], 2 | x] == 1, append(h, h, [1])] }, }, [[1, y | x] == y, |y| { match y { 1 => , [2, _] => , } }] }])
+    proto_vulcan!([matche x { [t] | [] => { 3 == [[], x], true }, [[z], [t, h]] => { t != x }, }, [match x { y | [1] => , true | true => { x == ['b', x, x | x] }, }, [[]] != x], match x { [[1, z | h], [_ | t], y | _] => , }])
 }
 pub fn case_559(vars: &Vars) -> InferredGoal<DU, DE, Goal<DU, DE>> {
     let x = vars.v[0].clone();
-    let y = vars.v[1].clone();
-    proto_vulcan!([conde { [|fresh_name_9| { |y| { member(y, [1, 3, 1]), y == [y] }, x == [fresh_name_9] }, true], [[[2, "bc", 1], x] == y, [[], 'a' | x] == y] }, matche y { [] | [3] => y == [x, x, y], }, conde { [|t, h| { _ == [1, _, y], match y { [1] | [x, [z, 2], [2 | _]] => , [] | 3 => , }, |t| { y == [t, x] } }, y == 3], matche x { "bc" => { matche x { 'b' | [2] => , [[2, t], [3] | _] => , [1 | _] => y == [3, y | x], }, conde { [false, member(x, [])], member(y, []) } }, h => { [[y, [], 2 | x] == 1, append(h, h, [1])] }, }, [[1, y | x] == y, |y| { match y { 1 => , [2, _] => , } }] }])
+    proto_vulcan!([matche x { [t] | [] => { 3 == [[], x], true }, [[z], [t, h]] => { t != x }, }, [match x { y | [1] => , true | true => { x == ['b', x, x | x] }, }, [[]] != x], match x { [[1, z | h], [_ | fresh_name_9], y | _] => , }])
 }
 pub fn case_560(vars: &Vars) -> InferredGoal<DU, DE, Goal<DU, DE>> {
-    let q = vars.v[0].clone();
-    let x = vars.v[1].clone();
-    proto_vulcan!([[|x| { |x| { 2 == x } }, |y, x| { y == [[x | x] | y], q == [1 | q], y == _ }]])
+    let x = vars.v[0].clone();
+    proto_vulcan!([|h| { [false, 2, 3] != [x, false, [h, 2, []] | x], [h, 2 | x] == h }, [conde { [[2, [true, x, x]] != [x, x, 3 | 3], [_, x, true | x] != x], x == [[], x, 3] }], x == ['b']])
 }
 pub fn case_561(vars: &Vars) -> InferredGoal<DU, DE, Goal<DU, DE>> {
-    let q = vars.v[0].clone();
-    let x = vars.v[1].clone();
-    proto_vulcan!([[|x| { |fresh_name_9| { 2 == fresh_name_9 } }, |y, x| { y == [[x | x] | y], q == [1 | q], y == _ }]])
+    let x = vars.v[0].clone();
+    proto_vulcan!([|fresh_name_9| { [false, 2, 3] != [x, false, [fresh_name_9, 2, []] | x], [fresh_name_9, 2 | x] == fresh_name_9 }, [conde { [[2, [true, x, x]] != [x, x, 3 | 3], [_, x, true | x] != x], x == [[], x, 3] }], x == ['b']])
 }
 pub fn case_562(vars: &Vars) -> InferredGoal<DU, DE, Goal<DU, DE>> {
-    let q = vars.v[0].clone();
-    let x = vars.v[1].clone();
-    proto_vulcan!([match x { 3 => , }, closure { [|z, y| { [[2, q, 3], [[]], x | 3] != ["a"], y == [3] }, q == x] }])
+    let x = vars.v[0].clone();
+    proto_vulcan!([conde { [[x, 1] == [x, [[], _, x]], x == [x, 1]], |tz| { [1, 3, 1] != [1, 3 | tz], tz == [1] }, [|x| { 'a' != x, x == [[x | x]] }, true] }, match ['b', x, true] { [y] => [match y { "a" => , [h, [h | 2] | y] => { 1 == [x] }, }, |t| { matche ["bc", t, t] { [[y, 2], 1 | h] => , [1, 1] => { x == t }, 2 | [[], z] => , }, [t == [[3, [], 2], [x, t | y]], [x, t, y | x] != y], member(t, []) }], [[3, t, _], [h, 3 | _]] | 1 => [3 != x, |tz| { tz == [3], [1, 3] != [1 | tz] }], y => , }, closure { x != 2 }])
 }
 pub fn case_563(vars: &Vars) -> InferredGoal<DU, DE, Goal<DU, DE>> {
-    let q = vars.v[0].clone();
-    let x = vars.v[1].clone();
-    proto_vulcan!([match x { 3 => , }, closure { [|fresh_name_9, y| { [[2, q, 3], [[]], x | 3] != ["a"], y == [3] }, q == x] }])
+    let x = vars.v[0].clone();
+    proto_vulcan!([conde { [[x, 1] == [x, [[], _, x]], x == [x, 1]], |tz| { [1, 3, 1] != [1, 3 | tz], tz == [1] }, [|x| { 'a' != x, x == [[x | x]] }, true] }, match ['b', x, true] { [y] => [match y { "a" => , [h, [h | 2] | y] => { 1 == [x] }, }, |t| { matche ["bc", t, t] { [[y, 2], 1 | fresh_name_9] => , [1, 1] => { x == t }, 2 | [[], z] => , }, [t == [[3, [], 2], [x, t | y]], [x, t, y | x] != y], member(t, []) }], [[3, t, _], [h, 3 | _]] | 1 => [3 != x, |tz| { tz == [3], [1, 3] != [1 | tz] }], y => , }, closure { x != 2 }])
 }
 pub fn case_564(vars: &Vars) -> InferredGoal<DU, DE, Goal<DU, DE>> {
-    let x = vars.v[0].clone();
-    let y = vars.v[1].clone();
-    proto_vulcan!([conde { y != [[y, 3, [] | _], [y, x | x] | y], [matche x { [[t | _], 2, _] => { false, member(t, [3]) }, _ => { member(y, [2]) }, }, true, append(y, y, [3, 3])], x == [1, y] }])
+    let q = vars.v[0].clone();
+    let x = vars.v[1].clone();
+    proto_vulcan!([match x { [[3, _ | y], x | z] => [conde { q == [y | y], [[x, false] == q, [x != [y, x, z | y], |tz| { tz == [1], [1 | tz] != [1, 1] }, [3] != x]], |z| { append(x, x, []), false } }, [q, [], x] == q], [[t], true | h] => [[] == x, _ == q], [[y | y], 3] => [[match x { [[[], t], 1 | t] => , }, conde { x != x, [|tz| { tz == [1, 3], [1 | tz] != [1, 1, 3] }, x != x] }], y != 'a'], }, matche [_] { [[t, t | _]] => [x == 3, [[x, 1, 2 | 2] == t]], [t, 1, 2] | [[3], [_ | z] | 1] => , }, q == [[q], _, q | q]])
 }
 pub fn case_565(vars: &Vars) -> InferredGoal<DU, DE, Goal<DU, DE>> {
-    let x = vars.v[0].clone();
-    let y = vars.v[1].clone();
-    proto_vulcan!([conde { y != [[y, 3, [] | _], [y, x | x] | y], [matche x { [[fresh_name_9 | _], 2, _] => { false, member(fresh_name_9, [3]) }, _ => { member(y, [2]) }, }, true, append(y, y, [3, 3])], x == [1, y] }])
+    let q = vars.v[0].clone();
+    let x = vars.v[1].clone();
+    proto_vulcan!([match x { [[3, _ | y], fresh_name_9 | z] => [conde { q == [y | y], [[fresh_name_9, false] == q, [fresh_name_9 != [y, fresh_name_9, z | y], |tz| { tz == [1], [1 | tz] != [1, 1] }, [3] != fresh_name_9]], |z| { append(fresh_name_9, fresh_name_9, []), false } }, [q, [], fresh_name_9] == q], [[t], true | h] => [[] == x, _ == q], [[y | y], 3] => [[match x { [[[], t], 1 | t] => , }, conde { x != x, [|tz| { tz == [1, 3], [1 | tz] != [1, 1, 3] }, x != x] }], y != 'a'], }, matche [_] { [[t, t | _]] => [x == 3, [[x, 1, 2 | 2] == t]], [t, 1, 2] | [[3], [_ | z] | 1] => , }, q == [[q], _, q | q]])
 }
 pub fn case_566(vars: &Vars) -> InferredGoal<DU, DE, Goal<DU, DE>> {
     let x = vars.v[0].clone();
-    proto_vulcan!([|t| { matche t { y | 2 => |h| { h == [t, 3] }, }, [[t, t]] == x, [false | t] == x }, [2 | x] == [[[], x], [3, 1 | x], true]])
+    let y = vars.v[1].clone();
+    proto_vulcan!([match y { [[1]] | h => { conde { false, |t| { x == _, t == [1, _ | x] }, [[[[_ | 2], [[]], [[], _]] != [1, 3, y], [3] == y, [1, x] != x], false] }, 1 != y }, "bc" => , }])
 }
 pub fn case_567(vars: &Vars) -> InferredGoal<DU, DE, Goal<DU, DE>> {
     let x = vars.v[0].clone();
-    proto_vulcan!([|fresh_name_9| { matche fresh_name_9 { y | 2 => |h| { h == [fresh_name_9, 3] }, }, [[fresh_name_9, fresh_name_9]] == x, [false | fresh_name_9] == x }, [2 | x] == [[[], x], [3, 1 | x], true]])
+    let y = vars.v[1].clone();
+    proto_vulcan!([match y { [[1]] | h => { conde { false, |fresh_name_9| { x == _, fresh_name_9 == [1, _ | x] }, [[[[_ | 2], [[]], [[], _]] != [1, 3, y], [3] == y, [1, x] != x], false] }, 1 != y }, "bc" => , }])
 }
 pub fn case_568(vars: &Vars) -> InferredGoal<DU, DE, Goal<DU, DE>> {
-    let q = vars.v[0].clone();
-    let x = vars.v[1].clone();
-    proto_vulcan!([|z| { true, match q { [] => , 1 => [2 != x, x != [[[], z]]], [[x, 2 | y] | h] => [2 == z, y == [[2, _ | y], [1, 2 | x], [3, z, 1 | _]]], }, [2, x, []] == 'a' }, match q { [[1, []], true, 3 | y] => match x { [_] | y => [x != q, x == 3], z => , }, [1 | h] => { 2 == h, false }, }, match q { 3 => , [t, ["bc" | z], [y]] => { match z { [x, [2, []] | h] | 2 => [[t, [t, _ | y], [t]] == z, match t { [h, [_], [t, h, x | z] | x] => { [[1 | t], z] == z, append(t, h, [1, 3]) }, 2 => true, }], } }, }, closure { [|z| { [z] == q }, [matche [_, x, []] { z => { q == x, 3 == q }, t => , [[y, y, 3], 3] => x == 2, }, q == [x, 3, [x, q, x | q]]]] }])
+    let x = vars.v[0].clone();
+    let y = vars.v[1].clone();
+    proto_vulcan!([x != [y, y], closure { [y == [y, x, _], match y { z | [[h | h], [y, [], t | _], 2 | _] => matche x { _ => x == [x, x, x | x], [t, [3, []], ['a']] => { [1, [t, 3, _] | t] == t }, [[2, x], 2] | [t | x] => , }, 1 | h => , [['a' | _], t, [x, 'a', t]] => [y != [1, 2, 'a'], |z| { x != [3 | x] }], }] }])
 }
 pub fn case_569(vars: &Vars) -> InferredGoal<DU, DE, Goal<DU, DE>> {
-    let q = vars.v[0].clone();
-    let x = vars.v[1].clone();
-    proto_vulcan!([|z| { true, match q { [] => , 1 => [2 != x, x != [[[], z]]], [[x, 2 | y] | h] => [2 == z, y == [[2, _ | y], [1, 2 | x], [3, z, 1 | _]]], }, [2, x, []] == 'a' }, match q { [[1, []], true, 3 | y] => match x { [_] | y => [x != q, x == 3], fresh_name_9 => , }, [1 | h] => { 2 == h, false }, }, match q { 3 => , [t, ["bc" | z], [y]] => { match z { [x, [2, []] | h] | 2 => [[t, [t, _ | y], [t]] == z, match t { [h, [_], [t, h, x | z] | x] => { [[1 | t], z] == z, append(t, h, [1, 3]) }, 2 => true, }], } }, }, closure { [|z| { [z] == q }, [matche [_, x, []] { z => { q == x, 3 == q }, t => , [[y, y, 3], 3] => x == 2, }, q == [x, 3, [x, q, x | q]]]] }])
+    let x = vars.v[0].clone();
+    let y = vars.v[1].clone();
+    proto_vulcan!([x != [y, y], closure { [y == [y, x, _], match y { z | [[h | h], [y, [], t | _], 2 | _] => matche x { _ => x == [x, x, x | x], [t, [3, []], ['a']] => { [1, [t, 3, _] | t] == t }, [[2, x], 2] | [t | x] => , }, 1 | h => , [['a' | _], t, [x, 'a', t]] => [y != [1, 2, 'a'], |fresh_name_9| { x != [3 | x] }], }] }])
 }
 pub fn case_570(vars: &Vars) -> InferredGoal<DU, DE, Goal<DU, DE>> {
     let x = vars.v[0].clone();
     let y = vars.v[1].clone();
-    proto_vulcan!([matche [2 | x] { [[x, 2 | y], [1]] => , 3 | [1, [t | y], [_, _]] => { matche x { y => [|x, y| { _ == x, 1 == x, y == [[2, y, _], [3, 3, false], y] }, [[3, y, x] | x] == y], y | [[y], [y, true, 1]] => [[x == []], [x == y, x == [y, 2, []]]], } }, [[], [1, h, 1]] | false => [x == 2, [2 == y]], }, conde { y != [x, 1], [|t| { t == x }, |z| { false, y == [] }], |h| { matche x { [[_, 1], 2 | 'a'] | h => , [[_], [3, 3], 3 | z] => , [[z, 1, 2], 1 | _] => [2] == x, } } }, |z| { matche z { [[y, z | y], _, _ | "bc"] => , y | h => [matche x { [] => [[[1], [x, [], 2 | z]] == [x, false], z == x], [[[], z], [x], [h | h]] => member(z, [3]), x => { false }, }, false], "a" => { z != y }, }, y != true, member(x, [1]) }])
+    proto_vulcan!([conde { x == x, |h| { h == [[y, y, h | h], [x, _, "a"], _], [h == 'b', member(h, [1, 3]), [_, "bc", [] | x] == y], |z| { true, |tz| { [1, 2 | tz] != [1, 2, 1, 3], tz == [1, 3] }, x != [1] } }, [conde { [y == 'a', matche y { [h] => { x == [h, 2 | y], [y] == x }, h => , }], [_ == x, append(x, x, [])] }, 2 == [x, x, false]] }, [y] != x, conde { match y { [z, [2], 1] => { [y == x, [[]] == 3, append(y, x, [2, 1])], conde { [y == y, [2, y, z] == z], y == _ } }, ['b', h, z] => { [2] == [[_, 1], [y, 3]] }, }, [[y, x] == y, |tz| { [1, 1, 2] != [1, 1 | tz], tz == [2] }] }])
 }
 pub fn case_571(vars: &Vars) -> InferredGoal<DU, DE, Goal<DU, DE>> {
     let x = vars.v[0].clone();
     let y = vars.v[1].clone();
-    proto_vulcan!([matche [2 | x] { [[x, 2 | y], [1]] => , 3 | [1, [t | y], [_, _]] => { matche x { y => [|x, y| { _ == x, 1 == x, y == [[2, y, _], [3, 3, false], y] }, [[3, y, x] | x] == y], y | [[y], [y, true, 1]] => [[x == []], [x == y, x == [y, 2, []]]], } }, [[], [1, h, 1]] | false => [x == 2, [2 == y]], }, conde { y != [x, 1], [|t| { t == x }, |fresh_name_9| { false, y == [] }], |h| { matche x { [[_, 1], 2 | 'a'] | h => , [[_], [3, 3], 3 | z] => , [[z, 1, 2], 1 | _] => [2] == x, } } }, |z| { matche z { [[y, z | y], _, _ | "bc"] => , y | h => [matche x { [] => [[[1], [x, [], 2 | z]] == [x, false], z == x], [[[], z], [x], [h | h]] => member(z, [3]), x => { false }, }, false], "a" => { z != y }, }, y != true, member(x, [1]) }])
+    proto_vulcan!([conde { x == x, |h| { h == [[y, y, h | h], [x, _, "a"], _], [h == 'b', member(h, [1, 3]), [_, "bc", [] | x] == y], |z| { true, |tz| { [1, 2 | tz] != [1, 2, 1, 3], tz == [1, 3] }, x != [1] } }, [conde { [y == 'a', matche y { [h] => { x == [h, 2 | y], [y] == x }, h => , }], [_ == x, append(x, x, [])] }, 2 == [x, x, false]] }, [y] != x, conde { match y { [z, [2], 1] => { [y == x, [[]] == 3, append(y, x, [2, 1])], conde { [y == y, [2, y, z] == z], y == _ } }, ['b', h, z] => { [2] == [[_, 1], [y, 3]] }, }, [[y, x] == y, |fresh_name_9| { [1, 1, 2] != [1, 1 | fresh_name_9], fresh_name_9 == [2] }] }])
 }
 pub fn case_572(vars: &Vars) -> InferredGoal<DU, DE, Goal<DU, DE>> {
     let x = vars.v[0].clone();
-    proto_vulcan!([false, conde { [conde { [match x { [['a'], ['a', _]] => , }, ["a", [2] | x] == x], [[1, 3, 1] != x, [x != false, x == ['b', 1 | x], member(x, [2])]] }, [2] == x], match x { [[_, z]] | [[h, 2, 1]] => { match [x, x | x] { 1 => false, x => , [[false]] => { x != x, _ == x }, } }, [[3 | _], [2], [[], 3 | 1] | t] => { |h, z| { [h, t, []] == t }, |z, y| { append(z, x, [3]), z != y, 'b' == z } }, 1 => , } }])
+    let y = vars.v[1].clone();
+    proto_vulcan!([[conde { match x { _ => [[y | y], [y], [2, 1, y]] == [x, _, "a" | y], }, [y == y, y != x], [match 2 { [] => , }, |h, x| { 3 == [] }] }, |t| { [[[y, y, x], [t, t], [t]] != [y, [2, 1, t], [[]]], [t] == [[[]], [1] | t]], 'a' != 1, |tz| { [2, 1, 3] != [2, 1 | tz], tz == [3] } }, [false, conde { [y != y, [3, 3, 2] == x], [[y, 1] == x, y == [1, y]], y == x }, match [[] | x] { [[[], [], _], [2 | 1], 1 | _] => { append(x, y, []) }, }]], y != [x, x], y == 1, closure { append(y, x, []) }])
 }
 pub fn case_573(vars: &Vars) -> InferredGoal<DU, DE, Goal<DU, DE>> {
     let x = vars.v[0].clone();
-    proto_vulcan!([false, conde { [conde { [match x { [['a'], ['a', _]] => , }, ["a", [2] | x] == x], [[1, 3, 1] != x, [x != false, x == ['b', 1 | x], member(x, [2])]] }, [2] == x], match x { [[_, z]] | [[h, 2, 1]] => { match [x, x | x] { 1 => false, x => , [[false]] => { x != x, _ == x }, } }, [[3 | _], [2], [[], 3 | 1] | t] => { |h, z| { [h, t, []] == t }, |fresh_name_9, y| { append(fresh_name_9, x, [3]), fresh_name_9 != y, 'b' == fresh_name_9 } }, 1 => , } }])
+    let y = vars.v[1].clone();
+    proto_vulcan!([[conde { match x { _ => [[y | y], [y], [2, 1, y]] == [x, _, "a" | y], }, [y == y, y != x], [match 2 { [] => , }, |h, fresh_name_9| { 3 == [] }] }, |t| { [[[y, y, x], [t, t], [t]] != [y, [2, 1, t], [[]]], [t] == [[[]], [1] | t]], 'a' != 1, |tz| { [2, 1, 3] != [2, 1 | tz], tz == [3] } }, [false, conde { [y != y, [3, 3, 2] == x], [[y, 1] == x, y == [1, y]], y == x }, match [[] | x] { [[[], [], _], [2 | 1], 1 | _] => { append(x, y, []) }, }]], y != [x, x], y == 1, closure { append(y, x, []) }])
 }
 pub fn case_574(vars: &Vars) -> InferredGoal<DU, DE, Goal<DU, DE>> {
-    let q = vars.v[0].clone();
-    let x = vars.v[1].clone();
-    proto_vulcan!([2 == q, closure { [q == [[], x, x], |t| { x == [_, x, []] }] }])
+    let x = vars.v[0].clone();
+    let y = vars.v[1].clone();
+    proto_vulcan!([y == x, [_, x | y] == y, |tz| { [2, 2, 3] != [2, 2 | tz], tz == [3] }])
 }
 pub fn case_575(vars: &Vars) -> InferredGoal<DU, DE, Goal<DU, DE>> {
-    let q = vars.v[0].clone();
-    let x = vars.v[1].clone();
-    proto_vulcan!([2 == q, closure { [q == [[], x, x], |fresh_name_9| { x == [_, x, []] }] }])
+    let x = vars.v[0].clone();
+    let y = vars.v[1].clone();
+    proto_vulcan!([y == x, [_, x | y] == y, |fresh_name_9| { [2, 2, 3] != [2, 2 | fresh_name_9], fresh_name_9 == [3] }])
 }
 pub fn case_576(vars: &Vars) -> InferredGoal<DU, DE, Goal<DU, DE>> {
     let q = vars.v[0].clone();
     let x = vars.v[1].clone();
-    proto_vulcan!([|h| { [q == q], match q { [[true | x], z | _] => , [z, z, z | h] => , }, conde { [[x == q], q != _], h != h } }, match q { y | [[h, x, 1 | _], [1, h, x | _]] => , }, closure { [|y| { q == 3, [[]] == y, member(x, [1]) }, 2 == 1, x == [1, x]] }])
+    proto_vulcan!([["bc"] == q, match q { [[1 | _], [2, 3]] | [[h, 2], x] => { q != 1, conde { q == 1, [|x, z| { ['b', x | q] != z, x == [z, "bc", 'b' | x], true }, member(q, [])] } }, [1, 2] => { |h, y| { conde { [append(x, h, [3]), true], [[[], h, 2] != 1, y == h], q != h }, match q { [] | [[t], [x, y], _] => q == [2, 3, _ | q], true => , } } }, }, [x, x, q | q] == [1], closure { [q == [2, x, []], |x| { x == q }] }])
 }
 pub fn case_577(vars: &Vars) -> InferredGoal<DU, DE, Goal<DU, DE>> {
     let q = vars.v[0].clone();
     let x = vars.v[1].clone();
-    proto_vulcan!([|h| { [q == q], match q { [[true | x], z | _] => , [z, z, z | fresh_name_9] => , }, conde { [[x == q], q != _], h != h } }, match q { y | [[h, x, 1 | _], [1, h, x | _]] => , }, closure { [|y| { q == 3, [[]] == y, member(x, [1]) }, 2 == 1, x == [1, x]] }])
+    proto_vulcan!([["bc"] == q, match q { [[1 | _], [2, 3]] | [[h, 2], x] => { q != 1, conde { q == 1, [|x, z| { ['b', x | q] != z, x == [z, "bc", 'b' | x], true }, member(q, [])] } }, [1, 2] => { |h, y| { conde { [append(x, h, [3]), true], [[[], h, 2] != 1, y == h], q != h }, match q { [] | [[t], [x, y], _] => q == [2, 3, _ | q], true => , } } }, }, [x, x, q | q] == [1], closure { [q == [2, x, []], |fresh_name_9| { fresh_name_9 == q }] }])
 }
 pub fn case_578(vars: &Vars) -> InferredGoal<DU, DE, Goal<DU, DE>> {
     let x = vars.v[0].clone();
-    proto_vulcan!([match x { [[1]] => { |t, x| { x != x, |y| { t != [x], [y] != t, y == [t, x | t] } }, matche x { [[[], _, 1 | h], [_, []]] => { conde { true, x == x, [h == [[]], x == _] } }, } }, [[z]] => , 1 => [2 == x, |x| { |y| { [false, [] | x] == x, 1 != y, x == [y] }, match x { [[1, [] | _], [[] | _], [1, y, 2 | _] | x] => , [[t | t]] | [[], [x | _], [1, x | h]] => , }, x == [1] }], }, |t| { match t { [[y | y]] => |t| { [t, 1, [_, []]] == y, [y, []] == x, [['b', t], _] != [2, 1, _] }, [[2, _, 2]] | [] => { matche t { [t, [z, h, t | 'a'], [_, t, 'b']] => { [] == z }, }, x == [] }, [] => { matche t { h | 1 => , [[[]]] => { 1 != [_, [t, t] | 1], [2] == t }, }, conde { [[], x, "a"] == x, [[1, 2, x] == t, member(t, [1, 1])] } }, }, t == [x, t | x] }, closure { [[x] == x, _ != x] }])
+    let y = vars.v[1].clone();
+    proto_vulcan!([conde { [|y| { |y| { member(y, [1, 3, 1]), [y, y, y] == y }, matche y { [2, [], [1] | x] => , } }, |tz| { [2 | tz] != [2, 3], tz == [3] }], [match [] { [_] => [matche y { [] | [3] => y == [x, x, y], }, conde { [x == x, x == [y]], [1 != y, [x, y, 2] == y], |tz| { [1, 1] != [1 | tz], tz == [1] } }], 3 => , [[t], 2, 1 | t] | [[3], 1, 1] => [matche [x, 2, x | 1] { [3, [2, 2, 2], [t, t, t]] => , }, [1, 1] != [1 | x]], }, x == [3 | x]] }, [y, [3, _, x] | y] == y, member(x, [3])])
 }
 pub fn case_579(vars: &Vars) -> InferredGoal<DU, DE, Goal<DU, DE>> {
     let x = vars.v[0].clone();
-    proto_vulcan!([match x { [[1]] => { |t, x| { x != x, |y| { t != [x], [y] != t, y == [t, x | t] } }, matche x { [[[], _, 1 | h], [_, []]] => { conde { true, x == x, [h == [[]], x == _] } }, } }, [[z]] => , 1 => [2 == x, |x| { |y| { [false, [] | x] == x, 1 != y, x == [y] }, match x { [[1, [] | _], [[] | _], [1, y, 2 | _] | x] => , [[t | t]] | [[], [x | _], [1, x | h]] => , }, x == [1] }], }, |t| { match t { [[y | y]] => |t| { [t, 1, [_, []]] == y, [y, []] == x, [['b', t], _] != [2, 1, _] }, [[2, _, 2]] | [] => { matche t { [t, [fresh_name_9, h, t | 'a'], [_, t, 'b']] => { [] == fresh_name_9 }, }, x == [] }, [] => { matche t { h | 1 => , [[[]]] => { 1 != [_, [t, t] | 1], [2] == t }, }, conde { [[], x, "a"] == x, [[1, 2, x] == t, member(t, [1, 1])] } }, }, t == [x, t | x] }, closure { [[x] == x, _ != x] }])
+    let y = vars.v[1].clone();
+    proto_vulcan!([conde { [|y| { |y| { member(y, [1, 3, 1]), [y, y, y] == y }, matche y { [2, [], [1] | x] => , } }, |tz| { [2 | tz] != [2, 3], tz == [3] }], [match [] { [_] => [matche y { [] | [3] => y == [x, x, y], }, conde { [x == x, x == [y]], [1 != y, [x, y, 2] == y], |tz| { [1, 1] != [1 | tz], tz == [1] } }], 3 => , [[t], 2, 1 | t] | [[3], 1, 1] => [matche [x, 2, x | 1] { [3, [2, 2, 2], [fresh_name_9, fresh_name_9, fresh_name_9]] => , }, [1, 1] != [1 | x]], }, x == [3 | x]] }, [y, [3, _, x] | y] == y, member(x, [3])])
 }
 pub fn case_580(vars: &Vars) -> InferredGoal<DU, DE, Goal<DU, DE>> {
     let q = vars.v[0].clone();
     let x = vars.v[1].clone();
-    proto_vulcan!([[x, [q, 2, q | x], [3] | x] == q, closure { |h| { q == x, _ == q, append(h, q, [2, 2]) } }])
+    proto_vulcan!([[|x| { |x| { q == 2 } }, false], closure { [matche q { [[1, x, 2], _, t] => [t == [2, [t, _, false], [x, "bc", t | t]], match x { [[z, 1, y], _, 'a'] => { z == x }, }], [2, 1 | _] => [matche q { [[3, z, 1], [y, y, []], [1, z] | t] => , [3, y, [false, _, h]] => , }, false], }, true] }])
 }
 pub fn case_581(vars: &Vars) -> InferredGoal<DU, DE, Goal<DU, DE>> {
     let q = vars.v[0].clone();
     let x = vars.v[1].clone();
-    proto_vulcan!([[x, [q, 2, q | x], [3] | x] == q, closure { |fresh_name_9| { q == x, _ == q, append(fresh_name_9, q, [2, 2]) } }])
+    proto_vulcan!([[|x| { |x| { q == 2 } }, false], closure { [matche q { [[1, x, 2], _, t] => [t == [2, [t, _, false], [x, "bc", t | t]], match x { [[z, 1, y], _, 'a'] => { z == x }, }], [2, 1 | _] => [matche q { [[3, z, 1], [y, y, []], [1, z] | fresh_name_9] => , [3, y, [false, _, h]] => , }, false], }, true] }])
 }
 pub fn case_582(vars: &Vars) -> InferredGoal<DU, DE, Goal<DU, DE>> {
     let q = vars.v[0].clone();
     let x = vars.v[1].clone();
-    proto_vulcan!([|x, y| { matche y { [[_] | z] => |x, t| { [[1, "a" | 2], [1] | x] == t }, t => { matche 3 { 2 => { x != x }, }, |t| { [_, [t, 3], [q, t]] != [[2, [], _]], false, x == [_, [] | t] } }, }, member(x, [1, 3]), match x { true => matche [1, x, q] { [[2, 2] | _] => [x != [3, 3], x == [3, [], y]], [[_, x | _], [_] | x] => , 2 => [true, y == ["a", 2, "bc"]], }, [x, [_, _, 1]] | [[3, []], 2, [x, 'a' | y] | h] => [|z, t| { q != [1 | t], q != [["bc"]], false }, x == 2], [y, [x, _, true | x]] => , } }, conde { |z| { member(q, [2, 2]), |h, x| { [3] == z, h == [h, 1] } }, [[1] == x, conde { q == [x | q], [[[x, [_, 'a' | q], [2] | x] == [q], q == [_ | q], x == q], q == ['b', q, x]], [matche q { [[h, h], x, [_]] => q == [true, 2], h => [[q, 1, []] == x, [[]] == q], }, match [[] | q] { t => { [[t], [], [x]] == x }, }] }], |x, t| { match [q, x, 1 | x] { [t] => [t == t, q == t], }, q == t } }, closure { q != x }])
+    proto_vulcan!([match x { 3 => , }, closure { [|z, y| { 2 == y, [x, q] == y }, [q, [2, false, _], [_, q, x | q]] != [q, [], q | x]] }])
 }
 pub fn case_583(vars: &Vars) -> InferredGoal<DU, DE, Goal<DU, DE>> {
     let q = vars.v[0].clone();
     let x = vars.v[1].clone();
-    proto_vulcan!([|fresh_name_9, y| { matche y { [[_] | z] => |x, t| { [[1, "a" | 2], [1] | x] == t }, t => { matche 3 { 2 => { fresh_name_9 != fresh_name_9 }, }, |t| { [_, [t, 3], [q, t]] != [[2, [], _]], false, fresh_name_9 == [_, [] | t] } }, }, member(fresh_name_9, [1, 3]), match fresh_name_9 { true => matche [1, fresh_name_9, q] { [[2, 2] | _] => [fresh_name_9 != [3, 3], fresh_name_9 == [3, [], y]], [[_, x | _], [_] | x] => , 2 => [true, y == ["a", 2, "bc"]], }, [x, [_, _, 1]] | [[3, []], 2, [x, 'a' | y] | h] => [|z, t| { q != [1 | t], q != [["bc"]], false }, x == 2], [y, [x, _, true | x]] => , } }, conde { |z| { member(q, [2, 2]), |h, x| { [3] == z, h == [h, 1] } }, [[1] == x, conde { q == [x | q], [[[x, [_, 'a' | q], [2] | x] == [q], q == [_ | q], x == q], q == ['b', q, x]], [matche q { [[h, h], x, [_]] => q == [true, 2], h => [[q, 1, []] == x, [[]] == q], }, match [[] | q] { t => { [[t], [], [x]] == x }, }] }], |x, t| { match [q, x, 1 | x] { [t] => [t == t, q == t], }, q == t } }, closure { q != x }])
+    proto_vulcan!([match x { 3 => , }, closure { [|fresh_name_9, y| { 2 == y, [x, q] == y }, [q, [2, false, _], [_, q, x | q]] != [q, [], q | x]] }])
 }
 pub fn case_584(vars: &Vars) -> InferredGoal<DU, DE, Goal<DU, DE>> {
     let x = vars.v[0].clone();
-    proto_vulcan!([matche x { x => , [[1, []], t, [2, 'b']] | [3, [_ | _]] => { _ == [[x], [_, x, "bc"], [[], [], 3]] }, t | y => , }])
+    let y = vars.v[1].clone();
+    proto_vulcan!([conde { y == y, x == y, [x != y, matche x { [[t | _], 2, _] => { member(t, [3]), y == [] }, h | _ => [conde { x == [[y], []], [y, y] != x, [x == y, x == 1] }, [1, [], 2] != _], }] }, closure { [y == x, ['a', y] == y] }])
 }
 pub fn case_585(vars: &Vars) -> InferredGoal<DU, DE, Goal<DU, DE>> {
     let x = vars.v[0].clone();
-    proto_vulcan!([matche x { fresh_name_9 => , [[1, []], t, [2, 'b']] | [3, [_ | _]] => { _ == [[x], [_, x, "bc"], [[], [], 3]] }, t | y => , }])
+    let y = vars.v[1].clone();
+    proto_vulcan!([conde { y == y, x == y, [x != y, matche x { [[fresh_name_9 | _], 2, _] => { member(fresh_name_9, [3]), y == [] }, h | _ => [conde { x == [[y], []], [y, y] != x, [x == y, x == 1] }, [1, [], 2] != _], }] }, closure { [y == x, ['a', y] == y] }])
 }
 pub fn case_586(vars: &Vars) -> InferredGoal<DU, DE, Goal<DU, DE>> {
     let x = vars.v[0].clone();
-    proto_vulcan!([3 == x, |h| { [|y, h| { [3] != [[[]]] }, h == 2, false], |t, y| { |t| { [[true], 'b' | x] == h, x == [[y]], 1 == t } } }, [[x, x, 2 | x] | x] == x, closure { [[x], [1, true, 1], [x, 2]] == [[] | x] }])
+    proto_vulcan!([|t| { matche t { y | 2 => |h| { [] != h }, }, x == [_, t | x], matche t { 3 => { conde { t == t, [x, x, 3] == t }, x == [x, 1] }, 3 => { |z| { true, true }, |h| { h == [[h, h], ['b'] | t] } }, [[[], 1, false], [y | z], [_ | _]] => , } }, x != x, closure { x == x }])
 }
 pub fn case_587(vars: &Vars) -> InferredGoal<DU, DE, Goal<DU, DE>> {
     let x = vars.v[0].clone();
-    proto_vulcan!([3 == x, |h| { [|fresh_name_9, h| { [3] != [[[]]] }, h == 2, false], |t, y| { |t| { [[true], 'b' | x] == h, x == [[y]], 1 == t } } }, [[x, x, 2 | x] | x] == x, closure { [[x], [1, true, 1], [x, 2]] == [[] | x] }])
+    proto_vulcan!([|t| { matche t { y | 2 => |h| { [] != h }, }, x == [_, t | x], matche t { 3 => { conde { t == t, [x, x, 3] == t }, x == [x, 1] }, 3 => { |z| { true, true }, |h| { h == [[h, h], ['b'] | t] } }, [[[], 1, false], [fresh_name_9 | z], [_ | _]] => , } }, x != x, closure { x == x }])
 }
 pub fn case_588(vars: &Vars) -> InferredGoal<DU, DE, Goal<DU, DE>> {
-    let x = vars.v[0].clone();
-    proto_vulcan!([|h, y| { y != [h | x], match y { [[[], t], h, [t, _, 2] | 2] | [[1, 2], [[], [], 3 | _]] => , [[h | _], h, [2] | t] => , z | [[t, 1, _], [x, h] | _] => { |x| { y == y, false }, y == [y, "a", y] }, }, h == 2 }, match x { [[1 | _], 3 | h] => , 1 | 1 => , }, closure { false }])
+    let q = vars.v[0].clone();
+    let x = vars.v[1].clone();
+    proto_vulcan!([|z| { true, match q { [] => , 1 => [[2, 2 | q] == x, true], [3, [], [2]] => { q != [[[], 'a', _], z, [2]] }, }, match q { [[2 | z], [x, _] | y] | [[], [y, 'a'] | 2] => [conde { [_ == [], y == [y | q]], [q == [q], q != q] }, conde { [y, 'b'] == y, y == [["a", y] | q] }], } }, q == q, true])
 }
 pub fn case_589(vars: &Vars) -> InferredGoal<DU, DE, Goal<DU, DE>> {
-    let x = vars.v[0].clone();
-    proto_vulcan!([|h, y| { y != [h | x], match y { [[[], t], h, [t, _, 2] | 2] | [[1, 2], [[], [], 3 | _]] => , [[h | _], h, [2] | t] => , z | [[t, 1, _], [x, h] | _] => { |fresh_name_9| { y == y, false }, y == [y, "a", y] }, }, h == 2 }, match x { [[1 | _], 3 | h] => , 1 | 1 => , }, closure { false }])
+    let q = vars.v[0].clone();
+    let x = vars.v[1].clone();
+    proto_vulcan!([|fresh_name_9| { true, match q { [] => , 1 => [[2, 2 | q] == x, true], [3, [], [2]] => { q != [[[], 'a', _], fresh_name_9, [2]] }, }, match q { [[2 | z], [x, _] | y] | [[], [y, 'a'] | 2] => [conde { [_ == [], y == [y | q]], [q == [q], q != q] }, conde { [y, 'b'] == y, y == [["a", y] | q] }], } }, q == q, true])
 }
 pub fn case_590(vars: &Vars) -> InferredGoal<DU, DE, Goal<DU, DE>> {
-    let q = vars.v[0].clone();
-    let x = vars.v[1].clone();
-    proto_vulcan!([[1, x | x] != x, |h| { conde { [[h == x], |t, z| { false }], [append(q, h, [3]), conde { [member(q, []), h == [h, [x | q] | q]], [x == x, 2 == [[], []]], x == [_, 3] }] }, match x { [[y]] | 3 => { conde { [q != 'a', x != [[] | q]], q == 2, [_] != x }, [2 == h, ['a', _, [] | q] != q] }, 'a' => { x == 2 }, [[] | z] => { [z, 2, x] == h }, }, x == q }])
+    let x = vars.v[0].clone();
+    let y = vars.v[1].clone();
+    proto_vulcan!([matche [2 | x] { [[x, 2 | y], [1]] => , 3 | [1, [t | y], [_, _]] => { matche x { y => [|x, y| { 2 == x, x == 1, false }, match y { [[_, 3]] => { [y, y] != x }, }], [[3, []] | x] | [z | 3] => , } }, [[y], [y, true, 1]] => [[match x { [] => { y == y }, }], match y { [[x, 2], [_, []], 1] => { false }, false => { y == [1, ["bc"]], |y| { y != [x, []], y != [_, 2, 3], [_, [], y | x] == y } }, [[x, _ | x], t] => { [y == 2] }, }], }, x == [y | 3], matche x { [[true | y]] => , 2 | 1 => , h => { |t, y| { |z| { y == [[], [y, y, t | x], _], [[x | x]] == 1, true }, [true, 1 == t, member(x, [])] }, [[y, [3] | h] == _, x != [[], x]] }, }])
 }
 pub fn case_591(vars: &Vars) -> InferredGoal<DU, DE, Goal<DU, DE>> {
-    let q = vars.v[0].clone();
-    let x = vars.v[1].clone();
-    proto_vulcan!([[1, x | x] != x, |fresh_name_9| { conde { [[fresh_name_9 == x], |t, z| { false }], [append(q, fresh_name_9, [3]), conde { [member(q, []), fresh_name_9 == [fresh_name_9, [x | q] | q]], [x == x, 2 == [[], []]], x == [_, 3] }] }, match x { [[y]] | 3 => { conde { [q != 'a', x != [[] | q]], q == 2, [_] != x }, [2 == fresh_name_9, ['a', _, [] | q] != q] }, 'a' => { x == 2 }, [[] | z] => { [z, 2, x] == fresh_name_9 }, }, x == q }])
+    let x = vars.v[0].clone();
+    let y = vars.v[1].clone();
+    proto_vulcan!([matche [2 | x] { [[x, 2 | y], [1]] => , 3 | [1, [t | y], [_, _]] => { matche x { y => [|x, y| { 2 == x, x == 1, false }, match y { [[_, 3]] => { [y, y] != x }, }], [[3, []] | x] | [z | 3] => , } }, [[y], [y, true, 1]] => [[match x { [] => { y == y }, }], match y { [[x, 2], [_, []], 1] => { false }, false => { y == [1, ["bc"]], |y| { y != [x, []], y != [_, 2, 3], [_, [], y | x] == y } }, [[x, _ | x], t] => { [y == 2] }, }], }, x == [y | 3], matche x { [[true | y]] => , 2 | 1 => , fresh_name_9 => { |t, y| { |z| { y == [[], [y, y, t | x], _], [[x | x]] == 1, true }, [true, 1 == t, member(x, [])] }, [[y, [3] | fresh_name_9] == _, x != [[], x]] }, }])
 }
 pub fn case_592(vars: &Vars) -> InferredGoal<DU, DE, Goal<DU, DE>> {
     let x = vars.v[0].clone();
-    let y = vars.v[1].clone();
-    proto_vulcan!([|h| { matche [h] { [[_ | x], []] => { matche x { [[t, 'b'], [z, [], z], [_, x]] => [t != z, [x] == [_, [2, "bc", _], [[], []]]], [_, z] => [y == _, true], [3, [[], []]] => , }, conde { [3 != y, ['b'] == h], [3 == x, h == [[], x]] } }, t => [true, match x { [1, z | "a"] => , [1, ["bc"], t | h] => { y == [_] }, }], }, [[[]] != y, matche y { [z, [2]] => [[2, z] == y, "bc" != y], [[3] | 1] | y => , }] }, [[3] == [y]], y == [y], closure { [|h| { h == [1 | y] }, match y { 3 => { |h| { 'a' == [_], true, append(y, x, [3]) }, y == x }, }] }])
+    proto_vulcan!([false, conde { [conde { [match x { [['a'], ['a', _]] => , }, [[_, x, 2] | x] == x], [x == x, conde { 2 == [[2], false, 2 | true], [x == x, 2 == 2], member(x, [2]) }] }, match x { 2 => , }], [append(x, x, [1]), conde { |z| { append(x, x, []), true }, [match x { x => , [[false]] => { 3 == x, _ == [x, "a", []] }, [[z, z]] => , }, true] }] }, closure { [|z| { z == 3, x == [_, 2, z], matche z { [[2, _, y]] | [[2, 1, t], ["bc"], []] => [|tz| { tz == [2], [2, 1, 2] != [2, 1 | tz] }, 2 == z], } }, append(x, x, [1])] }])
 }
 pub fn case_593(vars: &Vars) -> InferredGoal<DU, DE, Goal<DU, DE>> {
     let x = vars.v[0].clone();
-    let y = vars.v[1].clone();
-    proto_vulcan!([|h| { matche [h] { [[_ | fresh_name_9], []] => { matche fresh_name_9 { [[t, 'b'], [z, [], z], [_, x]] => [t != z, [x] == [_, [2, "bc", _], [[], []]]], [_, z] => [y == _, true], [3, [[], []]] => , }, conde { [3 != y, ['b'] == h], [3 == fresh_name_9, h == [[], fresh_name_9]] } }, t => [true, match x { [1, z | "a"] => , [1, ["bc"], t | h] => { y == [_] }, }], }, [[[]] != y, matche y { [z, [2]] => [[2, z] == y, "bc" != y], [[3] | 1] | y => , }] }, [[3] == [y]], y == [y], closure { [|h| { h == [1 | y] }, match y { 3 => { |h| { 'a' == [_], true, append(y, x, [3]) }, y == x }, }] }])
+    proto_vulcan!([false, conde { [conde { [match x { [['a'], ['a', _]] => , }, [[_, x, 2] | x] == x], [x == x, conde { 2 == [[2], false, 2 | true], [x == x, 2 == 2], member(x, [2]) }] }, match x { 2 => , }], [append(x, x, [1]), conde { |z| { append(x, x, []), true }, [match x { fresh_name_9 => , [[false]] => { 3 == x, _ == [x, "a", []] }, [[z, z]] => , }, true] }] }, closure { [|z| { z == 3, x == [_, 2, z], matche z { [[2, _, y]] | [[2, 1, t], ["bc"], []] => [|tz| { tz == [2], [2, 1, 2] != [2, 1 | tz] }, 2 == z], } }, append(x, x, [1])] }])
 }
 pub fn case_594(vars: &Vars) -> InferredGoal<DU, DE, Goal<DU, DE>> {
     let q = vars.v[0].clone();
     let x = vars.v[1].clone();
-    proto_vulcan!([|t, z| { t == [2], [3 | 2] != z, |h| { t == x, conde { [h == [[q, []], [1]], [2, 3, q] != q], [[x | x] == x, z == _], [[1, [], h] == z, [1] == t] }, [3] == z } }, [member(q, [1, 2])]])
+    proto_vulcan!([|h| { [[h] == q], q == [true | h], conde { h != [3, q], matche x { [[1], [t, false], [y] | _] | [y, y, [1]] => , } } }, true])
 }
 pub fn case_595(vars: &Vars) -> InferredGoal<DU, DE, Goal<DU, DE>> {
     let q = vars.v[0].clone();
     let x = vars.v[1].clone();
-    proto_vulcan!([|fresh_name_9, z| { fresh_name_9 == [2], [3 | 2] != z, |h| { fresh_name_9 == x, conde { [h == [[q, []], [1]], [2, 3, q] != q], [[x | x] == x, z == _], [[1, [], h] == z, [1] == fresh_name_9] }, [3] == z } }, [member(q, [1, 2])]])
+    proto_vulcan!([|fresh_name_9| { [[fresh_name_9] == q], q == [true | fresh_name_9], conde { fresh_name_9 != [3, q], matche x { [[1], [t, false], [y] | _] | [y, y, [1]] => , } } }, true])
 }
 pub fn case_596(vars: &Vars) -> InferredGoal<DU, DE, Goal<DU, DE>> {
-    let q = vars.v[0].clone();
-    let x = vars.v[1].clone();
-    proto_vulcan!([true, closure { [[[false, x == [x | x]]], conde { match [[], 3, q] { y => [y != 3, [] == y], [] | y => { x == [_, "a"], 'b' == x }, }, [match x { [[3, x], 2, [y]] => , [[z], [[]] | _] => [x == 'b', true], }, [member(x, [3, 1, 2])]], 'a' != q }] }])
+    let x = vars.v[0].clone();
+    proto_vulcan!([match x { [[1]] => [|t, x| { x == [x, t], [_ == x, [x] != x, [[], _, 1 | t] == [[x], [3], [x, x]]] }, |t, x| { conde { true, x != x, [[x, _] == [[t, []] | t], [1, 1] == x] }, conde { x != x, _ == x } }], [[[], z] | x] => [[x == [z, z, _ | x], |t, y| { x == [], t == [[y] | x], x == [x] }, [[] != x, true, append(z, x, [])]], match x { [[_ | _], [x | z], [_, _ | t]] => [x == [], conde { append(t, z, [1, 3]), |tz| { [1 | tz] != [1, 1], tz == [1] }, t == x }], h => 1 == h, [] | [y] => [x != x, [2, 2] != x], }], y => [false, y == [x, 1, 1]], }, x == x])
 }
 pub fn case_597(vars: &Vars) -> InferredGoal<DU, DE, Goal<DU, DE>> {
-    let q = vars.v[0].clone();
-    let x = vars.v[1].clone();
-    proto_vulcan!([true, closure { [[[false, x == [x | x]]], conde { match [[], 3, q] { fresh_name_9 => [fresh_name_9 != 3, [] == fresh_name_9], [] | y => { x == [_, "a"], 'b' == x }, }, [match x { [[3, x], 2, [y]] => , [[z], [[]] | _] => [x == 'b', true], }, [member(x, [3, 1, 2])]], 'a' != q }] }])
+    let x = vars.v[0].clone();
+    proto_vulcan!([match x { [[1]] => [|t, x| { x == [x, t], [_ == x, [x] != x, [[], _, 1 | t] == [[x], [3], [x, x]]] }, |t, x| { conde { true, x != x, [[x, _] == [[t, []] | t], [1, 1] == x] }, conde { x != x, _ == x } }], [[[], z] | x] => [[x == [z, z, _ | x], |t, y| { x == [], t == [[y] | x], x == [x] }, [[] != x, true, append(z, x, [])]], match x { [[_ | _], [x | fresh_name_9], [_, _ | t]] => [x == [], conde { append(t, fresh_name_9, [1, 3]), |tz| { [1 | tz] != [1, 1], tz == [1] }, t == x }], h => 1 == h, [] | [y] => [x != x, [2, 2] != x], }], y => [false, y == [x, 1, 1]], }, x == x])
 }
 pub fn case_598(vars: &Vars) -> InferredGoal<DU, DE, Goal<DU, DE>> {
-    let q = vars.v[0].clone();
-    let x = vars.v[1].clone();
-    proto_vulcan!([[conde { [append(q, q, []), q == []], [|h| { true }, [true | q] == [_]] }]])
+    let x = vars.v[0].clone();
+    proto_vulcan!([x != [x, x, 'a'], |h, x| { |h, t| { h == x } }, closure { conde { member(x, [1]), [[[x | x] == x, [x, 2] == x], member(x, [3, 1])] } }])
 }
 pub fn case_599(vars: &Vars) -> InferredGoal<DU, DE, Goal<DU, DE>> {
-    let q = vars.v[0].clone();
-    let x = vars.v[1].clone();
-    proto_vulcan!([[conde { [append(q, q, []), q == []], [|fresh_name_9| { true }, [true | q] == [_]] }]])
+    let x = vars.v[0].clone();
+    proto_vulcan!([x != [x, x, 'a'], |h, x| { |fresh_name_9, t| { fresh_name_9 == x } }, closure { conde { member(x, [1]), [[[x | x] == x, [x, 2] == x], member(x, [3, 1])] } }])
 }
 pub fn case_600(vars: &Vars) -> InferredGoal<DU, DE, Goal<DU, DE>> {
     let x = vars.v[0].clone();
-    proto_vulcan!([|t| { [_, 3, x] == t }, |t| { conde { conde { [[x, "a", 3], _] == t, true, [append(t, t, [2, 3]), t == [t]] }, [conde { x != t, [x != t, member(x, [2, 3])], [x == [t, 1, _], 1 == x] }, 3 == x], match t { 3 => { t == [1, true] }, 2 | [[[]], z, ['a', [], true]] => , } }, conde { [] == x, [x != x, x == ["bc"]], [t == x, false] } }])
+    proto_vulcan!(['a' != x, |y| { |t, h| { [[x, _, x]] == x, conde { x == h, x != [2 | 3], [t == y, false] } }, |x, t| { |tz| { [2 | tz] != [2, 1, 1], tz == [1, 1] }, conde { [x == [t], true], x == 1 }, member(x, [2]) } }])
 }
 pub fn case_601(vars: &Vars) -> InferredGoal<DU, DE, Goal<DU, DE>> {
     let x = vars.v[0].clone();
-    proto_vulcan!([|t| { [_, 3, x] == t }, |fresh_name_9| { conde { conde { [[x, "a", 3], _] == fresh_name_9, true, [append(fresh_name_9, fresh_name_9, [2, 3]), fresh_name_9 == [fresh_name_9]] }, [conde { x != fresh_name_9, [x != fresh_name_9, member(x, [2, 3])], [x == [fresh_name_9, 1, _], 1 == x] }, 3 == x], match fresh_name_9 { 3 => { fresh_name_9 == [1, true] }, 2 | [[[]], z, ['a', [], true]] => , } }, conde { [] == x, [x != x, x == ["bc"]], [fresh_name_9 == x, false] } }])
+    proto_vulcan!(['a' != x, |y| { |t, h| { [[x, _, x]] == x, conde { x == h, x != [2 | 3], [t == y, false] } }, |x, t| { |fresh_name_9| { [2 | fresh_name_9] != [2, 1, 1], fresh_name_9 == [1, 1] }, conde { [x == [t], true], x == 1 }, member(x, [2]) } }])
 }
 pub fn case_602(vars: &Vars) -> InferredGoal<DU, DE, Goal<DU, DE>> {
-    let x = vars.v[0].clone();
-    let y = vars.v[1].clone();
-    proto_vulcan!([|x| { true, [_, 2 | y] == x }, 1 == y, [[_, 1], [2, true | x], [x, 2]] == x])
+    let q = vars.v[0].clone();
+    let x = vars.v[1].clone();
+    proto_vulcan!([|x, y| { matche y { [[_] | z] => { |x, t| { z == 1 } }, [[_, 1, 1]] | [h | _] => , }, |t| { append(x, t, [1, 3]), |x, t| { x == x, [_, [x, 3], [t, x]] == x } }, y != q }, x == [[], x | "a"], closure { [1, true, []] != q }])
 }
 pub fn case_603(vars: &Vars) -> InferredGoal<DU, DE, Goal<DU, DE>> {
-    let x = vars.v[0].clone();
-    let y = vars.v[1].clone();
-    proto_vulcan!([|fresh_name_9| { true, [_, 2 | y] == fresh_name_9 }, 1 == y, [[_, 1], [2, true | x], [x, 2]] == x])
+    let q = vars.v[0].clone();
+    let x = vars.v[1].clone();
+    proto_vulcan!([|x, y| { matche y { [[_] | z] => { |x, t| { z == 1 } }, [[_, 1, 1]] | [h | _] => , }, |t| { append(x, t, [1, 3]), |x, fresh_name_9| { x == x, [_, [x, 3], [fresh_name_9, x]] == x } }, y != q }, x == [[], x | "a"], closure { [1, true, []] != q }])
 }
 pub fn case_604(vars: &Vars) -> InferredGoal<DU, DE, Goal<DU, DE>> {
     let x = vars.v[0].clone();
-    let y = vars.v[1].clone();
-    proto_vulcan!([|y| { [_, x, 'a' | 1] == y, [[1], [y, 1], [x, []] | x] != y, conde { [[y != [y, [], y | x], false], matche y { [2, y, [2, 3, y | _]] => { true, y != false }, [h, [], 1] => y == [2, [x, 1]], [[2 | _] | z] => 2 != x, }], [matche [2, 'b', _] { [[y] | _] => { y == [2], [1, 1, y | 2] == y }, [[y], [], [2, [], t | 2] | "a"] | z => [append(x, x, []), x == x], }, |y| { y == [[false, false, _], _, 1] }] } }, 'b' != _])
+    proto_vulcan!([matche x { x => , [[1, []], t, [2, 'b']] | [3, [_ | _]] => x == x, h => [|h, z| { h == 1, [[], 1, x | _] == z, h != h }, ['b', x] == x], }, closure { [[[] | x] == x, conde { x == [x | x], [x == [[x, 2 | 2], 3], x == [2]], [true, |tz| { tz == [2], [3, 1, 2] != [3, 1 | tz] }, true] }] }])
 }
 pub fn case_605(vars: &Vars) -> InferredGoal<DU, DE, Goal<DU, DE>> {
     let x = vars.v[0].clone();
-    let y = vars.v[1].clone();
-    proto_vulcan!([|fresh_name_9| { [_, x, 'a' | 1] == fresh_name_9, [[1], [fresh_name_9, 1], [x, []] | x] != fresh_name_9, conde { [[fresh_name_9 != [fresh_name_9, [], fresh_name_9 | x], false], matche fresh_name_9 { [2, y, [2, 3, y | _]] => { true, y != false }, [h, [], 1] => fresh_name_9 == [2, [x, 1]], [[2 | _] | z] => 2 != x, }], [matche [2, 'b', _] { [[y] | _] => { y == [2], [1, 1, y | 2] == y }, [[y], [], [2, [], t | 2] | "a"] | z => [append(x, x, []), x == x], }, |y| { y == [[false, false, _], _, 1] }] } }, 'b' != _])
+    proto_vulcan!([matche x { fresh_name_9 => , [[1, []], t, [2, 'b']] | [3, [_ | _]] => x == x, h => [|h, z| { h == 1, [[], 1, x | _] == z, h != h }, ['b', x] == x], }, closure { [[[] | x] == x, conde { x == [x | x], [x == [[x, 2 | 2], 3], x == [2]], [true, |tz| { tz == [2], [3, 1, 2] != [3, 1 | tz] }, true] }] }])
 }
 pub fn case_606(vars: &Vars) -> InferredGoal<DU, DE, Goal<DU, DE>> {
     let x = vars.v[0].clone();
-    proto_vulcan!([[[x]] == x, member(x, [2, 1]), closure { match x { [[h, 1], [1, x]] => { "a" == x }, } }])
+    proto_vulcan!([x != [1, x, x], x == [x, x, x], |tz| { [3, 1, 3] != [3 | tz], tz == [1, 3] }])
 }
 pub fn case_607(vars: &Vars) -> InferredGoal<DU, DE, Goal<DU, DE>> {
     let x = vars.v[0].clone();
-    proto_vulcan!([[[x]] == x, member(x, [2, 1]), closure { match x { [[fresh_name_9, 1], [1, x]] => { "a" == x }, } }])
+    proto_vulcan!([x != [1, x, x], x == [x, x, x], |fresh_name_9| { [3, 1, 3] != [3 | fresh_name_9], fresh_name_9 == [1, 3] }])
 }
 pub fn case_608(vars: &Vars) -> InferredGoal<DU, DE, Goal<DU, DE>> {
     let x = vars.v[0].clone();
-    let y = vars.v[1].clone();
-    proto_vulcan!([conde { [true, conde { [[y] == x, [x != _, x != y, [x] == [y, y]]], matche y { [[t], [y, h, _]] => [t == y, h != []], y | [2, h] => { member(x, [2, 2, 3]), append(x, x, [3, 2]) }, h | [[y, 3, "a"]] => [_, _, x] == x, } }], |z| { [append(z, x, [])], conde { [[2 | z] == x, z == 2], [[y, [z, "a", z]] == [], x == [1 | z]] } }, [conde { [conde { [y != [[3, x], 1, 2], [3, 1] == y], ['b', y] == x }, conde { [3 == x, [x] == x], [y == [], x == [x, 2, 3 | x]] }], "bc" == x, false }, [1, x] == y] }])
+    proto_vulcan!([|h, y| { x == [2], matche x { [[3 | h], t | y] => , }, [2 != x, x == 1] }, conde { append(x, x, []), true != x }, closure { [x, 1, _] == x }])
 }
 pub fn case_609(vars: &Vars) -> InferredGoal<DU, DE, Goal<DU, DE>> {
     let x = vars.v[0].clone();
-    let y = vars.v[1].clone();
-    proto_vulcan!([conde { [true, conde { [[y] == x, [x != _, x != y, [x] == [y, y]]], matche y { [[fresh_name_9], [y, h, _]] => [fresh_name_9 == y, h != []], y | [2, h] => { member(x, [2, 2, 3]), append(x, x, [3, 2]) }, h | [[y, 3, "a"]] => [_, _, x] == x, } }], |z| { [append(z, x, [])], conde { [[2 | z] == x, z == 2], [[y, [z, "a", z]] == [], x == [1 | z]] } }, [conde { [conde { [y != [[3, x], 1, 2], [3, 1] == y], ['b', y] == x }, conde { [3 == x, [x] == x], [y == [], x == [x, 2, 3 | x]] }], "bc" == x, false }, [1, x] == y] }])
+    proto_vulcan!([|h, fresh_name_9| { x == [2], matche x { [[3 | h], t | y] => , }, [2 != x, x == 1] }, conde { append(x, x, []), true != x }, closure { [x, 1, _] == x }])
 }
-pub const NCASES: usize = 610;
+pub fn case_610(vars: &Vars) -> InferredGoal<DU, DE, Goal<DU, DE>> {
+    let x = vars.v[0].clone();
+    let y = vars.v[1].clone();
+    proto_vulcan!([|h| { matche [h] { [[_ | x], []] => [matche x { [[t, 'b'], [z, [], z], [_, x]] => [1 == ['b', ["bc", _, 3]], false], [false, x, [z] | _] => [x == _, true], [3, [[], []]] => , }, conde { [[x, 1, 'b' | 'b'] == y, h != y], [] != y }], [[t], [2, _ | t]] | [[h, [], []], [x, 1, "a" | h]] => { _ == y, append(y, y, [1]) }, }, |y| { [false, h == [2, 1, 2 | y]], match y { [[2, h, x], [1, z, y], h] => , }, [[x, 1 | h] == h] } }, [x == y], append(x, y, [3, 1]), closure { [x != x, |h| { [1, [y, 2 | h], x] == [[2, y], [y], h] }] }])
+}
+pub fn case_611(vars: &Vars) -> InferredGoal<DU, DE, Goal<DU, DE>> {
+    let x = vars.v[0].clone();
+    let y = vars.v[1].clone();
+    proto_vulcan!([|h| { matche [h] { [[_ | x], []] => [matche x { [[t, 'b'], [z, [], z], [_, x]] => [1 == ['b', ["bc", _, 3]], false], [false, x, [z] | _] => [x == _, true], [3, [[], []]] => , }, conde { [[x, 1, 'b' | 'b'] == y, h != y], [] != y }], [[t], [2, _ | t]] | [[h, [], []], [x, 1, "a" | h]] => { _ == y, append(y, y, [1]) }, }, |y| { [false, h == [2, 1, 2 | y]], match y { [[2, h, x], [1, z, y], h] => , }, [[x, 1 | h] == h] } }, [x == y], append(x, y, [3, 1]), closure { [x != x, |fresh_name_9| { [1, [y, 2 | fresh_name_9], x] == [[2, y], [y], fresh_name_9] }] }])
+}
+pub fn case_612(vars: &Vars) -> InferredGoal<DU, DE, Goal<DU, DE>> {
+    let q = vars.v[0].clone();
+    let x = vars.v[1].clone();
+    proto_vulcan!([|t, z| { t != [[], q, 1], member(t, [3]), true }, q == [3, q]])
+}
+pub fn case_613(vars: &Vars) -> InferredGoal<DU, DE, Goal<DU, DE>> {
+    let q = vars.v[0].clone();
+    let x = vars.v[1].clone();
+    proto_vulcan!([|t, fresh_name_9| { t != [[], q, 1], member(t, [3]), true }, q == [3, q]])
+}
+pub fn case_614(vars: &Vars) -> InferredGoal<DU, DE, Goal<DU, DE>> {
+    let q = vars.v[0].clone();
+    let x = vars.v[1].clone();
+    proto_vulcan!([true, closure { [[[false, q == [[], x]]], conde { match [[], 3, q] { y => { ["bc", _, x] == [x, [3]], x == [_, "a"] }, [] => { x == x }, }, [|x| { |tz| { tz == [2, 1], [1, 3, 2, 1] != [1, 3 | tz] } }, [] == q], [[1, q] == [[1, 1, 2]], member(x, [3, 1, 2])] }] }])
+}
+pub fn case_615(vars: &Vars) -> InferredGoal<DU, DE, Goal<DU, DE>> {
+    let q = vars.v[0].clone();
+    let x = vars.v[1].clone();
+    proto_vulcan!([true, closure { [[[false, q == [[], x]]], conde { match [[], 3, q] { y => { ["bc", _, x] == [x, [3]], x == [_, "a"] }, [] => { x == x }, }, [|fresh_name_9| { |tz| { tz == [2, 1], [1, 3, 2, 1] != [1, 3 | tz] } }, [] == q], [[1, q] == [[1, 1, 2]], member(x, [3, 1, 2])] }] }])
+}
+pub fn case_616(vars: &Vars) -> InferredGoal<DU, DE, Goal<DU, DE>> {
+    let x = vars.v[0].clone();
+    proto_vulcan!([|t| { [[3], t | x] == ["a", [], 'b'] }, [[3, _, _ | 'b'] == 'a']])
+}
+pub fn case_617(vars: &Vars) -> InferredGoal<DU, DE, Goal<DU, DE>> {
+    let x = vars.v[0].clone();
+    proto_vulcan!([|fresh_name_9| { [[3], fresh_name_9 | x] == ["a", [], 'b'] }, [[3, _, _ | 'b'] == 'a']])
+}
+pub fn case_618(vars: &Vars) -> InferredGoal<DU, DE, Goal<DU, DE>> {
+    let x = vars.v[0].clone();
+    let y = vars.v[1].clone();
+    proto_vulcan!([|x| { true, [[x], [_, 3], [y | y]] == x }, true, [[] | x] == x, closure { y == x }])
+}
+pub fn case_619(vars: &Vars) -> InferredGoal<DU, DE, Goal<DU, DE>> {
+    let x = vars.v[0].clone();
+    let y = vars.v[1].clone();
+    proto_vulcan!([|fresh_name_9| { true, [[fresh_name_9], [_, 3], [y | y]] == fresh_name_9 }, true, [[] | x] == x, closure { y == x }])
+}
+pub fn case_620(vars: &Vars) -> InferredGoal<DU, DE, Goal<DU, DE>> {
+    let x = vars.v[0].clone();
+    let y = vars.v[1].clone();
+    proto_vulcan!([|y| { x == [x], conde { [|y| { append(y, x, [1]), |tz| { tz == [1], [1, 1] != [1 | tz] }, true }, [y] == x], [y, [], y | x] == y }, _ == x }, matche y { 1 | [[y, [], h], [[], [], y]] => , [[y, h, 1 | h]] | [[t, x, "a" | t], [t, z] | _] => , y | t => , }])
+}
+pub fn case_621(vars: &Vars) -> InferredGoal<DU, DE, Goal<DU, DE>> {
+    let x = vars.v[0].clone();
+    let y = vars.v[1].clone();
+    proto_vulcan!([|y| { x == [x], conde { [|fresh_name_9| { append(fresh_name_9, x, [1]), |tz| { tz == [1], [1, 1] != [1 | tz] }, true }, [y] == x], [y, [], y | x] == y }, _ == x }, matche y { 1 | [[y, [], h], [[], [], y]] => , [[y, h, 1 | h]] | [[t, x, "a" | t], [t, z] | _] => , y | t => , }])
+}
+pub fn case_622(vars: &Vars) -> InferredGoal<DU, DE, Goal<DU, DE>> {
+    let x = vars.v[0].clone();
+    proto_vulcan!([[] == x, |y| { member(x, [2, 1]), member(x, [1, 1]), matche y { t | [[1, x], 1, [2, _ | true]] => , 3 => { 1 != y }, } }])
+}
+pub fn case_623(vars: &Vars) -> InferredGoal<DU, DE, Goal<DU, DE>> {
+    let x = vars.v[0].clone();
+    proto_vulcan!([[] == x, |fresh_name_9| { member(x, [2, 1]), member(x, [1, 1]), matche fresh_name_9 { t | [[1, x], 1, [2, _ | true]] => , 3 => { 1 != fresh_name_9 }, } }])
+}
+pub fn case_624(vars: &Vars) -> InferredGoal<DU, DE, Goal<DU, DE>> {
+    let x = vars.v[0].clone();
+    let y = vars.v[1].clone();
+    proto_vulcan!([conde { [true, conde { [y == [y], x != _], y == [[1, _, x], [x | y]] }], matche y { [[t], [y, h, _]] => [match y { [2] => { |tz| { tz == [3, 1], [2, 3 | tz] != [2, 3, 3, 1] }, x == y }, t | [] => { [y] == y }, 3 => [y == [x], true], }, _ == t], z => , [h, x, 1 | _] => matche x { 2 | [[[], x, _], [y], [h, y, y | y]] => , 1 | [t] => [1, y] == x, 3 => 2 == y, }, }, false }])
+}
+pub fn case_625(vars: &Vars) -> InferredGoal<DU, DE, Goal<DU, DE>> {
+    let x = vars.v[0].clone();
+    let y = vars.v[1].clone();
+    proto_vulcan!([conde { [true, conde { [y == [y], x != _], y == [[1, _, x], [x | y]] }], matche y { [[t], [y, h, _]] => [match y { [2] => { |tz| { tz == [3, 1], [2, 3 | tz] != [2, 3, 3, 1] }, x == y }, t | [] => { [y] == y }, 3 => [y == [x], true], }, _ == t], z => , [fresh_name_9, x, 1 | _] => matche x { 2 | [[[], x, _], [y], [h, y, y | y]] => , 1 | [t] => [1, y] == x, 3 => 2 == y, }, }, false }])
+}
+pub const NCASES: usize = 626;
 pub fn case(i: usize, vars: &Vars) -> Goal<DU, DE> {
     match i {
         0 => case_0(vars).goal,
@@ -3652,6 +3724,22 @@ pub fn case(i: usize, vars: &Vars) -> Goal<DU, DE> {
         607 => case_607(vars).goal,
         608 => case_608(vars).goal,
         609 => case_609(vars).goal,
+        610 => case_610(vars).goal,
+        611 => case_611(vars).goal,
+        612 => case_612(vars).goal,
+        613 => case_613(vars).goal,
+        614 => case_614(vars).goal,
+        615 => case_615(vars).goal,
+        616 => case_616(vars).goal,
+        617 => case_617(vars).goal,
+        618 => case_618(vars).goal,
+        619 => case_619(vars).goal,
+        620 => case_620(vars).goal,
+        621 => case_621(vars).goal,
+        622 => case_622(vars).goal,
+        623 => case_623(vars).goal,
+        624 => case_624(vars).goal,
+        625 => case_625(vars).goal,
         _ => unreachable!(),
     }
 }
